@@ -1,4437 +1,19 @@
--- GENERATED from the layout probe output (extract/layout_probe.py run against /repo) — do not edit
-import GlmVerif.Core.Layout
-set_option maxRecDepth 100000
+-- GENERATED — do not edit
+import GlmVerif.Gen.C16.rows_0
+import GlmVerif.Gen.C16.rows_1
+import GlmVerif.Gen.C16.rows_2
+import GlmVerif.Gen.C16.rows_3
+import GlmVerif.Gen.C16.rows_4
+import GlmVerif.Gen.C16.rows_5
+import GlmVerif.Gen.C16.rows_6
+import GlmVerif.Gen.C16.rows_7
+import GlmVerif.Gen.C16.rows_8
+import GlmVerif.Gen.C16.rows_9
+import GlmVerif.Gen.C16.rows_10
+import GlmVerif.Gen.C16.rows_11
+import GlmVerif.Gen.C16.rows_12
 namespace Glm.Gen.C16
 open Glm.Layout
-def rows : List Row := [
-  ⟨0, 0, 1, 1, 1, 1, false, false, 0, 1, 1, 0, 1, 4, 0, [0]⟩,
-  ⟨0, 0, 2, 1, 1, 1, false, false, 0, 2, 1, 0, 2, 4, 0, [0, 1]⟩,
-  ⟨0, 0, 3, 1, 1, 1, false, false, 0, 3, 1, 0, 3, 4, 0, [0, 1, 2]⟩,
-  ⟨0, 0, 4, 1, 1, 1, false, false, 0, 4, 1, 0, 4, 4, 0, [0, 1, 2, 3]⟩,
-  ⟨0, 0, 1, 1, 1, 1, false, false, 1, 1, 1, 0, 1, 4, 0, [0]⟩,
-  ⟨0, 0, 2, 1, 1, 1, false, false, 1, 2, 1, 0, 2, 4, 0, [0, 1]⟩,
-  ⟨0, 0, 3, 1, 1, 1, false, false, 1, 3, 1, 0, 3, 4, 0, [0, 1, 2]⟩,
-  ⟨0, 0, 4, 1, 1, 1, false, false, 1, 4, 1, 0, 4, 4, 0, [0, 1, 2, 3]⟩,
-  ⟨0, 0, 1, 1, 1, 1, false, false, 2, 1, 1, 0, 1, 4, 0, [0]⟩,
-  ⟨0, 0, 2, 1, 1, 1, false, false, 2, 2, 1, 0, 2, 4, 0, [0, 1]⟩,
-  ⟨0, 0, 3, 1, 1, 1, false, false, 2, 3, 1, 0, 3, 4, 0, [0, 1, 2]⟩,
-  ⟨0, 0, 4, 1, 1, 1, false, false, 2, 4, 1, 0, 4, 4, 0, [0, 1, 2, 3]⟩,
-  ⟨0, 0, 1, 1, 1, 1, false, false, 0, 1, 1, 0, 1, 4, 0, [0]⟩,
-  ⟨0, 0, 2, 1, 1, 1, false, false, 0, 2, 1, 0, 2, 4, 0, [0, 1]⟩,
-  ⟨0, 0, 3, 1, 1, 1, false, false, 0, 3, 1, 0, 3, 4, 0, [0, 1, 2]⟩,
-  ⟨0, 0, 4, 1, 1, 1, false, false, 0, 4, 1, 0, 4, 4, 0, [0, 1, 2, 3]⟩,
-  ⟨0, 0, 1, 1, 1, 1, false, false, 1, 1, 1, 0, 1, 4, 0, [0]⟩,
-  ⟨0, 0, 2, 1, 1, 1, false, false, 1, 2, 1, 0, 2, 4, 0, [0, 1]⟩,
-  ⟨0, 0, 3, 1, 1, 1, false, false, 1, 3, 1, 0, 3, 4, 0, [0, 1, 2]⟩,
-  ⟨0, 0, 4, 1, 1, 1, false, false, 1, 4, 1, 0, 4, 4, 0, [0, 1, 2, 3]⟩,
-  ⟨0, 0, 1, 1, 1, 1, false, false, 2, 1, 1, 0, 1, 4, 0, [0]⟩,
-  ⟨0, 0, 2, 1, 1, 1, false, false, 2, 2, 1, 0, 2, 4, 0, [0, 1]⟩,
-  ⟨0, 0, 3, 1, 1, 1, false, false, 2, 3, 1, 0, 3, 4, 0, [0, 1, 2]⟩,
-  ⟨0, 0, 4, 1, 1, 1, false, false, 2, 4, 1, 0, 4, 4, 0, [0, 1, 2, 3]⟩,
-  ⟨0, 0, 1, 1, 1, 1, false, false, 0, 1, 1, 0, 1, 4, 0, [0]⟩,
-  ⟨0, 0, 2, 1, 1, 1, false, false, 0, 2, 1, 0, 2, 4, 0, [0, 1]⟩,
-  ⟨0, 0, 3, 1, 1, 1, false, false, 0, 3, 1, 0, 3, 4, 0, [0, 1, 2]⟩,
-  ⟨0, 0, 4, 1, 1, 1, false, false, 0, 4, 1, 0, 4, 4, 0, [0, 1, 2, 3]⟩,
-  ⟨0, 0, 1, 1, 1, 1, false, false, 1, 1, 1, 0, 1, 4, 0, [0]⟩,
-  ⟨0, 0, 2, 1, 1, 1, false, false, 1, 2, 1, 0, 2, 4, 0, [0, 1]⟩,
-  ⟨0, 0, 3, 1, 1, 1, false, false, 1, 3, 1, 0, 3, 4, 0, [0, 1, 2]⟩,
-  ⟨0, 0, 4, 1, 1, 1, false, false, 1, 4, 1, 0, 4, 4, 0, [0, 1, 2, 3]⟩,
-  ⟨0, 0, 1, 1, 1, 1, false, false, 2, 1, 1, 0, 1, 4, 0, [0]⟩,
-  ⟨0, 0, 2, 1, 1, 1, false, false, 2, 2, 1, 0, 2, 4, 0, [0, 1]⟩,
-  ⟨0, 0, 3, 1, 1, 1, false, false, 2, 3, 1, 0, 3, 4, 0, [0, 1, 2]⟩,
-  ⟨0, 0, 4, 1, 1, 1, false, false, 2, 4, 1, 0, 4, 4, 0, [0, 1, 2, 3]⟩,
-  ⟨0, 0, 1, 1, 2, 2, false, false, 0, 2, 2, 0, 1, 4, 0, [0]⟩,
-  ⟨0, 0, 2, 1, 2, 2, false, false, 0, 4, 2, 0, 2, 4, 0, [0, 2]⟩,
-  ⟨0, 0, 3, 1, 2, 2, false, false, 0, 6, 2, 0, 3, 4, 0, [0, 2, 4]⟩,
-  ⟨0, 0, 4, 1, 2, 2, false, false, 0, 8, 2, 0, 4, 4, 0, [0, 2, 4, 6]⟩,
-  ⟨0, 0, 1, 1, 2, 2, false, false, 1, 2, 2, 0, 1, 4, 0, [0]⟩,
-  ⟨0, 0, 2, 1, 2, 2, false, false, 1, 4, 2, 0, 2, 4, 0, [0, 2]⟩,
-  ⟨0, 0, 3, 1, 2, 2, false, false, 1, 6, 2, 0, 3, 4, 0, [0, 2, 4]⟩,
-  ⟨0, 0, 4, 1, 2, 2, false, false, 1, 8, 2, 0, 4, 4, 0, [0, 2, 4, 6]⟩,
-  ⟨0, 0, 1, 1, 2, 2, false, false, 2, 2, 2, 0, 1, 4, 0, [0]⟩,
-  ⟨0, 0, 2, 1, 2, 2, false, false, 2, 4, 2, 0, 2, 4, 0, [0, 2]⟩,
-  ⟨0, 0, 3, 1, 2, 2, false, false, 2, 6, 2, 0, 3, 4, 0, [0, 2, 4]⟩,
-  ⟨0, 0, 4, 1, 2, 2, false, false, 2, 8, 2, 0, 4, 4, 0, [0, 2, 4, 6]⟩,
-  ⟨0, 0, 1, 1, 2, 2, false, false, 0, 2, 2, 0, 1, 4, 0, [0]⟩,
-  ⟨0, 0, 2, 1, 2, 2, false, false, 0, 4, 2, 0, 2, 4, 0, [0, 2]⟩,
-  ⟨0, 0, 3, 1, 2, 2, false, false, 0, 6, 2, 0, 3, 4, 0, [0, 2, 4]⟩,
-  ⟨0, 0, 4, 1, 2, 2, false, false, 0, 8, 2, 0, 4, 4, 0, [0, 2, 4, 6]⟩,
-  ⟨0, 0, 1, 1, 2, 2, false, false, 1, 2, 2, 0, 1, 4, 0, [0]⟩,
-  ⟨0, 0, 2, 1, 2, 2, false, false, 1, 4, 2, 0, 2, 4, 0, [0, 2]⟩,
-  ⟨0, 0, 3, 1, 2, 2, false, false, 1, 6, 2, 0, 3, 4, 0, [0, 2, 4]⟩,
-  ⟨0, 0, 4, 1, 2, 2, false, false, 1, 8, 2, 0, 4, 4, 0, [0, 2, 4, 6]⟩,
-  ⟨0, 0, 1, 1, 2, 2, false, false, 2, 2, 2, 0, 1, 4, 0, [0]⟩,
-  ⟨0, 0, 2, 1, 2, 2, false, false, 2, 4, 2, 0, 2, 4, 0, [0, 2]⟩,
-  ⟨0, 0, 3, 1, 2, 2, false, false, 2, 6, 2, 0, 3, 4, 0, [0, 2, 4]⟩,
-  ⟨0, 0, 4, 1, 2, 2, false, false, 2, 8, 2, 0, 4, 4, 0, [0, 2, 4, 6]⟩,
-  ⟨0, 0, 1, 1, 4, 4, false, false, 0, 4, 4, 0, 1, 4, 0, [0]⟩,
-  ⟨0, 0, 2, 1, 4, 4, false, false, 0, 8, 4, 0, 2, 4, 0, [0, 4]⟩,
-  ⟨0, 0, 3, 1, 4, 4, false, false, 0, 12, 4, 0, 3, 4, 0, [0, 4, 8]⟩,
-  ⟨0, 0, 4, 1, 4, 4, false, false, 0, 16, 4, 0, 4, 4, 0, [0, 4, 8, 12]⟩,
-  ⟨0, 0, 1, 1, 4, 4, false, false, 1, 4, 4, 0, 1, 4, 0, [0]⟩,
-  ⟨0, 0, 2, 1, 4, 4, false, false, 1, 8, 4, 0, 2, 4, 0, [0, 4]⟩,
-  ⟨0, 0, 3, 1, 4, 4, false, false, 1, 12, 4, 0, 3, 4, 0, [0, 4, 8]⟩,
-  ⟨0, 0, 4, 1, 4, 4, false, false, 1, 16, 4, 0, 4, 4, 0, [0, 4, 8, 12]⟩,
-  ⟨0, 0, 1, 1, 4, 4, false, false, 2, 4, 4, 0, 1, 4, 0, [0]⟩,
-  ⟨0, 0, 2, 1, 4, 4, false, false, 2, 8, 4, 0, 2, 4, 0, [0, 4]⟩,
-  ⟨0, 0, 3, 1, 4, 4, false, false, 2, 12, 4, 0, 3, 4, 0, [0, 4, 8]⟩,
-  ⟨0, 0, 4, 1, 4, 4, false, false, 2, 16, 4, 0, 4, 4, 0, [0, 4, 8, 12]⟩,
-  ⟨0, 0, 1, 1, 4, 4, false, false, 0, 4, 4, 0, 1, 4, 0, [0]⟩,
-  ⟨0, 0, 2, 1, 4, 4, false, false, 0, 8, 4, 0, 2, 4, 0, [0, 4]⟩,
-  ⟨0, 0, 3, 1, 4, 4, false, false, 0, 12, 4, 0, 3, 4, 0, [0, 4, 8]⟩,
-  ⟨0, 0, 4, 1, 4, 4, false, false, 0, 16, 4, 0, 4, 4, 0, [0, 4, 8, 12]⟩,
-  ⟨0, 0, 1, 1, 4, 4, false, false, 1, 4, 4, 0, 1, 4, 0, [0]⟩,
-  ⟨0, 0, 2, 1, 4, 4, false, false, 1, 8, 4, 0, 2, 4, 0, [0, 4]⟩,
-  ⟨0, 0, 3, 1, 4, 4, false, false, 1, 12, 4, 0, 3, 4, 0, [0, 4, 8]⟩,
-  ⟨0, 0, 4, 1, 4, 4, false, false, 1, 16, 4, 0, 4, 4, 0, [0, 4, 8, 12]⟩,
-  ⟨0, 0, 1, 1, 4, 4, false, false, 2, 4, 4, 0, 1, 4, 0, [0]⟩,
-  ⟨0, 0, 2, 1, 4, 4, false, false, 2, 8, 4, 0, 2, 4, 0, [0, 4]⟩,
-  ⟨0, 0, 3, 1, 4, 4, false, false, 2, 12, 4, 0, 3, 4, 0, [0, 4, 8]⟩,
-  ⟨0, 0, 4, 1, 4, 4, false, false, 2, 16, 4, 0, 4, 4, 0, [0, 4, 8, 12]⟩,
-  ⟨0, 0, 1, 1, 8, 8, false, false, 0, 8, 8, 0, 1, 4, 0, [0]⟩,
-  ⟨0, 0, 2, 1, 8, 8, false, false, 0, 16, 8, 0, 2, 4, 0, [0, 8]⟩,
-  ⟨0, 0, 3, 1, 8, 8, false, false, 0, 24, 8, 0, 3, 4, 0, [0, 8, 16]⟩,
-  ⟨0, 0, 4, 1, 8, 8, false, false, 0, 32, 8, 0, 4, 4, 0, [0, 8, 16, 24]⟩,
-  ⟨0, 0, 1, 1, 8, 8, false, false, 1, 8, 8, 0, 1, 4, 0, [0]⟩,
-  ⟨0, 0, 2, 1, 8, 8, false, false, 1, 16, 8, 0, 2, 4, 0, [0, 8]⟩,
-  ⟨0, 0, 3, 1, 8, 8, false, false, 1, 24, 8, 0, 3, 4, 0, [0, 8, 16]⟩,
-  ⟨0, 0, 4, 1, 8, 8, false, false, 1, 32, 8, 0, 4, 4, 0, [0, 8, 16, 24]⟩,
-  ⟨0, 0, 1, 1, 8, 8, false, false, 2, 8, 8, 0, 1, 4, 0, [0]⟩,
-  ⟨0, 0, 2, 1, 8, 8, false, false, 2, 16, 8, 0, 2, 4, 0, [0, 8]⟩,
-  ⟨0, 0, 3, 1, 8, 8, false, false, 2, 24, 8, 0, 3, 4, 0, [0, 8, 16]⟩,
-  ⟨0, 0, 4, 1, 8, 8, false, false, 2, 32, 8, 0, 4, 4, 0, [0, 8, 16, 24]⟩,
-  ⟨0, 0, 1, 1, 8, 8, false, false, 0, 8, 8, 0, 1, 4, 0, [0]⟩,
-  ⟨0, 0, 2, 1, 8, 8, false, false, 0, 16, 8, 0, 2, 4, 0, [0, 8]⟩,
-  ⟨0, 0, 3, 1, 8, 8, false, false, 0, 24, 8, 0, 3, 4, 0, [0, 8, 16]⟩,
-  ⟨0, 0, 4, 1, 8, 8, false, false, 0, 32, 8, 0, 4, 4, 0, [0, 8, 16, 24]⟩,
-  ⟨0, 0, 1, 1, 8, 8, false, false, 1, 8, 8, 0, 1, 4, 0, [0]⟩,
-  ⟨0, 0, 2, 1, 8, 8, false, false, 1, 16, 8, 0, 2, 4, 0, [0, 8]⟩,
-  ⟨0, 0, 3, 1, 8, 8, false, false, 1, 24, 8, 0, 3, 4, 0, [0, 8, 16]⟩,
-  ⟨0, 0, 4, 1, 8, 8, false, false, 1, 32, 8, 0, 4, 4, 0, [0, 8, 16, 24]⟩,
-  ⟨0, 0, 1, 1, 8, 8, false, false, 2, 8, 8, 0, 1, 4, 0, [0]⟩,
-  ⟨0, 0, 2, 1, 8, 8, false, false, 2, 16, 8, 0, 2, 4, 0, [0, 8]⟩,
-  ⟨0, 0, 3, 1, 8, 8, false, false, 2, 24, 8, 0, 3, 4, 0, [0, 8, 16]⟩,
-  ⟨0, 0, 4, 1, 8, 8, false, false, 2, 32, 8, 0, 4, 4, 0, [0, 8, 16, 24]⟩,
-  ⟨0, 0, 1, 1, 4, 4, true, false, 0, 4, 4, 0, 1, 4, 0, [0]⟩,
-  ⟨0, 0, 2, 1, 4, 4, true, false, 0, 8, 4, 0, 2, 4, 0, [0, 4]⟩,
-  ⟨0, 0, 3, 1, 4, 4, true, false, 0, 12, 4, 0, 3, 4, 0, [0, 4, 8]⟩,
-  ⟨0, 0, 4, 1, 4, 4, true, false, 0, 16, 4, 0, 4, 4, 0, [0, 4, 8, 12]⟩,
-  ⟨0, 0, 1, 1, 4, 4, true, false, 1, 4, 4, 0, 1, 4, 0, [0]⟩,
-  ⟨0, 0, 2, 1, 4, 4, true, false, 1, 8, 4, 0, 2, 4, 0, [0, 4]⟩,
-  ⟨0, 0, 3, 1, 4, 4, true, false, 1, 12, 4, 0, 3, 4, 0, [0, 4, 8]⟩,
-  ⟨0, 0, 4, 1, 4, 4, true, false, 1, 16, 4, 0, 4, 4, 0, [0, 4, 8, 12]⟩,
-  ⟨0, 0, 1, 1, 4, 4, true, false, 2, 4, 4, 0, 1, 4, 0, [0]⟩,
-  ⟨0, 0, 2, 1, 4, 4, true, false, 2, 8, 4, 0, 2, 4, 0, [0, 4]⟩,
-  ⟨0, 0, 3, 1, 4, 4, true, false, 2, 12, 4, 0, 3, 4, 0, [0, 4, 8]⟩,
-  ⟨0, 0, 4, 1, 4, 4, true, false, 2, 16, 4, 0, 4, 4, 0, [0, 4, 8, 12]⟩,
-  ⟨0, 0, 1, 1, 8, 8, true, false, 0, 8, 8, 0, 1, 4, 0, [0]⟩,
-  ⟨0, 0, 2, 1, 8, 8, true, false, 0, 16, 8, 0, 2, 4, 0, [0, 8]⟩,
-  ⟨0, 0, 3, 1, 8, 8, true, false, 0, 24, 8, 0, 3, 4, 0, [0, 8, 16]⟩,
-  ⟨0, 0, 4, 1, 8, 8, true, false, 0, 32, 8, 0, 4, 4, 0, [0, 8, 16, 24]⟩,
-  ⟨0, 0, 1, 1, 8, 8, true, false, 1, 8, 8, 0, 1, 4, 0, [0]⟩,
-  ⟨0, 0, 2, 1, 8, 8, true, false, 1, 16, 8, 0, 2, 4, 0, [0, 8]⟩,
-  ⟨0, 0, 3, 1, 8, 8, true, false, 1, 24, 8, 0, 3, 4, 0, [0, 8, 16]⟩,
-  ⟨0, 0, 4, 1, 8, 8, true, false, 1, 32, 8, 0, 4, 4, 0, [0, 8, 16, 24]⟩,
-  ⟨0, 0, 1, 1, 8, 8, true, false, 2, 8, 8, 0, 1, 4, 0, [0]⟩,
-  ⟨0, 0, 2, 1, 8, 8, true, false, 2, 16, 8, 0, 2, 4, 0, [0, 8]⟩,
-  ⟨0, 0, 3, 1, 8, 8, true, false, 2, 24, 8, 0, 3, 4, 0, [0, 8, 16]⟩,
-  ⟨0, 0, 4, 1, 8, 8, true, false, 2, 32, 8, 0, 4, 4, 0, [0, 8, 16, 24]⟩,
-  ⟨0, 1, 2, 2, 4, 4, true, false, 0, 16, 4, 0, 2, 4, 8, [0, 4, 8, 12]⟩,
-  ⟨0, 1, 2, 3, 4, 4, true, false, 0, 24, 4, 0, 2, 4, 12, [0, 4, 8, 12, 16, 20]⟩,
-  ⟨0, 1, 2, 4, 4, 4, true, false, 0, 32, 4, 0, 2, 4, 16, [0, 4, 8, 12, 16, 20, 24, 28]⟩,
-  ⟨0, 1, 3, 2, 4, 4, true, false, 0, 24, 4, 0, 3, 4, 8, [0, 4, 8, 12, 16, 20]⟩,
-  ⟨0, 1, 3, 3, 4, 4, true, false, 0, 36, 4, 0, 3, 4, 12, [0, 4, 8, 12, 16, 20, 24, 28, 32]⟩,
-  ⟨0, 1, 3, 4, 4, 4, true, false, 0, 48, 4, 0, 3, 4, 16, [0, 4, 8, 12, 16, 20, 24, 28, 32, 36, 40, 44]⟩,
-  ⟨0, 1, 4, 2, 4, 4, true, false, 0, 32, 4, 0, 4, 4, 8, [0, 4, 8, 12, 16, 20, 24, 28]⟩,
-  ⟨0, 1, 4, 3, 4, 4, true, false, 0, 48, 4, 0, 4, 4, 12, [0, 4, 8, 12, 16, 20, 24, 28, 32, 36, 40, 44]⟩,
-  ⟨0, 1, 4, 4, 4, 4, true, false, 0, 64, 4, 0, 4, 4, 16, [0, 4, 8, 12, 16, 20, 24, 28, 32, 36, 40, 44, 48, 52, 56, 60]⟩,
-  ⟨0, 1, 2, 2, 4, 4, true, false, 1, 16, 4, 0, 2, 4, 8, [0, 4, 8, 12]⟩,
-  ⟨0, 1, 2, 3, 4, 4, true, false, 1, 24, 4, 0, 2, 4, 12, [0, 4, 8, 12, 16, 20]⟩,
-  ⟨0, 1, 2, 4, 4, 4, true, false, 1, 32, 4, 0, 2, 4, 16, [0, 4, 8, 12, 16, 20, 24, 28]⟩,
-  ⟨0, 1, 3, 2, 4, 4, true, false, 1, 24, 4, 0, 3, 4, 8, [0, 4, 8, 12, 16, 20]⟩,
-  ⟨0, 1, 3, 3, 4, 4, true, false, 1, 36, 4, 0, 3, 4, 12, [0, 4, 8, 12, 16, 20, 24, 28, 32]⟩,
-  ⟨0, 1, 3, 4, 4, 4, true, false, 1, 48, 4, 0, 3, 4, 16, [0, 4, 8, 12, 16, 20, 24, 28, 32, 36, 40, 44]⟩,
-  ⟨0, 1, 4, 2, 4, 4, true, false, 1, 32, 4, 0, 4, 4, 8, [0, 4, 8, 12, 16, 20, 24, 28]⟩,
-  ⟨0, 1, 4, 3, 4, 4, true, false, 1, 48, 4, 0, 4, 4, 12, [0, 4, 8, 12, 16, 20, 24, 28, 32, 36, 40, 44]⟩,
-  ⟨0, 1, 4, 4, 4, 4, true, false, 1, 64, 4, 0, 4, 4, 16, [0, 4, 8, 12, 16, 20, 24, 28, 32, 36, 40, 44, 48, 52, 56, 60]⟩,
-  ⟨0, 1, 2, 2, 4, 4, true, false, 2, 16, 4, 0, 2, 4, 8, [0, 4, 8, 12]⟩,
-  ⟨0, 1, 2, 3, 4, 4, true, false, 2, 24, 4, 0, 2, 4, 12, [0, 4, 8, 12, 16, 20]⟩,
-  ⟨0, 1, 2, 4, 4, 4, true, false, 2, 32, 4, 0, 2, 4, 16, [0, 4, 8, 12, 16, 20, 24, 28]⟩,
-  ⟨0, 1, 3, 2, 4, 4, true, false, 2, 24, 4, 0, 3, 4, 8, [0, 4, 8, 12, 16, 20]⟩,
-  ⟨0, 1, 3, 3, 4, 4, true, false, 2, 36, 4, 0, 3, 4, 12, [0, 4, 8, 12, 16, 20, 24, 28, 32]⟩,
-  ⟨0, 1, 3, 4, 4, 4, true, false, 2, 48, 4, 0, 3, 4, 16, [0, 4, 8, 12, 16, 20, 24, 28, 32, 36, 40, 44]⟩,
-  ⟨0, 1, 4, 2, 4, 4, true, false, 2, 32, 4, 0, 4, 4, 8, [0, 4, 8, 12, 16, 20, 24, 28]⟩,
-  ⟨0, 1, 4, 3, 4, 4, true, false, 2, 48, 4, 0, 4, 4, 12, [0, 4, 8, 12, 16, 20, 24, 28, 32, 36, 40, 44]⟩,
-  ⟨0, 1, 4, 4, 4, 4, true, false, 2, 64, 4, 0, 4, 4, 16, [0, 4, 8, 12, 16, 20, 24, 28, 32, 36, 40, 44, 48, 52, 56, 60]⟩,
-  ⟨0, 1, 2, 2, 8, 8, true, false, 0, 32, 8, 0, 2, 4, 16, [0, 8, 16, 24]⟩,
-  ⟨0, 1, 2, 3, 8, 8, true, false, 0, 48, 8, 0, 2, 4, 24, [0, 8, 16, 24, 32, 40]⟩,
-  ⟨0, 1, 2, 4, 8, 8, true, false, 0, 64, 8, 0, 2, 4, 32, [0, 8, 16, 24, 32, 40, 48, 56]⟩,
-  ⟨0, 1, 3, 2, 8, 8, true, false, 0, 48, 8, 0, 3, 4, 16, [0, 8, 16, 24, 32, 40]⟩,
-  ⟨0, 1, 3, 3, 8, 8, true, false, 0, 72, 8, 0, 3, 4, 24, [0, 8, 16, 24, 32, 40, 48, 56, 64]⟩,
-  ⟨0, 1, 3, 4, 8, 8, true, false, 0, 96, 8, 0, 3, 4, 32, [0, 8, 16, 24, 32, 40, 48, 56, 64, 72, 80, 88]⟩,
-  ⟨0, 1, 4, 2, 8, 8, true, false, 0, 64, 8, 0, 4, 4, 16, [0, 8, 16, 24, 32, 40, 48, 56]⟩,
-  ⟨0, 1, 4, 3, 8, 8, true, false, 0, 96, 8, 0, 4, 4, 24, [0, 8, 16, 24, 32, 40, 48, 56, 64, 72, 80, 88]⟩,
-  ⟨0, 1, 4, 4, 8, 8, true, false, 0, 128, 8, 0, 4, 4, 32, [0, 8, 16, 24, 32, 40, 48, 56, 64, 72, 80, 88, 96, 104, 112, 120]⟩,
-  ⟨0, 1, 2, 2, 8, 8, true, false, 1, 32, 8, 0, 2, 4, 16, [0, 8, 16, 24]⟩,
-  ⟨0, 1, 2, 3, 8, 8, true, false, 1, 48, 8, 0, 2, 4, 24, [0, 8, 16, 24, 32, 40]⟩,
-  ⟨0, 1, 2, 4, 8, 8, true, false, 1, 64, 8, 0, 2, 4, 32, [0, 8, 16, 24, 32, 40, 48, 56]⟩,
-  ⟨0, 1, 3, 2, 8, 8, true, false, 1, 48, 8, 0, 3, 4, 16, [0, 8, 16, 24, 32, 40]⟩,
-  ⟨0, 1, 3, 3, 8, 8, true, false, 1, 72, 8, 0, 3, 4, 24, [0, 8, 16, 24, 32, 40, 48, 56, 64]⟩,
-  ⟨0, 1, 3, 4, 8, 8, true, false, 1, 96, 8, 0, 3, 4, 32, [0, 8, 16, 24, 32, 40, 48, 56, 64, 72, 80, 88]⟩,
-  ⟨0, 1, 4, 2, 8, 8, true, false, 1, 64, 8, 0, 4, 4, 16, [0, 8, 16, 24, 32, 40, 48, 56]⟩,
-  ⟨0, 1, 4, 3, 8, 8, true, false, 1, 96, 8, 0, 4, 4, 24, [0, 8, 16, 24, 32, 40, 48, 56, 64, 72, 80, 88]⟩,
-  ⟨0, 1, 4, 4, 8, 8, true, false, 1, 128, 8, 0, 4, 4, 32, [0, 8, 16, 24, 32, 40, 48, 56, 64, 72, 80, 88, 96, 104, 112, 120]⟩,
-  ⟨0, 1, 2, 2, 8, 8, true, false, 2, 32, 8, 0, 2, 4, 16, [0, 8, 16, 24]⟩,
-  ⟨0, 1, 2, 3, 8, 8, true, false, 2, 48, 8, 0, 2, 4, 24, [0, 8, 16, 24, 32, 40]⟩,
-  ⟨0, 1, 2, 4, 8, 8, true, false, 2, 64, 8, 0, 2, 4, 32, [0, 8, 16, 24, 32, 40, 48, 56]⟩,
-  ⟨0, 1, 3, 2, 8, 8, true, false, 2, 48, 8, 0, 3, 4, 16, [0, 8, 16, 24, 32, 40]⟩,
-  ⟨0, 1, 3, 3, 8, 8, true, false, 2, 72, 8, 0, 3, 4, 24, [0, 8, 16, 24, 32, 40, 48, 56, 64]⟩,
-  ⟨0, 1, 3, 4, 8, 8, true, false, 2, 96, 8, 0, 3, 4, 32, [0, 8, 16, 24, 32, 40, 48, 56, 64, 72, 80, 88]⟩,
-  ⟨0, 1, 4, 2, 8, 8, true, false, 2, 64, 8, 0, 4, 4, 16, [0, 8, 16, 24, 32, 40, 48, 56]⟩,
-  ⟨0, 1, 4, 3, 8, 8, true, false, 2, 96, 8, 0, 4, 4, 24, [0, 8, 16, 24, 32, 40, 48, 56, 64, 72, 80, 88]⟩,
-  ⟨0, 1, 4, 4, 8, 8, true, false, 2, 128, 8, 0, 4, 4, 32, [0, 8, 16, 24, 32, 40, 48, 56, 64, 72, 80, 88, 96, 104, 112, 120]⟩,
-  ⟨0, 1, 2, 2, 4, 4, false, false, 0, 16, 4, 0, 2, 4, 8, [0, 4, 8, 12]⟩,
-  ⟨0, 1, 2, 3, 4, 4, false, false, 0, 24, 4, 0, 2, 4, 12, [0, 4, 8, 12, 16, 20]⟩,
-  ⟨0, 1, 2, 4, 4, 4, false, false, 0, 32, 4, 0, 2, 4, 16, [0, 4, 8, 12, 16, 20, 24, 28]⟩,
-  ⟨0, 1, 3, 2, 4, 4, false, false, 0, 24, 4, 0, 3, 4, 8, [0, 4, 8, 12, 16, 20]⟩,
-  ⟨0, 1, 3, 3, 4, 4, false, false, 0, 36, 4, 0, 3, 4, 12, [0, 4, 8, 12, 16, 20, 24, 28, 32]⟩,
-  ⟨0, 1, 3, 4, 4, 4, false, false, 0, 48, 4, 0, 3, 4, 16, [0, 4, 8, 12, 16, 20, 24, 28, 32, 36, 40, 44]⟩,
-  ⟨0, 1, 4, 2, 4, 4, false, false, 0, 32, 4, 0, 4, 4, 8, [0, 4, 8, 12, 16, 20, 24, 28]⟩,
-  ⟨0, 1, 4, 3, 4, 4, false, false, 0, 48, 4, 0, 4, 4, 12, [0, 4, 8, 12, 16, 20, 24, 28, 32, 36, 40, 44]⟩,
-  ⟨0, 1, 4, 4, 4, 4, false, false, 0, 64, 4, 0, 4, 4, 16, [0, 4, 8, 12, 16, 20, 24, 28, 32, 36, 40, 44, 48, 52, 56, 60]⟩,
-  ⟨0, 1, 2, 2, 4, 4, false, false, 1, 16, 4, 0, 2, 4, 8, [0, 4, 8, 12]⟩,
-  ⟨0, 1, 2, 3, 4, 4, false, false, 1, 24, 4, 0, 2, 4, 12, [0, 4, 8, 12, 16, 20]⟩,
-  ⟨0, 1, 2, 4, 4, 4, false, false, 1, 32, 4, 0, 2, 4, 16, [0, 4, 8, 12, 16, 20, 24, 28]⟩,
-  ⟨0, 1, 3, 2, 4, 4, false, false, 1, 24, 4, 0, 3, 4, 8, [0, 4, 8, 12, 16, 20]⟩,
-  ⟨0, 1, 3, 3, 4, 4, false, false, 1, 36, 4, 0, 3, 4, 12, [0, 4, 8, 12, 16, 20, 24, 28, 32]⟩,
-  ⟨0, 1, 3, 4, 4, 4, false, false, 1, 48, 4, 0, 3, 4, 16, [0, 4, 8, 12, 16, 20, 24, 28, 32, 36, 40, 44]⟩,
-  ⟨0, 1, 4, 2, 4, 4, false, false, 1, 32, 4, 0, 4, 4, 8, [0, 4, 8, 12, 16, 20, 24, 28]⟩,
-  ⟨0, 1, 4, 3, 4, 4, false, false, 1, 48, 4, 0, 4, 4, 12, [0, 4, 8, 12, 16, 20, 24, 28, 32, 36, 40, 44]⟩,
-  ⟨0, 1, 4, 4, 4, 4, false, false, 1, 64, 4, 0, 4, 4, 16, [0, 4, 8, 12, 16, 20, 24, 28, 32, 36, 40, 44, 48, 52, 56, 60]⟩,
-  ⟨0, 1, 2, 2, 4, 4, false, false, 2, 16, 4, 0, 2, 4, 8, [0, 4, 8, 12]⟩,
-  ⟨0, 1, 2, 3, 4, 4, false, false, 2, 24, 4, 0, 2, 4, 12, [0, 4, 8, 12, 16, 20]⟩,
-  ⟨0, 1, 2, 4, 4, 4, false, false, 2, 32, 4, 0, 2, 4, 16, [0, 4, 8, 12, 16, 20, 24, 28]⟩,
-  ⟨0, 1, 3, 2, 4, 4, false, false, 2, 24, 4, 0, 3, 4, 8, [0, 4, 8, 12, 16, 20]⟩,
-  ⟨0, 1, 3, 3, 4, 4, false, false, 2, 36, 4, 0, 3, 4, 12, [0, 4, 8, 12, 16, 20, 24, 28, 32]⟩,
-  ⟨0, 1, 3, 4, 4, 4, false, false, 2, 48, 4, 0, 3, 4, 16, [0, 4, 8, 12, 16, 20, 24, 28, 32, 36, 40, 44]⟩,
-  ⟨0, 1, 4, 2, 4, 4, false, false, 2, 32, 4, 0, 4, 4, 8, [0, 4, 8, 12, 16, 20, 24, 28]⟩,
-  ⟨0, 1, 4, 3, 4, 4, false, false, 2, 48, 4, 0, 4, 4, 12, [0, 4, 8, 12, 16, 20, 24, 28, 32, 36, 40, 44]⟩,
-  ⟨0, 1, 4, 4, 4, 4, false, false, 2, 64, 4, 0, 4, 4, 16, [0, 4, 8, 12, 16, 20, 24, 28, 32, 36, 40, 44, 48, 52, 56, 60]⟩,
-  ⟨0, 1, 2, 2, 4, 4, false, false, 0, 16, 4, 0, 2, 4, 8, [0, 4, 8, 12]⟩,
-  ⟨0, 1, 2, 3, 4, 4, false, false, 0, 24, 4, 0, 2, 4, 12, [0, 4, 8, 12, 16, 20]⟩,
-  ⟨0, 1, 2, 4, 4, 4, false, false, 0, 32, 4, 0, 2, 4, 16, [0, 4, 8, 12, 16, 20, 24, 28]⟩,
-  ⟨0, 1, 3, 2, 4, 4, false, false, 0, 24, 4, 0, 3, 4, 8, [0, 4, 8, 12, 16, 20]⟩,
-  ⟨0, 1, 3, 3, 4, 4, false, false, 0, 36, 4, 0, 3, 4, 12, [0, 4, 8, 12, 16, 20, 24, 28, 32]⟩,
-  ⟨0, 1, 3, 4, 4, 4, false, false, 0, 48, 4, 0, 3, 4, 16, [0, 4, 8, 12, 16, 20, 24, 28, 32, 36, 40, 44]⟩,
-  ⟨0, 1, 4, 2, 4, 4, false, false, 0, 32, 4, 0, 4, 4, 8, [0, 4, 8, 12, 16, 20, 24, 28]⟩,
-  ⟨0, 1, 4, 3, 4, 4, false, false, 0, 48, 4, 0, 4, 4, 12, [0, 4, 8, 12, 16, 20, 24, 28, 32, 36, 40, 44]⟩,
-  ⟨0, 1, 4, 4, 4, 4, false, false, 0, 64, 4, 0, 4, 4, 16, [0, 4, 8, 12, 16, 20, 24, 28, 32, 36, 40, 44, 48, 52, 56, 60]⟩,
-  ⟨0, 1, 2, 2, 4, 4, false, false, 1, 16, 4, 0, 2, 4, 8, [0, 4, 8, 12]⟩,
-  ⟨0, 1, 2, 3, 4, 4, false, false, 1, 24, 4, 0, 2, 4, 12, [0, 4, 8, 12, 16, 20]⟩,
-  ⟨0, 1, 2, 4, 4, 4, false, false, 1, 32, 4, 0, 2, 4, 16, [0, 4, 8, 12, 16, 20, 24, 28]⟩,
-  ⟨0, 1, 3, 2, 4, 4, false, false, 1, 24, 4, 0, 3, 4, 8, [0, 4, 8, 12, 16, 20]⟩,
-  ⟨0, 1, 3, 3, 4, 4, false, false, 1, 36, 4, 0, 3, 4, 12, [0, 4, 8, 12, 16, 20, 24, 28, 32]⟩,
-  ⟨0, 1, 3, 4, 4, 4, false, false, 1, 48, 4, 0, 3, 4, 16, [0, 4, 8, 12, 16, 20, 24, 28, 32, 36, 40, 44]⟩,
-  ⟨0, 1, 4, 2, 4, 4, false, false, 1, 32, 4, 0, 4, 4, 8, [0, 4, 8, 12, 16, 20, 24, 28]⟩,
-  ⟨0, 1, 4, 3, 4, 4, false, false, 1, 48, 4, 0, 4, 4, 12, [0, 4, 8, 12, 16, 20, 24, 28, 32, 36, 40, 44]⟩,
-  ⟨0, 1, 4, 4, 4, 4, false, false, 1, 64, 4, 0, 4, 4, 16, [0, 4, 8, 12, 16, 20, 24, 28, 32, 36, 40, 44, 48, 52, 56, 60]⟩,
-  ⟨0, 1, 2, 2, 4, 4, false, false, 2, 16, 4, 0, 2, 4, 8, [0, 4, 8, 12]⟩,
-  ⟨0, 1, 2, 3, 4, 4, false, false, 2, 24, 4, 0, 2, 4, 12, [0, 4, 8, 12, 16, 20]⟩,
-  ⟨0, 1, 2, 4, 4, 4, false, false, 2, 32, 4, 0, 2, 4, 16, [0, 4, 8, 12, 16, 20, 24, 28]⟩,
-  ⟨0, 1, 3, 2, 4, 4, false, false, 2, 24, 4, 0, 3, 4, 8, [0, 4, 8, 12, 16, 20]⟩,
-  ⟨0, 1, 3, 3, 4, 4, false, false, 2, 36, 4, 0, 3, 4, 12, [0, 4, 8, 12, 16, 20, 24, 28, 32]⟩,
-  ⟨0, 1, 3, 4, 4, 4, false, false, 2, 48, 4, 0, 3, 4, 16, [0, 4, 8, 12, 16, 20, 24, 28, 32, 36, 40, 44]⟩,
-  ⟨0, 1, 4, 2, 4, 4, false, false, 2, 32, 4, 0, 4, 4, 8, [0, 4, 8, 12, 16, 20, 24, 28]⟩,
-  ⟨0, 1, 4, 3, 4, 4, false, false, 2, 48, 4, 0, 4, 4, 12, [0, 4, 8, 12, 16, 20, 24, 28, 32, 36, 40, 44]⟩,
-  ⟨0, 1, 4, 4, 4, 4, false, false, 2, 64, 4, 0, 4, 4, 16, [0, 4, 8, 12, 16, 20, 24, 28, 32, 36, 40, 44, 48, 52, 56, 60]⟩,
-  ⟨0, 2, 4, 1, 4, 4, true, false, 0, 16, 4, 0, 4, 4, 0, [0, 4, 8, 12]⟩,
-  ⟨0, 2, 4, 1, 4, 4, true, false, 1, 16, 4, 0, 4, 4, 0, [0, 4, 8, 12]⟩,
-  ⟨0, 2, 4, 1, 4, 4, true, false, 2, 16, 4, 0, 4, 4, 0, [0, 4, 8, 12]⟩,
-  ⟨0, 2, 4, 1, 8, 8, true, false, 0, 32, 8, 0, 4, 4, 0, [0, 8, 16, 24]⟩,
-  ⟨0, 2, 4, 1, 8, 8, true, false, 1, 32, 8, 0, 4, 4, 0, [0, 8, 16, 24]⟩,
-  ⟨0, 2, 4, 1, 8, 8, true, false, 2, 32, 8, 0, 4, 4, 0, [0, 8, 16, 24]⟩,
-  ⟨1, 0, 1, 1, 1, 1, false, false, 0, 1, 1, 0, 1, 4, 0, [0]⟩,
-  ⟨1, 0, 2, 1, 1, 1, false, false, 0, 2, 1, 0, 2, 4, 0, [0, 1]⟩,
-  ⟨1, 0, 3, 1, 1, 1, false, false, 0, 3, 1, 0, 3, 4, 0, [0, 1, 2]⟩,
-  ⟨1, 0, 4, 1, 1, 1, false, false, 0, 4, 1, 0, 4, 4, 0, [0, 1, 2, 3]⟩,
-  ⟨1, 0, 1, 1, 1, 1, false, false, 1, 1, 1, 0, 1, 4, 0, [0]⟩,
-  ⟨1, 0, 2, 1, 1, 1, false, false, 1, 2, 1, 0, 2, 4, 0, [0, 1]⟩,
-  ⟨1, 0, 3, 1, 1, 1, false, false, 1, 3, 1, 0, 3, 4, 0, [0, 1, 2]⟩,
-  ⟨1, 0, 4, 1, 1, 1, false, false, 1, 4, 1, 0, 4, 4, 0, [0, 1, 2, 3]⟩,
-  ⟨1, 0, 1, 1, 1, 1, false, false, 2, 1, 1, 0, 1, 4, 0, [0]⟩,
-  ⟨1, 0, 2, 1, 1, 1, false, false, 2, 2, 1, 0, 2, 4, 0, [0, 1]⟩,
-  ⟨1, 0, 3, 1, 1, 1, false, false, 2, 3, 1, 0, 3, 4, 0, [0, 1, 2]⟩,
-  ⟨1, 0, 4, 1, 1, 1, false, false, 2, 4, 1, 0, 4, 4, 0, [0, 1, 2, 3]⟩,
-  ⟨1, 0, 1, 1, 1, 1, false, false, 0, 1, 1, 0, 1, 4, 0, [0]⟩,
-  ⟨1, 0, 2, 1, 1, 1, false, false, 0, 2, 1, 0, 2, 4, 0, [0, 1]⟩,
-  ⟨1, 0, 3, 1, 1, 1, false, false, 0, 3, 1, 0, 3, 4, 0, [0, 1, 2]⟩,
-  ⟨1, 0, 4, 1, 1, 1, false, false, 0, 4, 1, 0, 4, 4, 0, [0, 1, 2, 3]⟩,
-  ⟨1, 0, 1, 1, 1, 1, false, false, 1, 1, 1, 0, 1, 4, 0, [0]⟩,
-  ⟨1, 0, 2, 1, 1, 1, false, false, 1, 2, 1, 0, 2, 4, 0, [0, 1]⟩,
-  ⟨1, 0, 3, 1, 1, 1, false, false, 1, 3, 1, 0, 3, 4, 0, [0, 1, 2]⟩,
-  ⟨1, 0, 4, 1, 1, 1, false, false, 1, 4, 1, 0, 4, 4, 0, [0, 1, 2, 3]⟩,
-  ⟨1, 0, 1, 1, 1, 1, false, false, 2, 1, 1, 0, 1, 4, 0, [0]⟩,
-  ⟨1, 0, 2, 1, 1, 1, false, false, 2, 2, 1, 0, 2, 4, 0, [0, 1]⟩,
-  ⟨1, 0, 3, 1, 1, 1, false, false, 2, 3, 1, 0, 3, 4, 0, [0, 1, 2]⟩,
-  ⟨1, 0, 4, 1, 1, 1, false, false, 2, 4, 1, 0, 4, 4, 0, [0, 1, 2, 3]⟩,
-  ⟨1, 0, 1, 1, 1, 1, false, false, 0, 1, 1, 0, 1, 4, 0, [0]⟩,
-  ⟨1, 0, 2, 1, 1, 1, false, false, 0, 2, 1, 0, 2, 4, 0, [0, 1]⟩,
-  ⟨1, 0, 3, 1, 1, 1, false, false, 0, 3, 1, 0, 3, 4, 0, [0, 1, 2]⟩,
-  ⟨1, 0, 4, 1, 1, 1, false, false, 0, 4, 1, 0, 4, 4, 0, [0, 1, 2, 3]⟩,
-  ⟨1, 0, 1, 1, 1, 1, false, false, 1, 1, 1, 0, 1, 4, 0, [0]⟩,
-  ⟨1, 0, 2, 1, 1, 1, false, false, 1, 2, 1, 0, 2, 4, 0, [0, 1]⟩,
-  ⟨1, 0, 3, 1, 1, 1, false, false, 1, 3, 1, 0, 3, 4, 0, [0, 1, 2]⟩,
-  ⟨1, 0, 4, 1, 1, 1, false, false, 1, 4, 1, 0, 4, 4, 0, [0, 1, 2, 3]⟩,
-  ⟨1, 0, 1, 1, 1, 1, false, false, 2, 1, 1, 0, 1, 4, 0, [0]⟩,
-  ⟨1, 0, 2, 1, 1, 1, false, false, 2, 2, 1, 0, 2, 4, 0, [0, 1]⟩,
-  ⟨1, 0, 3, 1, 1, 1, false, false, 2, 3, 1, 0, 3, 4, 0, [0, 1, 2]⟩,
-  ⟨1, 0, 4, 1, 1, 1, false, false, 2, 4, 1, 0, 4, 4, 0, [0, 1, 2, 3]⟩,
-  ⟨1, 0, 1, 1, 2, 2, false, false, 0, 2, 2, 0, 1, 4, 0, [0]⟩,
-  ⟨1, 0, 2, 1, 2, 2, false, false, 0, 4, 2, 0, 2, 4, 0, [0, 2]⟩,
-  ⟨1, 0, 3, 1, 2, 2, false, false, 0, 6, 2, 0, 3, 4, 0, [0, 2, 4]⟩,
-  ⟨1, 0, 4, 1, 2, 2, false, false, 0, 8, 2, 0, 4, 4, 0, [0, 2, 4, 6]⟩,
-  ⟨1, 0, 1, 1, 2, 2, false, false, 1, 2, 2, 0, 1, 4, 0, [0]⟩,
-  ⟨1, 0, 2, 1, 2, 2, false, false, 1, 4, 2, 0, 2, 4, 0, [0, 2]⟩,
-  ⟨1, 0, 3, 1, 2, 2, false, false, 1, 6, 2, 0, 3, 4, 0, [0, 2, 4]⟩,
-  ⟨1, 0, 4, 1, 2, 2, false, false, 1, 8, 2, 0, 4, 4, 0, [0, 2, 4, 6]⟩,
-  ⟨1, 0, 1, 1, 2, 2, false, false, 2, 2, 2, 0, 1, 4, 0, [0]⟩,
-  ⟨1, 0, 2, 1, 2, 2, false, false, 2, 4, 2, 0, 2, 4, 0, [0, 2]⟩,
-  ⟨1, 0, 3, 1, 2, 2, false, false, 2, 6, 2, 0, 3, 4, 0, [0, 2, 4]⟩,
-  ⟨1, 0, 4, 1, 2, 2, false, false, 2, 8, 2, 0, 4, 4, 0, [0, 2, 4, 6]⟩,
-  ⟨1, 0, 1, 1, 2, 2, false, false, 0, 2, 2, 0, 1, 4, 0, [0]⟩,
-  ⟨1, 0, 2, 1, 2, 2, false, false, 0, 4, 2, 0, 2, 4, 0, [0, 2]⟩,
-  ⟨1, 0, 3, 1, 2, 2, false, false, 0, 6, 2, 0, 3, 4, 0, [0, 2, 4]⟩,
-  ⟨1, 0, 4, 1, 2, 2, false, false, 0, 8, 2, 0, 4, 4, 0, [0, 2, 4, 6]⟩,
-  ⟨1, 0, 1, 1, 2, 2, false, false, 1, 2, 2, 0, 1, 4, 0, [0]⟩,
-  ⟨1, 0, 2, 1, 2, 2, false, false, 1, 4, 2, 0, 2, 4, 0, [0, 2]⟩,
-  ⟨1, 0, 3, 1, 2, 2, false, false, 1, 6, 2, 0, 3, 4, 0, [0, 2, 4]⟩,
-  ⟨1, 0, 4, 1, 2, 2, false, false, 1, 8, 2, 0, 4, 4, 0, [0, 2, 4, 6]⟩,
-  ⟨1, 0, 1, 1, 2, 2, false, false, 2, 2, 2, 0, 1, 4, 0, [0]⟩,
-  ⟨1, 0, 2, 1, 2, 2, false, false, 2, 4, 2, 0, 2, 4, 0, [0, 2]⟩,
-  ⟨1, 0, 3, 1, 2, 2, false, false, 2, 6, 2, 0, 3, 4, 0, [0, 2, 4]⟩,
-  ⟨1, 0, 4, 1, 2, 2, false, false, 2, 8, 2, 0, 4, 4, 0, [0, 2, 4, 6]⟩,
-  ⟨1, 0, 1, 1, 4, 4, false, false, 0, 4, 4, 0, 1, 4, 0, [0]⟩,
-  ⟨1, 0, 2, 1, 4, 4, false, false, 0, 8, 4, 0, 2, 4, 0, [0, 4]⟩,
-  ⟨1, 0, 3, 1, 4, 4, false, false, 0, 12, 4, 0, 3, 4, 0, [0, 4, 8]⟩,
-  ⟨1, 0, 4, 1, 4, 4, false, false, 0, 16, 4, 0, 4, 4, 0, [0, 4, 8, 12]⟩,
-  ⟨1, 0, 1, 1, 4, 4, false, false, 1, 4, 4, 0, 1, 4, 0, [0]⟩,
-  ⟨1, 0, 2, 1, 4, 4, false, false, 1, 8, 4, 0, 2, 4, 0, [0, 4]⟩,
-  ⟨1, 0, 3, 1, 4, 4, false, false, 1, 12, 4, 0, 3, 4, 0, [0, 4, 8]⟩,
-  ⟨1, 0, 4, 1, 4, 4, false, false, 1, 16, 4, 0, 4, 4, 0, [0, 4, 8, 12]⟩,
-  ⟨1, 0, 1, 1, 4, 4, false, false, 2, 4, 4, 0, 1, 4, 0, [0]⟩,
-  ⟨1, 0, 2, 1, 4, 4, false, false, 2, 8, 4, 0, 2, 4, 0, [0, 4]⟩,
-  ⟨1, 0, 3, 1, 4, 4, false, false, 2, 12, 4, 0, 3, 4, 0, [0, 4, 8]⟩,
-  ⟨1, 0, 4, 1, 4, 4, false, false, 2, 16, 4, 0, 4, 4, 0, [0, 4, 8, 12]⟩,
-  ⟨1, 0, 1, 1, 4, 4, false, false, 0, 4, 4, 0, 1, 4, 0, [0]⟩,
-  ⟨1, 0, 2, 1, 4, 4, false, false, 0, 8, 4, 0, 2, 4, 0, [0, 4]⟩,
-  ⟨1, 0, 3, 1, 4, 4, false, false, 0, 12, 4, 0, 3, 4, 0, [0, 4, 8]⟩,
-  ⟨1, 0, 4, 1, 4, 4, false, false, 0, 16, 4, 0, 4, 4, 0, [0, 4, 8, 12]⟩,
-  ⟨1, 0, 1, 1, 4, 4, false, false, 1, 4, 4, 0, 1, 4, 0, [0]⟩,
-  ⟨1, 0, 2, 1, 4, 4, false, false, 1, 8, 4, 0, 2, 4, 0, [0, 4]⟩,
-  ⟨1, 0, 3, 1, 4, 4, false, false, 1, 12, 4, 0, 3, 4, 0, [0, 4, 8]⟩,
-  ⟨1, 0, 4, 1, 4, 4, false, false, 1, 16, 4, 0, 4, 4, 0, [0, 4, 8, 12]⟩,
-  ⟨1, 0, 1, 1, 4, 4, false, false, 2, 4, 4, 0, 1, 4, 0, [0]⟩,
-  ⟨1, 0, 2, 1, 4, 4, false, false, 2, 8, 4, 0, 2, 4, 0, [0, 4]⟩,
-  ⟨1, 0, 3, 1, 4, 4, false, false, 2, 12, 4, 0, 3, 4, 0, [0, 4, 8]⟩,
-  ⟨1, 0, 4, 1, 4, 4, false, false, 2, 16, 4, 0, 4, 4, 0, [0, 4, 8, 12]⟩,
-  ⟨1, 0, 1, 1, 8, 8, false, false, 0, 8, 8, 0, 1, 4, 0, [0]⟩,
-  ⟨1, 0, 2, 1, 8, 8, false, false, 0, 16, 8, 0, 2, 4, 0, [0, 8]⟩,
-  ⟨1, 0, 3, 1, 8, 8, false, false, 0, 24, 8, 0, 3, 4, 0, [0, 8, 16]⟩,
-  ⟨1, 0, 4, 1, 8, 8, false, false, 0, 32, 8, 0, 4, 4, 0, [0, 8, 16, 24]⟩,
-  ⟨1, 0, 1, 1, 8, 8, false, false, 1, 8, 8, 0, 1, 4, 0, [0]⟩,
-  ⟨1, 0, 2, 1, 8, 8, false, false, 1, 16, 8, 0, 2, 4, 0, [0, 8]⟩,
-  ⟨1, 0, 3, 1, 8, 8, false, false, 1, 24, 8, 0, 3, 4, 0, [0, 8, 16]⟩,
-  ⟨1, 0, 4, 1, 8, 8, false, false, 1, 32, 8, 0, 4, 4, 0, [0, 8, 16, 24]⟩,
-  ⟨1, 0, 1, 1, 8, 8, false, false, 2, 8, 8, 0, 1, 4, 0, [0]⟩,
-  ⟨1, 0, 2, 1, 8, 8, false, false, 2, 16, 8, 0, 2, 4, 0, [0, 8]⟩,
-  ⟨1, 0, 3, 1, 8, 8, false, false, 2, 24, 8, 0, 3, 4, 0, [0, 8, 16]⟩,
-  ⟨1, 0, 4, 1, 8, 8, false, false, 2, 32, 8, 0, 4, 4, 0, [0, 8, 16, 24]⟩,
-  ⟨1, 0, 1, 1, 8, 8, false, false, 0, 8, 8, 0, 1, 4, 0, [0]⟩,
-  ⟨1, 0, 2, 1, 8, 8, false, false, 0, 16, 8, 0, 2, 4, 0, [0, 8]⟩,
-  ⟨1, 0, 3, 1, 8, 8, false, false, 0, 24, 8, 0, 3, 4, 0, [0, 8, 16]⟩,
-  ⟨1, 0, 4, 1, 8, 8, false, false, 0, 32, 8, 0, 4, 4, 0, [0, 8, 16, 24]⟩,
-  ⟨1, 0, 1, 1, 8, 8, false, false, 1, 8, 8, 0, 1, 4, 0, [0]⟩,
-  ⟨1, 0, 2, 1, 8, 8, false, false, 1, 16, 8, 0, 2, 4, 0, [0, 8]⟩,
-  ⟨1, 0, 3, 1, 8, 8, false, false, 1, 24, 8, 0, 3, 4, 0, [0, 8, 16]⟩,
-  ⟨1, 0, 4, 1, 8, 8, false, false, 1, 32, 8, 0, 4, 4, 0, [0, 8, 16, 24]⟩,
-  ⟨1, 0, 1, 1, 8, 8, false, false, 2, 8, 8, 0, 1, 4, 0, [0]⟩,
-  ⟨1, 0, 2, 1, 8, 8, false, false, 2, 16, 8, 0, 2, 4, 0, [0, 8]⟩,
-  ⟨1, 0, 3, 1, 8, 8, false, false, 2, 24, 8, 0, 3, 4, 0, [0, 8, 16]⟩,
-  ⟨1, 0, 4, 1, 8, 8, false, false, 2, 32, 8, 0, 4, 4, 0, [0, 8, 16, 24]⟩,
-  ⟨1, 0, 1, 1, 4, 4, true, false, 0, 4, 4, 0, 1, 4, 0, [0]⟩,
-  ⟨1, 0, 2, 1, 4, 4, true, false, 0, 8, 4, 0, 2, 4, 0, [0, 4]⟩,
-  ⟨1, 0, 3, 1, 4, 4, true, false, 0, 12, 4, 0, 3, 4, 0, [0, 4, 8]⟩,
-  ⟨1, 0, 4, 1, 4, 4, true, false, 0, 16, 4, 0, 4, 4, 0, [0, 4, 8, 12]⟩,
-  ⟨1, 0, 1, 1, 4, 4, true, false, 1, 4, 4, 0, 1, 4, 0, [0]⟩,
-  ⟨1, 0, 2, 1, 4, 4, true, false, 1, 8, 4, 0, 2, 4, 0, [0, 4]⟩,
-  ⟨1, 0, 3, 1, 4, 4, true, false, 1, 12, 4, 0, 3, 4, 0, [0, 4, 8]⟩,
-  ⟨1, 0, 4, 1, 4, 4, true, false, 1, 16, 4, 0, 4, 4, 0, [0, 4, 8, 12]⟩,
-  ⟨1, 0, 1, 1, 4, 4, true, false, 2, 4, 4, 0, 1, 4, 0, [0]⟩,
-  ⟨1, 0, 2, 1, 4, 4, true, false, 2, 8, 4, 0, 2, 4, 0, [0, 4]⟩,
-  ⟨1, 0, 3, 1, 4, 4, true, false, 2, 12, 4, 0, 3, 4, 0, [0, 4, 8]⟩,
-  ⟨1, 0, 4, 1, 4, 4, true, false, 2, 16, 4, 0, 4, 4, 0, [0, 4, 8, 12]⟩,
-  ⟨1, 0, 1, 1, 8, 8, true, false, 0, 8, 8, 0, 1, 4, 0, [0]⟩,
-  ⟨1, 0, 2, 1, 8, 8, true, false, 0, 16, 8, 0, 2, 4, 0, [0, 8]⟩,
-  ⟨1, 0, 3, 1, 8, 8, true, false, 0, 24, 8, 0, 3, 4, 0, [0, 8, 16]⟩,
-  ⟨1, 0, 4, 1, 8, 8, true, false, 0, 32, 8, 0, 4, 4, 0, [0, 8, 16, 24]⟩,
-  ⟨1, 0, 1, 1, 8, 8, true, false, 1, 8, 8, 0, 1, 4, 0, [0]⟩,
-  ⟨1, 0, 2, 1, 8, 8, true, false, 1, 16, 8, 0, 2, 4, 0, [0, 8]⟩,
-  ⟨1, 0, 3, 1, 8, 8, true, false, 1, 24, 8, 0, 3, 4, 0, [0, 8, 16]⟩,
-  ⟨1, 0, 4, 1, 8, 8, true, false, 1, 32, 8, 0, 4, 4, 0, [0, 8, 16, 24]⟩,
-  ⟨1, 0, 1, 1, 8, 8, true, false, 2, 8, 8, 0, 1, 4, 0, [0]⟩,
-  ⟨1, 0, 2, 1, 8, 8, true, false, 2, 16, 8, 0, 2, 4, 0, [0, 8]⟩,
-  ⟨1, 0, 3, 1, 8, 8, true, false, 2, 24, 8, 0, 3, 4, 0, [0, 8, 16]⟩,
-  ⟨1, 0, 4, 1, 8, 8, true, false, 2, 32, 8, 0, 4, 4, 0, [0, 8, 16, 24]⟩,
-  ⟨1, 1, 2, 2, 4, 4, true, false, 0, 16, 4, 0, 2, 4, 8, [0, 4, 8, 12]⟩,
-  ⟨1, 1, 2, 3, 4, 4, true, false, 0, 24, 4, 0, 2, 4, 12, [0, 4, 8, 12, 16, 20]⟩,
-  ⟨1, 1, 2, 4, 4, 4, true, false, 0, 32, 4, 0, 2, 4, 16, [0, 4, 8, 12, 16, 20, 24, 28]⟩,
-  ⟨1, 1, 3, 2, 4, 4, true, false, 0, 24, 4, 0, 3, 4, 8, [0, 4, 8, 12, 16, 20]⟩,
-  ⟨1, 1, 3, 3, 4, 4, true, false, 0, 36, 4, 0, 3, 4, 12, [0, 4, 8, 12, 16, 20, 24, 28, 32]⟩,
-  ⟨1, 1, 3, 4, 4, 4, true, false, 0, 48, 4, 0, 3, 4, 16, [0, 4, 8, 12, 16, 20, 24, 28, 32, 36, 40, 44]⟩,
-  ⟨1, 1, 4, 2, 4, 4, true, false, 0, 32, 4, 0, 4, 4, 8, [0, 4, 8, 12, 16, 20, 24, 28]⟩,
-  ⟨1, 1, 4, 3, 4, 4, true, false, 0, 48, 4, 0, 4, 4, 12, [0, 4, 8, 12, 16, 20, 24, 28, 32, 36, 40, 44]⟩,
-  ⟨1, 1, 4, 4, 4, 4, true, false, 0, 64, 4, 0, 4, 4, 16, [0, 4, 8, 12, 16, 20, 24, 28, 32, 36, 40, 44, 48, 52, 56, 60]⟩,
-  ⟨1, 1, 2, 2, 4, 4, true, false, 1, 16, 4, 0, 2, 4, 8, [0, 4, 8, 12]⟩,
-  ⟨1, 1, 2, 3, 4, 4, true, false, 1, 24, 4, 0, 2, 4, 12, [0, 4, 8, 12, 16, 20]⟩,
-  ⟨1, 1, 2, 4, 4, 4, true, false, 1, 32, 4, 0, 2, 4, 16, [0, 4, 8, 12, 16, 20, 24, 28]⟩,
-  ⟨1, 1, 3, 2, 4, 4, true, false, 1, 24, 4, 0, 3, 4, 8, [0, 4, 8, 12, 16, 20]⟩,
-  ⟨1, 1, 3, 3, 4, 4, true, false, 1, 36, 4, 0, 3, 4, 12, [0, 4, 8, 12, 16, 20, 24, 28, 32]⟩,
-  ⟨1, 1, 3, 4, 4, 4, true, false, 1, 48, 4, 0, 3, 4, 16, [0, 4, 8, 12, 16, 20, 24, 28, 32, 36, 40, 44]⟩,
-  ⟨1, 1, 4, 2, 4, 4, true, false, 1, 32, 4, 0, 4, 4, 8, [0, 4, 8, 12, 16, 20, 24, 28]⟩,
-  ⟨1, 1, 4, 3, 4, 4, true, false, 1, 48, 4, 0, 4, 4, 12, [0, 4, 8, 12, 16, 20, 24, 28, 32, 36, 40, 44]⟩,
-  ⟨1, 1, 4, 4, 4, 4, true, false, 1, 64, 4, 0, 4, 4, 16, [0, 4, 8, 12, 16, 20, 24, 28, 32, 36, 40, 44, 48, 52, 56, 60]⟩,
-  ⟨1, 1, 2, 2, 4, 4, true, false, 2, 16, 4, 0, 2, 4, 8, [0, 4, 8, 12]⟩,
-  ⟨1, 1, 2, 3, 4, 4, true, false, 2, 24, 4, 0, 2, 4, 12, [0, 4, 8, 12, 16, 20]⟩,
-  ⟨1, 1, 2, 4, 4, 4, true, false, 2, 32, 4, 0, 2, 4, 16, [0, 4, 8, 12, 16, 20, 24, 28]⟩,
-  ⟨1, 1, 3, 2, 4, 4, true, false, 2, 24, 4, 0, 3, 4, 8, [0, 4, 8, 12, 16, 20]⟩,
-  ⟨1, 1, 3, 3, 4, 4, true, false, 2, 36, 4, 0, 3, 4, 12, [0, 4, 8, 12, 16, 20, 24, 28, 32]⟩,
-  ⟨1, 1, 3, 4, 4, 4, true, false, 2, 48, 4, 0, 3, 4, 16, [0, 4, 8, 12, 16, 20, 24, 28, 32, 36, 40, 44]⟩,
-  ⟨1, 1, 4, 2, 4, 4, true, false, 2, 32, 4, 0, 4, 4, 8, [0, 4, 8, 12, 16, 20, 24, 28]⟩,
-  ⟨1, 1, 4, 3, 4, 4, true, false, 2, 48, 4, 0, 4, 4, 12, [0, 4, 8, 12, 16, 20, 24, 28, 32, 36, 40, 44]⟩,
-  ⟨1, 1, 4, 4, 4, 4, true, false, 2, 64, 4, 0, 4, 4, 16, [0, 4, 8, 12, 16, 20, 24, 28, 32, 36, 40, 44, 48, 52, 56, 60]⟩,
-  ⟨1, 1, 2, 2, 8, 8, true, false, 0, 32, 8, 0, 2, 4, 16, [0, 8, 16, 24]⟩,
-  ⟨1, 1, 2, 3, 8, 8, true, false, 0, 48, 8, 0, 2, 4, 24, [0, 8, 16, 24, 32, 40]⟩,
-  ⟨1, 1, 2, 4, 8, 8, true, false, 0, 64, 8, 0, 2, 4, 32, [0, 8, 16, 24, 32, 40, 48, 56]⟩,
-  ⟨1, 1, 3, 2, 8, 8, true, false, 0, 48, 8, 0, 3, 4, 16, [0, 8, 16, 24, 32, 40]⟩,
-  ⟨1, 1, 3, 3, 8, 8, true, false, 0, 72, 8, 0, 3, 4, 24, [0, 8, 16, 24, 32, 40, 48, 56, 64]⟩,
-  ⟨1, 1, 3, 4, 8, 8, true, false, 0, 96, 8, 0, 3, 4, 32, [0, 8, 16, 24, 32, 40, 48, 56, 64, 72, 80, 88]⟩,
-  ⟨1, 1, 4, 2, 8, 8, true, false, 0, 64, 8, 0, 4, 4, 16, [0, 8, 16, 24, 32, 40, 48, 56]⟩,
-  ⟨1, 1, 4, 3, 8, 8, true, false, 0, 96, 8, 0, 4, 4, 24, [0, 8, 16, 24, 32, 40, 48, 56, 64, 72, 80, 88]⟩,
-  ⟨1, 1, 4, 4, 8, 8, true, false, 0, 128, 8, 0, 4, 4, 32, [0, 8, 16, 24, 32, 40, 48, 56, 64, 72, 80, 88, 96, 104, 112, 120]⟩,
-  ⟨1, 1, 2, 2, 8, 8, true, false, 1, 32, 8, 0, 2, 4, 16, [0, 8, 16, 24]⟩,
-  ⟨1, 1, 2, 3, 8, 8, true, false, 1, 48, 8, 0, 2, 4, 24, [0, 8, 16, 24, 32, 40]⟩,
-  ⟨1, 1, 2, 4, 8, 8, true, false, 1, 64, 8, 0, 2, 4, 32, [0, 8, 16, 24, 32, 40, 48, 56]⟩,
-  ⟨1, 1, 3, 2, 8, 8, true, false, 1, 48, 8, 0, 3, 4, 16, [0, 8, 16, 24, 32, 40]⟩,
-  ⟨1, 1, 3, 3, 8, 8, true, false, 1, 72, 8, 0, 3, 4, 24, [0, 8, 16, 24, 32, 40, 48, 56, 64]⟩,
-  ⟨1, 1, 3, 4, 8, 8, true, false, 1, 96, 8, 0, 3, 4, 32, [0, 8, 16, 24, 32, 40, 48, 56, 64, 72, 80, 88]⟩,
-  ⟨1, 1, 4, 2, 8, 8, true, false, 1, 64, 8, 0, 4, 4, 16, [0, 8, 16, 24, 32, 40, 48, 56]⟩,
-  ⟨1, 1, 4, 3, 8, 8, true, false, 1, 96, 8, 0, 4, 4, 24, [0, 8, 16, 24, 32, 40, 48, 56, 64, 72, 80, 88]⟩,
-  ⟨1, 1, 4, 4, 8, 8, true, false, 1, 128, 8, 0, 4, 4, 32, [0, 8, 16, 24, 32, 40, 48, 56, 64, 72, 80, 88, 96, 104, 112, 120]⟩,
-  ⟨1, 1, 2, 2, 8, 8, true, false, 2, 32, 8, 0, 2, 4, 16, [0, 8, 16, 24]⟩,
-  ⟨1, 1, 2, 3, 8, 8, true, false, 2, 48, 8, 0, 2, 4, 24, [0, 8, 16, 24, 32, 40]⟩,
-  ⟨1, 1, 2, 4, 8, 8, true, false, 2, 64, 8, 0, 2, 4, 32, [0, 8, 16, 24, 32, 40, 48, 56]⟩,
-  ⟨1, 1, 3, 2, 8, 8, true, false, 2, 48, 8, 0, 3, 4, 16, [0, 8, 16, 24, 32, 40]⟩,
-  ⟨1, 1, 3, 3, 8, 8, true, false, 2, 72, 8, 0, 3, 4, 24, [0, 8, 16, 24, 32, 40, 48, 56, 64]⟩,
-  ⟨1, 1, 3, 4, 8, 8, true, false, 2, 96, 8, 0, 3, 4, 32, [0, 8, 16, 24, 32, 40, 48, 56, 64, 72, 80, 88]⟩,
-  ⟨1, 1, 4, 2, 8, 8, true, false, 2, 64, 8, 0, 4, 4, 16, [0, 8, 16, 24, 32, 40, 48, 56]⟩,
-  ⟨1, 1, 4, 3, 8, 8, true, false, 2, 96, 8, 0, 4, 4, 24, [0, 8, 16, 24, 32, 40, 48, 56, 64, 72, 80, 88]⟩,
-  ⟨1, 1, 4, 4, 8, 8, true, false, 2, 128, 8, 0, 4, 4, 32, [0, 8, 16, 24, 32, 40, 48, 56, 64, 72, 80, 88, 96, 104, 112, 120]⟩,
-  ⟨1, 1, 2, 2, 4, 4, false, false, 0, 16, 4, 0, 2, 4, 8, [0, 4, 8, 12]⟩,
-  ⟨1, 1, 2, 3, 4, 4, false, false, 0, 24, 4, 0, 2, 4, 12, [0, 4, 8, 12, 16, 20]⟩,
-  ⟨1, 1, 2, 4, 4, 4, false, false, 0, 32, 4, 0, 2, 4, 16, [0, 4, 8, 12, 16, 20, 24, 28]⟩,
-  ⟨1, 1, 3, 2, 4, 4, false, false, 0, 24, 4, 0, 3, 4, 8, [0, 4, 8, 12, 16, 20]⟩,
-  ⟨1, 1, 3, 3, 4, 4, false, false, 0, 36, 4, 0, 3, 4, 12, [0, 4, 8, 12, 16, 20, 24, 28, 32]⟩,
-  ⟨1, 1, 3, 4, 4, 4, false, false, 0, 48, 4, 0, 3, 4, 16, [0, 4, 8, 12, 16, 20, 24, 28, 32, 36, 40, 44]⟩,
-  ⟨1, 1, 4, 2, 4, 4, false, false, 0, 32, 4, 0, 4, 4, 8, [0, 4, 8, 12, 16, 20, 24, 28]⟩,
-  ⟨1, 1, 4, 3, 4, 4, false, false, 0, 48, 4, 0, 4, 4, 12, [0, 4, 8, 12, 16, 20, 24, 28, 32, 36, 40, 44]⟩,
-  ⟨1, 1, 4, 4, 4, 4, false, false, 0, 64, 4, 0, 4, 4, 16, [0, 4, 8, 12, 16, 20, 24, 28, 32, 36, 40, 44, 48, 52, 56, 60]⟩,
-  ⟨1, 1, 2, 2, 4, 4, false, false, 1, 16, 4, 0, 2, 4, 8, [0, 4, 8, 12]⟩,
-  ⟨1, 1, 2, 3, 4, 4, false, false, 1, 24, 4, 0, 2, 4, 12, [0, 4, 8, 12, 16, 20]⟩,
-  ⟨1, 1, 2, 4, 4, 4, false, false, 1, 32, 4, 0, 2, 4, 16, [0, 4, 8, 12, 16, 20, 24, 28]⟩,
-  ⟨1, 1, 3, 2, 4, 4, false, false, 1, 24, 4, 0, 3, 4, 8, [0, 4, 8, 12, 16, 20]⟩,
-  ⟨1, 1, 3, 3, 4, 4, false, false, 1, 36, 4, 0, 3, 4, 12, [0, 4, 8, 12, 16, 20, 24, 28, 32]⟩,
-  ⟨1, 1, 3, 4, 4, 4, false, false, 1, 48, 4, 0, 3, 4, 16, [0, 4, 8, 12, 16, 20, 24, 28, 32, 36, 40, 44]⟩,
-  ⟨1, 1, 4, 2, 4, 4, false, false, 1, 32, 4, 0, 4, 4, 8, [0, 4, 8, 12, 16, 20, 24, 28]⟩,
-  ⟨1, 1, 4, 3, 4, 4, false, false, 1, 48, 4, 0, 4, 4, 12, [0, 4, 8, 12, 16, 20, 24, 28, 32, 36, 40, 44]⟩,
-  ⟨1, 1, 4, 4, 4, 4, false, false, 1, 64, 4, 0, 4, 4, 16, [0, 4, 8, 12, 16, 20, 24, 28, 32, 36, 40, 44, 48, 52, 56, 60]⟩,
-  ⟨1, 1, 2, 2, 4, 4, false, false, 2, 16, 4, 0, 2, 4, 8, [0, 4, 8, 12]⟩,
-  ⟨1, 1, 2, 3, 4, 4, false, false, 2, 24, 4, 0, 2, 4, 12, [0, 4, 8, 12, 16, 20]⟩,
-  ⟨1, 1, 2, 4, 4, 4, false, false, 2, 32, 4, 0, 2, 4, 16, [0, 4, 8, 12, 16, 20, 24, 28]⟩,
-  ⟨1, 1, 3, 2, 4, 4, false, false, 2, 24, 4, 0, 3, 4, 8, [0, 4, 8, 12, 16, 20]⟩,
-  ⟨1, 1, 3, 3, 4, 4, false, false, 2, 36, 4, 0, 3, 4, 12, [0, 4, 8, 12, 16, 20, 24, 28, 32]⟩,
-  ⟨1, 1, 3, 4, 4, 4, false, false, 2, 48, 4, 0, 3, 4, 16, [0, 4, 8, 12, 16, 20, 24, 28, 32, 36, 40, 44]⟩,
-  ⟨1, 1, 4, 2, 4, 4, false, false, 2, 32, 4, 0, 4, 4, 8, [0, 4, 8, 12, 16, 20, 24, 28]⟩,
-  ⟨1, 1, 4, 3, 4, 4, false, false, 2, 48, 4, 0, 4, 4, 12, [0, 4, 8, 12, 16, 20, 24, 28, 32, 36, 40, 44]⟩,
-  ⟨1, 1, 4, 4, 4, 4, false, false, 2, 64, 4, 0, 4, 4, 16, [0, 4, 8, 12, 16, 20, 24, 28, 32, 36, 40, 44, 48, 52, 56, 60]⟩,
-  ⟨1, 1, 2, 2, 4, 4, false, false, 0, 16, 4, 0, 2, 4, 8, [0, 4, 8, 12]⟩,
-  ⟨1, 1, 2, 3, 4, 4, false, false, 0, 24, 4, 0, 2, 4, 12, [0, 4, 8, 12, 16, 20]⟩,
-  ⟨1, 1, 2, 4, 4, 4, false, false, 0, 32, 4, 0, 2, 4, 16, [0, 4, 8, 12, 16, 20, 24, 28]⟩,
-  ⟨1, 1, 3, 2, 4, 4, false, false, 0, 24, 4, 0, 3, 4, 8, [0, 4, 8, 12, 16, 20]⟩,
-  ⟨1, 1, 3, 3, 4, 4, false, false, 0, 36, 4, 0, 3, 4, 12, [0, 4, 8, 12, 16, 20, 24, 28, 32]⟩,
-  ⟨1, 1, 3, 4, 4, 4, false, false, 0, 48, 4, 0, 3, 4, 16, [0, 4, 8, 12, 16, 20, 24, 28, 32, 36, 40, 44]⟩,
-  ⟨1, 1, 4, 2, 4, 4, false, false, 0, 32, 4, 0, 4, 4, 8, [0, 4, 8, 12, 16, 20, 24, 28]⟩,
-  ⟨1, 1, 4, 3, 4, 4, false, false, 0, 48, 4, 0, 4, 4, 12, [0, 4, 8, 12, 16, 20, 24, 28, 32, 36, 40, 44]⟩,
-  ⟨1, 1, 4, 4, 4, 4, false, false, 0, 64, 4, 0, 4, 4, 16, [0, 4, 8, 12, 16, 20, 24, 28, 32, 36, 40, 44, 48, 52, 56, 60]⟩,
-  ⟨1, 1, 2, 2, 4, 4, false, false, 1, 16, 4, 0, 2, 4, 8, [0, 4, 8, 12]⟩,
-  ⟨1, 1, 2, 3, 4, 4, false, false, 1, 24, 4, 0, 2, 4, 12, [0, 4, 8, 12, 16, 20]⟩,
-  ⟨1, 1, 2, 4, 4, 4, false, false, 1, 32, 4, 0, 2, 4, 16, [0, 4, 8, 12, 16, 20, 24, 28]⟩,
-  ⟨1, 1, 3, 2, 4, 4, false, false, 1, 24, 4, 0, 3, 4, 8, [0, 4, 8, 12, 16, 20]⟩,
-  ⟨1, 1, 3, 3, 4, 4, false, false, 1, 36, 4, 0, 3, 4, 12, [0, 4, 8, 12, 16, 20, 24, 28, 32]⟩,
-  ⟨1, 1, 3, 4, 4, 4, false, false, 1, 48, 4, 0, 3, 4, 16, [0, 4, 8, 12, 16, 20, 24, 28, 32, 36, 40, 44]⟩,
-  ⟨1, 1, 4, 2, 4, 4, false, false, 1, 32, 4, 0, 4, 4, 8, [0, 4, 8, 12, 16, 20, 24, 28]⟩,
-  ⟨1, 1, 4, 3, 4, 4, false, false, 1, 48, 4, 0, 4, 4, 12, [0, 4, 8, 12, 16, 20, 24, 28, 32, 36, 40, 44]⟩,
-  ⟨1, 1, 4, 4, 4, 4, false, false, 1, 64, 4, 0, 4, 4, 16, [0, 4, 8, 12, 16, 20, 24, 28, 32, 36, 40, 44, 48, 52, 56, 60]⟩,
-  ⟨1, 1, 2, 2, 4, 4, false, false, 2, 16, 4, 0, 2, 4, 8, [0, 4, 8, 12]⟩,
-  ⟨1, 1, 2, 3, 4, 4, false, false, 2, 24, 4, 0, 2, 4, 12, [0, 4, 8, 12, 16, 20]⟩,
-  ⟨1, 1, 2, 4, 4, 4, false, false, 2, 32, 4, 0, 2, 4, 16, [0, 4, 8, 12, 16, 20, 24, 28]⟩,
-  ⟨1, 1, 3, 2, 4, 4, false, false, 2, 24, 4, 0, 3, 4, 8, [0, 4, 8, 12, 16, 20]⟩,
-  ⟨1, 1, 3, 3, 4, 4, false, false, 2, 36, 4, 0, 3, 4, 12, [0, 4, 8, 12, 16, 20, 24, 28, 32]⟩,
-  ⟨1, 1, 3, 4, 4, 4, false, false, 2, 48, 4, 0, 3, 4, 16, [0, 4, 8, 12, 16, 20, 24, 28, 32, 36, 40, 44]⟩,
-  ⟨1, 1, 4, 2, 4, 4, false, false, 2, 32, 4, 0, 4, 4, 8, [0, 4, 8, 12, 16, 20, 24, 28]⟩,
-  ⟨1, 1, 4, 3, 4, 4, false, false, 2, 48, 4, 0, 4, 4, 12, [0, 4, 8, 12, 16, 20, 24, 28, 32, 36, 40, 44]⟩,
-  ⟨1, 1, 4, 4, 4, 4, false, false, 2, 64, 4, 0, 4, 4, 16, [0, 4, 8, 12, 16, 20, 24, 28, 32, 36, 40, 44, 48, 52, 56, 60]⟩,
-  ⟨1, 2, 4, 1, 4, 4, true, false, 0, 16, 4, 0, 4, 4, 0, [0, 4, 8, 12]⟩,
-  ⟨1, 2, 4, 1, 4, 4, true, false, 1, 16, 4, 0, 4, 4, 0, [0, 4, 8, 12]⟩,
-  ⟨1, 2, 4, 1, 4, 4, true, false, 2, 16, 4, 0, 4, 4, 0, [0, 4, 8, 12]⟩,
-  ⟨1, 2, 4, 1, 8, 8, true, false, 0, 32, 8, 0, 4, 4, 0, [0, 8, 16, 24]⟩,
-  ⟨1, 2, 4, 1, 8, 8, true, false, 1, 32, 8, 0, 4, 4, 0, [0, 8, 16, 24]⟩,
-  ⟨1, 2, 4, 1, 8, 8, true, false, 2, 32, 8, 0, 4, 4, 0, [0, 8, 16, 24]⟩,
-  ⟨2, 0, 1, 1, 1, 1, false, false, 0, 1, 1, 0, 1, 4, 0, [0]⟩,
-  ⟨2, 0, 2, 1, 1, 1, false, false, 0, 2, 1, 0, 2, 4, 0, [0, 1]⟩,
-  ⟨2, 0, 3, 1, 1, 1, false, false, 0, 3, 1, 0, 3, 4, 0, [0, 1, 2]⟩,
-  ⟨2, 0, 4, 1, 1, 1, false, false, 0, 4, 1, 0, 4, 4, 0, [0, 1, 2, 3]⟩,
-  ⟨2, 0, 1, 1, 1, 1, false, false, 1, 1, 1, 0, 1, 4, 0, [0]⟩,
-  ⟨2, 0, 2, 1, 1, 1, false, false, 1, 2, 1, 0, 2, 4, 0, [0, 1]⟩,
-  ⟨2, 0, 3, 1, 1, 1, false, false, 1, 3, 1, 0, 3, 4, 0, [0, 1, 2]⟩,
-  ⟨2, 0, 4, 1, 1, 1, false, false, 1, 4, 1, 0, 4, 4, 0, [0, 1, 2, 3]⟩,
-  ⟨2, 0, 1, 1, 1, 1, false, false, 2, 1, 1, 0, 1, 4, 0, [0]⟩,
-  ⟨2, 0, 2, 1, 1, 1, false, false, 2, 2, 1, 0, 2, 4, 0, [0, 1]⟩,
-  ⟨2, 0, 3, 1, 1, 1, false, false, 2, 3, 1, 0, 3, 4, 0, [0, 1, 2]⟩,
-  ⟨2, 0, 4, 1, 1, 1, false, false, 2, 4, 1, 0, 4, 4, 0, [0, 1, 2, 3]⟩,
-  ⟨2, 0, 1, 1, 1, 1, false, false, 0, 1, 1, 0, 1, 4, 0, [0]⟩,
-  ⟨2, 0, 2, 1, 1, 1, false, false, 0, 2, 1, 0, 2, 4, 0, [0, 1]⟩,
-  ⟨2, 0, 3, 1, 1, 1, false, false, 0, 3, 1, 0, 3, 4, 0, [0, 1, 2]⟩,
-  ⟨2, 0, 4, 1, 1, 1, false, false, 0, 4, 1, 0, 4, 4, 0, [0, 1, 2, 3]⟩,
-  ⟨2, 0, 1, 1, 1, 1, false, false, 1, 1, 1, 0, 1, 4, 0, [0]⟩,
-  ⟨2, 0, 2, 1, 1, 1, false, false, 1, 2, 1, 0, 2, 4, 0, [0, 1]⟩,
-  ⟨2, 0, 3, 1, 1, 1, false, false, 1, 3, 1, 0, 3, 4, 0, [0, 1, 2]⟩,
-  ⟨2, 0, 4, 1, 1, 1, false, false, 1, 4, 1, 0, 4, 4, 0, [0, 1, 2, 3]⟩,
-  ⟨2, 0, 1, 1, 1, 1, false, false, 2, 1, 1, 0, 1, 4, 0, [0]⟩,
-  ⟨2, 0, 2, 1, 1, 1, false, false, 2, 2, 1, 0, 2, 4, 0, [0, 1]⟩,
-  ⟨2, 0, 3, 1, 1, 1, false, false, 2, 3, 1, 0, 3, 4, 0, [0, 1, 2]⟩,
-  ⟨2, 0, 4, 1, 1, 1, false, false, 2, 4, 1, 0, 4, 4, 0, [0, 1, 2, 3]⟩,
-  ⟨2, 0, 1, 1, 1, 1, false, false, 0, 1, 1, 0, 1, 4, 0, [0]⟩,
-  ⟨2, 0, 2, 1, 1, 1, false, false, 0, 2, 1, 0, 2, 4, 0, [0, 1]⟩,
-  ⟨2, 0, 3, 1, 1, 1, false, false, 0, 3, 1, 0, 3, 4, 0, [0, 1, 2]⟩,
-  ⟨2, 0, 4, 1, 1, 1, false, false, 0, 4, 1, 0, 4, 4, 0, [0, 1, 2, 3]⟩,
-  ⟨2, 0, 1, 1, 1, 1, false, false, 1, 1, 1, 0, 1, 4, 0, [0]⟩,
-  ⟨2, 0, 2, 1, 1, 1, false, false, 1, 2, 1, 0, 2, 4, 0, [0, 1]⟩,
-  ⟨2, 0, 3, 1, 1, 1, false, false, 1, 3, 1, 0, 3, 4, 0, [0, 1, 2]⟩,
-  ⟨2, 0, 4, 1, 1, 1, false, false, 1, 4, 1, 0, 4, 4, 0, [0, 1, 2, 3]⟩,
-  ⟨2, 0, 1, 1, 1, 1, false, false, 2, 1, 1, 0, 1, 4, 0, [0]⟩,
-  ⟨2, 0, 2, 1, 1, 1, false, false, 2, 2, 1, 0, 2, 4, 0, [0, 1]⟩,
-  ⟨2, 0, 3, 1, 1, 1, false, false, 2, 3, 1, 0, 3, 4, 0, [0, 1, 2]⟩,
-  ⟨2, 0, 4, 1, 1, 1, false, false, 2, 4, 1, 0, 4, 4, 0, [0, 1, 2, 3]⟩,
-  ⟨2, 0, 1, 1, 2, 2, false, false, 0, 2, 2, 0, 1, 4, 0, [0]⟩,
-  ⟨2, 0, 2, 1, 2, 2, false, false, 0, 4, 2, 0, 2, 4, 0, [0, 2]⟩,
-  ⟨2, 0, 3, 1, 2, 2, false, false, 0, 6, 2, 0, 3, 4, 0, [0, 2, 4]⟩,
-  ⟨2, 0, 4, 1, 2, 2, false, false, 0, 8, 2, 0, 4, 4, 0, [0, 2, 4, 6]⟩,
-  ⟨2, 0, 1, 1, 2, 2, false, false, 1, 2, 2, 0, 1, 4, 0, [0]⟩,
-  ⟨2, 0, 2, 1, 2, 2, false, false, 1, 4, 2, 0, 2, 4, 0, [0, 2]⟩,
-  ⟨2, 0, 3, 1, 2, 2, false, false, 1, 6, 2, 0, 3, 4, 0, [0, 2, 4]⟩,
-  ⟨2, 0, 4, 1, 2, 2, false, false, 1, 8, 2, 0, 4, 4, 0, [0, 2, 4, 6]⟩,
-  ⟨2, 0, 1, 1, 2, 2, false, false, 2, 2, 2, 0, 1, 4, 0, [0]⟩,
-  ⟨2, 0, 2, 1, 2, 2, false, false, 2, 4, 2, 0, 2, 4, 0, [0, 2]⟩,
-  ⟨2, 0, 3, 1, 2, 2, false, false, 2, 6, 2, 0, 3, 4, 0, [0, 2, 4]⟩,
-  ⟨2, 0, 4, 1, 2, 2, false, false, 2, 8, 2, 0, 4, 4, 0, [0, 2, 4, 6]⟩,
-  ⟨2, 0, 1, 1, 2, 2, false, false, 0, 2, 2, 0, 1, 4, 0, [0]⟩,
-  ⟨2, 0, 2, 1, 2, 2, false, false, 0, 4, 2, 0, 2, 4, 0, [0, 2]⟩,
-  ⟨2, 0, 3, 1, 2, 2, false, false, 0, 6, 2, 0, 3, 4, 0, [0, 2, 4]⟩,
-  ⟨2, 0, 4, 1, 2, 2, false, false, 0, 8, 2, 0, 4, 4, 0, [0, 2, 4, 6]⟩,
-  ⟨2, 0, 1, 1, 2, 2, false, false, 1, 2, 2, 0, 1, 4, 0, [0]⟩,
-  ⟨2, 0, 2, 1, 2, 2, false, false, 1, 4, 2, 0, 2, 4, 0, [0, 2]⟩,
-  ⟨2, 0, 3, 1, 2, 2, false, false, 1, 6, 2, 0, 3, 4, 0, [0, 2, 4]⟩,
-  ⟨2, 0, 4, 1, 2, 2, false, false, 1, 8, 2, 0, 4, 4, 0, [0, 2, 4, 6]⟩,
-  ⟨2, 0, 1, 1, 2, 2, false, false, 2, 2, 2, 0, 1, 4, 0, [0]⟩,
-  ⟨2, 0, 2, 1, 2, 2, false, false, 2, 4, 2, 0, 2, 4, 0, [0, 2]⟩,
-  ⟨2, 0, 3, 1, 2, 2, false, false, 2, 6, 2, 0, 3, 4, 0, [0, 2, 4]⟩,
-  ⟨2, 0, 4, 1, 2, 2, false, false, 2, 8, 2, 0, 4, 4, 0, [0, 2, 4, 6]⟩,
-  ⟨2, 0, 1, 1, 4, 4, false, false, 0, 4, 4, 0, 1, 4, 0, [0]⟩,
-  ⟨2, 0, 2, 1, 4, 4, false, false, 0, 8, 4, 0, 2, 4, 0, [0, 4]⟩,
-  ⟨2, 0, 3, 1, 4, 4, false, false, 0, 12, 4, 0, 3, 4, 0, [0, 4, 8]⟩,
-  ⟨2, 0, 4, 1, 4, 4, false, false, 0, 16, 4, 0, 4, 4, 0, [0, 4, 8, 12]⟩,
-  ⟨2, 0, 1, 1, 4, 4, false, false, 1, 4, 4, 0, 1, 4, 0, [0]⟩,
-  ⟨2, 0, 2, 1, 4, 4, false, false, 1, 8, 4, 0, 2, 4, 0, [0, 4]⟩,
-  ⟨2, 0, 3, 1, 4, 4, false, false, 1, 12, 4, 0, 3, 4, 0, [0, 4, 8]⟩,
-  ⟨2, 0, 4, 1, 4, 4, false, false, 1, 16, 4, 0, 4, 4, 0, [0, 4, 8, 12]⟩,
-  ⟨2, 0, 1, 1, 4, 4, false, false, 2, 4, 4, 0, 1, 4, 0, [0]⟩,
-  ⟨2, 0, 2, 1, 4, 4, false, false, 2, 8, 4, 0, 2, 4, 0, [0, 4]⟩,
-  ⟨2, 0, 3, 1, 4, 4, false, false, 2, 12, 4, 0, 3, 4, 0, [0, 4, 8]⟩,
-  ⟨2, 0, 4, 1, 4, 4, false, false, 2, 16, 4, 0, 4, 4, 0, [0, 4, 8, 12]⟩,
-  ⟨2, 0, 1, 1, 4, 4, false, false, 0, 4, 4, 0, 1, 4, 0, [0]⟩,
-  ⟨2, 0, 2, 1, 4, 4, false, false, 0, 8, 4, 0, 2, 4, 0, [0, 4]⟩,
-  ⟨2, 0, 3, 1, 4, 4, false, false, 0, 12, 4, 0, 3, 4, 0, [0, 4, 8]⟩,
-  ⟨2, 0, 4, 1, 4, 4, false, false, 0, 16, 4, 0, 4, 4, 0, [0, 4, 8, 12]⟩,
-  ⟨2, 0, 1, 1, 4, 4, false, false, 1, 4, 4, 0, 1, 4, 0, [0]⟩,
-  ⟨2, 0, 2, 1, 4, 4, false, false, 1, 8, 4, 0, 2, 4, 0, [0, 4]⟩,
-  ⟨2, 0, 3, 1, 4, 4, false, false, 1, 12, 4, 0, 3, 4, 0, [0, 4, 8]⟩,
-  ⟨2, 0, 4, 1, 4, 4, false, false, 1, 16, 4, 0, 4, 4, 0, [0, 4, 8, 12]⟩,
-  ⟨2, 0, 1, 1, 4, 4, false, false, 2, 4, 4, 0, 1, 4, 0, [0]⟩,
-  ⟨2, 0, 2, 1, 4, 4, false, false, 2, 8, 4, 0, 2, 4, 0, [0, 4]⟩,
-  ⟨2, 0, 3, 1, 4, 4, false, false, 2, 12, 4, 0, 3, 4, 0, [0, 4, 8]⟩,
-  ⟨2, 0, 4, 1, 4, 4, false, false, 2, 16, 4, 0, 4, 4, 0, [0, 4, 8, 12]⟩,
-  ⟨2, 0, 1, 1, 8, 8, false, false, 0, 8, 8, 0, 1, 4, 0, [0]⟩,
-  ⟨2, 0, 2, 1, 8, 8, false, false, 0, 16, 8, 0, 2, 4, 0, [0, 8]⟩,
-  ⟨2, 0, 3, 1, 8, 8, false, false, 0, 24, 8, 0, 3, 4, 0, [0, 8, 16]⟩,
-  ⟨2, 0, 4, 1, 8, 8, false, false, 0, 32, 8, 0, 4, 4, 0, [0, 8, 16, 24]⟩,
-  ⟨2, 0, 1, 1, 8, 8, false, false, 1, 8, 8, 0, 1, 4, 0, [0]⟩,
-  ⟨2, 0, 2, 1, 8, 8, false, false, 1, 16, 8, 0, 2, 4, 0, [0, 8]⟩,
-  ⟨2, 0, 3, 1, 8, 8, false, false, 1, 24, 8, 0, 3, 4, 0, [0, 8, 16]⟩,
-  ⟨2, 0, 4, 1, 8, 8, false, false, 1, 32, 8, 0, 4, 4, 0, [0, 8, 16, 24]⟩,
-  ⟨2, 0, 1, 1, 8, 8, false, false, 2, 8, 8, 0, 1, 4, 0, [0]⟩,
-  ⟨2, 0, 2, 1, 8, 8, false, false, 2, 16, 8, 0, 2, 4, 0, [0, 8]⟩,
-  ⟨2, 0, 3, 1, 8, 8, false, false, 2, 24, 8, 0, 3, 4, 0, [0, 8, 16]⟩,
-  ⟨2, 0, 4, 1, 8, 8, false, false, 2, 32, 8, 0, 4, 4, 0, [0, 8, 16, 24]⟩,
-  ⟨2, 0, 1, 1, 8, 8, false, false, 0, 8, 8, 0, 1, 4, 0, [0]⟩,
-  ⟨2, 0, 2, 1, 8, 8, false, false, 0, 16, 8, 0, 2, 4, 0, [0, 8]⟩,
-  ⟨2, 0, 3, 1, 8, 8, false, false, 0, 24, 8, 0, 3, 4, 0, [0, 8, 16]⟩,
-  ⟨2, 0, 4, 1, 8, 8, false, false, 0, 32, 8, 0, 4, 4, 0, [0, 8, 16, 24]⟩,
-  ⟨2, 0, 1, 1, 8, 8, false, false, 1, 8, 8, 0, 1, 4, 0, [0]⟩,
-  ⟨2, 0, 2, 1, 8, 8, false, false, 1, 16, 8, 0, 2, 4, 0, [0, 8]⟩,
-  ⟨2, 0, 3, 1, 8, 8, false, false, 1, 24, 8, 0, 3, 4, 0, [0, 8, 16]⟩,
-  ⟨2, 0, 4, 1, 8, 8, false, false, 1, 32, 8, 0, 4, 4, 0, [0, 8, 16, 24]⟩,
-  ⟨2, 0, 1, 1, 8, 8, false, false, 2, 8, 8, 0, 1, 4, 0, [0]⟩,
-  ⟨2, 0, 2, 1, 8, 8, false, false, 2, 16, 8, 0, 2, 4, 0, [0, 8]⟩,
-  ⟨2, 0, 3, 1, 8, 8, false, false, 2, 24, 8, 0, 3, 4, 0, [0, 8, 16]⟩,
-  ⟨2, 0, 4, 1, 8, 8, false, false, 2, 32, 8, 0, 4, 4, 0, [0, 8, 16, 24]⟩,
-  ⟨2, 0, 1, 1, 4, 4, true, false, 0, 4, 4, 0, 1, 4, 0, [0]⟩,
-  ⟨2, 0, 2, 1, 4, 4, true, false, 0, 8, 4, 0, 2, 4, 0, [0, 4]⟩,
-  ⟨2, 0, 3, 1, 4, 4, true, false, 0, 12, 4, 0, 3, 4, 0, [0, 4, 8]⟩,
-  ⟨2, 0, 4, 1, 4, 4, true, false, 0, 16, 4, 0, 4, 4, 0, [0, 4, 8, 12]⟩,
-  ⟨2, 0, 1, 1, 4, 4, true, false, 1, 4, 4, 0, 1, 4, 0, [0]⟩,
-  ⟨2, 0, 2, 1, 4, 4, true, false, 1, 8, 4, 0, 2, 4, 0, [0, 4]⟩,
-  ⟨2, 0, 3, 1, 4, 4, true, false, 1, 12, 4, 0, 3, 4, 0, [0, 4, 8]⟩,
-  ⟨2, 0, 4, 1, 4, 4, true, false, 1, 16, 4, 0, 4, 4, 0, [0, 4, 8, 12]⟩,
-  ⟨2, 0, 1, 1, 4, 4, true, false, 2, 4, 4, 0, 1, 4, 0, [0]⟩,
-  ⟨2, 0, 2, 1, 4, 4, true, false, 2, 8, 4, 0, 2, 4, 0, [0, 4]⟩,
-  ⟨2, 0, 3, 1, 4, 4, true, false, 2, 12, 4, 0, 3, 4, 0, [0, 4, 8]⟩,
-  ⟨2, 0, 4, 1, 4, 4, true, false, 2, 16, 4, 0, 4, 4, 0, [0, 4, 8, 12]⟩,
-  ⟨2, 0, 1, 1, 8, 8, true, false, 0, 8, 8, 0, 1, 4, 0, [0]⟩,
-  ⟨2, 0, 2, 1, 8, 8, true, false, 0, 16, 8, 0, 2, 4, 0, [0, 8]⟩,
-  ⟨2, 0, 3, 1, 8, 8, true, false, 0, 24, 8, 0, 3, 4, 0, [0, 8, 16]⟩,
-  ⟨2, 0, 4, 1, 8, 8, true, false, 0, 32, 8, 0, 4, 4, 0, [0, 8, 16, 24]⟩,
-  ⟨2, 0, 1, 1, 8, 8, true, false, 1, 8, 8, 0, 1, 4, 0, [0]⟩,
-  ⟨2, 0, 2, 1, 8, 8, true, false, 1, 16, 8, 0, 2, 4, 0, [0, 8]⟩,
-  ⟨2, 0, 3, 1, 8, 8, true, false, 1, 24, 8, 0, 3, 4, 0, [0, 8, 16]⟩,
-  ⟨2, 0, 4, 1, 8, 8, true, false, 1, 32, 8, 0, 4, 4, 0, [0, 8, 16, 24]⟩,
-  ⟨2, 0, 1, 1, 8, 8, true, false, 2, 8, 8, 0, 1, 4, 0, [0]⟩,
-  ⟨2, 0, 2, 1, 8, 8, true, false, 2, 16, 8, 0, 2, 4, 0, [0, 8]⟩,
-  ⟨2, 0, 3, 1, 8, 8, true, false, 2, 24, 8, 0, 3, 4, 0, [0, 8, 16]⟩,
-  ⟨2, 0, 4, 1, 8, 8, true, false, 2, 32, 8, 0, 4, 4, 0, [0, 8, 16, 24]⟩,
-  ⟨2, 1, 2, 2, 4, 4, true, false, 0, 16, 4, 0, 2, 4, 8, [0, 4, 8, 12]⟩,
-  ⟨2, 1, 2, 3, 4, 4, true, false, 0, 24, 4, 0, 2, 4, 12, [0, 4, 8, 12, 16, 20]⟩,
-  ⟨2, 1, 2, 4, 4, 4, true, false, 0, 32, 4, 0, 2, 4, 16, [0, 4, 8, 12, 16, 20, 24, 28]⟩,
-  ⟨2, 1, 3, 2, 4, 4, true, false, 0, 24, 4, 0, 3, 4, 8, [0, 4, 8, 12, 16, 20]⟩,
-  ⟨2, 1, 3, 3, 4, 4, true, false, 0, 36, 4, 0, 3, 4, 12, [0, 4, 8, 12, 16, 20, 24, 28, 32]⟩,
-  ⟨2, 1, 3, 4, 4, 4, true, false, 0, 48, 4, 0, 3, 4, 16, [0, 4, 8, 12, 16, 20, 24, 28, 32, 36, 40, 44]⟩,
-  ⟨2, 1, 4, 2, 4, 4, true, false, 0, 32, 4, 0, 4, 4, 8, [0, 4, 8, 12, 16, 20, 24, 28]⟩,
-  ⟨2, 1, 4, 3, 4, 4, true, false, 0, 48, 4, 0, 4, 4, 12, [0, 4, 8, 12, 16, 20, 24, 28, 32, 36, 40, 44]⟩,
-  ⟨2, 1, 4, 4, 4, 4, true, false, 0, 64, 4, 0, 4, 4, 16, [0, 4, 8, 12, 16, 20, 24, 28, 32, 36, 40, 44, 48, 52, 56, 60]⟩,
-  ⟨2, 1, 2, 2, 4, 4, true, false, 1, 16, 4, 0, 2, 4, 8, [0, 4, 8, 12]⟩,
-  ⟨2, 1, 2, 3, 4, 4, true, false, 1, 24, 4, 0, 2, 4, 12, [0, 4, 8, 12, 16, 20]⟩,
-  ⟨2, 1, 2, 4, 4, 4, true, false, 1, 32, 4, 0, 2, 4, 16, [0, 4, 8, 12, 16, 20, 24, 28]⟩,
-  ⟨2, 1, 3, 2, 4, 4, true, false, 1, 24, 4, 0, 3, 4, 8, [0, 4, 8, 12, 16, 20]⟩,
-  ⟨2, 1, 3, 3, 4, 4, true, false, 1, 36, 4, 0, 3, 4, 12, [0, 4, 8, 12, 16, 20, 24, 28, 32]⟩,
-  ⟨2, 1, 3, 4, 4, 4, true, false, 1, 48, 4, 0, 3, 4, 16, [0, 4, 8, 12, 16, 20, 24, 28, 32, 36, 40, 44]⟩,
-  ⟨2, 1, 4, 2, 4, 4, true, false, 1, 32, 4, 0, 4, 4, 8, [0, 4, 8, 12, 16, 20, 24, 28]⟩,
-  ⟨2, 1, 4, 3, 4, 4, true, false, 1, 48, 4, 0, 4, 4, 12, [0, 4, 8, 12, 16, 20, 24, 28, 32, 36, 40, 44]⟩,
-  ⟨2, 1, 4, 4, 4, 4, true, false, 1, 64, 4, 0, 4, 4, 16, [0, 4, 8, 12, 16, 20, 24, 28, 32, 36, 40, 44, 48, 52, 56, 60]⟩,
-  ⟨2, 1, 2, 2, 4, 4, true, false, 2, 16, 4, 0, 2, 4, 8, [0, 4, 8, 12]⟩,
-  ⟨2, 1, 2, 3, 4, 4, true, false, 2, 24, 4, 0, 2, 4, 12, [0, 4, 8, 12, 16, 20]⟩,
-  ⟨2, 1, 2, 4, 4, 4, true, false, 2, 32, 4, 0, 2, 4, 16, [0, 4, 8, 12, 16, 20, 24, 28]⟩,
-  ⟨2, 1, 3, 2, 4, 4, true, false, 2, 24, 4, 0, 3, 4, 8, [0, 4, 8, 12, 16, 20]⟩,
-  ⟨2, 1, 3, 3, 4, 4, true, false, 2, 36, 4, 0, 3, 4, 12, [0, 4, 8, 12, 16, 20, 24, 28, 32]⟩,
-  ⟨2, 1, 3, 4, 4, 4, true, false, 2, 48, 4, 0, 3, 4, 16, [0, 4, 8, 12, 16, 20, 24, 28, 32, 36, 40, 44]⟩,
-  ⟨2, 1, 4, 2, 4, 4, true, false, 2, 32, 4, 0, 4, 4, 8, [0, 4, 8, 12, 16, 20, 24, 28]⟩,
-  ⟨2, 1, 4, 3, 4, 4, true, false, 2, 48, 4, 0, 4, 4, 12, [0, 4, 8, 12, 16, 20, 24, 28, 32, 36, 40, 44]⟩,
-  ⟨2, 1, 4, 4, 4, 4, true, false, 2, 64, 4, 0, 4, 4, 16, [0, 4, 8, 12, 16, 20, 24, 28, 32, 36, 40, 44, 48, 52, 56, 60]⟩,
-  ⟨2, 1, 2, 2, 8, 8, true, false, 0, 32, 8, 0, 2, 4, 16, [0, 8, 16, 24]⟩,
-  ⟨2, 1, 2, 3, 8, 8, true, false, 0, 48, 8, 0, 2, 4, 24, [0, 8, 16, 24, 32, 40]⟩,
-  ⟨2, 1, 2, 4, 8, 8, true, false, 0, 64, 8, 0, 2, 4, 32, [0, 8, 16, 24, 32, 40, 48, 56]⟩,
-  ⟨2, 1, 3, 2, 8, 8, true, false, 0, 48, 8, 0, 3, 4, 16, [0, 8, 16, 24, 32, 40]⟩,
-  ⟨2, 1, 3, 3, 8, 8, true, false, 0, 72, 8, 0, 3, 4, 24, [0, 8, 16, 24, 32, 40, 48, 56, 64]⟩,
-  ⟨2, 1, 3, 4, 8, 8, true, false, 0, 96, 8, 0, 3, 4, 32, [0, 8, 16, 24, 32, 40, 48, 56, 64, 72, 80, 88]⟩,
-  ⟨2, 1, 4, 2, 8, 8, true, false, 0, 64, 8, 0, 4, 4, 16, [0, 8, 16, 24, 32, 40, 48, 56]⟩,
-  ⟨2, 1, 4, 3, 8, 8, true, false, 0, 96, 8, 0, 4, 4, 24, [0, 8, 16, 24, 32, 40, 48, 56, 64, 72, 80, 88]⟩,
-  ⟨2, 1, 4, 4, 8, 8, true, false, 0, 128, 8, 0, 4, 4, 32, [0, 8, 16, 24, 32, 40, 48, 56, 64, 72, 80, 88, 96, 104, 112, 120]⟩,
-  ⟨2, 1, 2, 2, 8, 8, true, false, 1, 32, 8, 0, 2, 4, 16, [0, 8, 16, 24]⟩,
-  ⟨2, 1, 2, 3, 8, 8, true, false, 1, 48, 8, 0, 2, 4, 24, [0, 8, 16, 24, 32, 40]⟩,
-  ⟨2, 1, 2, 4, 8, 8, true, false, 1, 64, 8, 0, 2, 4, 32, [0, 8, 16, 24, 32, 40, 48, 56]⟩,
-  ⟨2, 1, 3, 2, 8, 8, true, false, 1, 48, 8, 0, 3, 4, 16, [0, 8, 16, 24, 32, 40]⟩,
-  ⟨2, 1, 3, 3, 8, 8, true, false, 1, 72, 8, 0, 3, 4, 24, [0, 8, 16, 24, 32, 40, 48, 56, 64]⟩,
-  ⟨2, 1, 3, 4, 8, 8, true, false, 1, 96, 8, 0, 3, 4, 32, [0, 8, 16, 24, 32, 40, 48, 56, 64, 72, 80, 88]⟩,
-  ⟨2, 1, 4, 2, 8, 8, true, false, 1, 64, 8, 0, 4, 4, 16, [0, 8, 16, 24, 32, 40, 48, 56]⟩,
-  ⟨2, 1, 4, 3, 8, 8, true, false, 1, 96, 8, 0, 4, 4, 24, [0, 8, 16, 24, 32, 40, 48, 56, 64, 72, 80, 88]⟩,
-  ⟨2, 1, 4, 4, 8, 8, true, false, 1, 128, 8, 0, 4, 4, 32, [0, 8, 16, 24, 32, 40, 48, 56, 64, 72, 80, 88, 96, 104, 112, 120]⟩,
-  ⟨2, 1, 2, 2, 8, 8, true, false, 2, 32, 8, 0, 2, 4, 16, [0, 8, 16, 24]⟩,
-  ⟨2, 1, 2, 3, 8, 8, true, false, 2, 48, 8, 0, 2, 4, 24, [0, 8, 16, 24, 32, 40]⟩,
-  ⟨2, 1, 2, 4, 8, 8, true, false, 2, 64, 8, 0, 2, 4, 32, [0, 8, 16, 24, 32, 40, 48, 56]⟩,
-  ⟨2, 1, 3, 2, 8, 8, true, false, 2, 48, 8, 0, 3, 4, 16, [0, 8, 16, 24, 32, 40]⟩,
-  ⟨2, 1, 3, 3, 8, 8, true, false, 2, 72, 8, 0, 3, 4, 24, [0, 8, 16, 24, 32, 40, 48, 56, 64]⟩,
-  ⟨2, 1, 3, 4, 8, 8, true, false, 2, 96, 8, 0, 3, 4, 32, [0, 8, 16, 24, 32, 40, 48, 56, 64, 72, 80, 88]⟩,
-  ⟨2, 1, 4, 2, 8, 8, true, false, 2, 64, 8, 0, 4, 4, 16, [0, 8, 16, 24, 32, 40, 48, 56]⟩,
-  ⟨2, 1, 4, 3, 8, 8, true, false, 2, 96, 8, 0, 4, 4, 24, [0, 8, 16, 24, 32, 40, 48, 56, 64, 72, 80, 88]⟩,
-  ⟨2, 1, 4, 4, 8, 8, true, false, 2, 128, 8, 0, 4, 4, 32, [0, 8, 16, 24, 32, 40, 48, 56, 64, 72, 80, 88, 96, 104, 112, 120]⟩,
-  ⟨2, 1, 2, 2, 4, 4, false, false, 0, 16, 4, 0, 2, 4, 8, [0, 4, 8, 12]⟩,
-  ⟨2, 1, 2, 3, 4, 4, false, false, 0, 24, 4, 0, 2, 4, 12, [0, 4, 8, 12, 16, 20]⟩,
-  ⟨2, 1, 2, 4, 4, 4, false, false, 0, 32, 4, 0, 2, 4, 16, [0, 4, 8, 12, 16, 20, 24, 28]⟩,
-  ⟨2, 1, 3, 2, 4, 4, false, false, 0, 24, 4, 0, 3, 4, 8, [0, 4, 8, 12, 16, 20]⟩,
-  ⟨2, 1, 3, 3, 4, 4, false, false, 0, 36, 4, 0, 3, 4, 12, [0, 4, 8, 12, 16, 20, 24, 28, 32]⟩,
-  ⟨2, 1, 3, 4, 4, 4, false, false, 0, 48, 4, 0, 3, 4, 16, [0, 4, 8, 12, 16, 20, 24, 28, 32, 36, 40, 44]⟩,
-  ⟨2, 1, 4, 2, 4, 4, false, false, 0, 32, 4, 0, 4, 4, 8, [0, 4, 8, 12, 16, 20, 24, 28]⟩,
-  ⟨2, 1, 4, 3, 4, 4, false, false, 0, 48, 4, 0, 4, 4, 12, [0, 4, 8, 12, 16, 20, 24, 28, 32, 36, 40, 44]⟩,
-  ⟨2, 1, 4, 4, 4, 4, false, false, 0, 64, 4, 0, 4, 4, 16, [0, 4, 8, 12, 16, 20, 24, 28, 32, 36, 40, 44, 48, 52, 56, 60]⟩,
-  ⟨2, 1, 2, 2, 4, 4, false, false, 1, 16, 4, 0, 2, 4, 8, [0, 4, 8, 12]⟩,
-  ⟨2, 1, 2, 3, 4, 4, false, false, 1, 24, 4, 0, 2, 4, 12, [0, 4, 8, 12, 16, 20]⟩,
-  ⟨2, 1, 2, 4, 4, 4, false, false, 1, 32, 4, 0, 2, 4, 16, [0, 4, 8, 12, 16, 20, 24, 28]⟩,
-  ⟨2, 1, 3, 2, 4, 4, false, false, 1, 24, 4, 0, 3, 4, 8, [0, 4, 8, 12, 16, 20]⟩,
-  ⟨2, 1, 3, 3, 4, 4, false, false, 1, 36, 4, 0, 3, 4, 12, [0, 4, 8, 12, 16, 20, 24, 28, 32]⟩,
-  ⟨2, 1, 3, 4, 4, 4, false, false, 1, 48, 4, 0, 3, 4, 16, [0, 4, 8, 12, 16, 20, 24, 28, 32, 36, 40, 44]⟩,
-  ⟨2, 1, 4, 2, 4, 4, false, false, 1, 32, 4, 0, 4, 4, 8, [0, 4, 8, 12, 16, 20, 24, 28]⟩,
-  ⟨2, 1, 4, 3, 4, 4, false, false, 1, 48, 4, 0, 4, 4, 12, [0, 4, 8, 12, 16, 20, 24, 28, 32, 36, 40, 44]⟩,
-  ⟨2, 1, 4, 4, 4, 4, false, false, 1, 64, 4, 0, 4, 4, 16, [0, 4, 8, 12, 16, 20, 24, 28, 32, 36, 40, 44, 48, 52, 56, 60]⟩,
-  ⟨2, 1, 2, 2, 4, 4, false, false, 2, 16, 4, 0, 2, 4, 8, [0, 4, 8, 12]⟩,
-  ⟨2, 1, 2, 3, 4, 4, false, false, 2, 24, 4, 0, 2, 4, 12, [0, 4, 8, 12, 16, 20]⟩,
-  ⟨2, 1, 2, 4, 4, 4, false, false, 2, 32, 4, 0, 2, 4, 16, [0, 4, 8, 12, 16, 20, 24, 28]⟩,
-  ⟨2, 1, 3, 2, 4, 4, false, false, 2, 24, 4, 0, 3, 4, 8, [0, 4, 8, 12, 16, 20]⟩,
-  ⟨2, 1, 3, 3, 4, 4, false, false, 2, 36, 4, 0, 3, 4, 12, [0, 4, 8, 12, 16, 20, 24, 28, 32]⟩,
-  ⟨2, 1, 3, 4, 4, 4, false, false, 2, 48, 4, 0, 3, 4, 16, [0, 4, 8, 12, 16, 20, 24, 28, 32, 36, 40, 44]⟩,
-  ⟨2, 1, 4, 2, 4, 4, false, false, 2, 32, 4, 0, 4, 4, 8, [0, 4, 8, 12, 16, 20, 24, 28]⟩,
-  ⟨2, 1, 4, 3, 4, 4, false, false, 2, 48, 4, 0, 4, 4, 12, [0, 4, 8, 12, 16, 20, 24, 28, 32, 36, 40, 44]⟩,
-  ⟨2, 1, 4, 4, 4, 4, false, false, 2, 64, 4, 0, 4, 4, 16, [0, 4, 8, 12, 16, 20, 24, 28, 32, 36, 40, 44, 48, 52, 56, 60]⟩,
-  ⟨2, 1, 2, 2, 4, 4, false, false, 0, 16, 4, 0, 2, 4, 8, [0, 4, 8, 12]⟩,
-  ⟨2, 1, 2, 3, 4, 4, false, false, 0, 24, 4, 0, 2, 4, 12, [0, 4, 8, 12, 16, 20]⟩,
-  ⟨2, 1, 2, 4, 4, 4, false, false, 0, 32, 4, 0, 2, 4, 16, [0, 4, 8, 12, 16, 20, 24, 28]⟩,
-  ⟨2, 1, 3, 2, 4, 4, false, false, 0, 24, 4, 0, 3, 4, 8, [0, 4, 8, 12, 16, 20]⟩,
-  ⟨2, 1, 3, 3, 4, 4, false, false, 0, 36, 4, 0, 3, 4, 12, [0, 4, 8, 12, 16, 20, 24, 28, 32]⟩,
-  ⟨2, 1, 3, 4, 4, 4, false, false, 0, 48, 4, 0, 3, 4, 16, [0, 4, 8, 12, 16, 20, 24, 28, 32, 36, 40, 44]⟩,
-  ⟨2, 1, 4, 2, 4, 4, false, false, 0, 32, 4, 0, 4, 4, 8, [0, 4, 8, 12, 16, 20, 24, 28]⟩,
-  ⟨2, 1, 4, 3, 4, 4, false, false, 0, 48, 4, 0, 4, 4, 12, [0, 4, 8, 12, 16, 20, 24, 28, 32, 36, 40, 44]⟩,
-  ⟨2, 1, 4, 4, 4, 4, false, false, 0, 64, 4, 0, 4, 4, 16, [0, 4, 8, 12, 16, 20, 24, 28, 32, 36, 40, 44, 48, 52, 56, 60]⟩,
-  ⟨2, 1, 2, 2, 4, 4, false, false, 1, 16, 4, 0, 2, 4, 8, [0, 4, 8, 12]⟩,
-  ⟨2, 1, 2, 3, 4, 4, false, false, 1, 24, 4, 0, 2, 4, 12, [0, 4, 8, 12, 16, 20]⟩,
-  ⟨2, 1, 2, 4, 4, 4, false, false, 1, 32, 4, 0, 2, 4, 16, [0, 4, 8, 12, 16, 20, 24, 28]⟩,
-  ⟨2, 1, 3, 2, 4, 4, false, false, 1, 24, 4, 0, 3, 4, 8, [0, 4, 8, 12, 16, 20]⟩,
-  ⟨2, 1, 3, 3, 4, 4, false, false, 1, 36, 4, 0, 3, 4, 12, [0, 4, 8, 12, 16, 20, 24, 28, 32]⟩,
-  ⟨2, 1, 3, 4, 4, 4, false, false, 1, 48, 4, 0, 3, 4, 16, [0, 4, 8, 12, 16, 20, 24, 28, 32, 36, 40, 44]⟩,
-  ⟨2, 1, 4, 2, 4, 4, false, false, 1, 32, 4, 0, 4, 4, 8, [0, 4, 8, 12, 16, 20, 24, 28]⟩,
-  ⟨2, 1, 4, 3, 4, 4, false, false, 1, 48, 4, 0, 4, 4, 12, [0, 4, 8, 12, 16, 20, 24, 28, 32, 36, 40, 44]⟩,
-  ⟨2, 1, 4, 4, 4, 4, false, false, 1, 64, 4, 0, 4, 4, 16, [0, 4, 8, 12, 16, 20, 24, 28, 32, 36, 40, 44, 48, 52, 56, 60]⟩,
-  ⟨2, 1, 2, 2, 4, 4, false, false, 2, 16, 4, 0, 2, 4, 8, [0, 4, 8, 12]⟩,
-  ⟨2, 1, 2, 3, 4, 4, false, false, 2, 24, 4, 0, 2, 4, 12, [0, 4, 8, 12, 16, 20]⟩,
-  ⟨2, 1, 2, 4, 4, 4, false, false, 2, 32, 4, 0, 2, 4, 16, [0, 4, 8, 12, 16, 20, 24, 28]⟩,
-  ⟨2, 1, 3, 2, 4, 4, false, false, 2, 24, 4, 0, 3, 4, 8, [0, 4, 8, 12, 16, 20]⟩,
-  ⟨2, 1, 3, 3, 4, 4, false, false, 2, 36, 4, 0, 3, 4, 12, [0, 4, 8, 12, 16, 20, 24, 28, 32]⟩,
-  ⟨2, 1, 3, 4, 4, 4, false, false, 2, 48, 4, 0, 3, 4, 16, [0, 4, 8, 12, 16, 20, 24, 28, 32, 36, 40, 44]⟩,
-  ⟨2, 1, 4, 2, 4, 4, false, false, 2, 32, 4, 0, 4, 4, 8, [0, 4, 8, 12, 16, 20, 24, 28]⟩,
-  ⟨2, 1, 4, 3, 4, 4, false, false, 2, 48, 4, 0, 4, 4, 12, [0, 4, 8, 12, 16, 20, 24, 28, 32, 36, 40, 44]⟩,
-  ⟨2, 1, 4, 4, 4, 4, false, false, 2, 64, 4, 0, 4, 4, 16, [0, 4, 8, 12, 16, 20, 24, 28, 32, 36, 40, 44, 48, 52, 56, 60]⟩,
-  ⟨2, 2, 4, 1, 4, 4, true, false, 0, 16, 4, 0, 4, 4, 0, [0, 4, 8, 12]⟩,
-  ⟨2, 2, 4, 1, 4, 4, true, false, 1, 16, 4, 0, 4, 4, 0, [0, 4, 8, 12]⟩,
-  ⟨2, 2, 4, 1, 4, 4, true, false, 2, 16, 4, 0, 4, 4, 0, [0, 4, 8, 12]⟩,
-  ⟨2, 2, 4, 1, 8, 8, true, false, 0, 32, 8, 0, 4, 4, 0, [0, 8, 16, 24]⟩,
-  ⟨2, 2, 4, 1, 8, 8, true, false, 1, 32, 8, 0, 4, 4, 0, [0, 8, 16, 24]⟩,
-  ⟨2, 2, 4, 1, 8, 8, true, false, 2, 32, 8, 0, 4, 4, 0, [0, 8, 16, 24]⟩,
-  ⟨3, 0, 1, 1, 1, 1, false, false, 0, 1, 1, 0, 1, 4, 0, [0]⟩,
-  ⟨3, 0, 2, 1, 1, 1, false, false, 0, 2, 1, 0, 2, 4, 0, [0, 1]⟩,
-  ⟨3, 0, 3, 1, 1, 1, false, false, 0, 3, 1, 0, 3, 4, 0, [0, 1, 2]⟩,
-  ⟨3, 0, 4, 1, 1, 1, false, false, 0, 4, 1, 0, 4, 4, 0, [0, 1, 2, 3]⟩,
-  ⟨3, 0, 1, 1, 1, 1, false, false, 1, 1, 1, 0, 1, 4, 0, [0]⟩,
-  ⟨3, 0, 2, 1, 1, 1, false, false, 1, 2, 1, 0, 2, 4, 0, [0, 1]⟩,
-  ⟨3, 0, 3, 1, 1, 1, false, false, 1, 3, 1, 0, 3, 4, 0, [0, 1, 2]⟩,
-  ⟨3, 0, 4, 1, 1, 1, false, false, 1, 4, 1, 0, 4, 4, 0, [0, 1, 2, 3]⟩,
-  ⟨3, 0, 1, 1, 1, 1, false, false, 2, 1, 1, 0, 1, 4, 0, [0]⟩,
-  ⟨3, 0, 2, 1, 1, 1, false, false, 2, 2, 1, 0, 2, 4, 0, [0, 1]⟩,
-  ⟨3, 0, 3, 1, 1, 1, false, false, 2, 3, 1, 0, 3, 4, 0, [0, 1, 2]⟩,
-  ⟨3, 0, 4, 1, 1, 1, false, false, 2, 4, 1, 0, 4, 4, 0, [0, 1, 2, 3]⟩,
-  ⟨3, 0, 1, 1, 1, 1, false, false, 0, 1, 1, 0, 1, 4, 0, [0]⟩,
-  ⟨3, 0, 2, 1, 1, 1, false, false, 0, 2, 1, 0, 2, 4, 0, [0, 1]⟩,
-  ⟨3, 0, 3, 1, 1, 1, false, false, 0, 3, 1, 0, 3, 4, 0, [0, 1, 2]⟩,
-  ⟨3, 0, 4, 1, 1, 1, false, false, 0, 4, 1, 0, 4, 4, 0, [0, 1, 2, 3]⟩,
-  ⟨3, 0, 1, 1, 1, 1, false, false, 1, 1, 1, 0, 1, 4, 0, [0]⟩,
-  ⟨3, 0, 2, 1, 1, 1, false, false, 1, 2, 1, 0, 2, 4, 0, [0, 1]⟩,
-  ⟨3, 0, 3, 1, 1, 1, false, false, 1, 3, 1, 0, 3, 4, 0, [0, 1, 2]⟩,
-  ⟨3, 0, 4, 1, 1, 1, false, false, 1, 4, 1, 0, 4, 4, 0, [0, 1, 2, 3]⟩,
-  ⟨3, 0, 1, 1, 1, 1, false, false, 2, 1, 1, 0, 1, 4, 0, [0]⟩,
-  ⟨3, 0, 2, 1, 1, 1, false, false, 2, 2, 1, 0, 2, 4, 0, [0, 1]⟩,
-  ⟨3, 0, 3, 1, 1, 1, false, false, 2, 3, 1, 0, 3, 4, 0, [0, 1, 2]⟩,
-  ⟨3, 0, 4, 1, 1, 1, false, false, 2, 4, 1, 0, 4, 4, 0, [0, 1, 2, 3]⟩,
-  ⟨3, 0, 1, 1, 1, 1, false, false, 0, 1, 1, 0, 1, 4, 0, [0]⟩,
-  ⟨3, 0, 2, 1, 1, 1, false, false, 0, 2, 1, 0, 2, 4, 0, [0, 1]⟩,
-  ⟨3, 0, 3, 1, 1, 1, false, false, 0, 3, 1, 0, 3, 4, 0, [0, 1, 2]⟩,
-  ⟨3, 0, 4, 1, 1, 1, false, false, 0, 4, 1, 0, 4, 4, 0, [0, 1, 2, 3]⟩,
-  ⟨3, 0, 1, 1, 1, 1, false, false, 1, 1, 1, 0, 1, 4, 0, [0]⟩,
-  ⟨3, 0, 2, 1, 1, 1, false, false, 1, 2, 1, 0, 2, 4, 0, [0, 1]⟩,
-  ⟨3, 0, 3, 1, 1, 1, false, false, 1, 3, 1, 0, 3, 4, 0, [0, 1, 2]⟩,
-  ⟨3, 0, 4, 1, 1, 1, false, false, 1, 4, 1, 0, 4, 4, 0, [0, 1, 2, 3]⟩,
-  ⟨3, 0, 1, 1, 1, 1, false, false, 2, 1, 1, 0, 1, 4, 0, [0]⟩,
-  ⟨3, 0, 2, 1, 1, 1, false, false, 2, 2, 1, 0, 2, 4, 0, [0, 1]⟩,
-  ⟨3, 0, 3, 1, 1, 1, false, false, 2, 3, 1, 0, 3, 4, 0, [0, 1, 2]⟩,
-  ⟨3, 0, 4, 1, 1, 1, false, false, 2, 4, 1, 0, 4, 4, 0, [0, 1, 2, 3]⟩,
-  ⟨3, 0, 1, 1, 2, 2, false, false, 0, 2, 2, 0, 1, 4, 0, [0]⟩,
-  ⟨3, 0, 2, 1, 2, 2, false, false, 0, 4, 2, 0, 2, 4, 0, [0, 2]⟩,
-  ⟨3, 0, 3, 1, 2, 2, false, false, 0, 6, 2, 0, 3, 4, 0, [0, 2, 4]⟩,
-  ⟨3, 0, 4, 1, 2, 2, false, false, 0, 8, 2, 0, 4, 4, 0, [0, 2, 4, 6]⟩,
-  ⟨3, 0, 1, 1, 2, 2, false, false, 1, 2, 2, 0, 1, 4, 0, [0]⟩,
-  ⟨3, 0, 2, 1, 2, 2, false, false, 1, 4, 2, 0, 2, 4, 0, [0, 2]⟩,
-  ⟨3, 0, 3, 1, 2, 2, false, false, 1, 6, 2, 0, 3, 4, 0, [0, 2, 4]⟩,
-  ⟨3, 0, 4, 1, 2, 2, false, false, 1, 8, 2, 0, 4, 4, 0, [0, 2, 4, 6]⟩,
-  ⟨3, 0, 1, 1, 2, 2, false, false, 2, 2, 2, 0, 1, 4, 0, [0]⟩,
-  ⟨3, 0, 2, 1, 2, 2, false, false, 2, 4, 2, 0, 2, 4, 0, [0, 2]⟩,
-  ⟨3, 0, 3, 1, 2, 2, false, false, 2, 6, 2, 0, 3, 4, 0, [0, 2, 4]⟩,
-  ⟨3, 0, 4, 1, 2, 2, false, false, 2, 8, 2, 0, 4, 4, 0, [0, 2, 4, 6]⟩,
-  ⟨3, 0, 1, 1, 2, 2, false, false, 0, 2, 2, 0, 1, 4, 0, [0]⟩,
-  ⟨3, 0, 2, 1, 2, 2, false, false, 0, 4, 2, 0, 2, 4, 0, [0, 2]⟩,
-  ⟨3, 0, 3, 1, 2, 2, false, false, 0, 6, 2, 0, 3, 4, 0, [0, 2, 4]⟩,
-  ⟨3, 0, 4, 1, 2, 2, false, false, 0, 8, 2, 0, 4, 4, 0, [0, 2, 4, 6]⟩,
-  ⟨3, 0, 1, 1, 2, 2, false, false, 1, 2, 2, 0, 1, 4, 0, [0]⟩,
-  ⟨3, 0, 2, 1, 2, 2, false, false, 1, 4, 2, 0, 2, 4, 0, [0, 2]⟩,
-  ⟨3, 0, 3, 1, 2, 2, false, false, 1, 6, 2, 0, 3, 4, 0, [0, 2, 4]⟩,
-  ⟨3, 0, 4, 1, 2, 2, false, false, 1, 8, 2, 0, 4, 4, 0, [0, 2, 4, 6]⟩,
-  ⟨3, 0, 1, 1, 2, 2, false, false, 2, 2, 2, 0, 1, 4, 0, [0]⟩,
-  ⟨3, 0, 2, 1, 2, 2, false, false, 2, 4, 2, 0, 2, 4, 0, [0, 2]⟩,
-  ⟨3, 0, 3, 1, 2, 2, false, false, 2, 6, 2, 0, 3, 4, 0, [0, 2, 4]⟩,
-  ⟨3, 0, 4, 1, 2, 2, false, false, 2, 8, 2, 0, 4, 4, 0, [0, 2, 4, 6]⟩,
-  ⟨3, 0, 1, 1, 4, 4, false, false, 0, 4, 4, 0, 1, 4, 0, [0]⟩,
-  ⟨3, 0, 2, 1, 4, 4, false, false, 0, 8, 4, 0, 2, 4, 0, [0, 4]⟩,
-  ⟨3, 0, 3, 1, 4, 4, false, false, 0, 12, 4, 0, 3, 4, 0, [0, 4, 8]⟩,
-  ⟨3, 0, 4, 1, 4, 4, false, false, 0, 16, 4, 0, 4, 4, 0, [0, 4, 8, 12]⟩,
-  ⟨3, 0, 1, 1, 4, 4, false, false, 1, 4, 4, 0, 1, 4, 0, [0]⟩,
-  ⟨3, 0, 2, 1, 4, 4, false, false, 1, 8, 4, 0, 2, 4, 0, [0, 4]⟩,
-  ⟨3, 0, 3, 1, 4, 4, false, false, 1, 12, 4, 0, 3, 4, 0, [0, 4, 8]⟩,
-  ⟨3, 0, 4, 1, 4, 4, false, false, 1, 16, 4, 0, 4, 4, 0, [0, 4, 8, 12]⟩,
-  ⟨3, 0, 1, 1, 4, 4, false, false, 2, 4, 4, 0, 1, 4, 0, [0]⟩,
-  ⟨3, 0, 2, 1, 4, 4, false, false, 2, 8, 4, 0, 2, 4, 0, [0, 4]⟩,
-  ⟨3, 0, 3, 1, 4, 4, false, false, 2, 12, 4, 0, 3, 4, 0, [0, 4, 8]⟩,
-  ⟨3, 0, 4, 1, 4, 4, false, false, 2, 16, 4, 0, 4, 4, 0, [0, 4, 8, 12]⟩,
-  ⟨3, 0, 1, 1, 4, 4, false, false, 0, 4, 4, 0, 1, 4, 0, [0]⟩,
-  ⟨3, 0, 2, 1, 4, 4, false, false, 0, 8, 4, 0, 2, 4, 0, [0, 4]⟩,
-  ⟨3, 0, 3, 1, 4, 4, false, false, 0, 12, 4, 0, 3, 4, 0, [0, 4, 8]⟩,
-  ⟨3, 0, 4, 1, 4, 4, false, false, 0, 16, 4, 0, 4, 4, 0, [0, 4, 8, 12]⟩,
-  ⟨3, 0, 1, 1, 4, 4, false, false, 1, 4, 4, 0, 1, 4, 0, [0]⟩,
-  ⟨3, 0, 2, 1, 4, 4, false, false, 1, 8, 4, 0, 2, 4, 0, [0, 4]⟩,
-  ⟨3, 0, 3, 1, 4, 4, false, false, 1, 12, 4, 0, 3, 4, 0, [0, 4, 8]⟩,
-  ⟨3, 0, 4, 1, 4, 4, false, false, 1, 16, 4, 0, 4, 4, 0, [0, 4, 8, 12]⟩,
-  ⟨3, 0, 1, 1, 4, 4, false, false, 2, 4, 4, 0, 1, 4, 0, [0]⟩,
-  ⟨3, 0, 2, 1, 4, 4, false, false, 2, 8, 4, 0, 2, 4, 0, [0, 4]⟩,
-  ⟨3, 0, 3, 1, 4, 4, false, false, 2, 12, 4, 0, 3, 4, 0, [0, 4, 8]⟩,
-  ⟨3, 0, 4, 1, 4, 4, false, false, 2, 16, 4, 0, 4, 4, 0, [0, 4, 8, 12]⟩,
-  ⟨3, 0, 1, 1, 8, 8, false, false, 0, 8, 8, 0, 1, 4, 0, [0]⟩,
-  ⟨3, 0, 2, 1, 8, 8, false, false, 0, 16, 8, 0, 2, 4, 0, [0, 8]⟩,
-  ⟨3, 0, 3, 1, 8, 8, false, false, 0, 24, 8, 0, 3, 4, 0, [0, 8, 16]⟩,
-  ⟨3, 0, 4, 1, 8, 8, false, false, 0, 32, 8, 0, 4, 4, 0, [0, 8, 16, 24]⟩,
-  ⟨3, 0, 1, 1, 8, 8, false, false, 1, 8, 8, 0, 1, 4, 0, [0]⟩,
-  ⟨3, 0, 2, 1, 8, 8, false, false, 1, 16, 8, 0, 2, 4, 0, [0, 8]⟩,
-  ⟨3, 0, 3, 1, 8, 8, false, false, 1, 24, 8, 0, 3, 4, 0, [0, 8, 16]⟩,
-  ⟨3, 0, 4, 1, 8, 8, false, false, 1, 32, 8, 0, 4, 4, 0, [0, 8, 16, 24]⟩,
-  ⟨3, 0, 1, 1, 8, 8, false, false, 2, 8, 8, 0, 1, 4, 0, [0]⟩,
-  ⟨3, 0, 2, 1, 8, 8, false, false, 2, 16, 8, 0, 2, 4, 0, [0, 8]⟩,
-  ⟨3, 0, 3, 1, 8, 8, false, false, 2, 24, 8, 0, 3, 4, 0, [0, 8, 16]⟩,
-  ⟨3, 0, 4, 1, 8, 8, false, false, 2, 32, 8, 0, 4, 4, 0, [0, 8, 16, 24]⟩,
-  ⟨3, 0, 1, 1, 8, 8, false, false, 0, 8, 8, 0, 1, 4, 0, [0]⟩,
-  ⟨3, 0, 2, 1, 8, 8, false, false, 0, 16, 8, 0, 2, 4, 0, [0, 8]⟩,
-  ⟨3, 0, 3, 1, 8, 8, false, false, 0, 24, 8, 0, 3, 4, 0, [0, 8, 16]⟩,
-  ⟨3, 0, 4, 1, 8, 8, false, false, 0, 32, 8, 0, 4, 4, 0, [0, 8, 16, 24]⟩,
-  ⟨3, 0, 1, 1, 8, 8, false, false, 1, 8, 8, 0, 1, 4, 0, [0]⟩,
-  ⟨3, 0, 2, 1, 8, 8, false, false, 1, 16, 8, 0, 2, 4, 0, [0, 8]⟩,
-  ⟨3, 0, 3, 1, 8, 8, false, false, 1, 24, 8, 0, 3, 4, 0, [0, 8, 16]⟩,
-  ⟨3, 0, 4, 1, 8, 8, false, false, 1, 32, 8, 0, 4, 4, 0, [0, 8, 16, 24]⟩,
-  ⟨3, 0, 1, 1, 8, 8, false, false, 2, 8, 8, 0, 1, 4, 0, [0]⟩,
-  ⟨3, 0, 2, 1, 8, 8, false, false, 2, 16, 8, 0, 2, 4, 0, [0, 8]⟩,
-  ⟨3, 0, 3, 1, 8, 8, false, false, 2, 24, 8, 0, 3, 4, 0, [0, 8, 16]⟩,
-  ⟨3, 0, 4, 1, 8, 8, false, false, 2, 32, 8, 0, 4, 4, 0, [0, 8, 16, 24]⟩,
-  ⟨3, 0, 1, 1, 4, 4, true, false, 0, 4, 4, 0, 1, 4, 0, [0]⟩,
-  ⟨3, 0, 2, 1, 4, 4, true, false, 0, 8, 4, 0, 2, 4, 0, [0, 4]⟩,
-  ⟨3, 0, 3, 1, 4, 4, true, false, 0, 12, 4, 0, 3, 4, 0, [0, 4, 8]⟩,
-  ⟨3, 0, 4, 1, 4, 4, true, false, 0, 16, 4, 0, 4, 4, 0, [0, 4, 8, 12]⟩,
-  ⟨3, 0, 1, 1, 4, 4, true, false, 1, 4, 4, 0, 1, 4, 0, [0]⟩,
-  ⟨3, 0, 2, 1, 4, 4, true, false, 1, 8, 4, 0, 2, 4, 0, [0, 4]⟩,
-  ⟨3, 0, 3, 1, 4, 4, true, false, 1, 12, 4, 0, 3, 4, 0, [0, 4, 8]⟩,
-  ⟨3, 0, 4, 1, 4, 4, true, false, 1, 16, 4, 0, 4, 4, 0, [0, 4, 8, 12]⟩,
-  ⟨3, 0, 1, 1, 4, 4, true, false, 2, 4, 4, 0, 1, 4, 0, [0]⟩,
-  ⟨3, 0, 2, 1, 4, 4, true, false, 2, 8, 4, 0, 2, 4, 0, [0, 4]⟩,
-  ⟨3, 0, 3, 1, 4, 4, true, false, 2, 12, 4, 0, 3, 4, 0, [0, 4, 8]⟩,
-  ⟨3, 0, 4, 1, 4, 4, true, false, 2, 16, 4, 0, 4, 4, 0, [0, 4, 8, 12]⟩,
-  ⟨3, 0, 1, 1, 8, 8, true, false, 0, 8, 8, 0, 1, 4, 0, [0]⟩,
-  ⟨3, 0, 2, 1, 8, 8, true, false, 0, 16, 8, 0, 2, 4, 0, [0, 8]⟩,
-  ⟨3, 0, 3, 1, 8, 8, true, false, 0, 24, 8, 0, 3, 4, 0, [0, 8, 16]⟩,
-  ⟨3, 0, 4, 1, 8, 8, true, false, 0, 32, 8, 0, 4, 4, 0, [0, 8, 16, 24]⟩,
-  ⟨3, 0, 1, 1, 8, 8, true, false, 1, 8, 8, 0, 1, 4, 0, [0]⟩,
-  ⟨3, 0, 2, 1, 8, 8, true, false, 1, 16, 8, 0, 2, 4, 0, [0, 8]⟩,
-  ⟨3, 0, 3, 1, 8, 8, true, false, 1, 24, 8, 0, 3, 4, 0, [0, 8, 16]⟩,
-  ⟨3, 0, 4, 1, 8, 8, true, false, 1, 32, 8, 0, 4, 4, 0, [0, 8, 16, 24]⟩,
-  ⟨3, 0, 1, 1, 8, 8, true, false, 2, 8, 8, 0, 1, 4, 0, [0]⟩,
-  ⟨3, 0, 2, 1, 8, 8, true, false, 2, 16, 8, 0, 2, 4, 0, [0, 8]⟩,
-  ⟨3, 0, 3, 1, 8, 8, true, false, 2, 24, 8, 0, 3, 4, 0, [0, 8, 16]⟩,
-  ⟨3, 0, 4, 1, 8, 8, true, false, 2, 32, 8, 0, 4, 4, 0, [0, 8, 16, 24]⟩,
-  ⟨3, 1, 2, 2, 4, 4, true, false, 0, 16, 4, 0, 2, 4, 8, [0, 4, 8, 12]⟩,
-  ⟨3, 1, 2, 3, 4, 4, true, false, 0, 24, 4, 0, 2, 4, 12, [0, 4, 8, 12, 16, 20]⟩,
-  ⟨3, 1, 2, 4, 4, 4, true, false, 0, 32, 4, 0, 2, 4, 16, [0, 4, 8, 12, 16, 20, 24, 28]⟩,
-  ⟨3, 1, 3, 2, 4, 4, true, false, 0, 24, 4, 0, 3, 4, 8, [0, 4, 8, 12, 16, 20]⟩,
-  ⟨3, 1, 3, 3, 4, 4, true, false, 0, 36, 4, 0, 3, 4, 12, [0, 4, 8, 12, 16, 20, 24, 28, 32]⟩,
-  ⟨3, 1, 3, 4, 4, 4, true, false, 0, 48, 4, 0, 3, 4, 16, [0, 4, 8, 12, 16, 20, 24, 28, 32, 36, 40, 44]⟩,
-  ⟨3, 1, 4, 2, 4, 4, true, false, 0, 32, 4, 0, 4, 4, 8, [0, 4, 8, 12, 16, 20, 24, 28]⟩,
-  ⟨3, 1, 4, 3, 4, 4, true, false, 0, 48, 4, 0, 4, 4, 12, [0, 4, 8, 12, 16, 20, 24, 28, 32, 36, 40, 44]⟩,
-  ⟨3, 1, 4, 4, 4, 4, true, false, 0, 64, 4, 0, 4, 4, 16, [0, 4, 8, 12, 16, 20, 24, 28, 32, 36, 40, 44, 48, 52, 56, 60]⟩,
-  ⟨3, 1, 2, 2, 4, 4, true, false, 1, 16, 4, 0, 2, 4, 8, [0, 4, 8, 12]⟩,
-  ⟨3, 1, 2, 3, 4, 4, true, false, 1, 24, 4, 0, 2, 4, 12, [0, 4, 8, 12, 16, 20]⟩,
-  ⟨3, 1, 2, 4, 4, 4, true, false, 1, 32, 4, 0, 2, 4, 16, [0, 4, 8, 12, 16, 20, 24, 28]⟩,
-  ⟨3, 1, 3, 2, 4, 4, true, false, 1, 24, 4, 0, 3, 4, 8, [0, 4, 8, 12, 16, 20]⟩,
-  ⟨3, 1, 3, 3, 4, 4, true, false, 1, 36, 4, 0, 3, 4, 12, [0, 4, 8, 12, 16, 20, 24, 28, 32]⟩,
-  ⟨3, 1, 3, 4, 4, 4, true, false, 1, 48, 4, 0, 3, 4, 16, [0, 4, 8, 12, 16, 20, 24, 28, 32, 36, 40, 44]⟩,
-  ⟨3, 1, 4, 2, 4, 4, true, false, 1, 32, 4, 0, 4, 4, 8, [0, 4, 8, 12, 16, 20, 24, 28]⟩,
-  ⟨3, 1, 4, 3, 4, 4, true, false, 1, 48, 4, 0, 4, 4, 12, [0, 4, 8, 12, 16, 20, 24, 28, 32, 36, 40, 44]⟩,
-  ⟨3, 1, 4, 4, 4, 4, true, false, 1, 64, 4, 0, 4, 4, 16, [0, 4, 8, 12, 16, 20, 24, 28, 32, 36, 40, 44, 48, 52, 56, 60]⟩,
-  ⟨3, 1, 2, 2, 4, 4, true, false, 2, 16, 4, 0, 2, 4, 8, [0, 4, 8, 12]⟩,
-  ⟨3, 1, 2, 3, 4, 4, true, false, 2, 24, 4, 0, 2, 4, 12, [0, 4, 8, 12, 16, 20]⟩,
-  ⟨3, 1, 2, 4, 4, 4, true, false, 2, 32, 4, 0, 2, 4, 16, [0, 4, 8, 12, 16, 20, 24, 28]⟩,
-  ⟨3, 1, 3, 2, 4, 4, true, false, 2, 24, 4, 0, 3, 4, 8, [0, 4, 8, 12, 16, 20]⟩,
-  ⟨3, 1, 3, 3, 4, 4, true, false, 2, 36, 4, 0, 3, 4, 12, [0, 4, 8, 12, 16, 20, 24, 28, 32]⟩,
-  ⟨3, 1, 3, 4, 4, 4, true, false, 2, 48, 4, 0, 3, 4, 16, [0, 4, 8, 12, 16, 20, 24, 28, 32, 36, 40, 44]⟩,
-  ⟨3, 1, 4, 2, 4, 4, true, false, 2, 32, 4, 0, 4, 4, 8, [0, 4, 8, 12, 16, 20, 24, 28]⟩,
-  ⟨3, 1, 4, 3, 4, 4, true, false, 2, 48, 4, 0, 4, 4, 12, [0, 4, 8, 12, 16, 20, 24, 28, 32, 36, 40, 44]⟩,
-  ⟨3, 1, 4, 4, 4, 4, true, false, 2, 64, 4, 0, 4, 4, 16, [0, 4, 8, 12, 16, 20, 24, 28, 32, 36, 40, 44, 48, 52, 56, 60]⟩,
-  ⟨3, 1, 2, 2, 8, 8, true, false, 0, 32, 8, 0, 2, 4, 16, [0, 8, 16, 24]⟩,
-  ⟨3, 1, 2, 3, 8, 8, true, false, 0, 48, 8, 0, 2, 4, 24, [0, 8, 16, 24, 32, 40]⟩,
-  ⟨3, 1, 2, 4, 8, 8, true, false, 0, 64, 8, 0, 2, 4, 32, [0, 8, 16, 24, 32, 40, 48, 56]⟩,
-  ⟨3, 1, 3, 2, 8, 8, true, false, 0, 48, 8, 0, 3, 4, 16, [0, 8, 16, 24, 32, 40]⟩,
-  ⟨3, 1, 3, 3, 8, 8, true, false, 0, 72, 8, 0, 3, 4, 24, [0, 8, 16, 24, 32, 40, 48, 56, 64]⟩,
-  ⟨3, 1, 3, 4, 8, 8, true, false, 0, 96, 8, 0, 3, 4, 32, [0, 8, 16, 24, 32, 40, 48, 56, 64, 72, 80, 88]⟩,
-  ⟨3, 1, 4, 2, 8, 8, true, false, 0, 64, 8, 0, 4, 4, 16, [0, 8, 16, 24, 32, 40, 48, 56]⟩,
-  ⟨3, 1, 4, 3, 8, 8, true, false, 0, 96, 8, 0, 4, 4, 24, [0, 8, 16, 24, 32, 40, 48, 56, 64, 72, 80, 88]⟩,
-  ⟨3, 1, 4, 4, 8, 8, true, false, 0, 128, 8, 0, 4, 4, 32, [0, 8, 16, 24, 32, 40, 48, 56, 64, 72, 80, 88, 96, 104, 112, 120]⟩,
-  ⟨3, 1, 2, 2, 8, 8, true, false, 1, 32, 8, 0, 2, 4, 16, [0, 8, 16, 24]⟩,
-  ⟨3, 1, 2, 3, 8, 8, true, false, 1, 48, 8, 0, 2, 4, 24, [0, 8, 16, 24, 32, 40]⟩,
-  ⟨3, 1, 2, 4, 8, 8, true, false, 1, 64, 8, 0, 2, 4, 32, [0, 8, 16, 24, 32, 40, 48, 56]⟩,
-  ⟨3, 1, 3, 2, 8, 8, true, false, 1, 48, 8, 0, 3, 4, 16, [0, 8, 16, 24, 32, 40]⟩,
-  ⟨3, 1, 3, 3, 8, 8, true, false, 1, 72, 8, 0, 3, 4, 24, [0, 8, 16, 24, 32, 40, 48, 56, 64]⟩,
-  ⟨3, 1, 3, 4, 8, 8, true, false, 1, 96, 8, 0, 3, 4, 32, [0, 8, 16, 24, 32, 40, 48, 56, 64, 72, 80, 88]⟩,
-  ⟨3, 1, 4, 2, 8, 8, true, false, 1, 64, 8, 0, 4, 4, 16, [0, 8, 16, 24, 32, 40, 48, 56]⟩,
-  ⟨3, 1, 4, 3, 8, 8, true, false, 1, 96, 8, 0, 4, 4, 24, [0, 8, 16, 24, 32, 40, 48, 56, 64, 72, 80, 88]⟩,
-  ⟨3, 1, 4, 4, 8, 8, true, false, 1, 128, 8, 0, 4, 4, 32, [0, 8, 16, 24, 32, 40, 48, 56, 64, 72, 80, 88, 96, 104, 112, 120]⟩,
-  ⟨3, 1, 2, 2, 8, 8, true, false, 2, 32, 8, 0, 2, 4, 16, [0, 8, 16, 24]⟩,
-  ⟨3, 1, 2, 3, 8, 8, true, false, 2, 48, 8, 0, 2, 4, 24, [0, 8, 16, 24, 32, 40]⟩,
-  ⟨3, 1, 2, 4, 8, 8, true, false, 2, 64, 8, 0, 2, 4, 32, [0, 8, 16, 24, 32, 40, 48, 56]⟩,
-  ⟨3, 1, 3, 2, 8, 8, true, false, 2, 48, 8, 0, 3, 4, 16, [0, 8, 16, 24, 32, 40]⟩,
-  ⟨3, 1, 3, 3, 8, 8, true, false, 2, 72, 8, 0, 3, 4, 24, [0, 8, 16, 24, 32, 40, 48, 56, 64]⟩,
-  ⟨3, 1, 3, 4, 8, 8, true, false, 2, 96, 8, 0, 3, 4, 32, [0, 8, 16, 24, 32, 40, 48, 56, 64, 72, 80, 88]⟩,
-  ⟨3, 1, 4, 2, 8, 8, true, false, 2, 64, 8, 0, 4, 4, 16, [0, 8, 16, 24, 32, 40, 48, 56]⟩,
-  ⟨3, 1, 4, 3, 8, 8, true, false, 2, 96, 8, 0, 4, 4, 24, [0, 8, 16, 24, 32, 40, 48, 56, 64, 72, 80, 88]⟩,
-  ⟨3, 1, 4, 4, 8, 8, true, false, 2, 128, 8, 0, 4, 4, 32, [0, 8, 16, 24, 32, 40, 48, 56, 64, 72, 80, 88, 96, 104, 112, 120]⟩,
-  ⟨3, 1, 2, 2, 4, 4, false, false, 0, 16, 4, 0, 2, 4, 8, [0, 4, 8, 12]⟩,
-  ⟨3, 1, 2, 3, 4, 4, false, false, 0, 24, 4, 0, 2, 4, 12, [0, 4, 8, 12, 16, 20]⟩,
-  ⟨3, 1, 2, 4, 4, 4, false, false, 0, 32, 4, 0, 2, 4, 16, [0, 4, 8, 12, 16, 20, 24, 28]⟩,
-  ⟨3, 1, 3, 2, 4, 4, false, false, 0, 24, 4, 0, 3, 4, 8, [0, 4, 8, 12, 16, 20]⟩,
-  ⟨3, 1, 3, 3, 4, 4, false, false, 0, 36, 4, 0, 3, 4, 12, [0, 4, 8, 12, 16, 20, 24, 28, 32]⟩,
-  ⟨3, 1, 3, 4, 4, 4, false, false, 0, 48, 4, 0, 3, 4, 16, [0, 4, 8, 12, 16, 20, 24, 28, 32, 36, 40, 44]⟩,
-  ⟨3, 1, 4, 2, 4, 4, false, false, 0, 32, 4, 0, 4, 4, 8, [0, 4, 8, 12, 16, 20, 24, 28]⟩,
-  ⟨3, 1, 4, 3, 4, 4, false, false, 0, 48, 4, 0, 4, 4, 12, [0, 4, 8, 12, 16, 20, 24, 28, 32, 36, 40, 44]⟩,
-  ⟨3, 1, 4, 4, 4, 4, false, false, 0, 64, 4, 0, 4, 4, 16, [0, 4, 8, 12, 16, 20, 24, 28, 32, 36, 40, 44, 48, 52, 56, 60]⟩,
-  ⟨3, 1, 2, 2, 4, 4, false, false, 1, 16, 4, 0, 2, 4, 8, [0, 4, 8, 12]⟩,
-  ⟨3, 1, 2, 3, 4, 4, false, false, 1, 24, 4, 0, 2, 4, 12, [0, 4, 8, 12, 16, 20]⟩,
-  ⟨3, 1, 2, 4, 4, 4, false, false, 1, 32, 4, 0, 2, 4, 16, [0, 4, 8, 12, 16, 20, 24, 28]⟩,
-  ⟨3, 1, 3, 2, 4, 4, false, false, 1, 24, 4, 0, 3, 4, 8, [0, 4, 8, 12, 16, 20]⟩,
-  ⟨3, 1, 3, 3, 4, 4, false, false, 1, 36, 4, 0, 3, 4, 12, [0, 4, 8, 12, 16, 20, 24, 28, 32]⟩,
-  ⟨3, 1, 3, 4, 4, 4, false, false, 1, 48, 4, 0, 3, 4, 16, [0, 4, 8, 12, 16, 20, 24, 28, 32, 36, 40, 44]⟩,
-  ⟨3, 1, 4, 2, 4, 4, false, false, 1, 32, 4, 0, 4, 4, 8, [0, 4, 8, 12, 16, 20, 24, 28]⟩,
-  ⟨3, 1, 4, 3, 4, 4, false, false, 1, 48, 4, 0, 4, 4, 12, [0, 4, 8, 12, 16, 20, 24, 28, 32, 36, 40, 44]⟩,
-  ⟨3, 1, 4, 4, 4, 4, false, false, 1, 64, 4, 0, 4, 4, 16, [0, 4, 8, 12, 16, 20, 24, 28, 32, 36, 40, 44, 48, 52, 56, 60]⟩,
-  ⟨3, 1, 2, 2, 4, 4, false, false, 2, 16, 4, 0, 2, 4, 8, [0, 4, 8, 12]⟩,
-  ⟨3, 1, 2, 3, 4, 4, false, false, 2, 24, 4, 0, 2, 4, 12, [0, 4, 8, 12, 16, 20]⟩,
-  ⟨3, 1, 2, 4, 4, 4, false, false, 2, 32, 4, 0, 2, 4, 16, [0, 4, 8, 12, 16, 20, 24, 28]⟩,
-  ⟨3, 1, 3, 2, 4, 4, false, false, 2, 24, 4, 0, 3, 4, 8, [0, 4, 8, 12, 16, 20]⟩,
-  ⟨3, 1, 3, 3, 4, 4, false, false, 2, 36, 4, 0, 3, 4, 12, [0, 4, 8, 12, 16, 20, 24, 28, 32]⟩,
-  ⟨3, 1, 3, 4, 4, 4, false, false, 2, 48, 4, 0, 3, 4, 16, [0, 4, 8, 12, 16, 20, 24, 28, 32, 36, 40, 44]⟩,
-  ⟨3, 1, 4, 2, 4, 4, false, false, 2, 32, 4, 0, 4, 4, 8, [0, 4, 8, 12, 16, 20, 24, 28]⟩,
-  ⟨3, 1, 4, 3, 4, 4, false, false, 2, 48, 4, 0, 4, 4, 12, [0, 4, 8, 12, 16, 20, 24, 28, 32, 36, 40, 44]⟩,
-  ⟨3, 1, 4, 4, 4, 4, false, false, 2, 64, 4, 0, 4, 4, 16, [0, 4, 8, 12, 16, 20, 24, 28, 32, 36, 40, 44, 48, 52, 56, 60]⟩,
-  ⟨3, 1, 2, 2, 4, 4, false, false, 0, 16, 4, 0, 2, 4, 8, [0, 4, 8, 12]⟩,
-  ⟨3, 1, 2, 3, 4, 4, false, false, 0, 24, 4, 0, 2, 4, 12, [0, 4, 8, 12, 16, 20]⟩,
-  ⟨3, 1, 2, 4, 4, 4, false, false, 0, 32, 4, 0, 2, 4, 16, [0, 4, 8, 12, 16, 20, 24, 28]⟩,
-  ⟨3, 1, 3, 2, 4, 4, false, false, 0, 24, 4, 0, 3, 4, 8, [0, 4, 8, 12, 16, 20]⟩,
-  ⟨3, 1, 3, 3, 4, 4, false, false, 0, 36, 4, 0, 3, 4, 12, [0, 4, 8, 12, 16, 20, 24, 28, 32]⟩,
-  ⟨3, 1, 3, 4, 4, 4, false, false, 0, 48, 4, 0, 3, 4, 16, [0, 4, 8, 12, 16, 20, 24, 28, 32, 36, 40, 44]⟩,
-  ⟨3, 1, 4, 2, 4, 4, false, false, 0, 32, 4, 0, 4, 4, 8, [0, 4, 8, 12, 16, 20, 24, 28]⟩,
-  ⟨3, 1, 4, 3, 4, 4, false, false, 0, 48, 4, 0, 4, 4, 12, [0, 4, 8, 12, 16, 20, 24, 28, 32, 36, 40, 44]⟩,
-  ⟨3, 1, 4, 4, 4, 4, false, false, 0, 64, 4, 0, 4, 4, 16, [0, 4, 8, 12, 16, 20, 24, 28, 32, 36, 40, 44, 48, 52, 56, 60]⟩,
-  ⟨3, 1, 2, 2, 4, 4, false, false, 1, 16, 4, 0, 2, 4, 8, [0, 4, 8, 12]⟩,
-  ⟨3, 1, 2, 3, 4, 4, false, false, 1, 24, 4, 0, 2, 4, 12, [0, 4, 8, 12, 16, 20]⟩,
-  ⟨3, 1, 2, 4, 4, 4, false, false, 1, 32, 4, 0, 2, 4, 16, [0, 4, 8, 12, 16, 20, 24, 28]⟩,
-  ⟨3, 1, 3, 2, 4, 4, false, false, 1, 24, 4, 0, 3, 4, 8, [0, 4, 8, 12, 16, 20]⟩,
-  ⟨3, 1, 3, 3, 4, 4, false, false, 1, 36, 4, 0, 3, 4, 12, [0, 4, 8, 12, 16, 20, 24, 28, 32]⟩,
-  ⟨3, 1, 3, 4, 4, 4, false, false, 1, 48, 4, 0, 3, 4, 16, [0, 4, 8, 12, 16, 20, 24, 28, 32, 36, 40, 44]⟩,
-  ⟨3, 1, 4, 2, 4, 4, false, false, 1, 32, 4, 0, 4, 4, 8, [0, 4, 8, 12, 16, 20, 24, 28]⟩,
-  ⟨3, 1, 4, 3, 4, 4, false, false, 1, 48, 4, 0, 4, 4, 12, [0, 4, 8, 12, 16, 20, 24, 28, 32, 36, 40, 44]⟩,
-  ⟨3, 1, 4, 4, 4, 4, false, false, 1, 64, 4, 0, 4, 4, 16, [0, 4, 8, 12, 16, 20, 24, 28, 32, 36, 40, 44, 48, 52, 56, 60]⟩,
-  ⟨3, 1, 2, 2, 4, 4, false, false, 2, 16, 4, 0, 2, 4, 8, [0, 4, 8, 12]⟩,
-  ⟨3, 1, 2, 3, 4, 4, false, false, 2, 24, 4, 0, 2, 4, 12, [0, 4, 8, 12, 16, 20]⟩,
-  ⟨3, 1, 2, 4, 4, 4, false, false, 2, 32, 4, 0, 2, 4, 16, [0, 4, 8, 12, 16, 20, 24, 28]⟩,
-  ⟨3, 1, 3, 2, 4, 4, false, false, 2, 24, 4, 0, 3, 4, 8, [0, 4, 8, 12, 16, 20]⟩,
-  ⟨3, 1, 3, 3, 4, 4, false, false, 2, 36, 4, 0, 3, 4, 12, [0, 4, 8, 12, 16, 20, 24, 28, 32]⟩,
-  ⟨3, 1, 3, 4, 4, 4, false, false, 2, 48, 4, 0, 3, 4, 16, [0, 4, 8, 12, 16, 20, 24, 28, 32, 36, 40, 44]⟩,
-  ⟨3, 1, 4, 2, 4, 4, false, false, 2, 32, 4, 0, 4, 4, 8, [0, 4, 8, 12, 16, 20, 24, 28]⟩,
-  ⟨3, 1, 4, 3, 4, 4, false, false, 2, 48, 4, 0, 4, 4, 12, [0, 4, 8, 12, 16, 20, 24, 28, 32, 36, 40, 44]⟩,
-  ⟨3, 1, 4, 4, 4, 4, false, false, 2, 64, 4, 0, 4, 4, 16, [0, 4, 8, 12, 16, 20, 24, 28, 32, 36, 40, 44, 48, 52, 56, 60]⟩,
-  ⟨3, 2, 4, 1, 4, 4, true, false, 0, 16, 4, 0, 4, 4, 0, [0, 4, 8, 12]⟩,
-  ⟨3, 2, 4, 1, 4, 4, true, false, 1, 16, 4, 0, 4, 4, 0, [0, 4, 8, 12]⟩,
-  ⟨3, 2, 4, 1, 4, 4, true, false, 2, 16, 4, 0, 4, 4, 0, [0, 4, 8, 12]⟩,
-  ⟨3, 2, 4, 1, 8, 8, true, false, 0, 32, 8, 0, 4, 4, 0, [0, 8, 16, 24]⟩,
-  ⟨3, 2, 4, 1, 8, 8, true, false, 1, 32, 8, 0, 4, 4, 0, [0, 8, 16, 24]⟩,
-  ⟨3, 2, 4, 1, 8, 8, true, false, 2, 32, 8, 0, 4, 4, 0, [0, 8, 16, 24]⟩,
-  ⟨4, 0, 1, 1, 1, 1, false, false, 0, 1, 1, 0, 1, 4, 0, [0]⟩,
-  ⟨4, 0, 2, 1, 1, 1, false, false, 0, 2, 1, 0, 2, 4, 0, [0, 1]⟩,
-  ⟨4, 0, 3, 1, 1, 1, false, false, 0, 3, 1, 0, 3, 4, 0, [0, 1, 2]⟩,
-  ⟨4, 0, 4, 1, 1, 1, false, false, 0, 4, 1, 0, 4, 4, 0, [0, 1, 2, 3]⟩,
-  ⟨4, 0, 1, 1, 1, 1, false, false, 1, 1, 1, 0, 1, 4, 0, [0]⟩,
-  ⟨4, 0, 2, 1, 1, 1, false, false, 1, 2, 1, 0, 2, 4, 0, [0, 1]⟩,
-  ⟨4, 0, 3, 1, 1, 1, false, false, 1, 3, 1, 0, 3, 4, 0, [0, 1, 2]⟩,
-  ⟨4, 0, 4, 1, 1, 1, false, false, 1, 4, 1, 0, 4, 4, 0, [0, 1, 2, 3]⟩,
-  ⟨4, 0, 1, 1, 1, 1, false, false, 2, 1, 1, 0, 1, 4, 0, [0]⟩,
-  ⟨4, 0, 2, 1, 1, 1, false, false, 2, 2, 1, 0, 2, 4, 0, [0, 1]⟩,
-  ⟨4, 0, 3, 1, 1, 1, false, false, 2, 3, 1, 0, 3, 4, 0, [0, 1, 2]⟩,
-  ⟨4, 0, 4, 1, 1, 1, false, false, 2, 4, 1, 0, 4, 4, 0, [0, 1, 2, 3]⟩,
-  ⟨4, 0, 1, 1, 1, 1, false, false, 0, 1, 1, 0, 1, 4, 0, [0]⟩,
-  ⟨4, 0, 2, 1, 1, 1, false, false, 0, 2, 1, 0, 2, 4, 0, [0, 1]⟩,
-  ⟨4, 0, 3, 1, 1, 1, false, false, 0, 3, 1, 0, 3, 4, 0, [0, 1, 2]⟩,
-  ⟨4, 0, 4, 1, 1, 1, false, false, 0, 4, 1, 0, 4, 4, 0, [0, 1, 2, 3]⟩,
-  ⟨4, 0, 1, 1, 1, 1, false, false, 1, 1, 1, 0, 1, 4, 0, [0]⟩,
-  ⟨4, 0, 2, 1, 1, 1, false, false, 1, 2, 1, 0, 2, 4, 0, [0, 1]⟩,
-  ⟨4, 0, 3, 1, 1, 1, false, false, 1, 3, 1, 0, 3, 4, 0, [0, 1, 2]⟩,
-  ⟨4, 0, 4, 1, 1, 1, false, false, 1, 4, 1, 0, 4, 4, 0, [0, 1, 2, 3]⟩,
-  ⟨4, 0, 1, 1, 1, 1, false, false, 2, 1, 1, 0, 1, 4, 0, [0]⟩,
-  ⟨4, 0, 2, 1, 1, 1, false, false, 2, 2, 1, 0, 2, 4, 0, [0, 1]⟩,
-  ⟨4, 0, 3, 1, 1, 1, false, false, 2, 3, 1, 0, 3, 4, 0, [0, 1, 2]⟩,
-  ⟨4, 0, 4, 1, 1, 1, false, false, 2, 4, 1, 0, 4, 4, 0, [0, 1, 2, 3]⟩,
-  ⟨4, 0, 1, 1, 1, 1, false, false, 0, 1, 1, 0, 1, 4, 0, [0]⟩,
-  ⟨4, 0, 2, 1, 1, 1, false, false, 0, 2, 1, 0, 2, 4, 0, [0, 1]⟩,
-  ⟨4, 0, 3, 1, 1, 1, false, false, 0, 3, 1, 0, 3, 4, 0, [0, 1, 2]⟩,
-  ⟨4, 0, 4, 1, 1, 1, false, false, 0, 4, 1, 0, 4, 4, 0, [0, 1, 2, 3]⟩,
-  ⟨4, 0, 1, 1, 1, 1, false, false, 1, 1, 1, 0, 1, 4, 0, [0]⟩,
-  ⟨4, 0, 2, 1, 1, 1, false, false, 1, 2, 1, 0, 2, 4, 0, [0, 1]⟩,
-  ⟨4, 0, 3, 1, 1, 1, false, false, 1, 3, 1, 0, 3, 4, 0, [0, 1, 2]⟩,
-  ⟨4, 0, 4, 1, 1, 1, false, false, 1, 4, 1, 0, 4, 4, 0, [0, 1, 2, 3]⟩,
-  ⟨4, 0, 1, 1, 1, 1, false, false, 2, 1, 1, 0, 1, 4, 0, [0]⟩,
-  ⟨4, 0, 2, 1, 1, 1, false, false, 2, 2, 1, 0, 2, 4, 0, [0, 1]⟩,
-  ⟨4, 0, 3, 1, 1, 1, false, false, 2, 3, 1, 0, 3, 4, 0, [0, 1, 2]⟩,
-  ⟨4, 0, 4, 1, 1, 1, false, false, 2, 4, 1, 0, 4, 4, 0, [0, 1, 2, 3]⟩,
-  ⟨4, 0, 1, 1, 2, 2, false, false, 0, 2, 2, 0, 1, 4, 0, [0]⟩,
-  ⟨4, 0, 2, 1, 2, 2, false, false, 0, 4, 2, 0, 2, 4, 0, [0, 2]⟩,
-  ⟨4, 0, 3, 1, 2, 2, false, false, 0, 6, 2, 0, 3, 4, 0, [0, 2, 4]⟩,
-  ⟨4, 0, 4, 1, 2, 2, false, false, 0, 8, 2, 0, 4, 4, 0, [0, 2, 4, 6]⟩,
-  ⟨4, 0, 1, 1, 2, 2, false, false, 1, 2, 2, 0, 1, 4, 0, [0]⟩,
-  ⟨4, 0, 2, 1, 2, 2, false, false, 1, 4, 2, 0, 2, 4, 0, [0, 2]⟩,
-  ⟨4, 0, 3, 1, 2, 2, false, false, 1, 6, 2, 0, 3, 4, 0, [0, 2, 4]⟩,
-  ⟨4, 0, 4, 1, 2, 2, false, false, 1, 8, 2, 0, 4, 4, 0, [0, 2, 4, 6]⟩,
-  ⟨4, 0, 1, 1, 2, 2, false, false, 2, 2, 2, 0, 1, 4, 0, [0]⟩,
-  ⟨4, 0, 2, 1, 2, 2, false, false, 2, 4, 2, 0, 2, 4, 0, [0, 2]⟩,
-  ⟨4, 0, 3, 1, 2, 2, false, false, 2, 6, 2, 0, 3, 4, 0, [0, 2, 4]⟩,
-  ⟨4, 0, 4, 1, 2, 2, false, false, 2, 8, 2, 0, 4, 4, 0, [0, 2, 4, 6]⟩,
-  ⟨4, 0, 1, 1, 2, 2, false, false, 0, 2, 2, 0, 1, 4, 0, [0]⟩,
-  ⟨4, 0, 2, 1, 2, 2, false, false, 0, 4, 2, 0, 2, 4, 0, [0, 2]⟩,
-  ⟨4, 0, 3, 1, 2, 2, false, false, 0, 6, 2, 0, 3, 4, 0, [0, 2, 4]⟩,
-  ⟨4, 0, 4, 1, 2, 2, false, false, 0, 8, 2, 0, 4, 4, 0, [0, 2, 4, 6]⟩,
-  ⟨4, 0, 1, 1, 2, 2, false, false, 1, 2, 2, 0, 1, 4, 0, [0]⟩,
-  ⟨4, 0, 2, 1, 2, 2, false, false, 1, 4, 2, 0, 2, 4, 0, [0, 2]⟩,
-  ⟨4, 0, 3, 1, 2, 2, false, false, 1, 6, 2, 0, 3, 4, 0, [0, 2, 4]⟩,
-  ⟨4, 0, 4, 1, 2, 2, false, false, 1, 8, 2, 0, 4, 4, 0, [0, 2, 4, 6]⟩,
-  ⟨4, 0, 1, 1, 2, 2, false, false, 2, 2, 2, 0, 1, 4, 0, [0]⟩,
-  ⟨4, 0, 2, 1, 2, 2, false, false, 2, 4, 2, 0, 2, 4, 0, [0, 2]⟩,
-  ⟨4, 0, 3, 1, 2, 2, false, false, 2, 6, 2, 0, 3, 4, 0, [0, 2, 4]⟩,
-  ⟨4, 0, 4, 1, 2, 2, false, false, 2, 8, 2, 0, 4, 4, 0, [0, 2, 4, 6]⟩,
-  ⟨4, 0, 1, 1, 4, 4, false, false, 0, 4, 4, 0, 1, 4, 0, [0]⟩,
-  ⟨4, 0, 2, 1, 4, 4, false, false, 0, 8, 4, 0, 2, 4, 0, [0, 4]⟩,
-  ⟨4, 0, 3, 1, 4, 4, false, false, 0, 12, 4, 0, 3, 4, 0, [0, 4, 8]⟩,
-  ⟨4, 0, 4, 1, 4, 4, false, false, 0, 16, 4, 0, 4, 4, 0, [0, 4, 8, 12]⟩,
-  ⟨4, 0, 1, 1, 4, 4, false, false, 1, 4, 4, 0, 1, 4, 0, [0]⟩,
-  ⟨4, 0, 2, 1, 4, 4, false, false, 1, 8, 4, 0, 2, 4, 0, [0, 4]⟩,
-  ⟨4, 0, 3, 1, 4, 4, false, false, 1, 12, 4, 0, 3, 4, 0, [0, 4, 8]⟩,
-  ⟨4, 0, 4, 1, 4, 4, false, false, 1, 16, 4, 0, 4, 4, 0, [0, 4, 8, 12]⟩,
-  ⟨4, 0, 1, 1, 4, 4, false, false, 2, 4, 4, 0, 1, 4, 0, [0]⟩,
-  ⟨4, 0, 2, 1, 4, 4, false, false, 2, 8, 4, 0, 2, 4, 0, [0, 4]⟩,
-  ⟨4, 0, 3, 1, 4, 4, false, false, 2, 12, 4, 0, 3, 4, 0, [0, 4, 8]⟩,
-  ⟨4, 0, 4, 1, 4, 4, false, false, 2, 16, 4, 0, 4, 4, 0, [0, 4, 8, 12]⟩,
-  ⟨4, 0, 1, 1, 4, 4, false, false, 0, 4, 4, 0, 1, 4, 0, [0]⟩,
-  ⟨4, 0, 2, 1, 4, 4, false, false, 0, 8, 4, 0, 2, 4, 0, [0, 4]⟩,
-  ⟨4, 0, 3, 1, 4, 4, false, false, 0, 12, 4, 0, 3, 4, 0, [0, 4, 8]⟩,
-  ⟨4, 0, 4, 1, 4, 4, false, false, 0, 16, 4, 0, 4, 4, 0, [0, 4, 8, 12]⟩,
-  ⟨4, 0, 1, 1, 4, 4, false, false, 1, 4, 4, 0, 1, 4, 0, [0]⟩,
-  ⟨4, 0, 2, 1, 4, 4, false, false, 1, 8, 4, 0, 2, 4, 0, [0, 4]⟩,
-  ⟨4, 0, 3, 1, 4, 4, false, false, 1, 12, 4, 0, 3, 4, 0, [0, 4, 8]⟩,
-  ⟨4, 0, 4, 1, 4, 4, false, false, 1, 16, 4, 0, 4, 4, 0, [0, 4, 8, 12]⟩,
-  ⟨4, 0, 1, 1, 4, 4, false, false, 2, 4, 4, 0, 1, 4, 0, [0]⟩,
-  ⟨4, 0, 2, 1, 4, 4, false, false, 2, 8, 4, 0, 2, 4, 0, [0, 4]⟩,
-  ⟨4, 0, 3, 1, 4, 4, false, false, 2, 12, 4, 0, 3, 4, 0, [0, 4, 8]⟩,
-  ⟨4, 0, 4, 1, 4, 4, false, false, 2, 16, 4, 0, 4, 4, 0, [0, 4, 8, 12]⟩,
-  ⟨4, 0, 1, 1, 8, 8, false, false, 0, 8, 8, 0, 1, 4, 0, [0]⟩,
-  ⟨4, 0, 2, 1, 8, 8, false, false, 0, 16, 8, 0, 2, 4, 0, [0, 8]⟩,
-  ⟨4, 0, 3, 1, 8, 8, false, false, 0, 24, 8, 0, 3, 4, 0, [0, 8, 16]⟩,
-  ⟨4, 0, 4, 1, 8, 8, false, false, 0, 32, 8, 0, 4, 4, 0, [0, 8, 16, 24]⟩,
-  ⟨4, 0, 1, 1, 8, 8, false, false, 1, 8, 8, 0, 1, 4, 0, [0]⟩,
-  ⟨4, 0, 2, 1, 8, 8, false, false, 1, 16, 8, 0, 2, 4, 0, [0, 8]⟩,
-  ⟨4, 0, 3, 1, 8, 8, false, false, 1, 24, 8, 0, 3, 4, 0, [0, 8, 16]⟩,
-  ⟨4, 0, 4, 1, 8, 8, false, false, 1, 32, 8, 0, 4, 4, 0, [0, 8, 16, 24]⟩,
-  ⟨4, 0, 1, 1, 8, 8, false, false, 2, 8, 8, 0, 1, 4, 0, [0]⟩,
-  ⟨4, 0, 2, 1, 8, 8, false, false, 2, 16, 8, 0, 2, 4, 0, [0, 8]⟩,
-  ⟨4, 0, 3, 1, 8, 8, false, false, 2, 24, 8, 0, 3, 4, 0, [0, 8, 16]⟩,
-  ⟨4, 0, 4, 1, 8, 8, false, false, 2, 32, 8, 0, 4, 4, 0, [0, 8, 16, 24]⟩,
-  ⟨4, 0, 1, 1, 8, 8, false, false, 0, 8, 8, 0, 1, 4, 0, [0]⟩,
-  ⟨4, 0, 2, 1, 8, 8, false, false, 0, 16, 8, 0, 2, 4, 0, [0, 8]⟩,
-  ⟨4, 0, 3, 1, 8, 8, false, false, 0, 24, 8, 0, 3, 4, 0, [0, 8, 16]⟩,
-  ⟨4, 0, 4, 1, 8, 8, false, false, 0, 32, 8, 0, 4, 4, 0, [0, 8, 16, 24]⟩,
-  ⟨4, 0, 1, 1, 8, 8, false, false, 1, 8, 8, 0, 1, 4, 0, [0]⟩,
-  ⟨4, 0, 2, 1, 8, 8, false, false, 1, 16, 8, 0, 2, 4, 0, [0, 8]⟩,
-  ⟨4, 0, 3, 1, 8, 8, false, false, 1, 24, 8, 0, 3, 4, 0, [0, 8, 16]⟩,
-  ⟨4, 0, 4, 1, 8, 8, false, false, 1, 32, 8, 0, 4, 4, 0, [0, 8, 16, 24]⟩,
-  ⟨4, 0, 1, 1, 8, 8, false, false, 2, 8, 8, 0, 1, 4, 0, [0]⟩,
-  ⟨4, 0, 2, 1, 8, 8, false, false, 2, 16, 8, 0, 2, 4, 0, [0, 8]⟩,
-  ⟨4, 0, 3, 1, 8, 8, false, false, 2, 24, 8, 0, 3, 4, 0, [0, 8, 16]⟩,
-  ⟨4, 0, 4, 1, 8, 8, false, false, 2, 32, 8, 0, 4, 4, 0, [0, 8, 16, 24]⟩,
-  ⟨4, 0, 1, 1, 4, 4, true, false, 0, 4, 4, 0, 1, 4, 0, [0]⟩,
-  ⟨4, 0, 2, 1, 4, 4, true, false, 0, 8, 4, 0, 2, 4, 0, [0, 4]⟩,
-  ⟨4, 0, 3, 1, 4, 4, true, false, 0, 12, 4, 0, 3, 4, 0, [0, 4, 8]⟩,
-  ⟨4, 0, 4, 1, 4, 4, true, false, 0, 16, 4, 0, 4, 4, 0, [0, 4, 8, 12]⟩,
-  ⟨4, 0, 1, 1, 4, 4, true, false, 1, 4, 4, 0, 1, 4, 0, [0]⟩,
-  ⟨4, 0, 2, 1, 4, 4, true, false, 1, 8, 4, 0, 2, 4, 0, [0, 4]⟩,
-  ⟨4, 0, 3, 1, 4, 4, true, false, 1, 12, 4, 0, 3, 4, 0, [0, 4, 8]⟩,
-  ⟨4, 0, 4, 1, 4, 4, true, false, 1, 16, 4, 0, 4, 4, 0, [0, 4, 8, 12]⟩,
-  ⟨4, 0, 1, 1, 4, 4, true, false, 2, 4, 4, 0, 1, 4, 0, [0]⟩,
-  ⟨4, 0, 2, 1, 4, 4, true, false, 2, 8, 4, 0, 2, 4, 0, [0, 4]⟩,
-  ⟨4, 0, 3, 1, 4, 4, true, false, 2, 12, 4, 0, 3, 4, 0, [0, 4, 8]⟩,
-  ⟨4, 0, 4, 1, 4, 4, true, false, 2, 16, 4, 0, 4, 4, 0, [0, 4, 8, 12]⟩,
-  ⟨4, 0, 1, 1, 8, 8, true, false, 0, 8, 8, 0, 1, 4, 0, [0]⟩,
-  ⟨4, 0, 2, 1, 8, 8, true, false, 0, 16, 8, 0, 2, 4, 0, [0, 8]⟩,
-  ⟨4, 0, 3, 1, 8, 8, true, false, 0, 24, 8, 0, 3, 4, 0, [0, 8, 16]⟩,
-  ⟨4, 0, 4, 1, 8, 8, true, false, 0, 32, 8, 0, 4, 4, 0, [0, 8, 16, 24]⟩,
-  ⟨4, 0, 1, 1, 8, 8, true, false, 1, 8, 8, 0, 1, 4, 0, [0]⟩,
-  ⟨4, 0, 2, 1, 8, 8, true, false, 1, 16, 8, 0, 2, 4, 0, [0, 8]⟩,
-  ⟨4, 0, 3, 1, 8, 8, true, false, 1, 24, 8, 0, 3, 4, 0, [0, 8, 16]⟩,
-  ⟨4, 0, 4, 1, 8, 8, true, false, 1, 32, 8, 0, 4, 4, 0, [0, 8, 16, 24]⟩,
-  ⟨4, 0, 1, 1, 8, 8, true, false, 2, 8, 8, 0, 1, 4, 0, [0]⟩,
-  ⟨4, 0, 2, 1, 8, 8, true, false, 2, 16, 8, 0, 2, 4, 0, [0, 8]⟩,
-  ⟨4, 0, 3, 1, 8, 8, true, false, 2, 24, 8, 0, 3, 4, 0, [0, 8, 16]⟩,
-  ⟨4, 0, 4, 1, 8, 8, true, false, 2, 32, 8, 0, 4, 4, 0, [0, 8, 16, 24]⟩,
-  ⟨4, 1, 2, 2, 4, 4, true, false, 0, 16, 4, 0, 2, 4, 8, [0, 4, 8, 12]⟩,
-  ⟨4, 1, 2, 3, 4, 4, true, false, 0, 24, 4, 0, 2, 4, 12, [0, 4, 8, 12, 16, 20]⟩,
-  ⟨4, 1, 2, 4, 4, 4, true, false, 0, 32, 4, 0, 2, 4, 16, [0, 4, 8, 12, 16, 20, 24, 28]⟩,
-  ⟨4, 1, 3, 2, 4, 4, true, false, 0, 24, 4, 0, 3, 4, 8, [0, 4, 8, 12, 16, 20]⟩,
-  ⟨4, 1, 3, 3, 4, 4, true, false, 0, 36, 4, 0, 3, 4, 12, [0, 4, 8, 12, 16, 20, 24, 28, 32]⟩,
-  ⟨4, 1, 3, 4, 4, 4, true, false, 0, 48, 4, 0, 3, 4, 16, [0, 4, 8, 12, 16, 20, 24, 28, 32, 36, 40, 44]⟩,
-  ⟨4, 1, 4, 2, 4, 4, true, false, 0, 32, 4, 0, 4, 4, 8, [0, 4, 8, 12, 16, 20, 24, 28]⟩,
-  ⟨4, 1, 4, 3, 4, 4, true, false, 0, 48, 4, 0, 4, 4, 12, [0, 4, 8, 12, 16, 20, 24, 28, 32, 36, 40, 44]⟩,
-  ⟨4, 1, 4, 4, 4, 4, true, false, 0, 64, 4, 0, 4, 4, 16, [0, 4, 8, 12, 16, 20, 24, 28, 32, 36, 40, 44, 48, 52, 56, 60]⟩,
-  ⟨4, 1, 2, 2, 4, 4, true, false, 1, 16, 4, 0, 2, 4, 8, [0, 4, 8, 12]⟩,
-  ⟨4, 1, 2, 3, 4, 4, true, false, 1, 24, 4, 0, 2, 4, 12, [0, 4, 8, 12, 16, 20]⟩,
-  ⟨4, 1, 2, 4, 4, 4, true, false, 1, 32, 4, 0, 2, 4, 16, [0, 4, 8, 12, 16, 20, 24, 28]⟩,
-  ⟨4, 1, 3, 2, 4, 4, true, false, 1, 24, 4, 0, 3, 4, 8, [0, 4, 8, 12, 16, 20]⟩,
-  ⟨4, 1, 3, 3, 4, 4, true, false, 1, 36, 4, 0, 3, 4, 12, [0, 4, 8, 12, 16, 20, 24, 28, 32]⟩,
-  ⟨4, 1, 3, 4, 4, 4, true, false, 1, 48, 4, 0, 3, 4, 16, [0, 4, 8, 12, 16, 20, 24, 28, 32, 36, 40, 44]⟩,
-  ⟨4, 1, 4, 2, 4, 4, true, false, 1, 32, 4, 0, 4, 4, 8, [0, 4, 8, 12, 16, 20, 24, 28]⟩,
-  ⟨4, 1, 4, 3, 4, 4, true, false, 1, 48, 4, 0, 4, 4, 12, [0, 4, 8, 12, 16, 20, 24, 28, 32, 36, 40, 44]⟩,
-  ⟨4, 1, 4, 4, 4, 4, true, false, 1, 64, 4, 0, 4, 4, 16, [0, 4, 8, 12, 16, 20, 24, 28, 32, 36, 40, 44, 48, 52, 56, 60]⟩,
-  ⟨4, 1, 2, 2, 4, 4, true, false, 2, 16, 4, 0, 2, 4, 8, [0, 4, 8, 12]⟩,
-  ⟨4, 1, 2, 3, 4, 4, true, false, 2, 24, 4, 0, 2, 4, 12, [0, 4, 8, 12, 16, 20]⟩,
-  ⟨4, 1, 2, 4, 4, 4, true, false, 2, 32, 4, 0, 2, 4, 16, [0, 4, 8, 12, 16, 20, 24, 28]⟩,
-  ⟨4, 1, 3, 2, 4, 4, true, false, 2, 24, 4, 0, 3, 4, 8, [0, 4, 8, 12, 16, 20]⟩,
-  ⟨4, 1, 3, 3, 4, 4, true, false, 2, 36, 4, 0, 3, 4, 12, [0, 4, 8, 12, 16, 20, 24, 28, 32]⟩,
-  ⟨4, 1, 3, 4, 4, 4, true, false, 2, 48, 4, 0, 3, 4, 16, [0, 4, 8, 12, 16, 20, 24, 28, 32, 36, 40, 44]⟩,
-  ⟨4, 1, 4, 2, 4, 4, true, false, 2, 32, 4, 0, 4, 4, 8, [0, 4, 8, 12, 16, 20, 24, 28]⟩,
-  ⟨4, 1, 4, 3, 4, 4, true, false, 2, 48, 4, 0, 4, 4, 12, [0, 4, 8, 12, 16, 20, 24, 28, 32, 36, 40, 44]⟩,
-  ⟨4, 1, 4, 4, 4, 4, true, false, 2, 64, 4, 0, 4, 4, 16, [0, 4, 8, 12, 16, 20, 24, 28, 32, 36, 40, 44, 48, 52, 56, 60]⟩,
-  ⟨4, 1, 2, 2, 8, 8, true, false, 0, 32, 8, 0, 2, 4, 16, [0, 8, 16, 24]⟩,
-  ⟨4, 1, 2, 3, 8, 8, true, false, 0, 48, 8, 0, 2, 4, 24, [0, 8, 16, 24, 32, 40]⟩,
-  ⟨4, 1, 2, 4, 8, 8, true, false, 0, 64, 8, 0, 2, 4, 32, [0, 8, 16, 24, 32, 40, 48, 56]⟩,
-  ⟨4, 1, 3, 2, 8, 8, true, false, 0, 48, 8, 0, 3, 4, 16, [0, 8, 16, 24, 32, 40]⟩,
-  ⟨4, 1, 3, 3, 8, 8, true, false, 0, 72, 8, 0, 3, 4, 24, [0, 8, 16, 24, 32, 40, 48, 56, 64]⟩,
-  ⟨4, 1, 3, 4, 8, 8, true, false, 0, 96, 8, 0, 3, 4, 32, [0, 8, 16, 24, 32, 40, 48, 56, 64, 72, 80, 88]⟩,
-  ⟨4, 1, 4, 2, 8, 8, true, false, 0, 64, 8, 0, 4, 4, 16, [0, 8, 16, 24, 32, 40, 48, 56]⟩,
-  ⟨4, 1, 4, 3, 8, 8, true, false, 0, 96, 8, 0, 4, 4, 24, [0, 8, 16, 24, 32, 40, 48, 56, 64, 72, 80, 88]⟩,
-  ⟨4, 1, 4, 4, 8, 8, true, false, 0, 128, 8, 0, 4, 4, 32, [0, 8, 16, 24, 32, 40, 48, 56, 64, 72, 80, 88, 96, 104, 112, 120]⟩,
-  ⟨4, 1, 2, 2, 8, 8, true, false, 1, 32, 8, 0, 2, 4, 16, [0, 8, 16, 24]⟩,
-  ⟨4, 1, 2, 3, 8, 8, true, false, 1, 48, 8, 0, 2, 4, 24, [0, 8, 16, 24, 32, 40]⟩,
-  ⟨4, 1, 2, 4, 8, 8, true, false, 1, 64, 8, 0, 2, 4, 32, [0, 8, 16, 24, 32, 40, 48, 56]⟩,
-  ⟨4, 1, 3, 2, 8, 8, true, false, 1, 48, 8, 0, 3, 4, 16, [0, 8, 16, 24, 32, 40]⟩,
-  ⟨4, 1, 3, 3, 8, 8, true, false, 1, 72, 8, 0, 3, 4, 24, [0, 8, 16, 24, 32, 40, 48, 56, 64]⟩,
-  ⟨4, 1, 3, 4, 8, 8, true, false, 1, 96, 8, 0, 3, 4, 32, [0, 8, 16, 24, 32, 40, 48, 56, 64, 72, 80, 88]⟩,
-  ⟨4, 1, 4, 2, 8, 8, true, false, 1, 64, 8, 0, 4, 4, 16, [0, 8, 16, 24, 32, 40, 48, 56]⟩,
-  ⟨4, 1, 4, 3, 8, 8, true, false, 1, 96, 8, 0, 4, 4, 24, [0, 8, 16, 24, 32, 40, 48, 56, 64, 72, 80, 88]⟩,
-  ⟨4, 1, 4, 4, 8, 8, true, false, 1, 128, 8, 0, 4, 4, 32, [0, 8, 16, 24, 32, 40, 48, 56, 64, 72, 80, 88, 96, 104, 112, 120]⟩,
-  ⟨4, 1, 2, 2, 8, 8, true, false, 2, 32, 8, 0, 2, 4, 16, [0, 8, 16, 24]⟩,
-  ⟨4, 1, 2, 3, 8, 8, true, false, 2, 48, 8, 0, 2, 4, 24, [0, 8, 16, 24, 32, 40]⟩,
-  ⟨4, 1, 2, 4, 8, 8, true, false, 2, 64, 8, 0, 2, 4, 32, [0, 8, 16, 24, 32, 40, 48, 56]⟩,
-  ⟨4, 1, 3, 2, 8, 8, true, false, 2, 48, 8, 0, 3, 4, 16, [0, 8, 16, 24, 32, 40]⟩,
-  ⟨4, 1, 3, 3, 8, 8, true, false, 2, 72, 8, 0, 3, 4, 24, [0, 8, 16, 24, 32, 40, 48, 56, 64]⟩,
-  ⟨4, 1, 3, 4, 8, 8, true, false, 2, 96, 8, 0, 3, 4, 32, [0, 8, 16, 24, 32, 40, 48, 56, 64, 72, 80, 88]⟩,
-  ⟨4, 1, 4, 2, 8, 8, true, false, 2, 64, 8, 0, 4, 4, 16, [0, 8, 16, 24, 32, 40, 48, 56]⟩,
-  ⟨4, 1, 4, 3, 8, 8, true, false, 2, 96, 8, 0, 4, 4, 24, [0, 8, 16, 24, 32, 40, 48, 56, 64, 72, 80, 88]⟩,
-  ⟨4, 1, 4, 4, 8, 8, true, false, 2, 128, 8, 0, 4, 4, 32, [0, 8, 16, 24, 32, 40, 48, 56, 64, 72, 80, 88, 96, 104, 112, 120]⟩,
-  ⟨4, 1, 2, 2, 4, 4, false, false, 0, 16, 4, 0, 2, 4, 8, [0, 4, 8, 12]⟩,
-  ⟨4, 1, 2, 3, 4, 4, false, false, 0, 24, 4, 0, 2, 4, 12, [0, 4, 8, 12, 16, 20]⟩,
-  ⟨4, 1, 2, 4, 4, 4, false, false, 0, 32, 4, 0, 2, 4, 16, [0, 4, 8, 12, 16, 20, 24, 28]⟩,
-  ⟨4, 1, 3, 2, 4, 4, false, false, 0, 24, 4, 0, 3, 4, 8, [0, 4, 8, 12, 16, 20]⟩,
-  ⟨4, 1, 3, 3, 4, 4, false, false, 0, 36, 4, 0, 3, 4, 12, [0, 4, 8, 12, 16, 20, 24, 28, 32]⟩,
-  ⟨4, 1, 3, 4, 4, 4, false, false, 0, 48, 4, 0, 3, 4, 16, [0, 4, 8, 12, 16, 20, 24, 28, 32, 36, 40, 44]⟩,
-  ⟨4, 1, 4, 2, 4, 4, false, false, 0, 32, 4, 0, 4, 4, 8, [0, 4, 8, 12, 16, 20, 24, 28]⟩,
-  ⟨4, 1, 4, 3, 4, 4, false, false, 0, 48, 4, 0, 4, 4, 12, [0, 4, 8, 12, 16, 20, 24, 28, 32, 36, 40, 44]⟩,
-  ⟨4, 1, 4, 4, 4, 4, false, false, 0, 64, 4, 0, 4, 4, 16, [0, 4, 8, 12, 16, 20, 24, 28, 32, 36, 40, 44, 48, 52, 56, 60]⟩,
-  ⟨4, 1, 2, 2, 4, 4, false, false, 1, 16, 4, 0, 2, 4, 8, [0, 4, 8, 12]⟩,
-  ⟨4, 1, 2, 3, 4, 4, false, false, 1, 24, 4, 0, 2, 4, 12, [0, 4, 8, 12, 16, 20]⟩,
-  ⟨4, 1, 2, 4, 4, 4, false, false, 1, 32, 4, 0, 2, 4, 16, [0, 4, 8, 12, 16, 20, 24, 28]⟩,
-  ⟨4, 1, 3, 2, 4, 4, false, false, 1, 24, 4, 0, 3, 4, 8, [0, 4, 8, 12, 16, 20]⟩,
-  ⟨4, 1, 3, 3, 4, 4, false, false, 1, 36, 4, 0, 3, 4, 12, [0, 4, 8, 12, 16, 20, 24, 28, 32]⟩,
-  ⟨4, 1, 3, 4, 4, 4, false, false, 1, 48, 4, 0, 3, 4, 16, [0, 4, 8, 12, 16, 20, 24, 28, 32, 36, 40, 44]⟩,
-  ⟨4, 1, 4, 2, 4, 4, false, false, 1, 32, 4, 0, 4, 4, 8, [0, 4, 8, 12, 16, 20, 24, 28]⟩,
-  ⟨4, 1, 4, 3, 4, 4, false, false, 1, 48, 4, 0, 4, 4, 12, [0, 4, 8, 12, 16, 20, 24, 28, 32, 36, 40, 44]⟩,
-  ⟨4, 1, 4, 4, 4, 4, false, false, 1, 64, 4, 0, 4, 4, 16, [0, 4, 8, 12, 16, 20, 24, 28, 32, 36, 40, 44, 48, 52, 56, 60]⟩,
-  ⟨4, 1, 2, 2, 4, 4, false, false, 2, 16, 4, 0, 2, 4, 8, [0, 4, 8, 12]⟩,
-  ⟨4, 1, 2, 3, 4, 4, false, false, 2, 24, 4, 0, 2, 4, 12, [0, 4, 8, 12, 16, 20]⟩,
-  ⟨4, 1, 2, 4, 4, 4, false, false, 2, 32, 4, 0, 2, 4, 16, [0, 4, 8, 12, 16, 20, 24, 28]⟩,
-  ⟨4, 1, 3, 2, 4, 4, false, false, 2, 24, 4, 0, 3, 4, 8, [0, 4, 8, 12, 16, 20]⟩,
-  ⟨4, 1, 3, 3, 4, 4, false, false, 2, 36, 4, 0, 3, 4, 12, [0, 4, 8, 12, 16, 20, 24, 28, 32]⟩,
-  ⟨4, 1, 3, 4, 4, 4, false, false, 2, 48, 4, 0, 3, 4, 16, [0, 4, 8, 12, 16, 20, 24, 28, 32, 36, 40, 44]⟩,
-  ⟨4, 1, 4, 2, 4, 4, false, false, 2, 32, 4, 0, 4, 4, 8, [0, 4, 8, 12, 16, 20, 24, 28]⟩,
-  ⟨4, 1, 4, 3, 4, 4, false, false, 2, 48, 4, 0, 4, 4, 12, [0, 4, 8, 12, 16, 20, 24, 28, 32, 36, 40, 44]⟩,
-  ⟨4, 1, 4, 4, 4, 4, false, false, 2, 64, 4, 0, 4, 4, 16, [0, 4, 8, 12, 16, 20, 24, 28, 32, 36, 40, 44, 48, 52, 56, 60]⟩,
-  ⟨4, 1, 2, 2, 4, 4, false, false, 0, 16, 4, 0, 2, 4, 8, [0, 4, 8, 12]⟩,
-  ⟨4, 1, 2, 3, 4, 4, false, false, 0, 24, 4, 0, 2, 4, 12, [0, 4, 8, 12, 16, 20]⟩,
-  ⟨4, 1, 2, 4, 4, 4, false, false, 0, 32, 4, 0, 2, 4, 16, [0, 4, 8, 12, 16, 20, 24, 28]⟩,
-  ⟨4, 1, 3, 2, 4, 4, false, false, 0, 24, 4, 0, 3, 4, 8, [0, 4, 8, 12, 16, 20]⟩,
-  ⟨4, 1, 3, 3, 4, 4, false, false, 0, 36, 4, 0, 3, 4, 12, [0, 4, 8, 12, 16, 20, 24, 28, 32]⟩,
-  ⟨4, 1, 3, 4, 4, 4, false, false, 0, 48, 4, 0, 3, 4, 16, [0, 4, 8, 12, 16, 20, 24, 28, 32, 36, 40, 44]⟩,
-  ⟨4, 1, 4, 2, 4, 4, false, false, 0, 32, 4, 0, 4, 4, 8, [0, 4, 8, 12, 16, 20, 24, 28]⟩,
-  ⟨4, 1, 4, 3, 4, 4, false, false, 0, 48, 4, 0, 4, 4, 12, [0, 4, 8, 12, 16, 20, 24, 28, 32, 36, 40, 44]⟩,
-  ⟨4, 1, 4, 4, 4, 4, false, false, 0, 64, 4, 0, 4, 4, 16, [0, 4, 8, 12, 16, 20, 24, 28, 32, 36, 40, 44, 48, 52, 56, 60]⟩,
-  ⟨4, 1, 2, 2, 4, 4, false, false, 1, 16, 4, 0, 2, 4, 8, [0, 4, 8, 12]⟩,
-  ⟨4, 1, 2, 3, 4, 4, false, false, 1, 24, 4, 0, 2, 4, 12, [0, 4, 8, 12, 16, 20]⟩,
-  ⟨4, 1, 2, 4, 4, 4, false, false, 1, 32, 4, 0, 2, 4, 16, [0, 4, 8, 12, 16, 20, 24, 28]⟩,
-  ⟨4, 1, 3, 2, 4, 4, false, false, 1, 24, 4, 0, 3, 4, 8, [0, 4, 8, 12, 16, 20]⟩,
-  ⟨4, 1, 3, 3, 4, 4, false, false, 1, 36, 4, 0, 3, 4, 12, [0, 4, 8, 12, 16, 20, 24, 28, 32]⟩,
-  ⟨4, 1, 3, 4, 4, 4, false, false, 1, 48, 4, 0, 3, 4, 16, [0, 4, 8, 12, 16, 20, 24, 28, 32, 36, 40, 44]⟩,
-  ⟨4, 1, 4, 2, 4, 4, false, false, 1, 32, 4, 0, 4, 4, 8, [0, 4, 8, 12, 16, 20, 24, 28]⟩,
-  ⟨4, 1, 4, 3, 4, 4, false, false, 1, 48, 4, 0, 4, 4, 12, [0, 4, 8, 12, 16, 20, 24, 28, 32, 36, 40, 44]⟩,
-  ⟨4, 1, 4, 4, 4, 4, false, false, 1, 64, 4, 0, 4, 4, 16, [0, 4, 8, 12, 16, 20, 24, 28, 32, 36, 40, 44, 48, 52, 56, 60]⟩,
-  ⟨4, 1, 2, 2, 4, 4, false, false, 2, 16, 4, 0, 2, 4, 8, [0, 4, 8, 12]⟩,
-  ⟨4, 1, 2, 3, 4, 4, false, false, 2, 24, 4, 0, 2, 4, 12, [0, 4, 8, 12, 16, 20]⟩,
-  ⟨4, 1, 2, 4, 4, 4, false, false, 2, 32, 4, 0, 2, 4, 16, [0, 4, 8, 12, 16, 20, 24, 28]⟩,
-  ⟨4, 1, 3, 2, 4, 4, false, false, 2, 24, 4, 0, 3, 4, 8, [0, 4, 8, 12, 16, 20]⟩,
-  ⟨4, 1, 3, 3, 4, 4, false, false, 2, 36, 4, 0, 3, 4, 12, [0, 4, 8, 12, 16, 20, 24, 28, 32]⟩,
-  ⟨4, 1, 3, 4, 4, 4, false, false, 2, 48, 4, 0, 3, 4, 16, [0, 4, 8, 12, 16, 20, 24, 28, 32, 36, 40, 44]⟩,
-  ⟨4, 1, 4, 2, 4, 4, false, false, 2, 32, 4, 0, 4, 4, 8, [0, 4, 8, 12, 16, 20, 24, 28]⟩,
-  ⟨4, 1, 4, 3, 4, 4, false, false, 2, 48, 4, 0, 4, 4, 12, [0, 4, 8, 12, 16, 20, 24, 28, 32, 36, 40, 44]⟩,
-  ⟨4, 1, 4, 4, 4, 4, false, false, 2, 64, 4, 0, 4, 4, 16, [0, 4, 8, 12, 16, 20, 24, 28, 32, 36, 40, 44, 48, 52, 56, 60]⟩,
-  ⟨4, 2, 4, 1, 4, 4, true, false, 0, 16, 4, 0, 4, 4, 0, [0, 4, 8, 12]⟩,
-  ⟨4, 2, 4, 1, 4, 4, true, false, 1, 16, 4, 0, 4, 4, 0, [0, 4, 8, 12]⟩,
-  ⟨4, 2, 4, 1, 4, 4, true, false, 2, 16, 4, 0, 4, 4, 0, [0, 4, 8, 12]⟩,
-  ⟨4, 2, 4, 1, 8, 8, true, false, 0, 32, 8, 0, 4, 4, 0, [0, 8, 16, 24]⟩,
-  ⟨4, 2, 4, 1, 8, 8, true, false, 1, 32, 8, 0, 4, 4, 0, [0, 8, 16, 24]⟩,
-  ⟨4, 2, 4, 1, 8, 8, true, false, 2, 32, 8, 0, 4, 4, 0, [0, 8, 16, 24]⟩,
-  ⟨5, 0, 1, 1, 1, 1, false, false, 0, 1, 1, 0, 1, 4, 0, [0]⟩,
-  ⟨5, 0, 2, 1, 1, 1, false, false, 0, 2, 1, 0, 2, 4, 0, [0, 1]⟩,
-  ⟨5, 0, 3, 1, 1, 1, false, false, 0, 3, 1, 0, 3, 4, 0, [0, 1, 2]⟩,
-  ⟨5, 0, 4, 1, 1, 1, false, false, 0, 4, 1, 0, 4, 4, 0, [0, 1, 2, 3]⟩,
-  ⟨5, 0, 1, 1, 1, 1, false, false, 1, 1, 1, 0, 1, 4, 0, [0]⟩,
-  ⟨5, 0, 2, 1, 1, 1, false, false, 1, 2, 1, 0, 2, 4, 0, [0, 1]⟩,
-  ⟨5, 0, 3, 1, 1, 1, false, false, 1, 3, 1, 0, 3, 4, 0, [0, 1, 2]⟩,
-  ⟨5, 0, 4, 1, 1, 1, false, false, 1, 4, 1, 0, 4, 4, 0, [0, 1, 2, 3]⟩,
-  ⟨5, 0, 1, 1, 1, 1, false, false, 2, 1, 1, 0, 1, 4, 0, [0]⟩,
-  ⟨5, 0, 2, 1, 1, 1, false, false, 2, 2, 1, 0, 2, 4, 0, [0, 1]⟩,
-  ⟨5, 0, 3, 1, 1, 1, false, false, 2, 3, 1, 0, 3, 4, 0, [0, 1, 2]⟩,
-  ⟨5, 0, 4, 1, 1, 1, false, false, 2, 4, 1, 0, 4, 4, 0, [0, 1, 2, 3]⟩,
-  ⟨5, 0, 1, 1, 1, 1, false, false, 0, 1, 1, 0, 1, 4, 0, [0]⟩,
-  ⟨5, 0, 2, 1, 1, 1, false, false, 0, 2, 1, 0, 2, 4, 0, [0, 1]⟩,
-  ⟨5, 0, 3, 1, 1, 1, false, false, 0, 3, 1, 0, 3, 4, 0, [0, 1, 2]⟩,
-  ⟨5, 0, 4, 1, 1, 1, false, false, 0, 4, 1, 0, 4, 4, 0, [0, 1, 2, 3]⟩,
-  ⟨5, 0, 1, 1, 1, 1, false, false, 1, 1, 1, 0, 1, 4, 0, [0]⟩,
-  ⟨5, 0, 2, 1, 1, 1, false, false, 1, 2, 1, 0, 2, 4, 0, [0, 1]⟩,
-  ⟨5, 0, 3, 1, 1, 1, false, false, 1, 3, 1, 0, 3, 4, 0, [0, 1, 2]⟩,
-  ⟨5, 0, 4, 1, 1, 1, false, false, 1, 4, 1, 0, 4, 4, 0, [0, 1, 2, 3]⟩,
-  ⟨5, 0, 1, 1, 1, 1, false, false, 2, 1, 1, 0, 1, 4, 0, [0]⟩,
-  ⟨5, 0, 2, 1, 1, 1, false, false, 2, 2, 1, 0, 2, 4, 0, [0, 1]⟩,
-  ⟨5, 0, 3, 1, 1, 1, false, false, 2, 3, 1, 0, 3, 4, 0, [0, 1, 2]⟩,
-  ⟨5, 0, 4, 1, 1, 1, false, false, 2, 4, 1, 0, 4, 4, 0, [0, 1, 2, 3]⟩,
-  ⟨5, 0, 1, 1, 1, 1, false, false, 0, 1, 1, 0, 1, 4, 0, [0]⟩,
-  ⟨5, 0, 2, 1, 1, 1, false, false, 0, 2, 1, 0, 2, 4, 0, [0, 1]⟩,
-  ⟨5, 0, 3, 1, 1, 1, false, false, 0, 3, 1, 0, 3, 4, 0, [0, 1, 2]⟩,
-  ⟨5, 0, 4, 1, 1, 1, false, false, 0, 4, 1, 0, 4, 4, 0, [0, 1, 2, 3]⟩,
-  ⟨5, 0, 1, 1, 1, 1, false, false, 1, 1, 1, 0, 1, 4, 0, [0]⟩,
-  ⟨5, 0, 2, 1, 1, 1, false, false, 1, 2, 1, 0, 2, 4, 0, [0, 1]⟩,
-  ⟨5, 0, 3, 1, 1, 1, false, false, 1, 3, 1, 0, 3, 4, 0, [0, 1, 2]⟩,
-  ⟨5, 0, 4, 1, 1, 1, false, false, 1, 4, 1, 0, 4, 4, 0, [0, 1, 2, 3]⟩,
-  ⟨5, 0, 1, 1, 1, 1, false, false, 2, 1, 1, 0, 1, 4, 0, [0]⟩,
-  ⟨5, 0, 2, 1, 1, 1, false, false, 2, 2, 1, 0, 2, 4, 0, [0, 1]⟩,
-  ⟨5, 0, 3, 1, 1, 1, false, false, 2, 3, 1, 0, 3, 4, 0, [0, 1, 2]⟩,
-  ⟨5, 0, 4, 1, 1, 1, false, false, 2, 4, 1, 0, 4, 4, 0, [0, 1, 2, 3]⟩,
-  ⟨5, 0, 1, 1, 2, 2, false, false, 0, 2, 2, 0, 1, 4, 0, [0]⟩,
-  ⟨5, 0, 2, 1, 2, 2, false, false, 0, 4, 2, 0, 2, 4, 0, [0, 2]⟩,
-  ⟨5, 0, 3, 1, 2, 2, false, false, 0, 6, 2, 0, 3, 4, 0, [0, 2, 4]⟩,
-  ⟨5, 0, 4, 1, 2, 2, false, false, 0, 8, 2, 0, 4, 4, 0, [0, 2, 4, 6]⟩,
-  ⟨5, 0, 1, 1, 2, 2, false, false, 1, 2, 2, 0, 1, 4, 0, [0]⟩,
-  ⟨5, 0, 2, 1, 2, 2, false, false, 1, 4, 2, 0, 2, 4, 0, [0, 2]⟩,
-  ⟨5, 0, 3, 1, 2, 2, false, false, 1, 6, 2, 0, 3, 4, 0, [0, 2, 4]⟩,
-  ⟨5, 0, 4, 1, 2, 2, false, false, 1, 8, 2, 0, 4, 4, 0, [0, 2, 4, 6]⟩,
-  ⟨5, 0, 1, 1, 2, 2, false, false, 2, 2, 2, 0, 1, 4, 0, [0]⟩,
-  ⟨5, 0, 2, 1, 2, 2, false, false, 2, 4, 2, 0, 2, 4, 0, [0, 2]⟩,
-  ⟨5, 0, 3, 1, 2, 2, false, false, 2, 6, 2, 0, 3, 4, 0, [0, 2, 4]⟩,
-  ⟨5, 0, 4, 1, 2, 2, false, false, 2, 8, 2, 0, 4, 4, 0, [0, 2, 4, 6]⟩,
-  ⟨5, 0, 1, 1, 2, 2, false, false, 0, 2, 2, 0, 1, 4, 0, [0]⟩,
-  ⟨5, 0, 2, 1, 2, 2, false, false, 0, 4, 2, 0, 2, 4, 0, [0, 2]⟩,
-  ⟨5, 0, 3, 1, 2, 2, false, false, 0, 6, 2, 0, 3, 4, 0, [0, 2, 4]⟩,
-  ⟨5, 0, 4, 1, 2, 2, false, false, 0, 8, 2, 0, 4, 4, 0, [0, 2, 4, 6]⟩,
-  ⟨5, 0, 1, 1, 2, 2, false, false, 1, 2, 2, 0, 1, 4, 0, [0]⟩,
-  ⟨5, 0, 2, 1, 2, 2, false, false, 1, 4, 2, 0, 2, 4, 0, [0, 2]⟩,
-  ⟨5, 0, 3, 1, 2, 2, false, false, 1, 6, 2, 0, 3, 4, 0, [0, 2, 4]⟩,
-  ⟨5, 0, 4, 1, 2, 2, false, false, 1, 8, 2, 0, 4, 4, 0, [0, 2, 4, 6]⟩,
-  ⟨5, 0, 1, 1, 2, 2, false, false, 2, 2, 2, 0, 1, 4, 0, [0]⟩,
-  ⟨5, 0, 2, 1, 2, 2, false, false, 2, 4, 2, 0, 2, 4, 0, [0, 2]⟩,
-  ⟨5, 0, 3, 1, 2, 2, false, false, 2, 6, 2, 0, 3, 4, 0, [0, 2, 4]⟩,
-  ⟨5, 0, 4, 1, 2, 2, false, false, 2, 8, 2, 0, 4, 4, 0, [0, 2, 4, 6]⟩,
-  ⟨5, 0, 1, 1, 4, 4, false, false, 0, 4, 4, 0, 1, 4, 0, [0]⟩,
-  ⟨5, 0, 2, 1, 4, 4, false, false, 0, 8, 4, 0, 2, 4, 0, [0, 4]⟩,
-  ⟨5, 0, 3, 1, 4, 4, false, false, 0, 12, 4, 0, 3, 4, 0, [0, 4, 8]⟩,
-  ⟨5, 0, 4, 1, 4, 4, false, false, 0, 16, 4, 0, 4, 4, 0, [0, 4, 8, 12]⟩,
-  ⟨5, 0, 1, 1, 4, 4, false, false, 1, 4, 4, 0, 1, 4, 0, [0]⟩,
-  ⟨5, 0, 2, 1, 4, 4, false, false, 1, 8, 4, 0, 2, 4, 0, [0, 4]⟩,
-  ⟨5, 0, 3, 1, 4, 4, false, false, 1, 12, 4, 0, 3, 4, 0, [0, 4, 8]⟩,
-  ⟨5, 0, 4, 1, 4, 4, false, false, 1, 16, 4, 0, 4, 4, 0, [0, 4, 8, 12]⟩,
-  ⟨5, 0, 1, 1, 4, 4, false, false, 2, 4, 4, 0, 1, 4, 0, [0]⟩,
-  ⟨5, 0, 2, 1, 4, 4, false, false, 2, 8, 4, 0, 2, 4, 0, [0, 4]⟩,
-  ⟨5, 0, 3, 1, 4, 4, false, false, 2, 12, 4, 0, 3, 4, 0, [0, 4, 8]⟩,
-  ⟨5, 0, 4, 1, 4, 4, false, false, 2, 16, 4, 0, 4, 4, 0, [0, 4, 8, 12]⟩,
-  ⟨5, 0, 1, 1, 4, 4, false, false, 0, 4, 4, 0, 1, 4, 0, [0]⟩,
-  ⟨5, 0, 2, 1, 4, 4, false, false, 0, 8, 4, 0, 2, 4, 0, [0, 4]⟩,
-  ⟨5, 0, 3, 1, 4, 4, false, false, 0, 12, 4, 0, 3, 4, 0, [0, 4, 8]⟩,
-  ⟨5, 0, 4, 1, 4, 4, false, false, 0, 16, 4, 0, 4, 4, 0, [0, 4, 8, 12]⟩,
-  ⟨5, 0, 1, 1, 4, 4, false, false, 1, 4, 4, 0, 1, 4, 0, [0]⟩,
-  ⟨5, 0, 2, 1, 4, 4, false, false, 1, 8, 4, 0, 2, 4, 0, [0, 4]⟩,
-  ⟨5, 0, 3, 1, 4, 4, false, false, 1, 12, 4, 0, 3, 4, 0, [0, 4, 8]⟩,
-  ⟨5, 0, 4, 1, 4, 4, false, false, 1, 16, 4, 0, 4, 4, 0, [0, 4, 8, 12]⟩,
-  ⟨5, 0, 1, 1, 4, 4, false, false, 2, 4, 4, 0, 1, 4, 0, [0]⟩,
-  ⟨5, 0, 2, 1, 4, 4, false, false, 2, 8, 4, 0, 2, 4, 0, [0, 4]⟩,
-  ⟨5, 0, 3, 1, 4, 4, false, false, 2, 12, 4, 0, 3, 4, 0, [0, 4, 8]⟩,
-  ⟨5, 0, 4, 1, 4, 4, false, false, 2, 16, 4, 0, 4, 4, 0, [0, 4, 8, 12]⟩,
-  ⟨5, 0, 1, 1, 8, 8, false, false, 0, 8, 8, 0, 1, 4, 0, [0]⟩,
-  ⟨5, 0, 2, 1, 8, 8, false, false, 0, 16, 8, 0, 2, 4, 0, [0, 8]⟩,
-  ⟨5, 0, 3, 1, 8, 8, false, false, 0, 24, 8, 0, 3, 4, 0, [0, 8, 16]⟩,
-  ⟨5, 0, 4, 1, 8, 8, false, false, 0, 32, 8, 0, 4, 4, 0, [0, 8, 16, 24]⟩,
-  ⟨5, 0, 1, 1, 8, 8, false, false, 1, 8, 8, 0, 1, 4, 0, [0]⟩,
-  ⟨5, 0, 2, 1, 8, 8, false, false, 1, 16, 8, 0, 2, 4, 0, [0, 8]⟩,
-  ⟨5, 0, 3, 1, 8, 8, false, false, 1, 24, 8, 0, 3, 4, 0, [0, 8, 16]⟩,
-  ⟨5, 0, 4, 1, 8, 8, false, false, 1, 32, 8, 0, 4, 4, 0, [0, 8, 16, 24]⟩,
-  ⟨5, 0, 1, 1, 8, 8, false, false, 2, 8, 8, 0, 1, 4, 0, [0]⟩,
-  ⟨5, 0, 2, 1, 8, 8, false, false, 2, 16, 8, 0, 2, 4, 0, [0, 8]⟩,
-  ⟨5, 0, 3, 1, 8, 8, false, false, 2, 24, 8, 0, 3, 4, 0, [0, 8, 16]⟩,
-  ⟨5, 0, 4, 1, 8, 8, false, false, 2, 32, 8, 0, 4, 4, 0, [0, 8, 16, 24]⟩,
-  ⟨5, 0, 1, 1, 8, 8, false, false, 0, 8, 8, 0, 1, 4, 0, [0]⟩,
-  ⟨5, 0, 2, 1, 8, 8, false, false, 0, 16, 8, 0, 2, 4, 0, [0, 8]⟩,
-  ⟨5, 0, 3, 1, 8, 8, false, false, 0, 24, 8, 0, 3, 4, 0, [0, 8, 16]⟩,
-  ⟨5, 0, 4, 1, 8, 8, false, false, 0, 32, 8, 0, 4, 4, 0, [0, 8, 16, 24]⟩,
-  ⟨5, 0, 1, 1, 8, 8, false, false, 1, 8, 8, 0, 1, 4, 0, [0]⟩,
-  ⟨5, 0, 2, 1, 8, 8, false, false, 1, 16, 8, 0, 2, 4, 0, [0, 8]⟩,
-  ⟨5, 0, 3, 1, 8, 8, false, false, 1, 24, 8, 0, 3, 4, 0, [0, 8, 16]⟩,
-  ⟨5, 0, 4, 1, 8, 8, false, false, 1, 32, 8, 0, 4, 4, 0, [0, 8, 16, 24]⟩,
-  ⟨5, 0, 1, 1, 8, 8, false, false, 2, 8, 8, 0, 1, 4, 0, [0]⟩,
-  ⟨5, 0, 2, 1, 8, 8, false, false, 2, 16, 8, 0, 2, 4, 0, [0, 8]⟩,
-  ⟨5, 0, 3, 1, 8, 8, false, false, 2, 24, 8, 0, 3, 4, 0, [0, 8, 16]⟩,
-  ⟨5, 0, 4, 1, 8, 8, false, false, 2, 32, 8, 0, 4, 4, 0, [0, 8, 16, 24]⟩,
-  ⟨5, 0, 1, 1, 4, 4, true, false, 0, 4, 4, 0, 1, 4, 0, [0]⟩,
-  ⟨5, 0, 2, 1, 4, 4, true, false, 0, 8, 4, 0, 2, 4, 0, [0, 4]⟩,
-  ⟨5, 0, 3, 1, 4, 4, true, false, 0, 12, 4, 0, 3, 4, 0, [0, 4, 8]⟩,
-  ⟨5, 0, 4, 1, 4, 4, true, false, 0, 16, 4, 0, 4, 4, 0, [0, 4, 8, 12]⟩,
-  ⟨5, 0, 1, 1, 4, 4, true, false, 1, 4, 4, 0, 1, 4, 0, [0]⟩,
-  ⟨5, 0, 2, 1, 4, 4, true, false, 1, 8, 4, 0, 2, 4, 0, [0, 4]⟩,
-  ⟨5, 0, 3, 1, 4, 4, true, false, 1, 12, 4, 0, 3, 4, 0, [0, 4, 8]⟩,
-  ⟨5, 0, 4, 1, 4, 4, true, false, 1, 16, 4, 0, 4, 4, 0, [0, 4, 8, 12]⟩,
-  ⟨5, 0, 1, 1, 4, 4, true, false, 2, 4, 4, 0, 1, 4, 0, [0]⟩,
-  ⟨5, 0, 2, 1, 4, 4, true, false, 2, 8, 4, 0, 2, 4, 0, [0, 4]⟩,
-  ⟨5, 0, 3, 1, 4, 4, true, false, 2, 12, 4, 0, 3, 4, 0, [0, 4, 8]⟩,
-  ⟨5, 0, 4, 1, 4, 4, true, false, 2, 16, 4, 0, 4, 4, 0, [0, 4, 8, 12]⟩,
-  ⟨5, 0, 1, 1, 8, 8, true, false, 0, 8, 8, 0, 1, 4, 0, [0]⟩,
-  ⟨5, 0, 2, 1, 8, 8, true, false, 0, 16, 8, 0, 2, 4, 0, [0, 8]⟩,
-  ⟨5, 0, 3, 1, 8, 8, true, false, 0, 24, 8, 0, 3, 4, 0, [0, 8, 16]⟩,
-  ⟨5, 0, 4, 1, 8, 8, true, false, 0, 32, 8, 0, 4, 4, 0, [0, 8, 16, 24]⟩,
-  ⟨5, 0, 1, 1, 8, 8, true, false, 1, 8, 8, 0, 1, 4, 0, [0]⟩,
-  ⟨5, 0, 2, 1, 8, 8, true, false, 1, 16, 8, 0, 2, 4, 0, [0, 8]⟩,
-  ⟨5, 0, 3, 1, 8, 8, true, false, 1, 24, 8, 0, 3, 4, 0, [0, 8, 16]⟩,
-  ⟨5, 0, 4, 1, 8, 8, true, false, 1, 32, 8, 0, 4, 4, 0, [0, 8, 16, 24]⟩,
-  ⟨5, 0, 1, 1, 8, 8, true, false, 2, 8, 8, 0, 1, 4, 0, [0]⟩,
-  ⟨5, 0, 2, 1, 8, 8, true, false, 2, 16, 8, 0, 2, 4, 0, [0, 8]⟩,
-  ⟨5, 0, 3, 1, 8, 8, true, false, 2, 24, 8, 0, 3, 4, 0, [0, 8, 16]⟩,
-  ⟨5, 0, 4, 1, 8, 8, true, false, 2, 32, 8, 0, 4, 4, 0, [0, 8, 16, 24]⟩,
-  ⟨5, 1, 2, 2, 4, 4, true, false, 0, 16, 4, 0, 2, 4, 8, [0, 4, 8, 12]⟩,
-  ⟨5, 1, 2, 3, 4, 4, true, false, 0, 24, 4, 0, 2, 4, 12, [0, 4, 8, 12, 16, 20]⟩,
-  ⟨5, 1, 2, 4, 4, 4, true, false, 0, 32, 4, 0, 2, 4, 16, [0, 4, 8, 12, 16, 20, 24, 28]⟩,
-  ⟨5, 1, 3, 2, 4, 4, true, false, 0, 24, 4, 0, 3, 4, 8, [0, 4, 8, 12, 16, 20]⟩,
-  ⟨5, 1, 3, 3, 4, 4, true, false, 0, 36, 4, 0, 3, 4, 12, [0, 4, 8, 12, 16, 20, 24, 28, 32]⟩,
-  ⟨5, 1, 3, 4, 4, 4, true, false, 0, 48, 4, 0, 3, 4, 16, [0, 4, 8, 12, 16, 20, 24, 28, 32, 36, 40, 44]⟩,
-  ⟨5, 1, 4, 2, 4, 4, true, false, 0, 32, 4, 0, 4, 4, 8, [0, 4, 8, 12, 16, 20, 24, 28]⟩,
-  ⟨5, 1, 4, 3, 4, 4, true, false, 0, 48, 4, 0, 4, 4, 12, [0, 4, 8, 12, 16, 20, 24, 28, 32, 36, 40, 44]⟩,
-  ⟨5, 1, 4, 4, 4, 4, true, false, 0, 64, 4, 0, 4, 4, 16, [0, 4, 8, 12, 16, 20, 24, 28, 32, 36, 40, 44, 48, 52, 56, 60]⟩,
-  ⟨5, 1, 2, 2, 4, 4, true, false, 1, 16, 4, 0, 2, 4, 8, [0, 4, 8, 12]⟩,
-  ⟨5, 1, 2, 3, 4, 4, true, false, 1, 24, 4, 0, 2, 4, 12, [0, 4, 8, 12, 16, 20]⟩,
-  ⟨5, 1, 2, 4, 4, 4, true, false, 1, 32, 4, 0, 2, 4, 16, [0, 4, 8, 12, 16, 20, 24, 28]⟩,
-  ⟨5, 1, 3, 2, 4, 4, true, false, 1, 24, 4, 0, 3, 4, 8, [0, 4, 8, 12, 16, 20]⟩,
-  ⟨5, 1, 3, 3, 4, 4, true, false, 1, 36, 4, 0, 3, 4, 12, [0, 4, 8, 12, 16, 20, 24, 28, 32]⟩,
-  ⟨5, 1, 3, 4, 4, 4, true, false, 1, 48, 4, 0, 3, 4, 16, [0, 4, 8, 12, 16, 20, 24, 28, 32, 36, 40, 44]⟩,
-  ⟨5, 1, 4, 2, 4, 4, true, false, 1, 32, 4, 0, 4, 4, 8, [0, 4, 8, 12, 16, 20, 24, 28]⟩,
-  ⟨5, 1, 4, 3, 4, 4, true, false, 1, 48, 4, 0, 4, 4, 12, [0, 4, 8, 12, 16, 20, 24, 28, 32, 36, 40, 44]⟩,
-  ⟨5, 1, 4, 4, 4, 4, true, false, 1, 64, 4, 0, 4, 4, 16, [0, 4, 8, 12, 16, 20, 24, 28, 32, 36, 40, 44, 48, 52, 56, 60]⟩,
-  ⟨5, 1, 2, 2, 4, 4, true, false, 2, 16, 4, 0, 2, 4, 8, [0, 4, 8, 12]⟩,
-  ⟨5, 1, 2, 3, 4, 4, true, false, 2, 24, 4, 0, 2, 4, 12, [0, 4, 8, 12, 16, 20]⟩,
-  ⟨5, 1, 2, 4, 4, 4, true, false, 2, 32, 4, 0, 2, 4, 16, [0, 4, 8, 12, 16, 20, 24, 28]⟩,
-  ⟨5, 1, 3, 2, 4, 4, true, false, 2, 24, 4, 0, 3, 4, 8, [0, 4, 8, 12, 16, 20]⟩,
-  ⟨5, 1, 3, 3, 4, 4, true, false, 2, 36, 4, 0, 3, 4, 12, [0, 4, 8, 12, 16, 20, 24, 28, 32]⟩,
-  ⟨5, 1, 3, 4, 4, 4, true, false, 2, 48, 4, 0, 3, 4, 16, [0, 4, 8, 12, 16, 20, 24, 28, 32, 36, 40, 44]⟩,
-  ⟨5, 1, 4, 2, 4, 4, true, false, 2, 32, 4, 0, 4, 4, 8, [0, 4, 8, 12, 16, 20, 24, 28]⟩,
-  ⟨5, 1, 4, 3, 4, 4, true, false, 2, 48, 4, 0, 4, 4, 12, [0, 4, 8, 12, 16, 20, 24, 28, 32, 36, 40, 44]⟩,
-  ⟨5, 1, 4, 4, 4, 4, true, false, 2, 64, 4, 0, 4, 4, 16, [0, 4, 8, 12, 16, 20, 24, 28, 32, 36, 40, 44, 48, 52, 56, 60]⟩,
-  ⟨5, 1, 2, 2, 8, 8, true, false, 0, 32, 8, 0, 2, 4, 16, [0, 8, 16, 24]⟩,
-  ⟨5, 1, 2, 3, 8, 8, true, false, 0, 48, 8, 0, 2, 4, 24, [0, 8, 16, 24, 32, 40]⟩,
-  ⟨5, 1, 2, 4, 8, 8, true, false, 0, 64, 8, 0, 2, 4, 32, [0, 8, 16, 24, 32, 40, 48, 56]⟩,
-  ⟨5, 1, 3, 2, 8, 8, true, false, 0, 48, 8, 0, 3, 4, 16, [0, 8, 16, 24, 32, 40]⟩,
-  ⟨5, 1, 3, 3, 8, 8, true, false, 0, 72, 8, 0, 3, 4, 24, [0, 8, 16, 24, 32, 40, 48, 56, 64]⟩,
-  ⟨5, 1, 3, 4, 8, 8, true, false, 0, 96, 8, 0, 3, 4, 32, [0, 8, 16, 24, 32, 40, 48, 56, 64, 72, 80, 88]⟩,
-  ⟨5, 1, 4, 2, 8, 8, true, false, 0, 64, 8, 0, 4, 4, 16, [0, 8, 16, 24, 32, 40, 48, 56]⟩,
-  ⟨5, 1, 4, 3, 8, 8, true, false, 0, 96, 8, 0, 4, 4, 24, [0, 8, 16, 24, 32, 40, 48, 56, 64, 72, 80, 88]⟩,
-  ⟨5, 1, 4, 4, 8, 8, true, false, 0, 128, 8, 0, 4, 4, 32, [0, 8, 16, 24, 32, 40, 48, 56, 64, 72, 80, 88, 96, 104, 112, 120]⟩,
-  ⟨5, 1, 2, 2, 8, 8, true, false, 1, 32, 8, 0, 2, 4, 16, [0, 8, 16, 24]⟩,
-  ⟨5, 1, 2, 3, 8, 8, true, false, 1, 48, 8, 0, 2, 4, 24, [0, 8, 16, 24, 32, 40]⟩,
-  ⟨5, 1, 2, 4, 8, 8, true, false, 1, 64, 8, 0, 2, 4, 32, [0, 8, 16, 24, 32, 40, 48, 56]⟩,
-  ⟨5, 1, 3, 2, 8, 8, true, false, 1, 48, 8, 0, 3, 4, 16, [0, 8, 16, 24, 32, 40]⟩,
-  ⟨5, 1, 3, 3, 8, 8, true, false, 1, 72, 8, 0, 3, 4, 24, [0, 8, 16, 24, 32, 40, 48, 56, 64]⟩,
-  ⟨5, 1, 3, 4, 8, 8, true, false, 1, 96, 8, 0, 3, 4, 32, [0, 8, 16, 24, 32, 40, 48, 56, 64, 72, 80, 88]⟩,
-  ⟨5, 1, 4, 2, 8, 8, true, false, 1, 64, 8, 0, 4, 4, 16, [0, 8, 16, 24, 32, 40, 48, 56]⟩,
-  ⟨5, 1, 4, 3, 8, 8, true, false, 1, 96, 8, 0, 4, 4, 24, [0, 8, 16, 24, 32, 40, 48, 56, 64, 72, 80, 88]⟩,
-  ⟨5, 1, 4, 4, 8, 8, true, false, 1, 128, 8, 0, 4, 4, 32, [0, 8, 16, 24, 32, 40, 48, 56, 64, 72, 80, 88, 96, 104, 112, 120]⟩,
-  ⟨5, 1, 2, 2, 8, 8, true, false, 2, 32, 8, 0, 2, 4, 16, [0, 8, 16, 24]⟩,
-  ⟨5, 1, 2, 3, 8, 8, true, false, 2, 48, 8, 0, 2, 4, 24, [0, 8, 16, 24, 32, 40]⟩,
-  ⟨5, 1, 2, 4, 8, 8, true, false, 2, 64, 8, 0, 2, 4, 32, [0, 8, 16, 24, 32, 40, 48, 56]⟩,
-  ⟨5, 1, 3, 2, 8, 8, true, false, 2, 48, 8, 0, 3, 4, 16, [0, 8, 16, 24, 32, 40]⟩,
-  ⟨5, 1, 3, 3, 8, 8, true, false, 2, 72, 8, 0, 3, 4, 24, [0, 8, 16, 24, 32, 40, 48, 56, 64]⟩,
-  ⟨5, 1, 3, 4, 8, 8, true, false, 2, 96, 8, 0, 3, 4, 32, [0, 8, 16, 24, 32, 40, 48, 56, 64, 72, 80, 88]⟩,
-  ⟨5, 1, 4, 2, 8, 8, true, false, 2, 64, 8, 0, 4, 4, 16, [0, 8, 16, 24, 32, 40, 48, 56]⟩,
-  ⟨5, 1, 4, 3, 8, 8, true, false, 2, 96, 8, 0, 4, 4, 24, [0, 8, 16, 24, 32, 40, 48, 56, 64, 72, 80, 88]⟩,
-  ⟨5, 1, 4, 4, 8, 8, true, false, 2, 128, 8, 0, 4, 4, 32, [0, 8, 16, 24, 32, 40, 48, 56, 64, 72, 80, 88, 96, 104, 112, 120]⟩,
-  ⟨5, 1, 2, 2, 4, 4, false, false, 0, 16, 4, 0, 2, 4, 8, [0, 4, 8, 12]⟩,
-  ⟨5, 1, 2, 3, 4, 4, false, false, 0, 24, 4, 0, 2, 4, 12, [0, 4, 8, 12, 16, 20]⟩,
-  ⟨5, 1, 2, 4, 4, 4, false, false, 0, 32, 4, 0, 2, 4, 16, [0, 4, 8, 12, 16, 20, 24, 28]⟩,
-  ⟨5, 1, 3, 2, 4, 4, false, false, 0, 24, 4, 0, 3, 4, 8, [0, 4, 8, 12, 16, 20]⟩,
-  ⟨5, 1, 3, 3, 4, 4, false, false, 0, 36, 4, 0, 3, 4, 12, [0, 4, 8, 12, 16, 20, 24, 28, 32]⟩,
-  ⟨5, 1, 3, 4, 4, 4, false, false, 0, 48, 4, 0, 3, 4, 16, [0, 4, 8, 12, 16, 20, 24, 28, 32, 36, 40, 44]⟩,
-  ⟨5, 1, 4, 2, 4, 4, false, false, 0, 32, 4, 0, 4, 4, 8, [0, 4, 8, 12, 16, 20, 24, 28]⟩,
-  ⟨5, 1, 4, 3, 4, 4, false, false, 0, 48, 4, 0, 4, 4, 12, [0, 4, 8, 12, 16, 20, 24, 28, 32, 36, 40, 44]⟩,
-  ⟨5, 1, 4, 4, 4, 4, false, false, 0, 64, 4, 0, 4, 4, 16, [0, 4, 8, 12, 16, 20, 24, 28, 32, 36, 40, 44, 48, 52, 56, 60]⟩,
-  ⟨5, 1, 2, 2, 4, 4, false, false, 1, 16, 4, 0, 2, 4, 8, [0, 4, 8, 12]⟩,
-  ⟨5, 1, 2, 3, 4, 4, false, false, 1, 24, 4, 0, 2, 4, 12, [0, 4, 8, 12, 16, 20]⟩,
-  ⟨5, 1, 2, 4, 4, 4, false, false, 1, 32, 4, 0, 2, 4, 16, [0, 4, 8, 12, 16, 20, 24, 28]⟩,
-  ⟨5, 1, 3, 2, 4, 4, false, false, 1, 24, 4, 0, 3, 4, 8, [0, 4, 8, 12, 16, 20]⟩,
-  ⟨5, 1, 3, 3, 4, 4, false, false, 1, 36, 4, 0, 3, 4, 12, [0, 4, 8, 12, 16, 20, 24, 28, 32]⟩,
-  ⟨5, 1, 3, 4, 4, 4, false, false, 1, 48, 4, 0, 3, 4, 16, [0, 4, 8, 12, 16, 20, 24, 28, 32, 36, 40, 44]⟩,
-  ⟨5, 1, 4, 2, 4, 4, false, false, 1, 32, 4, 0, 4, 4, 8, [0, 4, 8, 12, 16, 20, 24, 28]⟩,
-  ⟨5, 1, 4, 3, 4, 4, false, false, 1, 48, 4, 0, 4, 4, 12, [0, 4, 8, 12, 16, 20, 24, 28, 32, 36, 40, 44]⟩,
-  ⟨5, 1, 4, 4, 4, 4, false, false, 1, 64, 4, 0, 4, 4, 16, [0, 4, 8, 12, 16, 20, 24, 28, 32, 36, 40, 44, 48, 52, 56, 60]⟩,
-  ⟨5, 1, 2, 2, 4, 4, false, false, 2, 16, 4, 0, 2, 4, 8, [0, 4, 8, 12]⟩,
-  ⟨5, 1, 2, 3, 4, 4, false, false, 2, 24, 4, 0, 2, 4, 12, [0, 4, 8, 12, 16, 20]⟩,
-  ⟨5, 1, 2, 4, 4, 4, false, false, 2, 32, 4, 0, 2, 4, 16, [0, 4, 8, 12, 16, 20, 24, 28]⟩,
-  ⟨5, 1, 3, 2, 4, 4, false, false, 2, 24, 4, 0, 3, 4, 8, [0, 4, 8, 12, 16, 20]⟩,
-  ⟨5, 1, 3, 3, 4, 4, false, false, 2, 36, 4, 0, 3, 4, 12, [0, 4, 8, 12, 16, 20, 24, 28, 32]⟩,
-  ⟨5, 1, 3, 4, 4, 4, false, false, 2, 48, 4, 0, 3, 4, 16, [0, 4, 8, 12, 16, 20, 24, 28, 32, 36, 40, 44]⟩,
-  ⟨5, 1, 4, 2, 4, 4, false, false, 2, 32, 4, 0, 4, 4, 8, [0, 4, 8, 12, 16, 20, 24, 28]⟩,
-  ⟨5, 1, 4, 3, 4, 4, false, false, 2, 48, 4, 0, 4, 4, 12, [0, 4, 8, 12, 16, 20, 24, 28, 32, 36, 40, 44]⟩,
-  ⟨5, 1, 4, 4, 4, 4, false, false, 2, 64, 4, 0, 4, 4, 16, [0, 4, 8, 12, 16, 20, 24, 28, 32, 36, 40, 44, 48, 52, 56, 60]⟩,
-  ⟨5, 1, 2, 2, 4, 4, false, false, 0, 16, 4, 0, 2, 4, 8, [0, 4, 8, 12]⟩,
-  ⟨5, 1, 2, 3, 4, 4, false, false, 0, 24, 4, 0, 2, 4, 12, [0, 4, 8, 12, 16, 20]⟩,
-  ⟨5, 1, 2, 4, 4, 4, false, false, 0, 32, 4, 0, 2, 4, 16, [0, 4, 8, 12, 16, 20, 24, 28]⟩,
-  ⟨5, 1, 3, 2, 4, 4, false, false, 0, 24, 4, 0, 3, 4, 8, [0, 4, 8, 12, 16, 20]⟩,
-  ⟨5, 1, 3, 3, 4, 4, false, false, 0, 36, 4, 0, 3, 4, 12, [0, 4, 8, 12, 16, 20, 24, 28, 32]⟩,
-  ⟨5, 1, 3, 4, 4, 4, false, false, 0, 48, 4, 0, 3, 4, 16, [0, 4, 8, 12, 16, 20, 24, 28, 32, 36, 40, 44]⟩,
-  ⟨5, 1, 4, 2, 4, 4, false, false, 0, 32, 4, 0, 4, 4, 8, [0, 4, 8, 12, 16, 20, 24, 28]⟩,
-  ⟨5, 1, 4, 3, 4, 4, false, false, 0, 48, 4, 0, 4, 4, 12, [0, 4, 8, 12, 16, 20, 24, 28, 32, 36, 40, 44]⟩,
-  ⟨5, 1, 4, 4, 4, 4, false, false, 0, 64, 4, 0, 4, 4, 16, [0, 4, 8, 12, 16, 20, 24, 28, 32, 36, 40, 44, 48, 52, 56, 60]⟩,
-  ⟨5, 1, 2, 2, 4, 4, false, false, 1, 16, 4, 0, 2, 4, 8, [0, 4, 8, 12]⟩,
-  ⟨5, 1, 2, 3, 4, 4, false, false, 1, 24, 4, 0, 2, 4, 12, [0, 4, 8, 12, 16, 20]⟩,
-  ⟨5, 1, 2, 4, 4, 4, false, false, 1, 32, 4, 0, 2, 4, 16, [0, 4, 8, 12, 16, 20, 24, 28]⟩,
-  ⟨5, 1, 3, 2, 4, 4, false, false, 1, 24, 4, 0, 3, 4, 8, [0, 4, 8, 12, 16, 20]⟩,
-  ⟨5, 1, 3, 3, 4, 4, false, false, 1, 36, 4, 0, 3, 4, 12, [0, 4, 8, 12, 16, 20, 24, 28, 32]⟩,
-  ⟨5, 1, 3, 4, 4, 4, false, false, 1, 48, 4, 0, 3, 4, 16, [0, 4, 8, 12, 16, 20, 24, 28, 32, 36, 40, 44]⟩,
-  ⟨5, 1, 4, 2, 4, 4, false, false, 1, 32, 4, 0, 4, 4, 8, [0, 4, 8, 12, 16, 20, 24, 28]⟩,
-  ⟨5, 1, 4, 3, 4, 4, false, false, 1, 48, 4, 0, 4, 4, 12, [0, 4, 8, 12, 16, 20, 24, 28, 32, 36, 40, 44]⟩,
-  ⟨5, 1, 4, 4, 4, 4, false, false, 1, 64, 4, 0, 4, 4, 16, [0, 4, 8, 12, 16, 20, 24, 28, 32, 36, 40, 44, 48, 52, 56, 60]⟩,
-  ⟨5, 1, 2, 2, 4, 4, false, false, 2, 16, 4, 0, 2, 4, 8, [0, 4, 8, 12]⟩,
-  ⟨5, 1, 2, 3, 4, 4, false, false, 2, 24, 4, 0, 2, 4, 12, [0, 4, 8, 12, 16, 20]⟩,
-  ⟨5, 1, 2, 4, 4, 4, false, false, 2, 32, 4, 0, 2, 4, 16, [0, 4, 8, 12, 16, 20, 24, 28]⟩,
-  ⟨5, 1, 3, 2, 4, 4, false, false, 2, 24, 4, 0, 3, 4, 8, [0, 4, 8, 12, 16, 20]⟩,
-  ⟨5, 1, 3, 3, 4, 4, false, false, 2, 36, 4, 0, 3, 4, 12, [0, 4, 8, 12, 16, 20, 24, 28, 32]⟩,
-  ⟨5, 1, 3, 4, 4, 4, false, false, 2, 48, 4, 0, 3, 4, 16, [0, 4, 8, 12, 16, 20, 24, 28, 32, 36, 40, 44]⟩,
-  ⟨5, 1, 4, 2, 4, 4, false, false, 2, 32, 4, 0, 4, 4, 8, [0, 4, 8, 12, 16, 20, 24, 28]⟩,
-  ⟨5, 1, 4, 3, 4, 4, false, false, 2, 48, 4, 0, 4, 4, 12, [0, 4, 8, 12, 16, 20, 24, 28, 32, 36, 40, 44]⟩,
-  ⟨5, 1, 4, 4, 4, 4, false, false, 2, 64, 4, 0, 4, 4, 16, [0, 4, 8, 12, 16, 20, 24, 28, 32, 36, 40, 44, 48, 52, 56, 60]⟩,
-  ⟨5, 2, 4, 1, 4, 4, true, false, 0, 16, 4, 0, 4, 4, 0, [0, 4, 8, 12]⟩,
-  ⟨5, 2, 4, 1, 4, 4, true, false, 1, 16, 4, 0, 4, 4, 0, [0, 4, 8, 12]⟩,
-  ⟨5, 2, 4, 1, 4, 4, true, false, 2, 16, 4, 0, 4, 4, 0, [0, 4, 8, 12]⟩,
-  ⟨5, 2, 4, 1, 8, 8, true, false, 0, 32, 8, 0, 4, 4, 0, [0, 8, 16, 24]⟩,
-  ⟨5, 2, 4, 1, 8, 8, true, false, 1, 32, 8, 0, 4, 4, 0, [0, 8, 16, 24]⟩,
-  ⟨5, 2, 4, 1, 8, 8, true, false, 2, 32, 8, 0, 4, 4, 0, [0, 8, 16, 24]⟩,
-  ⟨5, 0, 1, 1, 1, 1, false, true, 0, 1, 1, 0, 1, 4, 0, [0]⟩,
-  ⟨5, 0, 2, 1, 1, 1, false, true, 0, 2, 2, 0, 2, 4, 0, [0, 1]⟩,
-  ⟨5, 0, 3, 1, 1, 1, false, true, 0, 4, 4, 0, 3, 4, 0, [0, 1, 2]⟩,
-  ⟨5, 0, 4, 1, 1, 1, false, true, 0, 4, 4, 0, 4, 4, 0, [0, 1, 2, 3]⟩,
-  ⟨5, 0, 1, 1, 1, 1, false, true, 1, 1, 1, 0, 1, 4, 0, [0]⟩,
-  ⟨5, 0, 2, 1, 1, 1, false, true, 1, 2, 2, 0, 2, 4, 0, [0, 1]⟩,
-  ⟨5, 0, 3, 1, 1, 1, false, true, 1, 4, 4, 0, 3, 4, 0, [0, 1, 2]⟩,
-  ⟨5, 0, 4, 1, 1, 1, false, true, 1, 4, 4, 0, 4, 4, 0, [0, 1, 2, 3]⟩,
-  ⟨5, 0, 1, 1, 1, 1, false, true, 2, 1, 1, 0, 1, 4, 0, [0]⟩,
-  ⟨5, 0, 2, 1, 1, 1, false, true, 2, 2, 2, 0, 2, 4, 0, [0, 1]⟩,
-  ⟨5, 0, 3, 1, 1, 1, false, true, 2, 4, 4, 0, 3, 4, 0, [0, 1, 2]⟩,
-  ⟨5, 0, 4, 1, 1, 1, false, true, 2, 4, 4, 0, 4, 4, 0, [0, 1, 2, 3]⟩,
-  ⟨5, 0, 1, 1, 1, 1, false, true, 0, 1, 1, 0, 1, 4, 0, [0]⟩,
-  ⟨5, 0, 2, 1, 1, 1, false, true, 0, 2, 2, 0, 2, 4, 0, [0, 1]⟩,
-  ⟨5, 0, 3, 1, 1, 1, false, true, 0, 4, 4, 0, 3, 4, 0, [0, 1, 2]⟩,
-  ⟨5, 0, 4, 1, 1, 1, false, true, 0, 4, 4, 0, 4, 4, 0, [0, 1, 2, 3]⟩,
-  ⟨5, 0, 1, 1, 1, 1, false, true, 1, 1, 1, 0, 1, 4, 0, [0]⟩,
-  ⟨5, 0, 2, 1, 1, 1, false, true, 1, 2, 2, 0, 2, 4, 0, [0, 1]⟩,
-  ⟨5, 0, 3, 1, 1, 1, false, true, 1, 4, 4, 0, 3, 4, 0, [0, 1, 2]⟩,
-  ⟨5, 0, 4, 1, 1, 1, false, true, 1, 4, 4, 0, 4, 4, 0, [0, 1, 2, 3]⟩,
-  ⟨5, 0, 1, 1, 1, 1, false, true, 2, 1, 1, 0, 1, 4, 0, [0]⟩,
-  ⟨5, 0, 2, 1, 1, 1, false, true, 2, 2, 2, 0, 2, 4, 0, [0, 1]⟩,
-  ⟨5, 0, 3, 1, 1, 1, false, true, 2, 4, 4, 0, 3, 4, 0, [0, 1, 2]⟩,
-  ⟨5, 0, 4, 1, 1, 1, false, true, 2, 4, 4, 0, 4, 4, 0, [0, 1, 2, 3]⟩,
-  ⟨5, 0, 1, 1, 1, 1, false, true, 0, 1, 1, 0, 1, 4, 0, [0]⟩,
-  ⟨5, 0, 2, 1, 1, 1, false, true, 0, 2, 2, 0, 2, 4, 0, [0, 1]⟩,
-  ⟨5, 0, 3, 1, 1, 1, false, true, 0, 4, 4, 0, 3, 4, 0, [0, 1, 2]⟩,
-  ⟨5, 0, 4, 1, 1, 1, false, true, 0, 4, 4, 0, 4, 4, 0, [0, 1, 2, 3]⟩,
-  ⟨5, 0, 1, 1, 1, 1, false, true, 1, 1, 1, 0, 1, 4, 0, [0]⟩,
-  ⟨5, 0, 2, 1, 1, 1, false, true, 1, 2, 2, 0, 2, 4, 0, [0, 1]⟩,
-  ⟨5, 0, 3, 1, 1, 1, false, true, 1, 4, 4, 0, 3, 4, 0, [0, 1, 2]⟩,
-  ⟨5, 0, 4, 1, 1, 1, false, true, 1, 4, 4, 0, 4, 4, 0, [0, 1, 2, 3]⟩,
-  ⟨5, 0, 1, 1, 1, 1, false, true, 2, 1, 1, 0, 1, 4, 0, [0]⟩,
-  ⟨5, 0, 2, 1, 1, 1, false, true, 2, 2, 2, 0, 2, 4, 0, [0, 1]⟩,
-  ⟨5, 0, 3, 1, 1, 1, false, true, 2, 4, 4, 0, 3, 4, 0, [0, 1, 2]⟩,
-  ⟨5, 0, 4, 1, 1, 1, false, true, 2, 4, 4, 0, 4, 4, 0, [0, 1, 2, 3]⟩,
-  ⟨5, 0, 1, 1, 2, 2, false, true, 0, 2, 2, 0, 1, 4, 0, [0]⟩,
-  ⟨5, 0, 2, 1, 2, 2, false, true, 0, 4, 4, 0, 2, 4, 0, [0, 2]⟩,
-  ⟨5, 0, 3, 1, 2, 2, false, true, 0, 8, 8, 0, 3, 4, 0, [0, 2, 4]⟩,
-  ⟨5, 0, 4, 1, 2, 2, false, true, 0, 8, 8, 0, 4, 4, 0, [0, 2, 4, 6]⟩,
-  ⟨5, 0, 1, 1, 2, 2, false, true, 1, 2, 2, 0, 1, 4, 0, [0]⟩,
-  ⟨5, 0, 2, 1, 2, 2, false, true, 1, 4, 4, 0, 2, 4, 0, [0, 2]⟩,
-  ⟨5, 0, 3, 1, 2, 2, false, true, 1, 8, 8, 0, 3, 4, 0, [0, 2, 4]⟩,
-  ⟨5, 0, 4, 1, 2, 2, false, true, 1, 8, 8, 0, 4, 4, 0, [0, 2, 4, 6]⟩,
-  ⟨5, 0, 1, 1, 2, 2, false, true, 2, 2, 2, 0, 1, 4, 0, [0]⟩,
-  ⟨5, 0, 2, 1, 2, 2, false, true, 2, 4, 4, 0, 2, 4, 0, [0, 2]⟩,
-  ⟨5, 0, 3, 1, 2, 2, false, true, 2, 8, 8, 0, 3, 4, 0, [0, 2, 4]⟩,
-  ⟨5, 0, 4, 1, 2, 2, false, true, 2, 8, 8, 0, 4, 4, 0, [0, 2, 4, 6]⟩,
-  ⟨5, 0, 1, 1, 2, 2, false, true, 0, 2, 2, 0, 1, 4, 0, [0]⟩,
-  ⟨5, 0, 2, 1, 2, 2, false, true, 0, 4, 4, 0, 2, 4, 0, [0, 2]⟩,
-  ⟨5, 0, 3, 1, 2, 2, false, true, 0, 8, 8, 0, 3, 4, 0, [0, 2, 4]⟩,
-  ⟨5, 0, 4, 1, 2, 2, false, true, 0, 8, 8, 0, 4, 4, 0, [0, 2, 4, 6]⟩,
-  ⟨5, 0, 1, 1, 2, 2, false, true, 1, 2, 2, 0, 1, 4, 0, [0]⟩,
-  ⟨5, 0, 2, 1, 2, 2, false, true, 1, 4, 4, 0, 2, 4, 0, [0, 2]⟩,
-  ⟨5, 0, 3, 1, 2, 2, false, true, 1, 8, 8, 0, 3, 4, 0, [0, 2, 4]⟩,
-  ⟨5, 0, 4, 1, 2, 2, false, true, 1, 8, 8, 0, 4, 4, 0, [0, 2, 4, 6]⟩,
-  ⟨5, 0, 1, 1, 2, 2, false, true, 2, 2, 2, 0, 1, 4, 0, [0]⟩,
-  ⟨5, 0, 2, 1, 2, 2, false, true, 2, 4, 4, 0, 2, 4, 0, [0, 2]⟩,
-  ⟨5, 0, 3, 1, 2, 2, false, true, 2, 8, 8, 0, 3, 4, 0, [0, 2, 4]⟩,
-  ⟨5, 0, 4, 1, 2, 2, false, true, 2, 8, 8, 0, 4, 4, 0, [0, 2, 4, 6]⟩,
-  ⟨5, 0, 1, 1, 4, 4, false, true, 0, 4, 4, 0, 1, 4, 0, [0]⟩,
-  ⟨5, 0, 2, 1, 4, 4, false, true, 0, 8, 8, 0, 2, 4, 0, [0, 4]⟩,
-  ⟨5, 0, 3, 1, 4, 4, false, true, 0, 16, 16, 0, 3, 4, 0, [0, 4, 8]⟩,
-  ⟨5, 0, 4, 1, 4, 4, false, true, 0, 16, 16, 0, 4, 4, 0, [0, 4, 8, 12]⟩,
-  ⟨5, 0, 1, 1, 4, 4, false, true, 1, 4, 4, 0, 1, 4, 0, [0]⟩,
-  ⟨5, 0, 2, 1, 4, 4, false, true, 1, 8, 8, 0, 2, 4, 0, [0, 4]⟩,
-  ⟨5, 0, 3, 1, 4, 4, false, true, 1, 16, 16, 0, 3, 4, 0, [0, 4, 8]⟩,
-  ⟨5, 0, 4, 1, 4, 4, false, true, 1, 16, 16, 0, 4, 4, 0, [0, 4, 8, 12]⟩,
-  ⟨5, 0, 1, 1, 4, 4, false, true, 2, 4, 4, 0, 1, 4, 0, [0]⟩,
-  ⟨5, 0, 2, 1, 4, 4, false, true, 2, 8, 8, 0, 2, 4, 0, [0, 4]⟩,
-  ⟨5, 0, 3, 1, 4, 4, false, true, 2, 16, 16, 0, 3, 4, 0, [0, 4, 8]⟩,
-  ⟨5, 0, 4, 1, 4, 4, false, true, 2, 16, 16, 0, 4, 4, 0, [0, 4, 8, 12]⟩,
-  ⟨5, 0, 1, 1, 4, 4, false, true, 0, 4, 4, 0, 1, 4, 0, [0]⟩,
-  ⟨5, 0, 2, 1, 4, 4, false, true, 0, 8, 8, 0, 2, 4, 0, [0, 4]⟩,
-  ⟨5, 0, 3, 1, 4, 4, false, true, 0, 16, 16, 0, 3, 4, 0, [0, 4, 8]⟩,
-  ⟨5, 0, 4, 1, 4, 4, false, true, 0, 16, 16, 0, 4, 4, 0, [0, 4, 8, 12]⟩,
-  ⟨5, 0, 1, 1, 4, 4, false, true, 1, 4, 4, 0, 1, 4, 0, [0]⟩,
-  ⟨5, 0, 2, 1, 4, 4, false, true, 1, 8, 8, 0, 2, 4, 0, [0, 4]⟩,
-  ⟨5, 0, 3, 1, 4, 4, false, true, 1, 16, 16, 0, 3, 4, 0, [0, 4, 8]⟩,
-  ⟨5, 0, 4, 1, 4, 4, false, true, 1, 16, 16, 0, 4, 4, 0, [0, 4, 8, 12]⟩,
-  ⟨5, 0, 1, 1, 4, 4, false, true, 2, 4, 4, 0, 1, 4, 0, [0]⟩,
-  ⟨5, 0, 2, 1, 4, 4, false, true, 2, 8, 8, 0, 2, 4, 0, [0, 4]⟩,
-  ⟨5, 0, 3, 1, 4, 4, false, true, 2, 16, 16, 0, 3, 4, 0, [0, 4, 8]⟩,
-  ⟨5, 0, 4, 1, 4, 4, false, true, 2, 16, 16, 0, 4, 4, 0, [0, 4, 8, 12]⟩,
-  ⟨5, 0, 1, 1, 8, 8, false, true, 0, 8, 8, 0, 1, 4, 0, [0]⟩,
-  ⟨5, 0, 2, 1, 8, 8, false, true, 0, 16, 16, 0, 2, 4, 0, [0, 8]⟩,
-  ⟨5, 0, 3, 1, 8, 8, false, true, 0, 32, 32, 0, 3, 4, 0, [0, 8, 16]⟩,
-  ⟨5, 0, 4, 1, 8, 8, false, true, 0, 32, 32, 0, 4, 4, 0, [0, 8, 16, 24]⟩,
-  ⟨5, 0, 1, 1, 8, 8, false, true, 1, 8, 8, 0, 1, 4, 0, [0]⟩,
-  ⟨5, 0, 2, 1, 8, 8, false, true, 1, 16, 16, 0, 2, 4, 0, [0, 8]⟩,
-  ⟨5, 0, 3, 1, 8, 8, false, true, 1, 32, 32, 0, 3, 4, 0, [0, 8, 16]⟩,
-  ⟨5, 0, 4, 1, 8, 8, false, true, 1, 32, 32, 0, 4, 4, 0, [0, 8, 16, 24]⟩,
-  ⟨5, 0, 1, 1, 8, 8, false, true, 2, 8, 8, 0, 1, 4, 0, [0]⟩,
-  ⟨5, 0, 2, 1, 8, 8, false, true, 2, 16, 16, 0, 2, 4, 0, [0, 8]⟩,
-  ⟨5, 0, 3, 1, 8, 8, false, true, 2, 32, 32, 0, 3, 4, 0, [0, 8, 16]⟩,
-  ⟨5, 0, 4, 1, 8, 8, false, true, 2, 32, 32, 0, 4, 4, 0, [0, 8, 16, 24]⟩,
-  ⟨5, 0, 1, 1, 8, 8, false, true, 0, 8, 8, 0, 1, 4, 0, [0]⟩,
-  ⟨5, 0, 2, 1, 8, 8, false, true, 0, 16, 16, 0, 2, 4, 0, [0, 8]⟩,
-  ⟨5, 0, 3, 1, 8, 8, false, true, 0, 32, 16, 0, 3, 4, 0, [0, 8, 16]⟩,
-  ⟨5, 0, 4, 1, 8, 8, false, true, 0, 32, 32, 0, 4, 4, 0, [0, 8, 16, 24]⟩,
-  ⟨5, 0, 1, 1, 8, 8, false, true, 1, 8, 8, 0, 1, 4, 0, [0]⟩,
-  ⟨5, 0, 2, 1, 8, 8, false, true, 1, 16, 16, 0, 2, 4, 0, [0, 8]⟩,
-  ⟨5, 0, 3, 1, 8, 8, false, true, 1, 32, 16, 0, 3, 4, 0, [0, 8, 16]⟩,
-  ⟨5, 0, 4, 1, 8, 8, false, true, 1, 32, 32, 0, 4, 4, 0, [0, 8, 16, 24]⟩,
-  ⟨5, 0, 1, 1, 8, 8, false, true, 2, 8, 8, 0, 1, 4, 0, [0]⟩,
-  ⟨5, 0, 2, 1, 8, 8, false, true, 2, 16, 16, 0, 2, 4, 0, [0, 8]⟩,
-  ⟨5, 0, 3, 1, 8, 8, false, true, 2, 32, 16, 0, 3, 4, 0, [0, 8, 16]⟩,
-  ⟨5, 0, 4, 1, 8, 8, false, true, 2, 32, 32, 0, 4, 4, 0, [0, 8, 16, 24]⟩,
-  ⟨5, 0, 1, 1, 4, 4, true, true, 0, 4, 4, 0, 1, 4, 0, [0]⟩,
-  ⟨5, 0, 2, 1, 4, 4, true, true, 0, 8, 8, 0, 2, 4, 0, [0, 4]⟩,
-  ⟨5, 0, 3, 1, 4, 4, true, true, 0, 16, 16, 0, 3, 4, 0, [0, 4, 8]⟩,
-  ⟨5, 0, 4, 1, 4, 4, true, true, 0, 16, 16, 0, 4, 4, 0, [0, 4, 8, 12]⟩,
-  ⟨5, 0, 1, 1, 4, 4, true, true, 1, 4, 4, 0, 1, 4, 0, [0]⟩,
-  ⟨5, 0, 2, 1, 4, 4, true, true, 1, 8, 8, 0, 2, 4, 0, [0, 4]⟩,
-  ⟨5, 0, 3, 1, 4, 4, true, true, 1, 16, 16, 0, 3, 4, 0, [0, 4, 8]⟩,
-  ⟨5, 0, 4, 1, 4, 4, true, true, 1, 16, 16, 0, 4, 4, 0, [0, 4, 8, 12]⟩,
-  ⟨5, 0, 1, 1, 4, 4, true, true, 2, 4, 4, 0, 1, 4, 0, [0]⟩,
-  ⟨5, 0, 2, 1, 4, 4, true, true, 2, 8, 8, 0, 2, 4, 0, [0, 4]⟩,
-  ⟨5, 0, 3, 1, 4, 4, true, true, 2, 16, 16, 0, 3, 4, 0, [0, 4, 8]⟩,
-  ⟨5, 0, 4, 1, 4, 4, true, true, 2, 16, 16, 0, 4, 4, 0, [0, 4, 8, 12]⟩,
-  ⟨5, 0, 1, 1, 8, 8, true, true, 0, 8, 8, 0, 1, 4, 0, [0]⟩,
-  ⟨5, 0, 2, 1, 8, 8, true, true, 0, 16, 16, 0, 2, 4, 0, [0, 8]⟩,
-  ⟨5, 0, 3, 1, 8, 8, true, true, 0, 32, 16, 0, 3, 4, 0, [0, 8, 16]⟩,
-  ⟨5, 0, 4, 1, 8, 8, true, true, 0, 32, 16, 0, 4, 4, 0, [0, 8, 16, 24]⟩,
-  ⟨5, 0, 1, 1, 8, 8, true, true, 1, 8, 8, 0, 1, 4, 0, [0]⟩,
-  ⟨5, 0, 2, 1, 8, 8, true, true, 1, 16, 16, 0, 2, 4, 0, [0, 8]⟩,
-  ⟨5, 0, 3, 1, 8, 8, true, true, 1, 32, 16, 0, 3, 4, 0, [0, 8, 16]⟩,
-  ⟨5, 0, 4, 1, 8, 8, true, true, 1, 32, 16, 0, 4, 4, 0, [0, 8, 16, 24]⟩,
-  ⟨5, 0, 1, 1, 8, 8, true, true, 2, 8, 8, 0, 1, 4, 0, [0]⟩,
-  ⟨5, 0, 2, 1, 8, 8, true, true, 2, 16, 16, 0, 2, 4, 0, [0, 8]⟩,
-  ⟨5, 0, 3, 1, 8, 8, true, true, 2, 32, 16, 0, 3, 4, 0, [0, 8, 16]⟩,
-  ⟨5, 0, 4, 1, 8, 8, true, true, 2, 32, 16, 0, 4, 4, 0, [0, 8, 16, 24]⟩,
-  ⟨5, 1, 2, 2, 4, 4, true, true, 0, 16, 8, 0, 2, 4, 8, [0, 4, 8, 12]⟩,
-  ⟨5, 1, 2, 3, 4, 4, true, true, 0, 32, 16, 0, 2, 4, 16, [0, 4, 8, 16, 20, 24]⟩,
-  ⟨5, 1, 2, 4, 4, 4, true, true, 0, 32, 16, 0, 2, 4, 16, [0, 4, 8, 12, 16, 20, 24, 28]⟩,
-  ⟨5, 1, 3, 2, 4, 4, true, true, 0, 24, 8, 0, 3, 4, 8, [0, 4, 8, 12, 16, 20]⟩,
-  ⟨5, 1, 3, 3, 4, 4, true, true, 0, 48, 16, 0, 3, 4, 16, [0, 4, 8, 16, 20, 24, 32, 36, 40]⟩,
-  ⟨5, 1, 3, 4, 4, 4, true, true, 0, 48, 16, 0, 3, 4, 16, [0, 4, 8, 12, 16, 20, 24, 28, 32, 36, 40, 44]⟩,
-  ⟨5, 1, 4, 2, 4, 4, true, true, 0, 32, 8, 0, 4, 4, 8, [0, 4, 8, 12, 16, 20, 24, 28]⟩,
-  ⟨5, 1, 4, 3, 4, 4, true, true, 0, 64, 16, 0, 4, 4, 16, [0, 4, 8, 16, 20, 24, 32, 36, 40, 48, 52, 56]⟩,
-  ⟨5, 1, 4, 4, 4, 4, true, true, 0, 64, 16, 0, 4, 4, 16, [0, 4, 8, 12, 16, 20, 24, 28, 32, 36, 40, 44, 48, 52, 56, 60]⟩,
-  ⟨5, 1, 2, 2, 4, 4, true, true, 1, 16, 8, 0, 2, 4, 8, [0, 4, 8, 12]⟩,
-  ⟨5, 1, 2, 3, 4, 4, true, true, 1, 32, 16, 0, 2, 4, 16, [0, 4, 8, 16, 20, 24]⟩,
-  ⟨5, 1, 2, 4, 4, 4, true, true, 1, 32, 16, 0, 2, 4, 16, [0, 4, 8, 12, 16, 20, 24, 28]⟩,
-  ⟨5, 1, 3, 2, 4, 4, true, true, 1, 24, 8, 0, 3, 4, 8, [0, 4, 8, 12, 16, 20]⟩,
-  ⟨5, 1, 3, 3, 4, 4, true, true, 1, 48, 16, 0, 3, 4, 16, [0, 4, 8, 16, 20, 24, 32, 36, 40]⟩,
-  ⟨5, 1, 3, 4, 4, 4, true, true, 1, 48, 16, 0, 3, 4, 16, [0, 4, 8, 12, 16, 20, 24, 28, 32, 36, 40, 44]⟩,
-  ⟨5, 1, 4, 2, 4, 4, true, true, 1, 32, 8, 0, 4, 4, 8, [0, 4, 8, 12, 16, 20, 24, 28]⟩,
-  ⟨5, 1, 4, 3, 4, 4, true, true, 1, 64, 16, 0, 4, 4, 16, [0, 4, 8, 16, 20, 24, 32, 36, 40, 48, 52, 56]⟩,
-  ⟨5, 1, 4, 4, 4, 4, true, true, 1, 64, 16, 0, 4, 4, 16, [0, 4, 8, 12, 16, 20, 24, 28, 32, 36, 40, 44, 48, 52, 56, 60]⟩,
-  ⟨5, 1, 2, 2, 4, 4, true, true, 2, 16, 8, 0, 2, 4, 8, [0, 4, 8, 12]⟩,
-  ⟨5, 1, 2, 3, 4, 4, true, true, 2, 32, 16, 0, 2, 4, 16, [0, 4, 8, 16, 20, 24]⟩,
-  ⟨5, 1, 2, 4, 4, 4, true, true, 2, 32, 16, 0, 2, 4, 16, [0, 4, 8, 12, 16, 20, 24, 28]⟩,
-  ⟨5, 1, 3, 2, 4, 4, true, true, 2, 24, 8, 0, 3, 4, 8, [0, 4, 8, 12, 16, 20]⟩,
-  ⟨5, 1, 3, 3, 4, 4, true, true, 2, 48, 16, 0, 3, 4, 16, [0, 4, 8, 16, 20, 24, 32, 36, 40]⟩,
-  ⟨5, 1, 3, 4, 4, 4, true, true, 2, 48, 16, 0, 3, 4, 16, [0, 4, 8, 12, 16, 20, 24, 28, 32, 36, 40, 44]⟩,
-  ⟨5, 1, 4, 2, 4, 4, true, true, 2, 32, 8, 0, 4, 4, 8, [0, 4, 8, 12, 16, 20, 24, 28]⟩,
-  ⟨5, 1, 4, 3, 4, 4, true, true, 2, 64, 16, 0, 4, 4, 16, [0, 4, 8, 16, 20, 24, 32, 36, 40, 48, 52, 56]⟩,
-  ⟨5, 1, 4, 4, 4, 4, true, true, 2, 64, 16, 0, 4, 4, 16, [0, 4, 8, 12, 16, 20, 24, 28, 32, 36, 40, 44, 48, 52, 56, 60]⟩,
-  ⟨5, 1, 2, 2, 8, 8, true, true, 0, 32, 16, 0, 2, 4, 16, [0, 8, 16, 24]⟩,
-  ⟨5, 1, 2, 3, 8, 8, true, true, 0, 64, 16, 0, 2, 4, 32, [0, 8, 16, 32, 40, 48]⟩,
-  ⟨5, 1, 2, 4, 8, 8, true, true, 0, 64, 16, 0, 2, 4, 32, [0, 8, 16, 24, 32, 40, 48, 56]⟩,
-  ⟨5, 1, 3, 2, 8, 8, true, true, 0, 48, 16, 0, 3, 4, 16, [0, 8, 16, 24, 32, 40]⟩,
-  ⟨5, 1, 3, 3, 8, 8, true, true, 0, 96, 16, 0, 3, 4, 32, [0, 8, 16, 32, 40, 48, 64, 72, 80]⟩,
-  ⟨5, 1, 3, 4, 8, 8, true, true, 0, 96, 16, 0, 3, 4, 32, [0, 8, 16, 24, 32, 40, 48, 56, 64, 72, 80, 88]⟩,
-  ⟨5, 1, 4, 2, 8, 8, true, true, 0, 64, 16, 0, 4, 4, 16, [0, 8, 16, 24, 32, 40, 48, 56]⟩,
-  ⟨5, 1, 4, 3, 8, 8, true, true, 0, 128, 16, 0, 4, 4, 32, [0, 8, 16, 32, 40, 48, 64, 72, 80, 96, 104, 112]⟩,
-  ⟨5, 1, 4, 4, 8, 8, true, true, 0, 128, 16, 0, 4, 4, 32, [0, 8, 16, 24, 32, 40, 48, 56, 64, 72, 80, 88, 96, 104, 112, 120]⟩,
-  ⟨5, 1, 2, 2, 8, 8, true, true, 1, 32, 16, 0, 2, 4, 16, [0, 8, 16, 24]⟩,
-  ⟨5, 1, 2, 3, 8, 8, true, true, 1, 64, 16, 0, 2, 4, 32, [0, 8, 16, 32, 40, 48]⟩,
-  ⟨5, 1, 2, 4, 8, 8, true, true, 1, 64, 16, 0, 2, 4, 32, [0, 8, 16, 24, 32, 40, 48, 56]⟩,
-  ⟨5, 1, 3, 2, 8, 8, true, true, 1, 48, 16, 0, 3, 4, 16, [0, 8, 16, 24, 32, 40]⟩,
-  ⟨5, 1, 3, 3, 8, 8, true, true, 1, 96, 16, 0, 3, 4, 32, [0, 8, 16, 32, 40, 48, 64, 72, 80]⟩,
-  ⟨5, 1, 3, 4, 8, 8, true, true, 1, 96, 16, 0, 3, 4, 32, [0, 8, 16, 24, 32, 40, 48, 56, 64, 72, 80, 88]⟩,
-  ⟨5, 1, 4, 2, 8, 8, true, true, 1, 64, 16, 0, 4, 4, 16, [0, 8, 16, 24, 32, 40, 48, 56]⟩,
-  ⟨5, 1, 4, 3, 8, 8, true, true, 1, 128, 16, 0, 4, 4, 32, [0, 8, 16, 32, 40, 48, 64, 72, 80, 96, 104, 112]⟩,
-  ⟨5, 1, 4, 4, 8, 8, true, true, 1, 128, 16, 0, 4, 4, 32, [0, 8, 16, 24, 32, 40, 48, 56, 64, 72, 80, 88, 96, 104, 112, 120]⟩,
-  ⟨5, 1, 2, 2, 8, 8, true, true, 2, 32, 16, 0, 2, 4, 16, [0, 8, 16, 24]⟩,
-  ⟨5, 1, 2, 3, 8, 8, true, true, 2, 64, 16, 0, 2, 4, 32, [0, 8, 16, 32, 40, 48]⟩,
-  ⟨5, 1, 2, 4, 8, 8, true, true, 2, 64, 16, 0, 2, 4, 32, [0, 8, 16, 24, 32, 40, 48, 56]⟩,
-  ⟨5, 1, 3, 2, 8, 8, true, true, 2, 48, 16, 0, 3, 4, 16, [0, 8, 16, 24, 32, 40]⟩,
-  ⟨5, 1, 3, 3, 8, 8, true, true, 2, 96, 16, 0, 3, 4, 32, [0, 8, 16, 32, 40, 48, 64, 72, 80]⟩,
-  ⟨5, 1, 3, 4, 8, 8, true, true, 2, 96, 16, 0, 3, 4, 32, [0, 8, 16, 24, 32, 40, 48, 56, 64, 72, 80, 88]⟩,
-  ⟨5, 1, 4, 2, 8, 8, true, true, 2, 64, 16, 0, 4, 4, 16, [0, 8, 16, 24, 32, 40, 48, 56]⟩,
-  ⟨5, 1, 4, 3, 8, 8, true, true, 2, 128, 16, 0, 4, 4, 32, [0, 8, 16, 32, 40, 48, 64, 72, 80, 96, 104, 112]⟩,
-  ⟨5, 1, 4, 4, 8, 8, true, true, 2, 128, 16, 0, 4, 4, 32, [0, 8, 16, 24, 32, 40, 48, 56, 64, 72, 80, 88, 96, 104, 112, 120]⟩,
-  ⟨5, 1, 2, 2, 4, 4, false, true, 0, 16, 8, 0, 2, 4, 8, [0, 4, 8, 12]⟩,
-  ⟨5, 1, 2, 3, 4, 4, false, true, 0, 32, 16, 0, 2, 4, 16, [0, 4, 8, 16, 20, 24]⟩,
-  ⟨5, 1, 2, 4, 4, 4, false, true, 0, 32, 16, 0, 2, 4, 16, [0, 4, 8, 12, 16, 20, 24, 28]⟩,
-  ⟨5, 1, 3, 2, 4, 4, false, true, 0, 24, 8, 0, 3, 4, 8, [0, 4, 8, 12, 16, 20]⟩,
-  ⟨5, 1, 3, 3, 4, 4, false, true, 0, 48, 16, 0, 3, 4, 16, [0, 4, 8, 16, 20, 24, 32, 36, 40]⟩,
-  ⟨5, 1, 3, 4, 4, 4, false, true, 0, 48, 16, 0, 3, 4, 16, [0, 4, 8, 12, 16, 20, 24, 28, 32, 36, 40, 44]⟩,
-  ⟨5, 1, 4, 2, 4, 4, false, true, 0, 32, 8, 0, 4, 4, 8, [0, 4, 8, 12, 16, 20, 24, 28]⟩,
-  ⟨5, 1, 4, 3, 4, 4, false, true, 0, 64, 16, 0, 4, 4, 16, [0, 4, 8, 16, 20, 24, 32, 36, 40, 48, 52, 56]⟩,
-  ⟨5, 1, 4, 4, 4, 4, false, true, 0, 64, 16, 0, 4, 4, 16, [0, 4, 8, 12, 16, 20, 24, 28, 32, 36, 40, 44, 48, 52, 56, 60]⟩,
-  ⟨5, 1, 2, 2, 4, 4, false, true, 1, 16, 8, 0, 2, 4, 8, [0, 4, 8, 12]⟩,
-  ⟨5, 1, 2, 3, 4, 4, false, true, 1, 32, 16, 0, 2, 4, 16, [0, 4, 8, 16, 20, 24]⟩,
-  ⟨5, 1, 2, 4, 4, 4, false, true, 1, 32, 16, 0, 2, 4, 16, [0, 4, 8, 12, 16, 20, 24, 28]⟩,
-  ⟨5, 1, 3, 2, 4, 4, false, true, 1, 24, 8, 0, 3, 4, 8, [0, 4, 8, 12, 16, 20]⟩,
-  ⟨5, 1, 3, 3, 4, 4, false, true, 1, 48, 16, 0, 3, 4, 16, [0, 4, 8, 16, 20, 24, 32, 36, 40]⟩,
-  ⟨5, 1, 3, 4, 4, 4, false, true, 1, 48, 16, 0, 3, 4, 16, [0, 4, 8, 12, 16, 20, 24, 28, 32, 36, 40, 44]⟩,
-  ⟨5, 1, 4, 2, 4, 4, false, true, 1, 32, 8, 0, 4, 4, 8, [0, 4, 8, 12, 16, 20, 24, 28]⟩,
-  ⟨5, 1, 4, 3, 4, 4, false, true, 1, 64, 16, 0, 4, 4, 16, [0, 4, 8, 16, 20, 24, 32, 36, 40, 48, 52, 56]⟩,
-  ⟨5, 1, 4, 4, 4, 4, false, true, 1, 64, 16, 0, 4, 4, 16, [0, 4, 8, 12, 16, 20, 24, 28, 32, 36, 40, 44, 48, 52, 56, 60]⟩,
-  ⟨5, 1, 2, 2, 4, 4, false, true, 2, 16, 8, 0, 2, 4, 8, [0, 4, 8, 12]⟩,
-  ⟨5, 1, 2, 3, 4, 4, false, true, 2, 32, 16, 0, 2, 4, 16, [0, 4, 8, 16, 20, 24]⟩,
-  ⟨5, 1, 2, 4, 4, 4, false, true, 2, 32, 16, 0, 2, 4, 16, [0, 4, 8, 12, 16, 20, 24, 28]⟩,
-  ⟨5, 1, 3, 2, 4, 4, false, true, 2, 24, 8, 0, 3, 4, 8, [0, 4, 8, 12, 16, 20]⟩,
-  ⟨5, 1, 3, 3, 4, 4, false, true, 2, 48, 16, 0, 3, 4, 16, [0, 4, 8, 16, 20, 24, 32, 36, 40]⟩,
-  ⟨5, 1, 3, 4, 4, 4, false, true, 2, 48, 16, 0, 3, 4, 16, [0, 4, 8, 12, 16, 20, 24, 28, 32, 36, 40, 44]⟩,
-  ⟨5, 1, 4, 2, 4, 4, false, true, 2, 32, 8, 0, 4, 4, 8, [0, 4, 8, 12, 16, 20, 24, 28]⟩,
-  ⟨5, 1, 4, 3, 4, 4, false, true, 2, 64, 16, 0, 4, 4, 16, [0, 4, 8, 16, 20, 24, 32, 36, 40, 48, 52, 56]⟩,
-  ⟨5, 1, 4, 4, 4, 4, false, true, 2, 64, 16, 0, 4, 4, 16, [0, 4, 8, 12, 16, 20, 24, 28, 32, 36, 40, 44, 48, 52, 56, 60]⟩,
-  ⟨5, 1, 2, 2, 4, 4, false, true, 0, 16, 8, 0, 2, 4, 8, [0, 4, 8, 12]⟩,
-  ⟨5, 1, 2, 3, 4, 4, false, true, 0, 32, 16, 0, 2, 4, 16, [0, 4, 8, 16, 20, 24]⟩,
-  ⟨5, 1, 2, 4, 4, 4, false, true, 0, 32, 16, 0, 2, 4, 16, [0, 4, 8, 12, 16, 20, 24, 28]⟩,
-  ⟨5, 1, 3, 2, 4, 4, false, true, 0, 24, 8, 0, 3, 4, 8, [0, 4, 8, 12, 16, 20]⟩,
-  ⟨5, 1, 3, 3, 4, 4, false, true, 0, 48, 16, 0, 3, 4, 16, [0, 4, 8, 16, 20, 24, 32, 36, 40]⟩,
-  ⟨5, 1, 3, 4, 4, 4, false, true, 0, 48, 16, 0, 3, 4, 16, [0, 4, 8, 12, 16, 20, 24, 28, 32, 36, 40, 44]⟩,
-  ⟨5, 1, 4, 2, 4, 4, false, true, 0, 32, 8, 0, 4, 4, 8, [0, 4, 8, 12, 16, 20, 24, 28]⟩,
-  ⟨5, 1, 4, 3, 4, 4, false, true, 0, 64, 16, 0, 4, 4, 16, [0, 4, 8, 16, 20, 24, 32, 36, 40, 48, 52, 56]⟩,
-  ⟨5, 1, 4, 4, 4, 4, false, true, 0, 64, 16, 0, 4, 4, 16, [0, 4, 8, 12, 16, 20, 24, 28, 32, 36, 40, 44, 48, 52, 56, 60]⟩,
-  ⟨5, 1, 2, 2, 4, 4, false, true, 1, 16, 8, 0, 2, 4, 8, [0, 4, 8, 12]⟩,
-  ⟨5, 1, 2, 3, 4, 4, false, true, 1, 32, 16, 0, 2, 4, 16, [0, 4, 8, 16, 20, 24]⟩,
-  ⟨5, 1, 2, 4, 4, 4, false, true, 1, 32, 16, 0, 2, 4, 16, [0, 4, 8, 12, 16, 20, 24, 28]⟩,
-  ⟨5, 1, 3, 2, 4, 4, false, true, 1, 24, 8, 0, 3, 4, 8, [0, 4, 8, 12, 16, 20]⟩,
-  ⟨5, 1, 3, 3, 4, 4, false, true, 1, 48, 16, 0, 3, 4, 16, [0, 4, 8, 16, 20, 24, 32, 36, 40]⟩,
-  ⟨5, 1, 3, 4, 4, 4, false, true, 1, 48, 16, 0, 3, 4, 16, [0, 4, 8, 12, 16, 20, 24, 28, 32, 36, 40, 44]⟩,
-  ⟨5, 1, 4, 2, 4, 4, false, true, 1, 32, 8, 0, 4, 4, 8, [0, 4, 8, 12, 16, 20, 24, 28]⟩,
-  ⟨5, 1, 4, 3, 4, 4, false, true, 1, 64, 16, 0, 4, 4, 16, [0, 4, 8, 16, 20, 24, 32, 36, 40, 48, 52, 56]⟩,
-  ⟨5, 1, 4, 4, 4, 4, false, true, 1, 64, 16, 0, 4, 4, 16, [0, 4, 8, 12, 16, 20, 24, 28, 32, 36, 40, 44, 48, 52, 56, 60]⟩,
-  ⟨5, 1, 2, 2, 4, 4, false, true, 2, 16, 8, 0, 2, 4, 8, [0, 4, 8, 12]⟩,
-  ⟨5, 1, 2, 3, 4, 4, false, true, 2, 32, 16, 0, 2, 4, 16, [0, 4, 8, 16, 20, 24]⟩,
-  ⟨5, 1, 2, 4, 4, 4, false, true, 2, 32, 16, 0, 2, 4, 16, [0, 4, 8, 12, 16, 20, 24, 28]⟩,
-  ⟨5, 1, 3, 2, 4, 4, false, true, 2, 24, 8, 0, 3, 4, 8, [0, 4, 8, 12, 16, 20]⟩,
-  ⟨5, 1, 3, 3, 4, 4, false, true, 2, 48, 16, 0, 3, 4, 16, [0, 4, 8, 16, 20, 24, 32, 36, 40]⟩,
-  ⟨5, 1, 3, 4, 4, 4, false, true, 2, 48, 16, 0, 3, 4, 16, [0, 4, 8, 12, 16, 20, 24, 28, 32, 36, 40, 44]⟩,
-  ⟨5, 1, 4, 2, 4, 4, false, true, 2, 32, 8, 0, 4, 4, 8, [0, 4, 8, 12, 16, 20, 24, 28]⟩,
-  ⟨5, 1, 4, 3, 4, 4, false, true, 2, 64, 16, 0, 4, 4, 16, [0, 4, 8, 16, 20, 24, 32, 36, 40, 48, 52, 56]⟩,
-  ⟨5, 1, 4, 4, 4, 4, false, true, 2, 64, 16, 0, 4, 4, 16, [0, 4, 8, 12, 16, 20, 24, 28, 32, 36, 40, 44, 48, 52, 56, 60]⟩,
-  ⟨5, 2, 4, 1, 4, 4, true, true, 0, 16, 16, 0, 4, 4, 0, [0, 4, 8, 12]⟩,
-  ⟨5, 2, 4, 1, 4, 4, true, true, 1, 16, 16, 0, 4, 4, 0, [0, 4, 8, 12]⟩,
-  ⟨5, 2, 4, 1, 4, 4, true, true, 2, 16, 16, 0, 4, 4, 0, [0, 4, 8, 12]⟩,
-  ⟨5, 2, 4, 1, 8, 8, true, true, 0, 32, 16, 0, 4, 4, 0, [0, 8, 16, 24]⟩,
-  ⟨5, 2, 4, 1, 8, 8, true, true, 1, 32, 16, 0, 4, 4, 0, [0, 8, 16, 24]⟩,
-  ⟨5, 2, 4, 1, 8, 8, true, true, 2, 32, 16, 0, 4, 4, 0, [0, 8, 16, 24]⟩,
-  ⟨6, 0, 1, 1, 1, 1, false, false, 0, 1, 1, 0, 1, 4, 0, [0]⟩,
-  ⟨6, 0, 2, 1, 1, 1, false, false, 0, 2, 1, 0, 2, 4, 0, [0, 1]⟩,
-  ⟨6, 0, 3, 1, 1, 1, false, false, 0, 3, 1, 0, 3, 4, 0, [0, 1, 2]⟩,
-  ⟨6, 0, 4, 1, 1, 1, false, false, 0, 4, 1, 0, 4, 4, 0, [0, 1, 2, 3]⟩,
-  ⟨6, 0, 1, 1, 1, 1, false, false, 1, 1, 1, 0, 1, 4, 0, [0]⟩,
-  ⟨6, 0, 2, 1, 1, 1, false, false, 1, 2, 1, 0, 2, 4, 0, [0, 1]⟩,
-  ⟨6, 0, 3, 1, 1, 1, false, false, 1, 3, 1, 0, 3, 4, 0, [0, 1, 2]⟩,
-  ⟨6, 0, 4, 1, 1, 1, false, false, 1, 4, 1, 0, 4, 4, 0, [0, 1, 2, 3]⟩,
-  ⟨6, 0, 1, 1, 1, 1, false, false, 2, 1, 1, 0, 1, 4, 0, [0]⟩,
-  ⟨6, 0, 2, 1, 1, 1, false, false, 2, 2, 1, 0, 2, 4, 0, [0, 1]⟩,
-  ⟨6, 0, 3, 1, 1, 1, false, false, 2, 3, 1, 0, 3, 4, 0, [0, 1, 2]⟩,
-  ⟨6, 0, 4, 1, 1, 1, false, false, 2, 4, 1, 0, 4, 4, 0, [0, 1, 2, 3]⟩,
-  ⟨6, 0, 1, 1, 1, 1, false, false, 0, 1, 1, 0, 1, 4, 0, [0]⟩,
-  ⟨6, 0, 2, 1, 1, 1, false, false, 0, 2, 1, 0, 2, 4, 0, [0, 1]⟩,
-  ⟨6, 0, 3, 1, 1, 1, false, false, 0, 3, 1, 0, 3, 4, 0, [0, 1, 2]⟩,
-  ⟨6, 0, 4, 1, 1, 1, false, false, 0, 4, 1, 0, 4, 4, 0, [0, 1, 2, 3]⟩,
-  ⟨6, 0, 1, 1, 1, 1, false, false, 1, 1, 1, 0, 1, 4, 0, [0]⟩,
-  ⟨6, 0, 2, 1, 1, 1, false, false, 1, 2, 1, 0, 2, 4, 0, [0, 1]⟩,
-  ⟨6, 0, 3, 1, 1, 1, false, false, 1, 3, 1, 0, 3, 4, 0, [0, 1, 2]⟩,
-  ⟨6, 0, 4, 1, 1, 1, false, false, 1, 4, 1, 0, 4, 4, 0, [0, 1, 2, 3]⟩,
-  ⟨6, 0, 1, 1, 1, 1, false, false, 2, 1, 1, 0, 1, 4, 0, [0]⟩,
-  ⟨6, 0, 2, 1, 1, 1, false, false, 2, 2, 1, 0, 2, 4, 0, [0, 1]⟩,
-  ⟨6, 0, 3, 1, 1, 1, false, false, 2, 3, 1, 0, 3, 4, 0, [0, 1, 2]⟩,
-  ⟨6, 0, 4, 1, 1, 1, false, false, 2, 4, 1, 0, 4, 4, 0, [0, 1, 2, 3]⟩,
-  ⟨6, 0, 1, 1, 1, 1, false, false, 0, 1, 1, 0, 1, 4, 0, [0]⟩,
-  ⟨6, 0, 2, 1, 1, 1, false, false, 0, 2, 1, 0, 2, 4, 0, [0, 1]⟩,
-  ⟨6, 0, 3, 1, 1, 1, false, false, 0, 3, 1, 0, 3, 4, 0, [0, 1, 2]⟩,
-  ⟨6, 0, 4, 1, 1, 1, false, false, 0, 4, 1, 0, 4, 4, 0, [0, 1, 2, 3]⟩,
-  ⟨6, 0, 1, 1, 1, 1, false, false, 1, 1, 1, 0, 1, 4, 0, [0]⟩,
-  ⟨6, 0, 2, 1, 1, 1, false, false, 1, 2, 1, 0, 2, 4, 0, [0, 1]⟩,
-  ⟨6, 0, 3, 1, 1, 1, false, false, 1, 3, 1, 0, 3, 4, 0, [0, 1, 2]⟩,
-  ⟨6, 0, 4, 1, 1, 1, false, false, 1, 4, 1, 0, 4, 4, 0, [0, 1, 2, 3]⟩,
-  ⟨6, 0, 1, 1, 1, 1, false, false, 2, 1, 1, 0, 1, 4, 0, [0]⟩,
-  ⟨6, 0, 2, 1, 1, 1, false, false, 2, 2, 1, 0, 2, 4, 0, [0, 1]⟩,
-  ⟨6, 0, 3, 1, 1, 1, false, false, 2, 3, 1, 0, 3, 4, 0, [0, 1, 2]⟩,
-  ⟨6, 0, 4, 1, 1, 1, false, false, 2, 4, 1, 0, 4, 4, 0, [0, 1, 2, 3]⟩,
-  ⟨6, 0, 1, 1, 2, 2, false, false, 0, 2, 2, 0, 1, 4, 0, [0]⟩,
-  ⟨6, 0, 2, 1, 2, 2, false, false, 0, 4, 2, 0, 2, 4, 0, [0, 2]⟩,
-  ⟨6, 0, 3, 1, 2, 2, false, false, 0, 6, 2, 0, 3, 4, 0, [0, 2, 4]⟩,
-  ⟨6, 0, 4, 1, 2, 2, false, false, 0, 8, 2, 0, 4, 4, 0, [0, 2, 4, 6]⟩,
-  ⟨6, 0, 1, 1, 2, 2, false, false, 1, 2, 2, 0, 1, 4, 0, [0]⟩,
-  ⟨6, 0, 2, 1, 2, 2, false, false, 1, 4, 2, 0, 2, 4, 0, [0, 2]⟩,
-  ⟨6, 0, 3, 1, 2, 2, false, false, 1, 6, 2, 0, 3, 4, 0, [0, 2, 4]⟩,
-  ⟨6, 0, 4, 1, 2, 2, false, false, 1, 8, 2, 0, 4, 4, 0, [0, 2, 4, 6]⟩,
-  ⟨6, 0, 1, 1, 2, 2, false, false, 2, 2, 2, 0, 1, 4, 0, [0]⟩,
-  ⟨6, 0, 2, 1, 2, 2, false, false, 2, 4, 2, 0, 2, 4, 0, [0, 2]⟩,
-  ⟨6, 0, 3, 1, 2, 2, false, false, 2, 6, 2, 0, 3, 4, 0, [0, 2, 4]⟩,
-  ⟨6, 0, 4, 1, 2, 2, false, false, 2, 8, 2, 0, 4, 4, 0, [0, 2, 4, 6]⟩,
-  ⟨6, 0, 1, 1, 2, 2, false, false, 0, 2, 2, 0, 1, 4, 0, [0]⟩,
-  ⟨6, 0, 2, 1, 2, 2, false, false, 0, 4, 2, 0, 2, 4, 0, [0, 2]⟩,
-  ⟨6, 0, 3, 1, 2, 2, false, false, 0, 6, 2, 0, 3, 4, 0, [0, 2, 4]⟩,
-  ⟨6, 0, 4, 1, 2, 2, false, false, 0, 8, 2, 0, 4, 4, 0, [0, 2, 4, 6]⟩,
-  ⟨6, 0, 1, 1, 2, 2, false, false, 1, 2, 2, 0, 1, 4, 0, [0]⟩,
-  ⟨6, 0, 2, 1, 2, 2, false, false, 1, 4, 2, 0, 2, 4, 0, [0, 2]⟩,
-  ⟨6, 0, 3, 1, 2, 2, false, false, 1, 6, 2, 0, 3, 4, 0, [0, 2, 4]⟩,
-  ⟨6, 0, 4, 1, 2, 2, false, false, 1, 8, 2, 0, 4, 4, 0, [0, 2, 4, 6]⟩,
-  ⟨6, 0, 1, 1, 2, 2, false, false, 2, 2, 2, 0, 1, 4, 0, [0]⟩,
-  ⟨6, 0, 2, 1, 2, 2, false, false, 2, 4, 2, 0, 2, 4, 0, [0, 2]⟩,
-  ⟨6, 0, 3, 1, 2, 2, false, false, 2, 6, 2, 0, 3, 4, 0, [0, 2, 4]⟩,
-  ⟨6, 0, 4, 1, 2, 2, false, false, 2, 8, 2, 0, 4, 4, 0, [0, 2, 4, 6]⟩,
-  ⟨6, 0, 1, 1, 4, 4, false, false, 0, 4, 4, 0, 1, 4, 0, [0]⟩,
-  ⟨6, 0, 2, 1, 4, 4, false, false, 0, 8, 4, 0, 2, 4, 0, [0, 4]⟩,
-  ⟨6, 0, 3, 1, 4, 4, false, false, 0, 12, 4, 0, 3, 4, 0, [0, 4, 8]⟩,
-  ⟨6, 0, 4, 1, 4, 4, false, false, 0, 16, 4, 0, 4, 4, 0, [0, 4, 8, 12]⟩,
-  ⟨6, 0, 1, 1, 4, 4, false, false, 1, 4, 4, 0, 1, 4, 0, [0]⟩,
-  ⟨6, 0, 2, 1, 4, 4, false, false, 1, 8, 4, 0, 2, 4, 0, [0, 4]⟩,
-  ⟨6, 0, 3, 1, 4, 4, false, false, 1, 12, 4, 0, 3, 4, 0, [0, 4, 8]⟩,
-  ⟨6, 0, 4, 1, 4, 4, false, false, 1, 16, 4, 0, 4, 4, 0, [0, 4, 8, 12]⟩,
-  ⟨6, 0, 1, 1, 4, 4, false, false, 2, 4, 4, 0, 1, 4, 0, [0]⟩,
-  ⟨6, 0, 2, 1, 4, 4, false, false, 2, 8, 4, 0, 2, 4, 0, [0, 4]⟩,
-  ⟨6, 0, 3, 1, 4, 4, false, false, 2, 12, 4, 0, 3, 4, 0, [0, 4, 8]⟩,
-  ⟨6, 0, 4, 1, 4, 4, false, false, 2, 16, 4, 0, 4, 4, 0, [0, 4, 8, 12]⟩,
-  ⟨6, 0, 1, 1, 4, 4, false, false, 0, 4, 4, 0, 1, 4, 0, [0]⟩,
-  ⟨6, 0, 2, 1, 4, 4, false, false, 0, 8, 4, 0, 2, 4, 0, [0, 4]⟩,
-  ⟨6, 0, 3, 1, 4, 4, false, false, 0, 12, 4, 0, 3, 4, 0, [0, 4, 8]⟩,
-  ⟨6, 0, 4, 1, 4, 4, false, false, 0, 16, 4, 0, 4, 4, 0, [0, 4, 8, 12]⟩,
-  ⟨6, 0, 1, 1, 4, 4, false, false, 1, 4, 4, 0, 1, 4, 0, [0]⟩,
-  ⟨6, 0, 2, 1, 4, 4, false, false, 1, 8, 4, 0, 2, 4, 0, [0, 4]⟩,
-  ⟨6, 0, 3, 1, 4, 4, false, false, 1, 12, 4, 0, 3, 4, 0, [0, 4, 8]⟩,
-  ⟨6, 0, 4, 1, 4, 4, false, false, 1, 16, 4, 0, 4, 4, 0, [0, 4, 8, 12]⟩,
-  ⟨6, 0, 1, 1, 4, 4, false, false, 2, 4, 4, 0, 1, 4, 0, [0]⟩,
-  ⟨6, 0, 2, 1, 4, 4, false, false, 2, 8, 4, 0, 2, 4, 0, [0, 4]⟩,
-  ⟨6, 0, 3, 1, 4, 4, false, false, 2, 12, 4, 0, 3, 4, 0, [0, 4, 8]⟩,
-  ⟨6, 0, 4, 1, 4, 4, false, false, 2, 16, 4, 0, 4, 4, 0, [0, 4, 8, 12]⟩,
-  ⟨6, 0, 1, 1, 8, 8, false, false, 0, 8, 8, 0, 1, 4, 0, [0]⟩,
-  ⟨6, 0, 2, 1, 8, 8, false, false, 0, 16, 8, 0, 2, 4, 0, [0, 8]⟩,
-  ⟨6, 0, 3, 1, 8, 8, false, false, 0, 24, 8, 0, 3, 4, 0, [0, 8, 16]⟩,
-  ⟨6, 0, 4, 1, 8, 8, false, false, 0, 32, 8, 0, 4, 4, 0, [0, 8, 16, 24]⟩,
-  ⟨6, 0, 1, 1, 8, 8, false, false, 1, 8, 8, 0, 1, 4, 0, [0]⟩,
-  ⟨6, 0, 2, 1, 8, 8, false, false, 1, 16, 8, 0, 2, 4, 0, [0, 8]⟩,
-  ⟨6, 0, 3, 1, 8, 8, false, false, 1, 24, 8, 0, 3, 4, 0, [0, 8, 16]⟩,
-  ⟨6, 0, 4, 1, 8, 8, false, false, 1, 32, 8, 0, 4, 4, 0, [0, 8, 16, 24]⟩,
-  ⟨6, 0, 1, 1, 8, 8, false, false, 2, 8, 8, 0, 1, 4, 0, [0]⟩,
-  ⟨6, 0, 2, 1, 8, 8, false, false, 2, 16, 8, 0, 2, 4, 0, [0, 8]⟩,
-  ⟨6, 0, 3, 1, 8, 8, false, false, 2, 24, 8, 0, 3, 4, 0, [0, 8, 16]⟩,
-  ⟨6, 0, 4, 1, 8, 8, false, false, 2, 32, 8, 0, 4, 4, 0, [0, 8, 16, 24]⟩,
-  ⟨6, 0, 1, 1, 8, 8, false, false, 0, 8, 8, 0, 1, 4, 0, [0]⟩,
-  ⟨6, 0, 2, 1, 8, 8, false, false, 0, 16, 8, 0, 2, 4, 0, [0, 8]⟩,
-  ⟨6, 0, 3, 1, 8, 8, false, false, 0, 24, 8, 0, 3, 4, 0, [0, 8, 16]⟩,
-  ⟨6, 0, 4, 1, 8, 8, false, false, 0, 32, 8, 0, 4, 4, 0, [0, 8, 16, 24]⟩,
-  ⟨6, 0, 1, 1, 8, 8, false, false, 1, 8, 8, 0, 1, 4, 0, [0]⟩,
-  ⟨6, 0, 2, 1, 8, 8, false, false, 1, 16, 8, 0, 2, 4, 0, [0, 8]⟩,
-  ⟨6, 0, 3, 1, 8, 8, false, false, 1, 24, 8, 0, 3, 4, 0, [0, 8, 16]⟩,
-  ⟨6, 0, 4, 1, 8, 8, false, false, 1, 32, 8, 0, 4, 4, 0, [0, 8, 16, 24]⟩,
-  ⟨6, 0, 1, 1, 8, 8, false, false, 2, 8, 8, 0, 1, 4, 0, [0]⟩,
-  ⟨6, 0, 2, 1, 8, 8, false, false, 2, 16, 8, 0, 2, 4, 0, [0, 8]⟩,
-  ⟨6, 0, 3, 1, 8, 8, false, false, 2, 24, 8, 0, 3, 4, 0, [0, 8, 16]⟩,
-  ⟨6, 0, 4, 1, 8, 8, false, false, 2, 32, 8, 0, 4, 4, 0, [0, 8, 16, 24]⟩,
-  ⟨6, 0, 1, 1, 4, 4, true, false, 0, 4, 4, 0, 1, 4, 0, [0]⟩,
-  ⟨6, 0, 2, 1, 4, 4, true, false, 0, 8, 4, 0, 2, 4, 0, [0, 4]⟩,
-  ⟨6, 0, 3, 1, 4, 4, true, false, 0, 12, 4, 0, 3, 4, 0, [0, 4, 8]⟩,
-  ⟨6, 0, 4, 1, 4, 4, true, false, 0, 16, 4, 0, 4, 4, 0, [0, 4, 8, 12]⟩,
-  ⟨6, 0, 1, 1, 4, 4, true, false, 1, 4, 4, 0, 1, 4, 0, [0]⟩,
-  ⟨6, 0, 2, 1, 4, 4, true, false, 1, 8, 4, 0, 2, 4, 0, [0, 4]⟩,
-  ⟨6, 0, 3, 1, 4, 4, true, false, 1, 12, 4, 0, 3, 4, 0, [0, 4, 8]⟩,
-  ⟨6, 0, 4, 1, 4, 4, true, false, 1, 16, 4, 0, 4, 4, 0, [0, 4, 8, 12]⟩,
-  ⟨6, 0, 1, 1, 4, 4, true, false, 2, 4, 4, 0, 1, 4, 0, [0]⟩,
-  ⟨6, 0, 2, 1, 4, 4, true, false, 2, 8, 4, 0, 2, 4, 0, [0, 4]⟩,
-  ⟨6, 0, 3, 1, 4, 4, true, false, 2, 12, 4, 0, 3, 4, 0, [0, 4, 8]⟩,
-  ⟨6, 0, 4, 1, 4, 4, true, false, 2, 16, 4, 0, 4, 4, 0, [0, 4, 8, 12]⟩,
-  ⟨6, 0, 1, 1, 8, 8, true, false, 0, 8, 8, 0, 1, 4, 0, [0]⟩,
-  ⟨6, 0, 2, 1, 8, 8, true, false, 0, 16, 8, 0, 2, 4, 0, [0, 8]⟩,
-  ⟨6, 0, 3, 1, 8, 8, true, false, 0, 24, 8, 0, 3, 4, 0, [0, 8, 16]⟩,
-  ⟨6, 0, 4, 1, 8, 8, true, false, 0, 32, 8, 0, 4, 4, 0, [0, 8, 16, 24]⟩,
-  ⟨6, 0, 1, 1, 8, 8, true, false, 1, 8, 8, 0, 1, 4, 0, [0]⟩,
-  ⟨6, 0, 2, 1, 8, 8, true, false, 1, 16, 8, 0, 2, 4, 0, [0, 8]⟩,
-  ⟨6, 0, 3, 1, 8, 8, true, false, 1, 24, 8, 0, 3, 4, 0, [0, 8, 16]⟩,
-  ⟨6, 0, 4, 1, 8, 8, true, false, 1, 32, 8, 0, 4, 4, 0, [0, 8, 16, 24]⟩,
-  ⟨6, 0, 1, 1, 8, 8, true, false, 2, 8, 8, 0, 1, 4, 0, [0]⟩,
-  ⟨6, 0, 2, 1, 8, 8, true, false, 2, 16, 8, 0, 2, 4, 0, [0, 8]⟩,
-  ⟨6, 0, 3, 1, 8, 8, true, false, 2, 24, 8, 0, 3, 4, 0, [0, 8, 16]⟩,
-  ⟨6, 0, 4, 1, 8, 8, true, false, 2, 32, 8, 0, 4, 4, 0, [0, 8, 16, 24]⟩,
-  ⟨6, 1, 2, 2, 4, 4, true, false, 0, 16, 4, 0, 2, 4, 8, [0, 4, 8, 12]⟩,
-  ⟨6, 1, 2, 3, 4, 4, true, false, 0, 24, 4, 0, 2, 4, 12, [0, 4, 8, 12, 16, 20]⟩,
-  ⟨6, 1, 2, 4, 4, 4, true, false, 0, 32, 4, 0, 2, 4, 16, [0, 4, 8, 12, 16, 20, 24, 28]⟩,
-  ⟨6, 1, 3, 2, 4, 4, true, false, 0, 24, 4, 0, 3, 4, 8, [0, 4, 8, 12, 16, 20]⟩,
-  ⟨6, 1, 3, 3, 4, 4, true, false, 0, 36, 4, 0, 3, 4, 12, [0, 4, 8, 12, 16, 20, 24, 28, 32]⟩,
-  ⟨6, 1, 3, 4, 4, 4, true, false, 0, 48, 4, 0, 3, 4, 16, [0, 4, 8, 12, 16, 20, 24, 28, 32, 36, 40, 44]⟩,
-  ⟨6, 1, 4, 2, 4, 4, true, false, 0, 32, 4, 0, 4, 4, 8, [0, 4, 8, 12, 16, 20, 24, 28]⟩,
-  ⟨6, 1, 4, 3, 4, 4, true, false, 0, 48, 4, 0, 4, 4, 12, [0, 4, 8, 12, 16, 20, 24, 28, 32, 36, 40, 44]⟩,
-  ⟨6, 1, 4, 4, 4, 4, true, false, 0, 64, 4, 0, 4, 4, 16, [0, 4, 8, 12, 16, 20, 24, 28, 32, 36, 40, 44, 48, 52, 56, 60]⟩,
-  ⟨6, 1, 2, 2, 4, 4, true, false, 1, 16, 4, 0, 2, 4, 8, [0, 4, 8, 12]⟩,
-  ⟨6, 1, 2, 3, 4, 4, true, false, 1, 24, 4, 0, 2, 4, 12, [0, 4, 8, 12, 16, 20]⟩,
-  ⟨6, 1, 2, 4, 4, 4, true, false, 1, 32, 4, 0, 2, 4, 16, [0, 4, 8, 12, 16, 20, 24, 28]⟩,
-  ⟨6, 1, 3, 2, 4, 4, true, false, 1, 24, 4, 0, 3, 4, 8, [0, 4, 8, 12, 16, 20]⟩,
-  ⟨6, 1, 3, 3, 4, 4, true, false, 1, 36, 4, 0, 3, 4, 12, [0, 4, 8, 12, 16, 20, 24, 28, 32]⟩,
-  ⟨6, 1, 3, 4, 4, 4, true, false, 1, 48, 4, 0, 3, 4, 16, [0, 4, 8, 12, 16, 20, 24, 28, 32, 36, 40, 44]⟩,
-  ⟨6, 1, 4, 2, 4, 4, true, false, 1, 32, 4, 0, 4, 4, 8, [0, 4, 8, 12, 16, 20, 24, 28]⟩,
-  ⟨6, 1, 4, 3, 4, 4, true, false, 1, 48, 4, 0, 4, 4, 12, [0, 4, 8, 12, 16, 20, 24, 28, 32, 36, 40, 44]⟩,
-  ⟨6, 1, 4, 4, 4, 4, true, false, 1, 64, 4, 0, 4, 4, 16, [0, 4, 8, 12, 16, 20, 24, 28, 32, 36, 40, 44, 48, 52, 56, 60]⟩,
-  ⟨6, 1, 2, 2, 4, 4, true, false, 2, 16, 4, 0, 2, 4, 8, [0, 4, 8, 12]⟩,
-  ⟨6, 1, 2, 3, 4, 4, true, false, 2, 24, 4, 0, 2, 4, 12, [0, 4, 8, 12, 16, 20]⟩,
-  ⟨6, 1, 2, 4, 4, 4, true, false, 2, 32, 4, 0, 2, 4, 16, [0, 4, 8, 12, 16, 20, 24, 28]⟩,
-  ⟨6, 1, 3, 2, 4, 4, true, false, 2, 24, 4, 0, 3, 4, 8, [0, 4, 8, 12, 16, 20]⟩,
-  ⟨6, 1, 3, 3, 4, 4, true, false, 2, 36, 4, 0, 3, 4, 12, [0, 4, 8, 12, 16, 20, 24, 28, 32]⟩,
-  ⟨6, 1, 3, 4, 4, 4, true, false, 2, 48, 4, 0, 3, 4, 16, [0, 4, 8, 12, 16, 20, 24, 28, 32, 36, 40, 44]⟩,
-  ⟨6, 1, 4, 2, 4, 4, true, false, 2, 32, 4, 0, 4, 4, 8, [0, 4, 8, 12, 16, 20, 24, 28]⟩,
-  ⟨6, 1, 4, 3, 4, 4, true, false, 2, 48, 4, 0, 4, 4, 12, [0, 4, 8, 12, 16, 20, 24, 28, 32, 36, 40, 44]⟩,
-  ⟨6, 1, 4, 4, 4, 4, true, false, 2, 64, 4, 0, 4, 4, 16, [0, 4, 8, 12, 16, 20, 24, 28, 32, 36, 40, 44, 48, 52, 56, 60]⟩,
-  ⟨6, 1, 2, 2, 8, 8, true, false, 0, 32, 8, 0, 2, 4, 16, [0, 8, 16, 24]⟩,
-  ⟨6, 1, 2, 3, 8, 8, true, false, 0, 48, 8, 0, 2, 4, 24, [0, 8, 16, 24, 32, 40]⟩,
-  ⟨6, 1, 2, 4, 8, 8, true, false, 0, 64, 8, 0, 2, 4, 32, [0, 8, 16, 24, 32, 40, 48, 56]⟩,
-  ⟨6, 1, 3, 2, 8, 8, true, false, 0, 48, 8, 0, 3, 4, 16, [0, 8, 16, 24, 32, 40]⟩,
-  ⟨6, 1, 3, 3, 8, 8, true, false, 0, 72, 8, 0, 3, 4, 24, [0, 8, 16, 24, 32, 40, 48, 56, 64]⟩,
-  ⟨6, 1, 3, 4, 8, 8, true, false, 0, 96, 8, 0, 3, 4, 32, [0, 8, 16, 24, 32, 40, 48, 56, 64, 72, 80, 88]⟩,
-  ⟨6, 1, 4, 2, 8, 8, true, false, 0, 64, 8, 0, 4, 4, 16, [0, 8, 16, 24, 32, 40, 48, 56]⟩,
-  ⟨6, 1, 4, 3, 8, 8, true, false, 0, 96, 8, 0, 4, 4, 24, [0, 8, 16, 24, 32, 40, 48, 56, 64, 72, 80, 88]⟩,
-  ⟨6, 1, 4, 4, 8, 8, true, false, 0, 128, 8, 0, 4, 4, 32, [0, 8, 16, 24, 32, 40, 48, 56, 64, 72, 80, 88, 96, 104, 112, 120]⟩,
-  ⟨6, 1, 2, 2, 8, 8, true, false, 1, 32, 8, 0, 2, 4, 16, [0, 8, 16, 24]⟩,
-  ⟨6, 1, 2, 3, 8, 8, true, false, 1, 48, 8, 0, 2, 4, 24, [0, 8, 16, 24, 32, 40]⟩,
-  ⟨6, 1, 2, 4, 8, 8, true, false, 1, 64, 8, 0, 2, 4, 32, [0, 8, 16, 24, 32, 40, 48, 56]⟩,
-  ⟨6, 1, 3, 2, 8, 8, true, false, 1, 48, 8, 0, 3, 4, 16, [0, 8, 16, 24, 32, 40]⟩,
-  ⟨6, 1, 3, 3, 8, 8, true, false, 1, 72, 8, 0, 3, 4, 24, [0, 8, 16, 24, 32, 40, 48, 56, 64]⟩,
-  ⟨6, 1, 3, 4, 8, 8, true, false, 1, 96, 8, 0, 3, 4, 32, [0, 8, 16, 24, 32, 40, 48, 56, 64, 72, 80, 88]⟩,
-  ⟨6, 1, 4, 2, 8, 8, true, false, 1, 64, 8, 0, 4, 4, 16, [0, 8, 16, 24, 32, 40, 48, 56]⟩,
-  ⟨6, 1, 4, 3, 8, 8, true, false, 1, 96, 8, 0, 4, 4, 24, [0, 8, 16, 24, 32, 40, 48, 56, 64, 72, 80, 88]⟩,
-  ⟨6, 1, 4, 4, 8, 8, true, false, 1, 128, 8, 0, 4, 4, 32, [0, 8, 16, 24, 32, 40, 48, 56, 64, 72, 80, 88, 96, 104, 112, 120]⟩,
-  ⟨6, 1, 2, 2, 8, 8, true, false, 2, 32, 8, 0, 2, 4, 16, [0, 8, 16, 24]⟩,
-  ⟨6, 1, 2, 3, 8, 8, true, false, 2, 48, 8, 0, 2, 4, 24, [0, 8, 16, 24, 32, 40]⟩,
-  ⟨6, 1, 2, 4, 8, 8, true, false, 2, 64, 8, 0, 2, 4, 32, [0, 8, 16, 24, 32, 40, 48, 56]⟩,
-  ⟨6, 1, 3, 2, 8, 8, true, false, 2, 48, 8, 0, 3, 4, 16, [0, 8, 16, 24, 32, 40]⟩,
-  ⟨6, 1, 3, 3, 8, 8, true, false, 2, 72, 8, 0, 3, 4, 24, [0, 8, 16, 24, 32, 40, 48, 56, 64]⟩,
-  ⟨6, 1, 3, 4, 8, 8, true, false, 2, 96, 8, 0, 3, 4, 32, [0, 8, 16, 24, 32, 40, 48, 56, 64, 72, 80, 88]⟩,
-  ⟨6, 1, 4, 2, 8, 8, true, false, 2, 64, 8, 0, 4, 4, 16, [0, 8, 16, 24, 32, 40, 48, 56]⟩,
-  ⟨6, 1, 4, 3, 8, 8, true, false, 2, 96, 8, 0, 4, 4, 24, [0, 8, 16, 24, 32, 40, 48, 56, 64, 72, 80, 88]⟩,
-  ⟨6, 1, 4, 4, 8, 8, true, false, 2, 128, 8, 0, 4, 4, 32, [0, 8, 16, 24, 32, 40, 48, 56, 64, 72, 80, 88, 96, 104, 112, 120]⟩,
-  ⟨6, 1, 2, 2, 4, 4, false, false, 0, 16, 4, 0, 2, 4, 8, [0, 4, 8, 12]⟩,
-  ⟨6, 1, 2, 3, 4, 4, false, false, 0, 24, 4, 0, 2, 4, 12, [0, 4, 8, 12, 16, 20]⟩,
-  ⟨6, 1, 2, 4, 4, 4, false, false, 0, 32, 4, 0, 2, 4, 16, [0, 4, 8, 12, 16, 20, 24, 28]⟩,
-  ⟨6, 1, 3, 2, 4, 4, false, false, 0, 24, 4, 0, 3, 4, 8, [0, 4, 8, 12, 16, 20]⟩,
-  ⟨6, 1, 3, 3, 4, 4, false, false, 0, 36, 4, 0, 3, 4, 12, [0, 4, 8, 12, 16, 20, 24, 28, 32]⟩,
-  ⟨6, 1, 3, 4, 4, 4, false, false, 0, 48, 4, 0, 3, 4, 16, [0, 4, 8, 12, 16, 20, 24, 28, 32, 36, 40, 44]⟩,
-  ⟨6, 1, 4, 2, 4, 4, false, false, 0, 32, 4, 0, 4, 4, 8, [0, 4, 8, 12, 16, 20, 24, 28]⟩,
-  ⟨6, 1, 4, 3, 4, 4, false, false, 0, 48, 4, 0, 4, 4, 12, [0, 4, 8, 12, 16, 20, 24, 28, 32, 36, 40, 44]⟩,
-  ⟨6, 1, 4, 4, 4, 4, false, false, 0, 64, 4, 0, 4, 4, 16, [0, 4, 8, 12, 16, 20, 24, 28, 32, 36, 40, 44, 48, 52, 56, 60]⟩,
-  ⟨6, 1, 2, 2, 4, 4, false, false, 1, 16, 4, 0, 2, 4, 8, [0, 4, 8, 12]⟩,
-  ⟨6, 1, 2, 3, 4, 4, false, false, 1, 24, 4, 0, 2, 4, 12, [0, 4, 8, 12, 16, 20]⟩,
-  ⟨6, 1, 2, 4, 4, 4, false, false, 1, 32, 4, 0, 2, 4, 16, [0, 4, 8, 12, 16, 20, 24, 28]⟩,
-  ⟨6, 1, 3, 2, 4, 4, false, false, 1, 24, 4, 0, 3, 4, 8, [0, 4, 8, 12, 16, 20]⟩,
-  ⟨6, 1, 3, 3, 4, 4, false, false, 1, 36, 4, 0, 3, 4, 12, [0, 4, 8, 12, 16, 20, 24, 28, 32]⟩,
-  ⟨6, 1, 3, 4, 4, 4, false, false, 1, 48, 4, 0, 3, 4, 16, [0, 4, 8, 12, 16, 20, 24, 28, 32, 36, 40, 44]⟩,
-  ⟨6, 1, 4, 2, 4, 4, false, false, 1, 32, 4, 0, 4, 4, 8, [0, 4, 8, 12, 16, 20, 24, 28]⟩,
-  ⟨6, 1, 4, 3, 4, 4, false, false, 1, 48, 4, 0, 4, 4, 12, [0, 4, 8, 12, 16, 20, 24, 28, 32, 36, 40, 44]⟩,
-  ⟨6, 1, 4, 4, 4, 4, false, false, 1, 64, 4, 0, 4, 4, 16, [0, 4, 8, 12, 16, 20, 24, 28, 32, 36, 40, 44, 48, 52, 56, 60]⟩,
-  ⟨6, 1, 2, 2, 4, 4, false, false, 2, 16, 4, 0, 2, 4, 8, [0, 4, 8, 12]⟩,
-  ⟨6, 1, 2, 3, 4, 4, false, false, 2, 24, 4, 0, 2, 4, 12, [0, 4, 8, 12, 16, 20]⟩,
-  ⟨6, 1, 2, 4, 4, 4, false, false, 2, 32, 4, 0, 2, 4, 16, [0, 4, 8, 12, 16, 20, 24, 28]⟩,
-  ⟨6, 1, 3, 2, 4, 4, false, false, 2, 24, 4, 0, 3, 4, 8, [0, 4, 8, 12, 16, 20]⟩,
-  ⟨6, 1, 3, 3, 4, 4, false, false, 2, 36, 4, 0, 3, 4, 12, [0, 4, 8, 12, 16, 20, 24, 28, 32]⟩,
-  ⟨6, 1, 3, 4, 4, 4, false, false, 2, 48, 4, 0, 3, 4, 16, [0, 4, 8, 12, 16, 20, 24, 28, 32, 36, 40, 44]⟩,
-  ⟨6, 1, 4, 2, 4, 4, false, false, 2, 32, 4, 0, 4, 4, 8, [0, 4, 8, 12, 16, 20, 24, 28]⟩,
-  ⟨6, 1, 4, 3, 4, 4, false, false, 2, 48, 4, 0, 4, 4, 12, [0, 4, 8, 12, 16, 20, 24, 28, 32, 36, 40, 44]⟩,
-  ⟨6, 1, 4, 4, 4, 4, false, false, 2, 64, 4, 0, 4, 4, 16, [0, 4, 8, 12, 16, 20, 24, 28, 32, 36, 40, 44, 48, 52, 56, 60]⟩,
-  ⟨6, 1, 2, 2, 4, 4, false, false, 0, 16, 4, 0, 2, 4, 8, [0, 4, 8, 12]⟩,
-  ⟨6, 1, 2, 3, 4, 4, false, false, 0, 24, 4, 0, 2, 4, 12, [0, 4, 8, 12, 16, 20]⟩,
-  ⟨6, 1, 2, 4, 4, 4, false, false, 0, 32, 4, 0, 2, 4, 16, [0, 4, 8, 12, 16, 20, 24, 28]⟩,
-  ⟨6, 1, 3, 2, 4, 4, false, false, 0, 24, 4, 0, 3, 4, 8, [0, 4, 8, 12, 16, 20]⟩,
-  ⟨6, 1, 3, 3, 4, 4, false, false, 0, 36, 4, 0, 3, 4, 12, [0, 4, 8, 12, 16, 20, 24, 28, 32]⟩,
-  ⟨6, 1, 3, 4, 4, 4, false, false, 0, 48, 4, 0, 3, 4, 16, [0, 4, 8, 12, 16, 20, 24, 28, 32, 36, 40, 44]⟩,
-  ⟨6, 1, 4, 2, 4, 4, false, false, 0, 32, 4, 0, 4, 4, 8, [0, 4, 8, 12, 16, 20, 24, 28]⟩,
-  ⟨6, 1, 4, 3, 4, 4, false, false, 0, 48, 4, 0, 4, 4, 12, [0, 4, 8, 12, 16, 20, 24, 28, 32, 36, 40, 44]⟩,
-  ⟨6, 1, 4, 4, 4, 4, false, false, 0, 64, 4, 0, 4, 4, 16, [0, 4, 8, 12, 16, 20, 24, 28, 32, 36, 40, 44, 48, 52, 56, 60]⟩,
-  ⟨6, 1, 2, 2, 4, 4, false, false, 1, 16, 4, 0, 2, 4, 8, [0, 4, 8, 12]⟩,
-  ⟨6, 1, 2, 3, 4, 4, false, false, 1, 24, 4, 0, 2, 4, 12, [0, 4, 8, 12, 16, 20]⟩,
-  ⟨6, 1, 2, 4, 4, 4, false, false, 1, 32, 4, 0, 2, 4, 16, [0, 4, 8, 12, 16, 20, 24, 28]⟩,
-  ⟨6, 1, 3, 2, 4, 4, false, false, 1, 24, 4, 0, 3, 4, 8, [0, 4, 8, 12, 16, 20]⟩,
-  ⟨6, 1, 3, 3, 4, 4, false, false, 1, 36, 4, 0, 3, 4, 12, [0, 4, 8, 12, 16, 20, 24, 28, 32]⟩,
-  ⟨6, 1, 3, 4, 4, 4, false, false, 1, 48, 4, 0, 3, 4, 16, [0, 4, 8, 12, 16, 20, 24, 28, 32, 36, 40, 44]⟩,
-  ⟨6, 1, 4, 2, 4, 4, false, false, 1, 32, 4, 0, 4, 4, 8, [0, 4, 8, 12, 16, 20, 24, 28]⟩,
-  ⟨6, 1, 4, 3, 4, 4, false, false, 1, 48, 4, 0, 4, 4, 12, [0, 4, 8, 12, 16, 20, 24, 28, 32, 36, 40, 44]⟩,
-  ⟨6, 1, 4, 4, 4, 4, false, false, 1, 64, 4, 0, 4, 4, 16, [0, 4, 8, 12, 16, 20, 24, 28, 32, 36, 40, 44, 48, 52, 56, 60]⟩,
-  ⟨6, 1, 2, 2, 4, 4, false, false, 2, 16, 4, 0, 2, 4, 8, [0, 4, 8, 12]⟩,
-  ⟨6, 1, 2, 3, 4, 4, false, false, 2, 24, 4, 0, 2, 4, 12, [0, 4, 8, 12, 16, 20]⟩,
-  ⟨6, 1, 2, 4, 4, 4, false, false, 2, 32, 4, 0, 2, 4, 16, [0, 4, 8, 12, 16, 20, 24, 28]⟩,
-  ⟨6, 1, 3, 2, 4, 4, false, false, 2, 24, 4, 0, 3, 4, 8, [0, 4, 8, 12, 16, 20]⟩,
-  ⟨6, 1, 3, 3, 4, 4, false, false, 2, 36, 4, 0, 3, 4, 12, [0, 4, 8, 12, 16, 20, 24, 28, 32]⟩,
-  ⟨6, 1, 3, 4, 4, 4, false, false, 2, 48, 4, 0, 3, 4, 16, [0, 4, 8, 12, 16, 20, 24, 28, 32, 36, 40, 44]⟩,
-  ⟨6, 1, 4, 2, 4, 4, false, false, 2, 32, 4, 0, 4, 4, 8, [0, 4, 8, 12, 16, 20, 24, 28]⟩,
-  ⟨6, 1, 4, 3, 4, 4, false, false, 2, 48, 4, 0, 4, 4, 12, [0, 4, 8, 12, 16, 20, 24, 28, 32, 36, 40, 44]⟩,
-  ⟨6, 1, 4, 4, 4, 4, false, false, 2, 64, 4, 0, 4, 4, 16, [0, 4, 8, 12, 16, 20, 24, 28, 32, 36, 40, 44, 48, 52, 56, 60]⟩,
-  ⟨6, 2, 4, 1, 4, 4, true, false, 0, 16, 4, 0, 4, 4, 0, [0, 4, 8, 12]⟩,
-  ⟨6, 2, 4, 1, 4, 4, true, false, 1, 16, 4, 0, 4, 4, 0, [0, 4, 8, 12]⟩,
-  ⟨6, 2, 4, 1, 4, 4, true, false, 2, 16, 4, 0, 4, 4, 0, [0, 4, 8, 12]⟩,
-  ⟨6, 2, 4, 1, 8, 8, true, false, 0, 32, 8, 0, 4, 4, 0, [0, 8, 16, 24]⟩,
-  ⟨6, 2, 4, 1, 8, 8, true, false, 1, 32, 8, 0, 4, 4, 0, [0, 8, 16, 24]⟩,
-  ⟨6, 2, 4, 1, 8, 8, true, false, 2, 32, 8, 0, 4, 4, 0, [0, 8, 16, 24]⟩,
-  ⟨6, 0, 1, 1, 1, 1, false, true, 0, 1, 1, 0, 1, 4, 0, [0]⟩,
-  ⟨6, 0, 2, 1, 1, 1, false, true, 0, 2, 2, 0, 2, 4, 0, [0, 1]⟩,
-  ⟨6, 0, 3, 1, 1, 1, false, true, 0, 4, 4, 0, 3, 4, 0, [0, 1, 2]⟩,
-  ⟨6, 0, 4, 1, 1, 1, false, true, 0, 4, 4, 0, 4, 4, 0, [0, 1, 2, 3]⟩,
-  ⟨6, 0, 1, 1, 1, 1, false, true, 1, 1, 1, 0, 1, 4, 0, [0]⟩,
-  ⟨6, 0, 2, 1, 1, 1, false, true, 1, 2, 2, 0, 2, 4, 0, [0, 1]⟩,
-  ⟨6, 0, 3, 1, 1, 1, false, true, 1, 4, 4, 0, 3, 4, 0, [0, 1, 2]⟩,
-  ⟨6, 0, 4, 1, 1, 1, false, true, 1, 4, 4, 0, 4, 4, 0, [0, 1, 2, 3]⟩,
-  ⟨6, 0, 1, 1, 1, 1, false, true, 2, 1, 1, 0, 1, 4, 0, [0]⟩,
-  ⟨6, 0, 2, 1, 1, 1, false, true, 2, 2, 2, 0, 2, 4, 0, [0, 1]⟩,
-  ⟨6, 0, 3, 1, 1, 1, false, true, 2, 4, 4, 0, 3, 4, 0, [0, 1, 2]⟩,
-  ⟨6, 0, 4, 1, 1, 1, false, true, 2, 4, 4, 0, 4, 4, 0, [0, 1, 2, 3]⟩,
-  ⟨6, 0, 1, 1, 1, 1, false, true, 0, 1, 1, 0, 1, 4, 0, [0]⟩,
-  ⟨6, 0, 2, 1, 1, 1, false, true, 0, 2, 2, 0, 2, 4, 0, [0, 1]⟩,
-  ⟨6, 0, 3, 1, 1, 1, false, true, 0, 4, 4, 0, 3, 4, 0, [0, 1, 2]⟩,
-  ⟨6, 0, 4, 1, 1, 1, false, true, 0, 4, 4, 0, 4, 4, 0, [0, 1, 2, 3]⟩,
-  ⟨6, 0, 1, 1, 1, 1, false, true, 1, 1, 1, 0, 1, 4, 0, [0]⟩,
-  ⟨6, 0, 2, 1, 1, 1, false, true, 1, 2, 2, 0, 2, 4, 0, [0, 1]⟩,
-  ⟨6, 0, 3, 1, 1, 1, false, true, 1, 4, 4, 0, 3, 4, 0, [0, 1, 2]⟩,
-  ⟨6, 0, 4, 1, 1, 1, false, true, 1, 4, 4, 0, 4, 4, 0, [0, 1, 2, 3]⟩,
-  ⟨6, 0, 1, 1, 1, 1, false, true, 2, 1, 1, 0, 1, 4, 0, [0]⟩,
-  ⟨6, 0, 2, 1, 1, 1, false, true, 2, 2, 2, 0, 2, 4, 0, [0, 1]⟩,
-  ⟨6, 0, 3, 1, 1, 1, false, true, 2, 4, 4, 0, 3, 4, 0, [0, 1, 2]⟩,
-  ⟨6, 0, 4, 1, 1, 1, false, true, 2, 4, 4, 0, 4, 4, 0, [0, 1, 2, 3]⟩,
-  ⟨6, 0, 1, 1, 1, 1, false, true, 0, 1, 1, 0, 1, 4, 0, [0]⟩,
-  ⟨6, 0, 2, 1, 1, 1, false, true, 0, 2, 2, 0, 2, 4, 0, [0, 1]⟩,
-  ⟨6, 0, 3, 1, 1, 1, false, true, 0, 4, 4, 0, 3, 4, 0, [0, 1, 2]⟩,
-  ⟨6, 0, 4, 1, 1, 1, false, true, 0, 4, 4, 0, 4, 4, 0, [0, 1, 2, 3]⟩,
-  ⟨6, 0, 1, 1, 1, 1, false, true, 1, 1, 1, 0, 1, 4, 0, [0]⟩,
-  ⟨6, 0, 2, 1, 1, 1, false, true, 1, 2, 2, 0, 2, 4, 0, [0, 1]⟩,
-  ⟨6, 0, 3, 1, 1, 1, false, true, 1, 4, 4, 0, 3, 4, 0, [0, 1, 2]⟩,
-  ⟨6, 0, 4, 1, 1, 1, false, true, 1, 4, 4, 0, 4, 4, 0, [0, 1, 2, 3]⟩,
-  ⟨6, 0, 1, 1, 1, 1, false, true, 2, 1, 1, 0, 1, 4, 0, [0]⟩,
-  ⟨6, 0, 2, 1, 1, 1, false, true, 2, 2, 2, 0, 2, 4, 0, [0, 1]⟩,
-  ⟨6, 0, 3, 1, 1, 1, false, true, 2, 4, 4, 0, 3, 4, 0, [0, 1, 2]⟩,
-  ⟨6, 0, 4, 1, 1, 1, false, true, 2, 4, 4, 0, 4, 4, 0, [0, 1, 2, 3]⟩,
-  ⟨6, 0, 1, 1, 2, 2, false, true, 0, 2, 2, 0, 1, 4, 0, [0]⟩,
-  ⟨6, 0, 2, 1, 2, 2, false, true, 0, 4, 4, 0, 2, 4, 0, [0, 2]⟩,
-  ⟨6, 0, 3, 1, 2, 2, false, true, 0, 8, 8, 0, 3, 4, 0, [0, 2, 4]⟩,
-  ⟨6, 0, 4, 1, 2, 2, false, true, 0, 8, 8, 0, 4, 4, 0, [0, 2, 4, 6]⟩,
-  ⟨6, 0, 1, 1, 2, 2, false, true, 1, 2, 2, 0, 1, 4, 0, [0]⟩,
-  ⟨6, 0, 2, 1, 2, 2, false, true, 1, 4, 4, 0, 2, 4, 0, [0, 2]⟩,
-  ⟨6, 0, 3, 1, 2, 2, false, true, 1, 8, 8, 0, 3, 4, 0, [0, 2, 4]⟩,
-  ⟨6, 0, 4, 1, 2, 2, false, true, 1, 8, 8, 0, 4, 4, 0, [0, 2, 4, 6]⟩,
-  ⟨6, 0, 1, 1, 2, 2, false, true, 2, 2, 2, 0, 1, 4, 0, [0]⟩,
-  ⟨6, 0, 2, 1, 2, 2, false, true, 2, 4, 4, 0, 2, 4, 0, [0, 2]⟩,
-  ⟨6, 0, 3, 1, 2, 2, false, true, 2, 8, 8, 0, 3, 4, 0, [0, 2, 4]⟩,
-  ⟨6, 0, 4, 1, 2, 2, false, true, 2, 8, 8, 0, 4, 4, 0, [0, 2, 4, 6]⟩,
-  ⟨6, 0, 1, 1, 2, 2, false, true, 0, 2, 2, 0, 1, 4, 0, [0]⟩,
-  ⟨6, 0, 2, 1, 2, 2, false, true, 0, 4, 4, 0, 2, 4, 0, [0, 2]⟩,
-  ⟨6, 0, 3, 1, 2, 2, false, true, 0, 8, 8, 0, 3, 4, 0, [0, 2, 4]⟩,
-  ⟨6, 0, 4, 1, 2, 2, false, true, 0, 8, 8, 0, 4, 4, 0, [0, 2, 4, 6]⟩,
-  ⟨6, 0, 1, 1, 2, 2, false, true, 1, 2, 2, 0, 1, 4, 0, [0]⟩,
-  ⟨6, 0, 2, 1, 2, 2, false, true, 1, 4, 4, 0, 2, 4, 0, [0, 2]⟩,
-  ⟨6, 0, 3, 1, 2, 2, false, true, 1, 8, 8, 0, 3, 4, 0, [0, 2, 4]⟩,
-  ⟨6, 0, 4, 1, 2, 2, false, true, 1, 8, 8, 0, 4, 4, 0, [0, 2, 4, 6]⟩,
-  ⟨6, 0, 1, 1, 2, 2, false, true, 2, 2, 2, 0, 1, 4, 0, [0]⟩,
-  ⟨6, 0, 2, 1, 2, 2, false, true, 2, 4, 4, 0, 2, 4, 0, [0, 2]⟩,
-  ⟨6, 0, 3, 1, 2, 2, false, true, 2, 8, 8, 0, 3, 4, 0, [0, 2, 4]⟩,
-  ⟨6, 0, 4, 1, 2, 2, false, true, 2, 8, 8, 0, 4, 4, 0, [0, 2, 4, 6]⟩,
-  ⟨6, 0, 1, 1, 4, 4, false, true, 0, 4, 4, 0, 1, 4, 0, [0]⟩,
-  ⟨6, 0, 2, 1, 4, 4, false, true, 0, 8, 8, 0, 2, 4, 0, [0, 4]⟩,
-  ⟨6, 0, 3, 1, 4, 4, false, true, 0, 16, 16, 0, 3, 4, 0, [0, 4, 8]⟩,
-  ⟨6, 0, 4, 1, 4, 4, false, true, 0, 16, 16, 0, 4, 4, 0, [0, 4, 8, 12]⟩,
-  ⟨6, 0, 1, 1, 4, 4, false, true, 1, 4, 4, 0, 1, 4, 0, [0]⟩,
-  ⟨6, 0, 2, 1, 4, 4, false, true, 1, 8, 8, 0, 2, 4, 0, [0, 4]⟩,
-  ⟨6, 0, 3, 1, 4, 4, false, true, 1, 16, 16, 0, 3, 4, 0, [0, 4, 8]⟩,
-  ⟨6, 0, 4, 1, 4, 4, false, true, 1, 16, 16, 0, 4, 4, 0, [0, 4, 8, 12]⟩,
-  ⟨6, 0, 1, 1, 4, 4, false, true, 2, 4, 4, 0, 1, 4, 0, [0]⟩,
-  ⟨6, 0, 2, 1, 4, 4, false, true, 2, 8, 8, 0, 2, 4, 0, [0, 4]⟩,
-  ⟨6, 0, 3, 1, 4, 4, false, true, 2, 16, 16, 0, 3, 4, 0, [0, 4, 8]⟩,
-  ⟨6, 0, 4, 1, 4, 4, false, true, 2, 16, 16, 0, 4, 4, 0, [0, 4, 8, 12]⟩,
-  ⟨6, 0, 1, 1, 4, 4, false, true, 0, 4, 4, 0, 1, 4, 0, [0]⟩,
-  ⟨6, 0, 2, 1, 4, 4, false, true, 0, 8, 8, 0, 2, 4, 0, [0, 4]⟩,
-  ⟨6, 0, 3, 1, 4, 4, false, true, 0, 16, 16, 0, 3, 4, 0, [0, 4, 8]⟩,
-  ⟨6, 0, 4, 1, 4, 4, false, true, 0, 16, 16, 0, 4, 4, 0, [0, 4, 8, 12]⟩,
-  ⟨6, 0, 1, 1, 4, 4, false, true, 1, 4, 4, 0, 1, 4, 0, [0]⟩,
-  ⟨6, 0, 2, 1, 4, 4, false, true, 1, 8, 8, 0, 2, 4, 0, [0, 4]⟩,
-  ⟨6, 0, 3, 1, 4, 4, false, true, 1, 16, 16, 0, 3, 4, 0, [0, 4, 8]⟩,
-  ⟨6, 0, 4, 1, 4, 4, false, true, 1, 16, 16, 0, 4, 4, 0, [0, 4, 8, 12]⟩,
-  ⟨6, 0, 1, 1, 4, 4, false, true, 2, 4, 4, 0, 1, 4, 0, [0]⟩,
-  ⟨6, 0, 2, 1, 4, 4, false, true, 2, 8, 8, 0, 2, 4, 0, [0, 4]⟩,
-  ⟨6, 0, 3, 1, 4, 4, false, true, 2, 16, 16, 0, 3, 4, 0, [0, 4, 8]⟩,
-  ⟨6, 0, 4, 1, 4, 4, false, true, 2, 16, 16, 0, 4, 4, 0, [0, 4, 8, 12]⟩,
-  ⟨6, 0, 1, 1, 8, 8, false, true, 0, 8, 8, 0, 1, 4, 0, [0]⟩,
-  ⟨6, 0, 2, 1, 8, 8, false, true, 0, 16, 16, 0, 2, 4, 0, [0, 8]⟩,
-  ⟨6, 0, 3, 1, 8, 8, false, true, 0, 32, 32, 0, 3, 4, 0, [0, 8, 16]⟩,
-  ⟨6, 0, 4, 1, 8, 8, false, true, 0, 32, 32, 0, 4, 4, 0, [0, 8, 16, 24]⟩,
-  ⟨6, 0, 1, 1, 8, 8, false, true, 1, 8, 8, 0, 1, 4, 0, [0]⟩,
-  ⟨6, 0, 2, 1, 8, 8, false, true, 1, 16, 16, 0, 2, 4, 0, [0, 8]⟩,
-  ⟨6, 0, 3, 1, 8, 8, false, true, 1, 32, 32, 0, 3, 4, 0, [0, 8, 16]⟩,
-  ⟨6, 0, 4, 1, 8, 8, false, true, 1, 32, 32, 0, 4, 4, 0, [0, 8, 16, 24]⟩,
-  ⟨6, 0, 1, 1, 8, 8, false, true, 2, 8, 8, 0, 1, 4, 0, [0]⟩,
-  ⟨6, 0, 2, 1, 8, 8, false, true, 2, 16, 16, 0, 2, 4, 0, [0, 8]⟩,
-  ⟨6, 0, 3, 1, 8, 8, false, true, 2, 32, 32, 0, 3, 4, 0, [0, 8, 16]⟩,
-  ⟨6, 0, 4, 1, 8, 8, false, true, 2, 32, 32, 0, 4, 4, 0, [0, 8, 16, 24]⟩,
-  ⟨6, 0, 1, 1, 8, 8, false, true, 0, 8, 8, 0, 1, 4, 0, [0]⟩,
-  ⟨6, 0, 2, 1, 8, 8, false, true, 0, 16, 16, 0, 2, 4, 0, [0, 8]⟩,
-  ⟨6, 0, 3, 1, 8, 8, false, true, 0, 32, 16, 0, 3, 4, 0, [0, 8, 16]⟩,
-  ⟨6, 0, 4, 1, 8, 8, false, true, 0, 32, 32, 0, 4, 4, 0, [0, 8, 16, 24]⟩,
-  ⟨6, 0, 1, 1, 8, 8, false, true, 1, 8, 8, 0, 1, 4, 0, [0]⟩,
-  ⟨6, 0, 2, 1, 8, 8, false, true, 1, 16, 16, 0, 2, 4, 0, [0, 8]⟩,
-  ⟨6, 0, 3, 1, 8, 8, false, true, 1, 32, 16, 0, 3, 4, 0, [0, 8, 16]⟩,
-  ⟨6, 0, 4, 1, 8, 8, false, true, 1, 32, 32, 0, 4, 4, 0, [0, 8, 16, 24]⟩,
-  ⟨6, 0, 1, 1, 8, 8, false, true, 2, 8, 8, 0, 1, 4, 0, [0]⟩,
-  ⟨6, 0, 2, 1, 8, 8, false, true, 2, 16, 16, 0, 2, 4, 0, [0, 8]⟩,
-  ⟨6, 0, 3, 1, 8, 8, false, true, 2, 32, 16, 0, 3, 4, 0, [0, 8, 16]⟩,
-  ⟨6, 0, 4, 1, 8, 8, false, true, 2, 32, 32, 0, 4, 4, 0, [0, 8, 16, 24]⟩,
-  ⟨6, 0, 1, 1, 4, 4, true, true, 0, 4, 4, 0, 1, 4, 0, [0]⟩,
-  ⟨6, 0, 2, 1, 4, 4, true, true, 0, 8, 8, 0, 2, 4, 0, [0, 4]⟩,
-  ⟨6, 0, 3, 1, 4, 4, true, true, 0, 16, 16, 0, 3, 4, 0, [0, 4, 8]⟩,
-  ⟨6, 0, 4, 1, 4, 4, true, true, 0, 16, 16, 0, 4, 4, 0, [0, 4, 8, 12]⟩,
-  ⟨6, 0, 1, 1, 4, 4, true, true, 1, 4, 4, 0, 1, 4, 0, [0]⟩,
-  ⟨6, 0, 2, 1, 4, 4, true, true, 1, 8, 8, 0, 2, 4, 0, [0, 4]⟩,
-  ⟨6, 0, 3, 1, 4, 4, true, true, 1, 16, 16, 0, 3, 4, 0, [0, 4, 8]⟩,
-  ⟨6, 0, 4, 1, 4, 4, true, true, 1, 16, 16, 0, 4, 4, 0, [0, 4, 8, 12]⟩,
-  ⟨6, 0, 1, 1, 4, 4, true, true, 2, 4, 4, 0, 1, 4, 0, [0]⟩,
-  ⟨6, 0, 2, 1, 4, 4, true, true, 2, 8, 8, 0, 2, 4, 0, [0, 4]⟩,
-  ⟨6, 0, 3, 1, 4, 4, true, true, 2, 16, 16, 0, 3, 4, 0, [0, 4, 8]⟩,
-  ⟨6, 0, 4, 1, 4, 4, true, true, 2, 16, 16, 0, 4, 4, 0, [0, 4, 8, 12]⟩,
-  ⟨6, 0, 1, 1, 8, 8, true, true, 0, 8, 8, 0, 1, 4, 0, [0]⟩,
-  ⟨6, 0, 2, 1, 8, 8, true, true, 0, 16, 16, 0, 2, 4, 0, [0, 8]⟩,
-  ⟨6, 0, 3, 1, 8, 8, true, true, 0, 32, 32, 0, 3, 4, 0, [0, 8, 16]⟩,
-  ⟨6, 0, 4, 1, 8, 8, true, true, 0, 32, 32, 0, 4, 4, 0, [0, 8, 16, 24]⟩,
-  ⟨6, 0, 1, 1, 8, 8, true, true, 1, 8, 8, 0, 1, 4, 0, [0]⟩,
-  ⟨6, 0, 2, 1, 8, 8, true, true, 1, 16, 16, 0, 2, 4, 0, [0, 8]⟩,
-  ⟨6, 0, 3, 1, 8, 8, true, true, 1, 32, 32, 0, 3, 4, 0, [0, 8, 16]⟩,
-  ⟨6, 0, 4, 1, 8, 8, true, true, 1, 32, 32, 0, 4, 4, 0, [0, 8, 16, 24]⟩,
-  ⟨6, 0, 1, 1, 8, 8, true, true, 2, 8, 8, 0, 1, 4, 0, [0]⟩,
-  ⟨6, 0, 2, 1, 8, 8, true, true, 2, 16, 16, 0, 2, 4, 0, [0, 8]⟩,
-  ⟨6, 0, 3, 1, 8, 8, true, true, 2, 32, 32, 0, 3, 4, 0, [0, 8, 16]⟩,
-  ⟨6, 0, 4, 1, 8, 8, true, true, 2, 32, 32, 0, 4, 4, 0, [0, 8, 16, 24]⟩,
-  ⟨6, 1, 2, 2, 4, 4, true, true, 0, 16, 8, 0, 2, 4, 8, [0, 4, 8, 12]⟩,
-  ⟨6, 1, 2, 3, 4, 4, true, true, 0, 32, 16, 0, 2, 4, 16, [0, 4, 8, 16, 20, 24]⟩,
-  ⟨6, 1, 2, 4, 4, 4, true, true, 0, 32, 16, 0, 2, 4, 16, [0, 4, 8, 12, 16, 20, 24, 28]⟩,
-  ⟨6, 1, 3, 2, 4, 4, true, true, 0, 24, 8, 0, 3, 4, 8, [0, 4, 8, 12, 16, 20]⟩,
-  ⟨6, 1, 3, 3, 4, 4, true, true, 0, 48, 16, 0, 3, 4, 16, [0, 4, 8, 16, 20, 24, 32, 36, 40]⟩,
-  ⟨6, 1, 3, 4, 4, 4, true, true, 0, 48, 16, 0, 3, 4, 16, [0, 4, 8, 12, 16, 20, 24, 28, 32, 36, 40, 44]⟩,
-  ⟨6, 1, 4, 2, 4, 4, true, true, 0, 32, 8, 0, 4, 4, 8, [0, 4, 8, 12, 16, 20, 24, 28]⟩,
-  ⟨6, 1, 4, 3, 4, 4, true, true, 0, 64, 16, 0, 4, 4, 16, [0, 4, 8, 16, 20, 24, 32, 36, 40, 48, 52, 56]⟩,
-  ⟨6, 1, 4, 4, 4, 4, true, true, 0, 64, 16, 0, 4, 4, 16, [0, 4, 8, 12, 16, 20, 24, 28, 32, 36, 40, 44, 48, 52, 56, 60]⟩,
-  ⟨6, 1, 2, 2, 4, 4, true, true, 1, 16, 8, 0, 2, 4, 8, [0, 4, 8, 12]⟩,
-  ⟨6, 1, 2, 3, 4, 4, true, true, 1, 32, 16, 0, 2, 4, 16, [0, 4, 8, 16, 20, 24]⟩,
-  ⟨6, 1, 2, 4, 4, 4, true, true, 1, 32, 16, 0, 2, 4, 16, [0, 4, 8, 12, 16, 20, 24, 28]⟩,
-  ⟨6, 1, 3, 2, 4, 4, true, true, 1, 24, 8, 0, 3, 4, 8, [0, 4, 8, 12, 16, 20]⟩,
-  ⟨6, 1, 3, 3, 4, 4, true, true, 1, 48, 16, 0, 3, 4, 16, [0, 4, 8, 16, 20, 24, 32, 36, 40]⟩,
-  ⟨6, 1, 3, 4, 4, 4, true, true, 1, 48, 16, 0, 3, 4, 16, [0, 4, 8, 12, 16, 20, 24, 28, 32, 36, 40, 44]⟩,
-  ⟨6, 1, 4, 2, 4, 4, true, true, 1, 32, 8, 0, 4, 4, 8, [0, 4, 8, 12, 16, 20, 24, 28]⟩,
-  ⟨6, 1, 4, 3, 4, 4, true, true, 1, 64, 16, 0, 4, 4, 16, [0, 4, 8, 16, 20, 24, 32, 36, 40, 48, 52, 56]⟩,
-  ⟨6, 1, 4, 4, 4, 4, true, true, 1, 64, 16, 0, 4, 4, 16, [0, 4, 8, 12, 16, 20, 24, 28, 32, 36, 40, 44, 48, 52, 56, 60]⟩,
-  ⟨6, 1, 2, 2, 4, 4, true, true, 2, 16, 8, 0, 2, 4, 8, [0, 4, 8, 12]⟩,
-  ⟨6, 1, 2, 3, 4, 4, true, true, 2, 32, 16, 0, 2, 4, 16, [0, 4, 8, 16, 20, 24]⟩,
-  ⟨6, 1, 2, 4, 4, 4, true, true, 2, 32, 16, 0, 2, 4, 16, [0, 4, 8, 12, 16, 20, 24, 28]⟩,
-  ⟨6, 1, 3, 2, 4, 4, true, true, 2, 24, 8, 0, 3, 4, 8, [0, 4, 8, 12, 16, 20]⟩,
-  ⟨6, 1, 3, 3, 4, 4, true, true, 2, 48, 16, 0, 3, 4, 16, [0, 4, 8, 16, 20, 24, 32, 36, 40]⟩,
-  ⟨6, 1, 3, 4, 4, 4, true, true, 2, 48, 16, 0, 3, 4, 16, [0, 4, 8, 12, 16, 20, 24, 28, 32, 36, 40, 44]⟩,
-  ⟨6, 1, 4, 2, 4, 4, true, true, 2, 32, 8, 0, 4, 4, 8, [0, 4, 8, 12, 16, 20, 24, 28]⟩,
-  ⟨6, 1, 4, 3, 4, 4, true, true, 2, 64, 16, 0, 4, 4, 16, [0, 4, 8, 16, 20, 24, 32, 36, 40, 48, 52, 56]⟩,
-  ⟨6, 1, 4, 4, 4, 4, true, true, 2, 64, 16, 0, 4, 4, 16, [0, 4, 8, 12, 16, 20, 24, 28, 32, 36, 40, 44, 48, 52, 56, 60]⟩,
-  ⟨6, 1, 2, 2, 8, 8, true, true, 0, 32, 16, 0, 2, 4, 16, [0, 8, 16, 24]⟩,
-  ⟨6, 1, 2, 3, 8, 8, true, true, 0, 64, 32, 0, 2, 4, 32, [0, 8, 16, 32, 40, 48]⟩,
-  ⟨6, 1, 2, 4, 8, 8, true, true, 0, 64, 32, 0, 2, 4, 32, [0, 8, 16, 24, 32, 40, 48, 56]⟩,
-  ⟨6, 1, 3, 2, 8, 8, true, true, 0, 48, 16, 0, 3, 4, 16, [0, 8, 16, 24, 32, 40]⟩,
-  ⟨6, 1, 3, 3, 8, 8, true, true, 0, 96, 32, 0, 3, 4, 32, [0, 8, 16, 32, 40, 48, 64, 72, 80]⟩,
-  ⟨6, 1, 3, 4, 8, 8, true, true, 0, 96, 32, 0, 3, 4, 32, [0, 8, 16, 24, 32, 40, 48, 56, 64, 72, 80, 88]⟩,
-  ⟨6, 1, 4, 2, 8, 8, true, true, 0, 64, 16, 0, 4, 4, 16, [0, 8, 16, 24, 32, 40, 48, 56]⟩,
-  ⟨6, 1, 4, 3, 8, 8, true, true, 0, 128, 32, 0, 4, 4, 32, [0, 8, 16, 32, 40, 48, 64, 72, 80, 96, 104, 112]⟩,
-  ⟨6, 1, 4, 4, 8, 8, true, true, 0, 128, 32, 0, 4, 4, 32, [0, 8, 16, 24, 32, 40, 48, 56, 64, 72, 80, 88, 96, 104, 112, 120]⟩,
-  ⟨6, 1, 2, 2, 8, 8, true, true, 1, 32, 16, 0, 2, 4, 16, [0, 8, 16, 24]⟩,
-  ⟨6, 1, 2, 3, 8, 8, true, true, 1, 64, 32, 0, 2, 4, 32, [0, 8, 16, 32, 40, 48]⟩,
-  ⟨6, 1, 2, 4, 8, 8, true, true, 1, 64, 32, 0, 2, 4, 32, [0, 8, 16, 24, 32, 40, 48, 56]⟩,
-  ⟨6, 1, 3, 2, 8, 8, true, true, 1, 48, 16, 0, 3, 4, 16, [0, 8, 16, 24, 32, 40]⟩,
-  ⟨6, 1, 3, 3, 8, 8, true, true, 1, 96, 32, 0, 3, 4, 32, [0, 8, 16, 32, 40, 48, 64, 72, 80]⟩,
-  ⟨6, 1, 3, 4, 8, 8, true, true, 1, 96, 32, 0, 3, 4, 32, [0, 8, 16, 24, 32, 40, 48, 56, 64, 72, 80, 88]⟩,
-  ⟨6, 1, 4, 2, 8, 8, true, true, 1, 64, 16, 0, 4, 4, 16, [0, 8, 16, 24, 32, 40, 48, 56]⟩,
-  ⟨6, 1, 4, 3, 8, 8, true, true, 1, 128, 32, 0, 4, 4, 32, [0, 8, 16, 32, 40, 48, 64, 72, 80, 96, 104, 112]⟩,
-  ⟨6, 1, 4, 4, 8, 8, true, true, 1, 128, 32, 0, 4, 4, 32, [0, 8, 16, 24, 32, 40, 48, 56, 64, 72, 80, 88, 96, 104, 112, 120]⟩,
-  ⟨6, 1, 2, 2, 8, 8, true, true, 2, 32, 16, 0, 2, 4, 16, [0, 8, 16, 24]⟩,
-  ⟨6, 1, 2, 3, 8, 8, true, true, 2, 64, 32, 0, 2, 4, 32, [0, 8, 16, 32, 40, 48]⟩,
-  ⟨6, 1, 2, 4, 8, 8, true, true, 2, 64, 32, 0, 2, 4, 32, [0, 8, 16, 24, 32, 40, 48, 56]⟩,
-  ⟨6, 1, 3, 2, 8, 8, true, true, 2, 48, 16, 0, 3, 4, 16, [0, 8, 16, 24, 32, 40]⟩,
-  ⟨6, 1, 3, 3, 8, 8, true, true, 2, 96, 32, 0, 3, 4, 32, [0, 8, 16, 32, 40, 48, 64, 72, 80]⟩,
-  ⟨6, 1, 3, 4, 8, 8, true, true, 2, 96, 32, 0, 3, 4, 32, [0, 8, 16, 24, 32, 40, 48, 56, 64, 72, 80, 88]⟩,
-  ⟨6, 1, 4, 2, 8, 8, true, true, 2, 64, 16, 0, 4, 4, 16, [0, 8, 16, 24, 32, 40, 48, 56]⟩,
-  ⟨6, 1, 4, 3, 8, 8, true, true, 2, 128, 32, 0, 4, 4, 32, [0, 8, 16, 32, 40, 48, 64, 72, 80, 96, 104, 112]⟩,
-  ⟨6, 1, 4, 4, 8, 8, true, true, 2, 128, 32, 0, 4, 4, 32, [0, 8, 16, 24, 32, 40, 48, 56, 64, 72, 80, 88, 96, 104, 112, 120]⟩,
-  ⟨6, 1, 2, 2, 4, 4, false, true, 0, 16, 8, 0, 2, 4, 8, [0, 4, 8, 12]⟩,
-  ⟨6, 1, 2, 3, 4, 4, false, true, 0, 32, 16, 0, 2, 4, 16, [0, 4, 8, 16, 20, 24]⟩,
-  ⟨6, 1, 2, 4, 4, 4, false, true, 0, 32, 16, 0, 2, 4, 16, [0, 4, 8, 12, 16, 20, 24, 28]⟩,
-  ⟨6, 1, 3, 2, 4, 4, false, true, 0, 24, 8, 0, 3, 4, 8, [0, 4, 8, 12, 16, 20]⟩,
-  ⟨6, 1, 3, 3, 4, 4, false, true, 0, 48, 16, 0, 3, 4, 16, [0, 4, 8, 16, 20, 24, 32, 36, 40]⟩,
-  ⟨6, 1, 3, 4, 4, 4, false, true, 0, 48, 16, 0, 3, 4, 16, [0, 4, 8, 12, 16, 20, 24, 28, 32, 36, 40, 44]⟩,
-  ⟨6, 1, 4, 2, 4, 4, false, true, 0, 32, 8, 0, 4, 4, 8, [0, 4, 8, 12, 16, 20, 24, 28]⟩,
-  ⟨6, 1, 4, 3, 4, 4, false, true, 0, 64, 16, 0, 4, 4, 16, [0, 4, 8, 16, 20, 24, 32, 36, 40, 48, 52, 56]⟩,
-  ⟨6, 1, 4, 4, 4, 4, false, true, 0, 64, 16, 0, 4, 4, 16, [0, 4, 8, 12, 16, 20, 24, 28, 32, 36, 40, 44, 48, 52, 56, 60]⟩,
-  ⟨6, 1, 2, 2, 4, 4, false, true, 1, 16, 8, 0, 2, 4, 8, [0, 4, 8, 12]⟩,
-  ⟨6, 1, 2, 3, 4, 4, false, true, 1, 32, 16, 0, 2, 4, 16, [0, 4, 8, 16, 20, 24]⟩,
-  ⟨6, 1, 2, 4, 4, 4, false, true, 1, 32, 16, 0, 2, 4, 16, [0, 4, 8, 12, 16, 20, 24, 28]⟩,
-  ⟨6, 1, 3, 2, 4, 4, false, true, 1, 24, 8, 0, 3, 4, 8, [0, 4, 8, 12, 16, 20]⟩,
-  ⟨6, 1, 3, 3, 4, 4, false, true, 1, 48, 16, 0, 3, 4, 16, [0, 4, 8, 16, 20, 24, 32, 36, 40]⟩,
-  ⟨6, 1, 3, 4, 4, 4, false, true, 1, 48, 16, 0, 3, 4, 16, [0, 4, 8, 12, 16, 20, 24, 28, 32, 36, 40, 44]⟩,
-  ⟨6, 1, 4, 2, 4, 4, false, true, 1, 32, 8, 0, 4, 4, 8, [0, 4, 8, 12, 16, 20, 24, 28]⟩,
-  ⟨6, 1, 4, 3, 4, 4, false, true, 1, 64, 16, 0, 4, 4, 16, [0, 4, 8, 16, 20, 24, 32, 36, 40, 48, 52, 56]⟩,
-  ⟨6, 1, 4, 4, 4, 4, false, true, 1, 64, 16, 0, 4, 4, 16, [0, 4, 8, 12, 16, 20, 24, 28, 32, 36, 40, 44, 48, 52, 56, 60]⟩,
-  ⟨6, 1, 2, 2, 4, 4, false, true, 2, 16, 8, 0, 2, 4, 8, [0, 4, 8, 12]⟩,
-  ⟨6, 1, 2, 3, 4, 4, false, true, 2, 32, 16, 0, 2, 4, 16, [0, 4, 8, 16, 20, 24]⟩,
-  ⟨6, 1, 2, 4, 4, 4, false, true, 2, 32, 16, 0, 2, 4, 16, [0, 4, 8, 12, 16, 20, 24, 28]⟩,
-  ⟨6, 1, 3, 2, 4, 4, false, true, 2, 24, 8, 0, 3, 4, 8, [0, 4, 8, 12, 16, 20]⟩,
-  ⟨6, 1, 3, 3, 4, 4, false, true, 2, 48, 16, 0, 3, 4, 16, [0, 4, 8, 16, 20, 24, 32, 36, 40]⟩,
-  ⟨6, 1, 3, 4, 4, 4, false, true, 2, 48, 16, 0, 3, 4, 16, [0, 4, 8, 12, 16, 20, 24, 28, 32, 36, 40, 44]⟩,
-  ⟨6, 1, 4, 2, 4, 4, false, true, 2, 32, 8, 0, 4, 4, 8, [0, 4, 8, 12, 16, 20, 24, 28]⟩,
-  ⟨6, 1, 4, 3, 4, 4, false, true, 2, 64, 16, 0, 4, 4, 16, [0, 4, 8, 16, 20, 24, 32, 36, 40, 48, 52, 56]⟩,
-  ⟨6, 1, 4, 4, 4, 4, false, true, 2, 64, 16, 0, 4, 4, 16, [0, 4, 8, 12, 16, 20, 24, 28, 32, 36, 40, 44, 48, 52, 56, 60]⟩,
-  ⟨6, 1, 2, 2, 4, 4, false, true, 0, 16, 8, 0, 2, 4, 8, [0, 4, 8, 12]⟩,
-  ⟨6, 1, 2, 3, 4, 4, false, true, 0, 32, 16, 0, 2, 4, 16, [0, 4, 8, 16, 20, 24]⟩,
-  ⟨6, 1, 2, 4, 4, 4, false, true, 0, 32, 16, 0, 2, 4, 16, [0, 4, 8, 12, 16, 20, 24, 28]⟩,
-  ⟨6, 1, 3, 2, 4, 4, false, true, 0, 24, 8, 0, 3, 4, 8, [0, 4, 8, 12, 16, 20]⟩,
-  ⟨6, 1, 3, 3, 4, 4, false, true, 0, 48, 16, 0, 3, 4, 16, [0, 4, 8, 16, 20, 24, 32, 36, 40]⟩,
-  ⟨6, 1, 3, 4, 4, 4, false, true, 0, 48, 16, 0, 3, 4, 16, [0, 4, 8, 12, 16, 20, 24, 28, 32, 36, 40, 44]⟩,
-  ⟨6, 1, 4, 2, 4, 4, false, true, 0, 32, 8, 0, 4, 4, 8, [0, 4, 8, 12, 16, 20, 24, 28]⟩,
-  ⟨6, 1, 4, 3, 4, 4, false, true, 0, 64, 16, 0, 4, 4, 16, [0, 4, 8, 16, 20, 24, 32, 36, 40, 48, 52, 56]⟩,
-  ⟨6, 1, 4, 4, 4, 4, false, true, 0, 64, 16, 0, 4, 4, 16, [0, 4, 8, 12, 16, 20, 24, 28, 32, 36, 40, 44, 48, 52, 56, 60]⟩,
-  ⟨6, 1, 2, 2, 4, 4, false, true, 1, 16, 8, 0, 2, 4, 8, [0, 4, 8, 12]⟩,
-  ⟨6, 1, 2, 3, 4, 4, false, true, 1, 32, 16, 0, 2, 4, 16, [0, 4, 8, 16, 20, 24]⟩,
-  ⟨6, 1, 2, 4, 4, 4, false, true, 1, 32, 16, 0, 2, 4, 16, [0, 4, 8, 12, 16, 20, 24, 28]⟩,
-  ⟨6, 1, 3, 2, 4, 4, false, true, 1, 24, 8, 0, 3, 4, 8, [0, 4, 8, 12, 16, 20]⟩,
-  ⟨6, 1, 3, 3, 4, 4, false, true, 1, 48, 16, 0, 3, 4, 16, [0, 4, 8, 16, 20, 24, 32, 36, 40]⟩,
-  ⟨6, 1, 3, 4, 4, 4, false, true, 1, 48, 16, 0, 3, 4, 16, [0, 4, 8, 12, 16, 20, 24, 28, 32, 36, 40, 44]⟩,
-  ⟨6, 1, 4, 2, 4, 4, false, true, 1, 32, 8, 0, 4, 4, 8, [0, 4, 8, 12, 16, 20, 24, 28]⟩,
-  ⟨6, 1, 4, 3, 4, 4, false, true, 1, 64, 16, 0, 4, 4, 16, [0, 4, 8, 16, 20, 24, 32, 36, 40, 48, 52, 56]⟩,
-  ⟨6, 1, 4, 4, 4, 4, false, true, 1, 64, 16, 0, 4, 4, 16, [0, 4, 8, 12, 16, 20, 24, 28, 32, 36, 40, 44, 48, 52, 56, 60]⟩,
-  ⟨6, 1, 2, 2, 4, 4, false, true, 2, 16, 8, 0, 2, 4, 8, [0, 4, 8, 12]⟩,
-  ⟨6, 1, 2, 3, 4, 4, false, true, 2, 32, 16, 0, 2, 4, 16, [0, 4, 8, 16, 20, 24]⟩,
-  ⟨6, 1, 2, 4, 4, 4, false, true, 2, 32, 16, 0, 2, 4, 16, [0, 4, 8, 12, 16, 20, 24, 28]⟩,
-  ⟨6, 1, 3, 2, 4, 4, false, true, 2, 24, 8, 0, 3, 4, 8, [0, 4, 8, 12, 16, 20]⟩,
-  ⟨6, 1, 3, 3, 4, 4, false, true, 2, 48, 16, 0, 3, 4, 16, [0, 4, 8, 16, 20, 24, 32, 36, 40]⟩,
-  ⟨6, 1, 3, 4, 4, 4, false, true, 2, 48, 16, 0, 3, 4, 16, [0, 4, 8, 12, 16, 20, 24, 28, 32, 36, 40, 44]⟩,
-  ⟨6, 1, 4, 2, 4, 4, false, true, 2, 32, 8, 0, 4, 4, 8, [0, 4, 8, 12, 16, 20, 24, 28]⟩,
-  ⟨6, 1, 4, 3, 4, 4, false, true, 2, 64, 16, 0, 4, 4, 16, [0, 4, 8, 16, 20, 24, 32, 36, 40, 48, 52, 56]⟩,
-  ⟨6, 1, 4, 4, 4, 4, false, true, 2, 64, 16, 0, 4, 4, 16, [0, 4, 8, 12, 16, 20, 24, 28, 32, 36, 40, 44, 48, 52, 56, 60]⟩,
-  ⟨6, 2, 4, 1, 4, 4, true, true, 0, 16, 16, 0, 4, 4, 0, [0, 4, 8, 12]⟩,
-  ⟨6, 2, 4, 1, 4, 4, true, true, 1, 16, 16, 0, 4, 4, 0, [0, 4, 8, 12]⟩,
-  ⟨6, 2, 4, 1, 4, 4, true, true, 2, 16, 16, 0, 4, 4, 0, [0, 4, 8, 12]⟩,
-  ⟨6, 2, 4, 1, 8, 8, true, true, 0, 32, 32, 0, 4, 4, 0, [0, 8, 16, 24]⟩,
-  ⟨6, 2, 4, 1, 8, 8, true, true, 1, 32, 32, 0, 4, 4, 0, [0, 8, 16, 24]⟩,
-  ⟨6, 2, 4, 1, 8, 8, true, true, 2, 32, 32, 0, 4, 4, 0, [0, 8, 16, 24]⟩,
-  ⟨7, 0, 1, 1, 1, 1, false, false, 0, 1, 1, 0, 1, 8, 0, [0]⟩,
-  ⟨7, 0, 2, 1, 1, 1, false, false, 0, 2, 1, 0, 2, 8, 0, [0, 1]⟩,
-  ⟨7, 0, 3, 1, 1, 1, false, false, 0, 3, 1, 0, 3, 8, 0, [0, 1, 2]⟩,
-  ⟨7, 0, 4, 1, 1, 1, false, false, 0, 4, 1, 0, 4, 8, 0, [0, 1, 2, 3]⟩,
-  ⟨7, 0, 1, 1, 1, 1, false, false, 1, 1, 1, 0, 1, 8, 0, [0]⟩,
-  ⟨7, 0, 2, 1, 1, 1, false, false, 1, 2, 1, 0, 2, 8, 0, [0, 1]⟩,
-  ⟨7, 0, 3, 1, 1, 1, false, false, 1, 3, 1, 0, 3, 8, 0, [0, 1, 2]⟩,
-  ⟨7, 0, 4, 1, 1, 1, false, false, 1, 4, 1, 0, 4, 8, 0, [0, 1, 2, 3]⟩,
-  ⟨7, 0, 1, 1, 1, 1, false, false, 2, 1, 1, 0, 1, 8, 0, [0]⟩,
-  ⟨7, 0, 2, 1, 1, 1, false, false, 2, 2, 1, 0, 2, 8, 0, [0, 1]⟩,
-  ⟨7, 0, 3, 1, 1, 1, false, false, 2, 3, 1, 0, 3, 8, 0, [0, 1, 2]⟩,
-  ⟨7, 0, 4, 1, 1, 1, false, false, 2, 4, 1, 0, 4, 8, 0, [0, 1, 2, 3]⟩,
-  ⟨7, 0, 1, 1, 1, 1, false, false, 0, 1, 1, 0, 1, 8, 0, [0]⟩,
-  ⟨7, 0, 2, 1, 1, 1, false, false, 0, 2, 1, 0, 2, 8, 0, [0, 1]⟩,
-  ⟨7, 0, 3, 1, 1, 1, false, false, 0, 3, 1, 0, 3, 8, 0, [0, 1, 2]⟩,
-  ⟨7, 0, 4, 1, 1, 1, false, false, 0, 4, 1, 0, 4, 8, 0, [0, 1, 2, 3]⟩,
-  ⟨7, 0, 1, 1, 1, 1, false, false, 1, 1, 1, 0, 1, 8, 0, [0]⟩,
-  ⟨7, 0, 2, 1, 1, 1, false, false, 1, 2, 1, 0, 2, 8, 0, [0, 1]⟩,
-  ⟨7, 0, 3, 1, 1, 1, false, false, 1, 3, 1, 0, 3, 8, 0, [0, 1, 2]⟩,
-  ⟨7, 0, 4, 1, 1, 1, false, false, 1, 4, 1, 0, 4, 8, 0, [0, 1, 2, 3]⟩,
-  ⟨7, 0, 1, 1, 1, 1, false, false, 2, 1, 1, 0, 1, 8, 0, [0]⟩,
-  ⟨7, 0, 2, 1, 1, 1, false, false, 2, 2, 1, 0, 2, 8, 0, [0, 1]⟩,
-  ⟨7, 0, 3, 1, 1, 1, false, false, 2, 3, 1, 0, 3, 8, 0, [0, 1, 2]⟩,
-  ⟨7, 0, 4, 1, 1, 1, false, false, 2, 4, 1, 0, 4, 8, 0, [0, 1, 2, 3]⟩,
-  ⟨7, 0, 1, 1, 1, 1, false, false, 0, 1, 1, 0, 1, 8, 0, [0]⟩,
-  ⟨7, 0, 2, 1, 1, 1, false, false, 0, 2, 1, 0, 2, 8, 0, [0, 1]⟩,
-  ⟨7, 0, 3, 1, 1, 1, false, false, 0, 3, 1, 0, 3, 8, 0, [0, 1, 2]⟩,
-  ⟨7, 0, 4, 1, 1, 1, false, false, 0, 4, 1, 0, 4, 8, 0, [0, 1, 2, 3]⟩,
-  ⟨7, 0, 1, 1, 1, 1, false, false, 1, 1, 1, 0, 1, 8, 0, [0]⟩,
-  ⟨7, 0, 2, 1, 1, 1, false, false, 1, 2, 1, 0, 2, 8, 0, [0, 1]⟩,
-  ⟨7, 0, 3, 1, 1, 1, false, false, 1, 3, 1, 0, 3, 8, 0, [0, 1, 2]⟩,
-  ⟨7, 0, 4, 1, 1, 1, false, false, 1, 4, 1, 0, 4, 8, 0, [0, 1, 2, 3]⟩,
-  ⟨7, 0, 1, 1, 1, 1, false, false, 2, 1, 1, 0, 1, 8, 0, [0]⟩,
-  ⟨7, 0, 2, 1, 1, 1, false, false, 2, 2, 1, 0, 2, 8, 0, [0, 1]⟩,
-  ⟨7, 0, 3, 1, 1, 1, false, false, 2, 3, 1, 0, 3, 8, 0, [0, 1, 2]⟩,
-  ⟨7, 0, 4, 1, 1, 1, false, false, 2, 4, 1, 0, 4, 8, 0, [0, 1, 2, 3]⟩,
-  ⟨7, 0, 1, 1, 2, 2, false, false, 0, 2, 2, 0, 1, 8, 0, [0]⟩,
-  ⟨7, 0, 2, 1, 2, 2, false, false, 0, 4, 2, 0, 2, 8, 0, [0, 2]⟩,
-  ⟨7, 0, 3, 1, 2, 2, false, false, 0, 6, 2, 0, 3, 8, 0, [0, 2, 4]⟩,
-  ⟨7, 0, 4, 1, 2, 2, false, false, 0, 8, 2, 0, 4, 8, 0, [0, 2, 4, 6]⟩,
-  ⟨7, 0, 1, 1, 2, 2, false, false, 1, 2, 2, 0, 1, 8, 0, [0]⟩,
-  ⟨7, 0, 2, 1, 2, 2, false, false, 1, 4, 2, 0, 2, 8, 0, [0, 2]⟩,
-  ⟨7, 0, 3, 1, 2, 2, false, false, 1, 6, 2, 0, 3, 8, 0, [0, 2, 4]⟩,
-  ⟨7, 0, 4, 1, 2, 2, false, false, 1, 8, 2, 0, 4, 8, 0, [0, 2, 4, 6]⟩,
-  ⟨7, 0, 1, 1, 2, 2, false, false, 2, 2, 2, 0, 1, 8, 0, [0]⟩,
-  ⟨7, 0, 2, 1, 2, 2, false, false, 2, 4, 2, 0, 2, 8, 0, [0, 2]⟩,
-  ⟨7, 0, 3, 1, 2, 2, false, false, 2, 6, 2, 0, 3, 8, 0, [0, 2, 4]⟩,
-  ⟨7, 0, 4, 1, 2, 2, false, false, 2, 8, 2, 0, 4, 8, 0, [0, 2, 4, 6]⟩,
-  ⟨7, 0, 1, 1, 2, 2, false, false, 0, 2, 2, 0, 1, 8, 0, [0]⟩,
-  ⟨7, 0, 2, 1, 2, 2, false, false, 0, 4, 2, 0, 2, 8, 0, [0, 2]⟩,
-  ⟨7, 0, 3, 1, 2, 2, false, false, 0, 6, 2, 0, 3, 8, 0, [0, 2, 4]⟩,
-  ⟨7, 0, 4, 1, 2, 2, false, false, 0, 8, 2, 0, 4, 8, 0, [0, 2, 4, 6]⟩,
-  ⟨7, 0, 1, 1, 2, 2, false, false, 1, 2, 2, 0, 1, 8, 0, [0]⟩,
-  ⟨7, 0, 2, 1, 2, 2, false, false, 1, 4, 2, 0, 2, 8, 0, [0, 2]⟩,
-  ⟨7, 0, 3, 1, 2, 2, false, false, 1, 6, 2, 0, 3, 8, 0, [0, 2, 4]⟩,
-  ⟨7, 0, 4, 1, 2, 2, false, false, 1, 8, 2, 0, 4, 8, 0, [0, 2, 4, 6]⟩,
-  ⟨7, 0, 1, 1, 2, 2, false, false, 2, 2, 2, 0, 1, 8, 0, [0]⟩,
-  ⟨7, 0, 2, 1, 2, 2, false, false, 2, 4, 2, 0, 2, 8, 0, [0, 2]⟩,
-  ⟨7, 0, 3, 1, 2, 2, false, false, 2, 6, 2, 0, 3, 8, 0, [0, 2, 4]⟩,
-  ⟨7, 0, 4, 1, 2, 2, false, false, 2, 8, 2, 0, 4, 8, 0, [0, 2, 4, 6]⟩,
-  ⟨7, 0, 1, 1, 4, 4, false, false, 0, 4, 4, 0, 1, 8, 0, [0]⟩,
-  ⟨7, 0, 2, 1, 4, 4, false, false, 0, 8, 4, 0, 2, 8, 0, [0, 4]⟩,
-  ⟨7, 0, 3, 1, 4, 4, false, false, 0, 12, 4, 0, 3, 8, 0, [0, 4, 8]⟩,
-  ⟨7, 0, 4, 1, 4, 4, false, false, 0, 16, 4, 0, 4, 8, 0, [0, 4, 8, 12]⟩,
-  ⟨7, 0, 1, 1, 4, 4, false, false, 1, 4, 4, 0, 1, 8, 0, [0]⟩,
-  ⟨7, 0, 2, 1, 4, 4, false, false, 1, 8, 4, 0, 2, 8, 0, [0, 4]⟩,
-  ⟨7, 0, 3, 1, 4, 4, false, false, 1, 12, 4, 0, 3, 8, 0, [0, 4, 8]⟩,
-  ⟨7, 0, 4, 1, 4, 4, false, false, 1, 16, 4, 0, 4, 8, 0, [0, 4, 8, 12]⟩,
-  ⟨7, 0, 1, 1, 4, 4, false, false, 2, 4, 4, 0, 1, 8, 0, [0]⟩,
-  ⟨7, 0, 2, 1, 4, 4, false, false, 2, 8, 4, 0, 2, 8, 0, [0, 4]⟩,
-  ⟨7, 0, 3, 1, 4, 4, false, false, 2, 12, 4, 0, 3, 8, 0, [0, 4, 8]⟩,
-  ⟨7, 0, 4, 1, 4, 4, false, false, 2, 16, 4, 0, 4, 8, 0, [0, 4, 8, 12]⟩,
-  ⟨7, 0, 1, 1, 4, 4, false, false, 0, 4, 4, 0, 1, 8, 0, [0]⟩,
-  ⟨7, 0, 2, 1, 4, 4, false, false, 0, 8, 4, 0, 2, 8, 0, [0, 4]⟩,
-  ⟨7, 0, 3, 1, 4, 4, false, false, 0, 12, 4, 0, 3, 8, 0, [0, 4, 8]⟩,
-  ⟨7, 0, 4, 1, 4, 4, false, false, 0, 16, 4, 0, 4, 8, 0, [0, 4, 8, 12]⟩,
-  ⟨7, 0, 1, 1, 4, 4, false, false, 1, 4, 4, 0, 1, 8, 0, [0]⟩,
-  ⟨7, 0, 2, 1, 4, 4, false, false, 1, 8, 4, 0, 2, 8, 0, [0, 4]⟩,
-  ⟨7, 0, 3, 1, 4, 4, false, false, 1, 12, 4, 0, 3, 8, 0, [0, 4, 8]⟩,
-  ⟨7, 0, 4, 1, 4, 4, false, false, 1, 16, 4, 0, 4, 8, 0, [0, 4, 8, 12]⟩,
-  ⟨7, 0, 1, 1, 4, 4, false, false, 2, 4, 4, 0, 1, 8, 0, [0]⟩,
-  ⟨7, 0, 2, 1, 4, 4, false, false, 2, 8, 4, 0, 2, 8, 0, [0, 4]⟩,
-  ⟨7, 0, 3, 1, 4, 4, false, false, 2, 12, 4, 0, 3, 8, 0, [0, 4, 8]⟩,
-  ⟨7, 0, 4, 1, 4, 4, false, false, 2, 16, 4, 0, 4, 8, 0, [0, 4, 8, 12]⟩,
-  ⟨7, 0, 1, 1, 8, 8, false, false, 0, 8, 8, 0, 1, 8, 0, [0]⟩,
-  ⟨7, 0, 2, 1, 8, 8, false, false, 0, 16, 8, 0, 2, 8, 0, [0, 8]⟩,
-  ⟨7, 0, 3, 1, 8, 8, false, false, 0, 24, 8, 0, 3, 8, 0, [0, 8, 16]⟩,
-  ⟨7, 0, 4, 1, 8, 8, false, false, 0, 32, 8, 0, 4, 8, 0, [0, 8, 16, 24]⟩,
-  ⟨7, 0, 1, 1, 8, 8, false, false, 1, 8, 8, 0, 1, 8, 0, [0]⟩,
-  ⟨7, 0, 2, 1, 8, 8, false, false, 1, 16, 8, 0, 2, 8, 0, [0, 8]⟩,
-  ⟨7, 0, 3, 1, 8, 8, false, false, 1, 24, 8, 0, 3, 8, 0, [0, 8, 16]⟩,
-  ⟨7, 0, 4, 1, 8, 8, false, false, 1, 32, 8, 0, 4, 8, 0, [0, 8, 16, 24]⟩,
-  ⟨7, 0, 1, 1, 8, 8, false, false, 2, 8, 8, 0, 1, 8, 0, [0]⟩,
-  ⟨7, 0, 2, 1, 8, 8, false, false, 2, 16, 8, 0, 2, 8, 0, [0, 8]⟩,
-  ⟨7, 0, 3, 1, 8, 8, false, false, 2, 24, 8, 0, 3, 8, 0, [0, 8, 16]⟩,
-  ⟨7, 0, 4, 1, 8, 8, false, false, 2, 32, 8, 0, 4, 8, 0, [0, 8, 16, 24]⟩,
-  ⟨7, 0, 1, 1, 8, 8, false, false, 0, 8, 8, 0, 1, 8, 0, [0]⟩,
-  ⟨7, 0, 2, 1, 8, 8, false, false, 0, 16, 8, 0, 2, 8, 0, [0, 8]⟩,
-  ⟨7, 0, 3, 1, 8, 8, false, false, 0, 24, 8, 0, 3, 8, 0, [0, 8, 16]⟩,
-  ⟨7, 0, 4, 1, 8, 8, false, false, 0, 32, 8, 0, 4, 8, 0, [0, 8, 16, 24]⟩,
-  ⟨7, 0, 1, 1, 8, 8, false, false, 1, 8, 8, 0, 1, 8, 0, [0]⟩,
-  ⟨7, 0, 2, 1, 8, 8, false, false, 1, 16, 8, 0, 2, 8, 0, [0, 8]⟩,
-  ⟨7, 0, 3, 1, 8, 8, false, false, 1, 24, 8, 0, 3, 8, 0, [0, 8, 16]⟩,
-  ⟨7, 0, 4, 1, 8, 8, false, false, 1, 32, 8, 0, 4, 8, 0, [0, 8, 16, 24]⟩,
-  ⟨7, 0, 1, 1, 8, 8, false, false, 2, 8, 8, 0, 1, 8, 0, [0]⟩,
-  ⟨7, 0, 2, 1, 8, 8, false, false, 2, 16, 8, 0, 2, 8, 0, [0, 8]⟩,
-  ⟨7, 0, 3, 1, 8, 8, false, false, 2, 24, 8, 0, 3, 8, 0, [0, 8, 16]⟩,
-  ⟨7, 0, 4, 1, 8, 8, false, false, 2, 32, 8, 0, 4, 8, 0, [0, 8, 16, 24]⟩,
-  ⟨7, 0, 1, 1, 4, 4, true, false, 0, 4, 4, 0, 1, 8, 0, [0]⟩,
-  ⟨7, 0, 2, 1, 4, 4, true, false, 0, 8, 4, 0, 2, 8, 0, [0, 4]⟩,
-  ⟨7, 0, 3, 1, 4, 4, true, false, 0, 12, 4, 0, 3, 8, 0, [0, 4, 8]⟩,
-  ⟨7, 0, 4, 1, 4, 4, true, false, 0, 16, 4, 0, 4, 8, 0, [0, 4, 8, 12]⟩,
-  ⟨7, 0, 1, 1, 4, 4, true, false, 1, 4, 4, 0, 1, 8, 0, [0]⟩,
-  ⟨7, 0, 2, 1, 4, 4, true, false, 1, 8, 4, 0, 2, 8, 0, [0, 4]⟩,
-  ⟨7, 0, 3, 1, 4, 4, true, false, 1, 12, 4, 0, 3, 8, 0, [0, 4, 8]⟩,
-  ⟨7, 0, 4, 1, 4, 4, true, false, 1, 16, 4, 0, 4, 8, 0, [0, 4, 8, 12]⟩,
-  ⟨7, 0, 1, 1, 4, 4, true, false, 2, 4, 4, 0, 1, 8, 0, [0]⟩,
-  ⟨7, 0, 2, 1, 4, 4, true, false, 2, 8, 4, 0, 2, 8, 0, [0, 4]⟩,
-  ⟨7, 0, 3, 1, 4, 4, true, false, 2, 12, 4, 0, 3, 8, 0, [0, 4, 8]⟩,
-  ⟨7, 0, 4, 1, 4, 4, true, false, 2, 16, 4, 0, 4, 8, 0, [0, 4, 8, 12]⟩,
-  ⟨7, 0, 1, 1, 8, 8, true, false, 0, 8, 8, 0, 1, 8, 0, [0]⟩,
-  ⟨7, 0, 2, 1, 8, 8, true, false, 0, 16, 8, 0, 2, 8, 0, [0, 8]⟩,
-  ⟨7, 0, 3, 1, 8, 8, true, false, 0, 24, 8, 0, 3, 8, 0, [0, 8, 16]⟩,
-  ⟨7, 0, 4, 1, 8, 8, true, false, 0, 32, 8, 0, 4, 8, 0, [0, 8, 16, 24]⟩,
-  ⟨7, 0, 1, 1, 8, 8, true, false, 1, 8, 8, 0, 1, 8, 0, [0]⟩,
-  ⟨7, 0, 2, 1, 8, 8, true, false, 1, 16, 8, 0, 2, 8, 0, [0, 8]⟩,
-  ⟨7, 0, 3, 1, 8, 8, true, false, 1, 24, 8, 0, 3, 8, 0, [0, 8, 16]⟩,
-  ⟨7, 0, 4, 1, 8, 8, true, false, 1, 32, 8, 0, 4, 8, 0, [0, 8, 16, 24]⟩,
-  ⟨7, 0, 1, 1, 8, 8, true, false, 2, 8, 8, 0, 1, 8, 0, [0]⟩,
-  ⟨7, 0, 2, 1, 8, 8, true, false, 2, 16, 8, 0, 2, 8, 0, [0, 8]⟩,
-  ⟨7, 0, 3, 1, 8, 8, true, false, 2, 24, 8, 0, 3, 8, 0, [0, 8, 16]⟩,
-  ⟨7, 0, 4, 1, 8, 8, true, false, 2, 32, 8, 0, 4, 8, 0, [0, 8, 16, 24]⟩,
-  ⟨7, 1, 2, 2, 4, 4, true, false, 0, 16, 4, 0, 2, 8, 8, [0, 4, 8, 12]⟩,
-  ⟨7, 1, 2, 3, 4, 4, true, false, 0, 24, 4, 0, 2, 8, 12, [0, 4, 8, 12, 16, 20]⟩,
-  ⟨7, 1, 2, 4, 4, 4, true, false, 0, 32, 4, 0, 2, 8, 16, [0, 4, 8, 12, 16, 20, 24, 28]⟩,
-  ⟨7, 1, 3, 2, 4, 4, true, false, 0, 24, 4, 0, 3, 8, 8, [0, 4, 8, 12, 16, 20]⟩,
-  ⟨7, 1, 3, 3, 4, 4, true, false, 0, 36, 4, 0, 3, 8, 12, [0, 4, 8, 12, 16, 20, 24, 28, 32]⟩,
-  ⟨7, 1, 3, 4, 4, 4, true, false, 0, 48, 4, 0, 3, 8, 16, [0, 4, 8, 12, 16, 20, 24, 28, 32, 36, 40, 44]⟩,
-  ⟨7, 1, 4, 2, 4, 4, true, false, 0, 32, 4, 0, 4, 8, 8, [0, 4, 8, 12, 16, 20, 24, 28]⟩,
-  ⟨7, 1, 4, 3, 4, 4, true, false, 0, 48, 4, 0, 4, 8, 12, [0, 4, 8, 12, 16, 20, 24, 28, 32, 36, 40, 44]⟩,
-  ⟨7, 1, 4, 4, 4, 4, true, false, 0, 64, 4, 0, 4, 8, 16, [0, 4, 8, 12, 16, 20, 24, 28, 32, 36, 40, 44, 48, 52, 56, 60]⟩,
-  ⟨7, 1, 2, 2, 4, 4, true, false, 1, 16, 4, 0, 2, 8, 8, [0, 4, 8, 12]⟩,
-  ⟨7, 1, 2, 3, 4, 4, true, false, 1, 24, 4, 0, 2, 8, 12, [0, 4, 8, 12, 16, 20]⟩,
-  ⟨7, 1, 2, 4, 4, 4, true, false, 1, 32, 4, 0, 2, 8, 16, [0, 4, 8, 12, 16, 20, 24, 28]⟩,
-  ⟨7, 1, 3, 2, 4, 4, true, false, 1, 24, 4, 0, 3, 8, 8, [0, 4, 8, 12, 16, 20]⟩,
-  ⟨7, 1, 3, 3, 4, 4, true, false, 1, 36, 4, 0, 3, 8, 12, [0, 4, 8, 12, 16, 20, 24, 28, 32]⟩,
-  ⟨7, 1, 3, 4, 4, 4, true, false, 1, 48, 4, 0, 3, 8, 16, [0, 4, 8, 12, 16, 20, 24, 28, 32, 36, 40, 44]⟩,
-  ⟨7, 1, 4, 2, 4, 4, true, false, 1, 32, 4, 0, 4, 8, 8, [0, 4, 8, 12, 16, 20, 24, 28]⟩,
-  ⟨7, 1, 4, 3, 4, 4, true, false, 1, 48, 4, 0, 4, 8, 12, [0, 4, 8, 12, 16, 20, 24, 28, 32, 36, 40, 44]⟩,
-  ⟨7, 1, 4, 4, 4, 4, true, false, 1, 64, 4, 0, 4, 8, 16, [0, 4, 8, 12, 16, 20, 24, 28, 32, 36, 40, 44, 48, 52, 56, 60]⟩,
-  ⟨7, 1, 2, 2, 4, 4, true, false, 2, 16, 4, 0, 2, 8, 8, [0, 4, 8, 12]⟩,
-  ⟨7, 1, 2, 3, 4, 4, true, false, 2, 24, 4, 0, 2, 8, 12, [0, 4, 8, 12, 16, 20]⟩,
-  ⟨7, 1, 2, 4, 4, 4, true, false, 2, 32, 4, 0, 2, 8, 16, [0, 4, 8, 12, 16, 20, 24, 28]⟩,
-  ⟨7, 1, 3, 2, 4, 4, true, false, 2, 24, 4, 0, 3, 8, 8, [0, 4, 8, 12, 16, 20]⟩,
-  ⟨7, 1, 3, 3, 4, 4, true, false, 2, 36, 4, 0, 3, 8, 12, [0, 4, 8, 12, 16, 20, 24, 28, 32]⟩,
-  ⟨7, 1, 3, 4, 4, 4, true, false, 2, 48, 4, 0, 3, 8, 16, [0, 4, 8, 12, 16, 20, 24, 28, 32, 36, 40, 44]⟩,
-  ⟨7, 1, 4, 2, 4, 4, true, false, 2, 32, 4, 0, 4, 8, 8, [0, 4, 8, 12, 16, 20, 24, 28]⟩,
-  ⟨7, 1, 4, 3, 4, 4, true, false, 2, 48, 4, 0, 4, 8, 12, [0, 4, 8, 12, 16, 20, 24, 28, 32, 36, 40, 44]⟩,
-  ⟨7, 1, 4, 4, 4, 4, true, false, 2, 64, 4, 0, 4, 8, 16, [0, 4, 8, 12, 16, 20, 24, 28, 32, 36, 40, 44, 48, 52, 56, 60]⟩,
-  ⟨7, 1, 2, 2, 8, 8, true, false, 0, 32, 8, 0, 2, 8, 16, [0, 8, 16, 24]⟩,
-  ⟨7, 1, 2, 3, 8, 8, true, false, 0, 48, 8, 0, 2, 8, 24, [0, 8, 16, 24, 32, 40]⟩,
-  ⟨7, 1, 2, 4, 8, 8, true, false, 0, 64, 8, 0, 2, 8, 32, [0, 8, 16, 24, 32, 40, 48, 56]⟩,
-  ⟨7, 1, 3, 2, 8, 8, true, false, 0, 48, 8, 0, 3, 8, 16, [0, 8, 16, 24, 32, 40]⟩,
-  ⟨7, 1, 3, 3, 8, 8, true, false, 0, 72, 8, 0, 3, 8, 24, [0, 8, 16, 24, 32, 40, 48, 56, 64]⟩,
-  ⟨7, 1, 3, 4, 8, 8, true, false, 0, 96, 8, 0, 3, 8, 32, [0, 8, 16, 24, 32, 40, 48, 56, 64, 72, 80, 88]⟩,
-  ⟨7, 1, 4, 2, 8, 8, true, false, 0, 64, 8, 0, 4, 8, 16, [0, 8, 16, 24, 32, 40, 48, 56]⟩,
-  ⟨7, 1, 4, 3, 8, 8, true, false, 0, 96, 8, 0, 4, 8, 24, [0, 8, 16, 24, 32, 40, 48, 56, 64, 72, 80, 88]⟩,
-  ⟨7, 1, 4, 4, 8, 8, true, false, 0, 128, 8, 0, 4, 8, 32, [0, 8, 16, 24, 32, 40, 48, 56, 64, 72, 80, 88, 96, 104, 112, 120]⟩,
-  ⟨7, 1, 2, 2, 8, 8, true, false, 1, 32, 8, 0, 2, 8, 16, [0, 8, 16, 24]⟩,
-  ⟨7, 1, 2, 3, 8, 8, true, false, 1, 48, 8, 0, 2, 8, 24, [0, 8, 16, 24, 32, 40]⟩,
-  ⟨7, 1, 2, 4, 8, 8, true, false, 1, 64, 8, 0, 2, 8, 32, [0, 8, 16, 24, 32, 40, 48, 56]⟩,
-  ⟨7, 1, 3, 2, 8, 8, true, false, 1, 48, 8, 0, 3, 8, 16, [0, 8, 16, 24, 32, 40]⟩,
-  ⟨7, 1, 3, 3, 8, 8, true, false, 1, 72, 8, 0, 3, 8, 24, [0, 8, 16, 24, 32, 40, 48, 56, 64]⟩,
-  ⟨7, 1, 3, 4, 8, 8, true, false, 1, 96, 8, 0, 3, 8, 32, [0, 8, 16, 24, 32, 40, 48, 56, 64, 72, 80, 88]⟩,
-  ⟨7, 1, 4, 2, 8, 8, true, false, 1, 64, 8, 0, 4, 8, 16, [0, 8, 16, 24, 32, 40, 48, 56]⟩,
-  ⟨7, 1, 4, 3, 8, 8, true, false, 1, 96, 8, 0, 4, 8, 24, [0, 8, 16, 24, 32, 40, 48, 56, 64, 72, 80, 88]⟩,
-  ⟨7, 1, 4, 4, 8, 8, true, false, 1, 128, 8, 0, 4, 8, 32, [0, 8, 16, 24, 32, 40, 48, 56, 64, 72, 80, 88, 96, 104, 112, 120]⟩,
-  ⟨7, 1, 2, 2, 8, 8, true, false, 2, 32, 8, 0, 2, 8, 16, [0, 8, 16, 24]⟩,
-  ⟨7, 1, 2, 3, 8, 8, true, false, 2, 48, 8, 0, 2, 8, 24, [0, 8, 16, 24, 32, 40]⟩,
-  ⟨7, 1, 2, 4, 8, 8, true, false, 2, 64, 8, 0, 2, 8, 32, [0, 8, 16, 24, 32, 40, 48, 56]⟩,
-  ⟨7, 1, 3, 2, 8, 8, true, false, 2, 48, 8, 0, 3, 8, 16, [0, 8, 16, 24, 32, 40]⟩,
-  ⟨7, 1, 3, 3, 8, 8, true, false, 2, 72, 8, 0, 3, 8, 24, [0, 8, 16, 24, 32, 40, 48, 56, 64]⟩,
-  ⟨7, 1, 3, 4, 8, 8, true, false, 2, 96, 8, 0, 3, 8, 32, [0, 8, 16, 24, 32, 40, 48, 56, 64, 72, 80, 88]⟩,
-  ⟨7, 1, 4, 2, 8, 8, true, false, 2, 64, 8, 0, 4, 8, 16, [0, 8, 16, 24, 32, 40, 48, 56]⟩,
-  ⟨7, 1, 4, 3, 8, 8, true, false, 2, 96, 8, 0, 4, 8, 24, [0, 8, 16, 24, 32, 40, 48, 56, 64, 72, 80, 88]⟩,
-  ⟨7, 1, 4, 4, 8, 8, true, false, 2, 128, 8, 0, 4, 8, 32, [0, 8, 16, 24, 32, 40, 48, 56, 64, 72, 80, 88, 96, 104, 112, 120]⟩,
-  ⟨7, 1, 2, 2, 4, 4, false, false, 0, 16, 4, 0, 2, 8, 8, [0, 4, 8, 12]⟩,
-  ⟨7, 1, 2, 3, 4, 4, false, false, 0, 24, 4, 0, 2, 8, 12, [0, 4, 8, 12, 16, 20]⟩,
-  ⟨7, 1, 2, 4, 4, 4, false, false, 0, 32, 4, 0, 2, 8, 16, [0, 4, 8, 12, 16, 20, 24, 28]⟩,
-  ⟨7, 1, 3, 2, 4, 4, false, false, 0, 24, 4, 0, 3, 8, 8, [0, 4, 8, 12, 16, 20]⟩,
-  ⟨7, 1, 3, 3, 4, 4, false, false, 0, 36, 4, 0, 3, 8, 12, [0, 4, 8, 12, 16, 20, 24, 28, 32]⟩,
-  ⟨7, 1, 3, 4, 4, 4, false, false, 0, 48, 4, 0, 3, 8, 16, [0, 4, 8, 12, 16, 20, 24, 28, 32, 36, 40, 44]⟩,
-  ⟨7, 1, 4, 2, 4, 4, false, false, 0, 32, 4, 0, 4, 8, 8, [0, 4, 8, 12, 16, 20, 24, 28]⟩,
-  ⟨7, 1, 4, 3, 4, 4, false, false, 0, 48, 4, 0, 4, 8, 12, [0, 4, 8, 12, 16, 20, 24, 28, 32, 36, 40, 44]⟩,
-  ⟨7, 1, 4, 4, 4, 4, false, false, 0, 64, 4, 0, 4, 8, 16, [0, 4, 8, 12, 16, 20, 24, 28, 32, 36, 40, 44, 48, 52, 56, 60]⟩,
-  ⟨7, 1, 2, 2, 4, 4, false, false, 1, 16, 4, 0, 2, 8, 8, [0, 4, 8, 12]⟩,
-  ⟨7, 1, 2, 3, 4, 4, false, false, 1, 24, 4, 0, 2, 8, 12, [0, 4, 8, 12, 16, 20]⟩,
-  ⟨7, 1, 2, 4, 4, 4, false, false, 1, 32, 4, 0, 2, 8, 16, [0, 4, 8, 12, 16, 20, 24, 28]⟩,
-  ⟨7, 1, 3, 2, 4, 4, false, false, 1, 24, 4, 0, 3, 8, 8, [0, 4, 8, 12, 16, 20]⟩,
-  ⟨7, 1, 3, 3, 4, 4, false, false, 1, 36, 4, 0, 3, 8, 12, [0, 4, 8, 12, 16, 20, 24, 28, 32]⟩,
-  ⟨7, 1, 3, 4, 4, 4, false, false, 1, 48, 4, 0, 3, 8, 16, [0, 4, 8, 12, 16, 20, 24, 28, 32, 36, 40, 44]⟩,
-  ⟨7, 1, 4, 2, 4, 4, false, false, 1, 32, 4, 0, 4, 8, 8, [0, 4, 8, 12, 16, 20, 24, 28]⟩,
-  ⟨7, 1, 4, 3, 4, 4, false, false, 1, 48, 4, 0, 4, 8, 12, [0, 4, 8, 12, 16, 20, 24, 28, 32, 36, 40, 44]⟩,
-  ⟨7, 1, 4, 4, 4, 4, false, false, 1, 64, 4, 0, 4, 8, 16, [0, 4, 8, 12, 16, 20, 24, 28, 32, 36, 40, 44, 48, 52, 56, 60]⟩,
-  ⟨7, 1, 2, 2, 4, 4, false, false, 2, 16, 4, 0, 2, 8, 8, [0, 4, 8, 12]⟩,
-  ⟨7, 1, 2, 3, 4, 4, false, false, 2, 24, 4, 0, 2, 8, 12, [0, 4, 8, 12, 16, 20]⟩,
-  ⟨7, 1, 2, 4, 4, 4, false, false, 2, 32, 4, 0, 2, 8, 16, [0, 4, 8, 12, 16, 20, 24, 28]⟩,
-  ⟨7, 1, 3, 2, 4, 4, false, false, 2, 24, 4, 0, 3, 8, 8, [0, 4, 8, 12, 16, 20]⟩,
-  ⟨7, 1, 3, 3, 4, 4, false, false, 2, 36, 4, 0, 3, 8, 12, [0, 4, 8, 12, 16, 20, 24, 28, 32]⟩,
-  ⟨7, 1, 3, 4, 4, 4, false, false, 2, 48, 4, 0, 3, 8, 16, [0, 4, 8, 12, 16, 20, 24, 28, 32, 36, 40, 44]⟩,
-  ⟨7, 1, 4, 2, 4, 4, false, false, 2, 32, 4, 0, 4, 8, 8, [0, 4, 8, 12, 16, 20, 24, 28]⟩,
-  ⟨7, 1, 4, 3, 4, 4, false, false, 2, 48, 4, 0, 4, 8, 12, [0, 4, 8, 12, 16, 20, 24, 28, 32, 36, 40, 44]⟩,
-  ⟨7, 1, 4, 4, 4, 4, false, false, 2, 64, 4, 0, 4, 8, 16, [0, 4, 8, 12, 16, 20, 24, 28, 32, 36, 40, 44, 48, 52, 56, 60]⟩,
-  ⟨7, 1, 2, 2, 4, 4, false, false, 0, 16, 4, 0, 2, 8, 8, [0, 4, 8, 12]⟩,
-  ⟨7, 1, 2, 3, 4, 4, false, false, 0, 24, 4, 0, 2, 8, 12, [0, 4, 8, 12, 16, 20]⟩,
-  ⟨7, 1, 2, 4, 4, 4, false, false, 0, 32, 4, 0, 2, 8, 16, [0, 4, 8, 12, 16, 20, 24, 28]⟩,
-  ⟨7, 1, 3, 2, 4, 4, false, false, 0, 24, 4, 0, 3, 8, 8, [0, 4, 8, 12, 16, 20]⟩,
-  ⟨7, 1, 3, 3, 4, 4, false, false, 0, 36, 4, 0, 3, 8, 12, [0, 4, 8, 12, 16, 20, 24, 28, 32]⟩,
-  ⟨7, 1, 3, 4, 4, 4, false, false, 0, 48, 4, 0, 3, 8, 16, [0, 4, 8, 12, 16, 20, 24, 28, 32, 36, 40, 44]⟩,
-  ⟨7, 1, 4, 2, 4, 4, false, false, 0, 32, 4, 0, 4, 8, 8, [0, 4, 8, 12, 16, 20, 24, 28]⟩,
-  ⟨7, 1, 4, 3, 4, 4, false, false, 0, 48, 4, 0, 4, 8, 12, [0, 4, 8, 12, 16, 20, 24, 28, 32, 36, 40, 44]⟩,
-  ⟨7, 1, 4, 4, 4, 4, false, false, 0, 64, 4, 0, 4, 8, 16, [0, 4, 8, 12, 16, 20, 24, 28, 32, 36, 40, 44, 48, 52, 56, 60]⟩,
-  ⟨7, 1, 2, 2, 4, 4, false, false, 1, 16, 4, 0, 2, 8, 8, [0, 4, 8, 12]⟩,
-  ⟨7, 1, 2, 3, 4, 4, false, false, 1, 24, 4, 0, 2, 8, 12, [0, 4, 8, 12, 16, 20]⟩,
-  ⟨7, 1, 2, 4, 4, 4, false, false, 1, 32, 4, 0, 2, 8, 16, [0, 4, 8, 12, 16, 20, 24, 28]⟩,
-  ⟨7, 1, 3, 2, 4, 4, false, false, 1, 24, 4, 0, 3, 8, 8, [0, 4, 8, 12, 16, 20]⟩,
-  ⟨7, 1, 3, 3, 4, 4, false, false, 1, 36, 4, 0, 3, 8, 12, [0, 4, 8, 12, 16, 20, 24, 28, 32]⟩,
-  ⟨7, 1, 3, 4, 4, 4, false, false, 1, 48, 4, 0, 3, 8, 16, [0, 4, 8, 12, 16, 20, 24, 28, 32, 36, 40, 44]⟩,
-  ⟨7, 1, 4, 2, 4, 4, false, false, 1, 32, 4, 0, 4, 8, 8, [0, 4, 8, 12, 16, 20, 24, 28]⟩,
-  ⟨7, 1, 4, 3, 4, 4, false, false, 1, 48, 4, 0, 4, 8, 12, [0, 4, 8, 12, 16, 20, 24, 28, 32, 36, 40, 44]⟩,
-  ⟨7, 1, 4, 4, 4, 4, false, false, 1, 64, 4, 0, 4, 8, 16, [0, 4, 8, 12, 16, 20, 24, 28, 32, 36, 40, 44, 48, 52, 56, 60]⟩,
-  ⟨7, 1, 2, 2, 4, 4, false, false, 2, 16, 4, 0, 2, 8, 8, [0, 4, 8, 12]⟩,
-  ⟨7, 1, 2, 3, 4, 4, false, false, 2, 24, 4, 0, 2, 8, 12, [0, 4, 8, 12, 16, 20]⟩,
-  ⟨7, 1, 2, 4, 4, 4, false, false, 2, 32, 4, 0, 2, 8, 16, [0, 4, 8, 12, 16, 20, 24, 28]⟩,
-  ⟨7, 1, 3, 2, 4, 4, false, false, 2, 24, 4, 0, 3, 8, 8, [0, 4, 8, 12, 16, 20]⟩,
-  ⟨7, 1, 3, 3, 4, 4, false, false, 2, 36, 4, 0, 3, 8, 12, [0, 4, 8, 12, 16, 20, 24, 28, 32]⟩,
-  ⟨7, 1, 3, 4, 4, 4, false, false, 2, 48, 4, 0, 3, 8, 16, [0, 4, 8, 12, 16, 20, 24, 28, 32, 36, 40, 44]⟩,
-  ⟨7, 1, 4, 2, 4, 4, false, false, 2, 32, 4, 0, 4, 8, 8, [0, 4, 8, 12, 16, 20, 24, 28]⟩,
-  ⟨7, 1, 4, 3, 4, 4, false, false, 2, 48, 4, 0, 4, 8, 12, [0, 4, 8, 12, 16, 20, 24, 28, 32, 36, 40, 44]⟩,
-  ⟨7, 1, 4, 4, 4, 4, false, false, 2, 64, 4, 0, 4, 8, 16, [0, 4, 8, 12, 16, 20, 24, 28, 32, 36, 40, 44, 48, 52, 56, 60]⟩,
-  ⟨7, 2, 4, 1, 4, 4, true, false, 0, 16, 4, 0, 4, 8, 0, [0, 4, 8, 12]⟩,
-  ⟨7, 2, 4, 1, 4, 4, true, false, 1, 16, 4, 0, 4, 8, 0, [0, 4, 8, 12]⟩,
-  ⟨7, 2, 4, 1, 4, 4, true, false, 2, 16, 4, 0, 4, 8, 0, [0, 4, 8, 12]⟩,
-  ⟨7, 2, 4, 1, 8, 8, true, false, 0, 32, 8, 0, 4, 8, 0, [0, 8, 16, 24]⟩,
-  ⟨7, 2, 4, 1, 8, 8, true, false, 1, 32, 8, 0, 4, 8, 0, [0, 8, 16, 24]⟩,
-  ⟨7, 2, 4, 1, 8, 8, true, false, 2, 32, 8, 0, 4, 8, 0, [0, 8, 16, 24]⟩,
-  ⟨8, 0, 1, 1, 1, 1, false, false, 0, 1, 1, 0, 1, 4, 0, [0]⟩,
-  ⟨8, 0, 2, 1, 1, 1, false, false, 0, 2, 1, 0, 2, 4, 0, [0, 1]⟩,
-  ⟨8, 0, 3, 1, 1, 1, false, false, 0, 3, 1, 0, 3, 4, 0, [0, 1, 2]⟩,
-  ⟨8, 0, 4, 1, 1, 1, false, false, 0, 4, 1, 0, 4, 4, 0, [0, 1, 2, 3]⟩,
-  ⟨8, 0, 1, 1, 1, 1, false, false, 1, 1, 1, 0, 1, 4, 0, [0]⟩,
-  ⟨8, 0, 2, 1, 1, 1, false, false, 1, 2, 1, 0, 2, 4, 0, [0, 1]⟩,
-  ⟨8, 0, 3, 1, 1, 1, false, false, 1, 3, 1, 0, 3, 4, 0, [0, 1, 2]⟩,
-  ⟨8, 0, 4, 1, 1, 1, false, false, 1, 4, 1, 0, 4, 4, 0, [0, 1, 2, 3]⟩,
-  ⟨8, 0, 1, 1, 1, 1, false, false, 2, 1, 1, 0, 1, 4, 0, [0]⟩,
-  ⟨8, 0, 2, 1, 1, 1, false, false, 2, 2, 1, 0, 2, 4, 0, [0, 1]⟩,
-  ⟨8, 0, 3, 1, 1, 1, false, false, 2, 3, 1, 0, 3, 4, 0, [0, 1, 2]⟩,
-  ⟨8, 0, 4, 1, 1, 1, false, false, 2, 4, 1, 0, 4, 4, 0, [0, 1, 2, 3]⟩,
-  ⟨8, 0, 1, 1, 1, 1, false, false, 0, 1, 1, 0, 1, 4, 0, [0]⟩,
-  ⟨8, 0, 2, 1, 1, 1, false, false, 0, 2, 1, 0, 2, 4, 0, [0, 1]⟩,
-  ⟨8, 0, 3, 1, 1, 1, false, false, 0, 3, 1, 0, 3, 4, 0, [0, 1, 2]⟩,
-  ⟨8, 0, 4, 1, 1, 1, false, false, 0, 4, 1, 0, 4, 4, 0, [0, 1, 2, 3]⟩,
-  ⟨8, 0, 1, 1, 1, 1, false, false, 1, 1, 1, 0, 1, 4, 0, [0]⟩,
-  ⟨8, 0, 2, 1, 1, 1, false, false, 1, 2, 1, 0, 2, 4, 0, [0, 1]⟩,
-  ⟨8, 0, 3, 1, 1, 1, false, false, 1, 3, 1, 0, 3, 4, 0, [0, 1, 2]⟩,
-  ⟨8, 0, 4, 1, 1, 1, false, false, 1, 4, 1, 0, 4, 4, 0, [0, 1, 2, 3]⟩,
-  ⟨8, 0, 1, 1, 1, 1, false, false, 2, 1, 1, 0, 1, 4, 0, [0]⟩,
-  ⟨8, 0, 2, 1, 1, 1, false, false, 2, 2, 1, 0, 2, 4, 0, [0, 1]⟩,
-  ⟨8, 0, 3, 1, 1, 1, false, false, 2, 3, 1, 0, 3, 4, 0, [0, 1, 2]⟩,
-  ⟨8, 0, 4, 1, 1, 1, false, false, 2, 4, 1, 0, 4, 4, 0, [0, 1, 2, 3]⟩,
-  ⟨8, 0, 1, 1, 1, 1, false, false, 0, 1, 1, 0, 1, 4, 0, [0]⟩,
-  ⟨8, 0, 2, 1, 1, 1, false, false, 0, 2, 1, 0, 2, 4, 0, [0, 1]⟩,
-  ⟨8, 0, 3, 1, 1, 1, false, false, 0, 3, 1, 0, 3, 4, 0, [0, 1, 2]⟩,
-  ⟨8, 0, 4, 1, 1, 1, false, false, 0, 4, 1, 0, 4, 4, 0, [0, 1, 2, 3]⟩,
-  ⟨8, 0, 1, 1, 1, 1, false, false, 1, 1, 1, 0, 1, 4, 0, [0]⟩,
-  ⟨8, 0, 2, 1, 1, 1, false, false, 1, 2, 1, 0, 2, 4, 0, [0, 1]⟩,
-  ⟨8, 0, 3, 1, 1, 1, false, false, 1, 3, 1, 0, 3, 4, 0, [0, 1, 2]⟩,
-  ⟨8, 0, 4, 1, 1, 1, false, false, 1, 4, 1, 0, 4, 4, 0, [0, 1, 2, 3]⟩,
-  ⟨8, 0, 1, 1, 1, 1, false, false, 2, 1, 1, 0, 1, 4, 0, [0]⟩,
-  ⟨8, 0, 2, 1, 1, 1, false, false, 2, 2, 1, 0, 2, 4, 0, [0, 1]⟩,
-  ⟨8, 0, 3, 1, 1, 1, false, false, 2, 3, 1, 0, 3, 4, 0, [0, 1, 2]⟩,
-  ⟨8, 0, 4, 1, 1, 1, false, false, 2, 4, 1, 0, 4, 4, 0, [0, 1, 2, 3]⟩,
-  ⟨8, 0, 1, 1, 2, 2, false, false, 0, 2, 2, 0, 1, 4, 0, [0]⟩,
-  ⟨8, 0, 2, 1, 2, 2, false, false, 0, 4, 2, 0, 2, 4, 0, [0, 2]⟩,
-  ⟨8, 0, 3, 1, 2, 2, false, false, 0, 6, 2, 0, 3, 4, 0, [0, 2, 4]⟩,
-  ⟨8, 0, 4, 1, 2, 2, false, false, 0, 8, 2, 0, 4, 4, 0, [0, 2, 4, 6]⟩,
-  ⟨8, 0, 1, 1, 2, 2, false, false, 1, 2, 2, 0, 1, 4, 0, [0]⟩,
-  ⟨8, 0, 2, 1, 2, 2, false, false, 1, 4, 2, 0, 2, 4, 0, [0, 2]⟩,
-  ⟨8, 0, 3, 1, 2, 2, false, false, 1, 6, 2, 0, 3, 4, 0, [0, 2, 4]⟩,
-  ⟨8, 0, 4, 1, 2, 2, false, false, 1, 8, 2, 0, 4, 4, 0, [0, 2, 4, 6]⟩,
-  ⟨8, 0, 1, 1, 2, 2, false, false, 2, 2, 2, 0, 1, 4, 0, [0]⟩,
-  ⟨8, 0, 2, 1, 2, 2, false, false, 2, 4, 2, 0, 2, 4, 0, [0, 2]⟩,
-  ⟨8, 0, 3, 1, 2, 2, false, false, 2, 6, 2, 0, 3, 4, 0, [0, 2, 4]⟩,
-  ⟨8, 0, 4, 1, 2, 2, false, false, 2, 8, 2, 0, 4, 4, 0, [0, 2, 4, 6]⟩,
-  ⟨8, 0, 1, 1, 2, 2, false, false, 0, 2, 2, 0, 1, 4, 0, [0]⟩,
-  ⟨8, 0, 2, 1, 2, 2, false, false, 0, 4, 2, 0, 2, 4, 0, [0, 2]⟩,
-  ⟨8, 0, 3, 1, 2, 2, false, false, 0, 6, 2, 0, 3, 4, 0, [0, 2, 4]⟩,
-  ⟨8, 0, 4, 1, 2, 2, false, false, 0, 8, 2, 0, 4, 4, 0, [0, 2, 4, 6]⟩,
-  ⟨8, 0, 1, 1, 2, 2, false, false, 1, 2, 2, 0, 1, 4, 0, [0]⟩,
-  ⟨8, 0, 2, 1, 2, 2, false, false, 1, 4, 2, 0, 2, 4, 0, [0, 2]⟩,
-  ⟨8, 0, 3, 1, 2, 2, false, false, 1, 6, 2, 0, 3, 4, 0, [0, 2, 4]⟩,
-  ⟨8, 0, 4, 1, 2, 2, false, false, 1, 8, 2, 0, 4, 4, 0, [0, 2, 4, 6]⟩,
-  ⟨8, 0, 1, 1, 2, 2, false, false, 2, 2, 2, 0, 1, 4, 0, [0]⟩,
-  ⟨8, 0, 2, 1, 2, 2, false, false, 2, 4, 2, 0, 2, 4, 0, [0, 2]⟩,
-  ⟨8, 0, 3, 1, 2, 2, false, false, 2, 6, 2, 0, 3, 4, 0, [0, 2, 4]⟩,
-  ⟨8, 0, 4, 1, 2, 2, false, false, 2, 8, 2, 0, 4, 4, 0, [0, 2, 4, 6]⟩,
-  ⟨8, 0, 1, 1, 4, 4, false, false, 0, 4, 4, 0, 1, 4, 0, [0]⟩,
-  ⟨8, 0, 2, 1, 4, 4, false, false, 0, 8, 4, 0, 2, 4, 0, [0, 4]⟩,
-  ⟨8, 0, 3, 1, 4, 4, false, false, 0, 12, 4, 0, 3, 4, 0, [0, 4, 8]⟩,
-  ⟨8, 0, 4, 1, 4, 4, false, false, 0, 16, 4, 0, 4, 4, 0, [0, 4, 8, 12]⟩,
-  ⟨8, 0, 1, 1, 4, 4, false, false, 1, 4, 4, 0, 1, 4, 0, [0]⟩,
-  ⟨8, 0, 2, 1, 4, 4, false, false, 1, 8, 4, 0, 2, 4, 0, [0, 4]⟩,
-  ⟨8, 0, 3, 1, 4, 4, false, false, 1, 12, 4, 0, 3, 4, 0, [0, 4, 8]⟩,
-  ⟨8, 0, 4, 1, 4, 4, false, false, 1, 16, 4, 0, 4, 4, 0, [0, 4, 8, 12]⟩,
-  ⟨8, 0, 1, 1, 4, 4, false, false, 2, 4, 4, 0, 1, 4, 0, [0]⟩,
-  ⟨8, 0, 2, 1, 4, 4, false, false, 2, 8, 4, 0, 2, 4, 0, [0, 4]⟩,
-  ⟨8, 0, 3, 1, 4, 4, false, false, 2, 12, 4, 0, 3, 4, 0, [0, 4, 8]⟩,
-  ⟨8, 0, 4, 1, 4, 4, false, false, 2, 16, 4, 0, 4, 4, 0, [0, 4, 8, 12]⟩,
-  ⟨8, 0, 1, 1, 4, 4, false, false, 0, 4, 4, 0, 1, 4, 0, [0]⟩,
-  ⟨8, 0, 2, 1, 4, 4, false, false, 0, 8, 4, 0, 2, 4, 0, [0, 4]⟩,
-  ⟨8, 0, 3, 1, 4, 4, false, false, 0, 12, 4, 0, 3, 4, 0, [0, 4, 8]⟩,
-  ⟨8, 0, 4, 1, 4, 4, false, false, 0, 16, 4, 0, 4, 4, 0, [0, 4, 8, 12]⟩,
-  ⟨8, 0, 1, 1, 4, 4, false, false, 1, 4, 4, 0, 1, 4, 0, [0]⟩,
-  ⟨8, 0, 2, 1, 4, 4, false, false, 1, 8, 4, 0, 2, 4, 0, [0, 4]⟩,
-  ⟨8, 0, 3, 1, 4, 4, false, false, 1, 12, 4, 0, 3, 4, 0, [0, 4, 8]⟩,
-  ⟨8, 0, 4, 1, 4, 4, false, false, 1, 16, 4, 0, 4, 4, 0, [0, 4, 8, 12]⟩,
-  ⟨8, 0, 1, 1, 4, 4, false, false, 2, 4, 4, 0, 1, 4, 0, [0]⟩,
-  ⟨8, 0, 2, 1, 4, 4, false, false, 2, 8, 4, 0, 2, 4, 0, [0, 4]⟩,
-  ⟨8, 0, 3, 1, 4, 4, false, false, 2, 12, 4, 0, 3, 4, 0, [0, 4, 8]⟩,
-  ⟨8, 0, 4, 1, 4, 4, false, false, 2, 16, 4, 0, 4, 4, 0, [0, 4, 8, 12]⟩,
-  ⟨8, 0, 1, 1, 8, 8, false, false, 0, 8, 8, 0, 1, 4, 0, [0]⟩,
-  ⟨8, 0, 2, 1, 8, 8, false, false, 0, 16, 8, 0, 2, 4, 0, [0, 8]⟩,
-  ⟨8, 0, 3, 1, 8, 8, false, false, 0, 24, 8, 0, 3, 4, 0, [0, 8, 16]⟩,
-  ⟨8, 0, 4, 1, 8, 8, false, false, 0, 32, 8, 0, 4, 4, 0, [0, 8, 16, 24]⟩,
-  ⟨8, 0, 1, 1, 8, 8, false, false, 1, 8, 8, 0, 1, 4, 0, [0]⟩,
-  ⟨8, 0, 2, 1, 8, 8, false, false, 1, 16, 8, 0, 2, 4, 0, [0, 8]⟩,
-  ⟨8, 0, 3, 1, 8, 8, false, false, 1, 24, 8, 0, 3, 4, 0, [0, 8, 16]⟩,
-  ⟨8, 0, 4, 1, 8, 8, false, false, 1, 32, 8, 0, 4, 4, 0, [0, 8, 16, 24]⟩,
-  ⟨8, 0, 1, 1, 8, 8, false, false, 2, 8, 8, 0, 1, 4, 0, [0]⟩,
-  ⟨8, 0, 2, 1, 8, 8, false, false, 2, 16, 8, 0, 2, 4, 0, [0, 8]⟩,
-  ⟨8, 0, 3, 1, 8, 8, false, false, 2, 24, 8, 0, 3, 4, 0, [0, 8, 16]⟩,
-  ⟨8, 0, 4, 1, 8, 8, false, false, 2, 32, 8, 0, 4, 4, 0, [0, 8, 16, 24]⟩,
-  ⟨8, 0, 1, 1, 8, 8, false, false, 0, 8, 8, 0, 1, 4, 0, [0]⟩,
-  ⟨8, 0, 2, 1, 8, 8, false, false, 0, 16, 8, 0, 2, 4, 0, [0, 8]⟩,
-  ⟨8, 0, 3, 1, 8, 8, false, false, 0, 24, 8, 0, 3, 4, 0, [0, 8, 16]⟩,
-  ⟨8, 0, 4, 1, 8, 8, false, false, 0, 32, 8, 0, 4, 4, 0, [0, 8, 16, 24]⟩,
-  ⟨8, 0, 1, 1, 8, 8, false, false, 1, 8, 8, 0, 1, 4, 0, [0]⟩,
-  ⟨8, 0, 2, 1, 8, 8, false, false, 1, 16, 8, 0, 2, 4, 0, [0, 8]⟩,
-  ⟨8, 0, 3, 1, 8, 8, false, false, 1, 24, 8, 0, 3, 4, 0, [0, 8, 16]⟩,
-  ⟨8, 0, 4, 1, 8, 8, false, false, 1, 32, 8, 0, 4, 4, 0, [0, 8, 16, 24]⟩,
-  ⟨8, 0, 1, 1, 8, 8, false, false, 2, 8, 8, 0, 1, 4, 0, [0]⟩,
-  ⟨8, 0, 2, 1, 8, 8, false, false, 2, 16, 8, 0, 2, 4, 0, [0, 8]⟩,
-  ⟨8, 0, 3, 1, 8, 8, false, false, 2, 24, 8, 0, 3, 4, 0, [0, 8, 16]⟩,
-  ⟨8, 0, 4, 1, 8, 8, false, false, 2, 32, 8, 0, 4, 4, 0, [0, 8, 16, 24]⟩,
-  ⟨8, 0, 1, 1, 4, 4, true, false, 0, 4, 4, 0, 1, 4, 0, [0]⟩,
-  ⟨8, 0, 2, 1, 4, 4, true, false, 0, 8, 4, 0, 2, 4, 0, [0, 4]⟩,
-  ⟨8, 0, 3, 1, 4, 4, true, false, 0, 12, 4, 0, 3, 4, 0, [0, 4, 8]⟩,
-  ⟨8, 0, 4, 1, 4, 4, true, false, 0, 16, 4, 0, 4, 4, 0, [0, 4, 8, 12]⟩,
-  ⟨8, 0, 1, 1, 4, 4, true, false, 1, 4, 4, 0, 1, 4, 0, [0]⟩,
-  ⟨8, 0, 2, 1, 4, 4, true, false, 1, 8, 4, 0, 2, 4, 0, [0, 4]⟩,
-  ⟨8, 0, 3, 1, 4, 4, true, false, 1, 12, 4, 0, 3, 4, 0, [0, 4, 8]⟩,
-  ⟨8, 0, 4, 1, 4, 4, true, false, 1, 16, 4, 0, 4, 4, 0, [0, 4, 8, 12]⟩,
-  ⟨8, 0, 1, 1, 4, 4, true, false, 2, 4, 4, 0, 1, 4, 0, [0]⟩,
-  ⟨8, 0, 2, 1, 4, 4, true, false, 2, 8, 4, 0, 2, 4, 0, [0, 4]⟩,
-  ⟨8, 0, 3, 1, 4, 4, true, false, 2, 12, 4, 0, 3, 4, 0, [0, 4, 8]⟩,
-  ⟨8, 0, 4, 1, 4, 4, true, false, 2, 16, 4, 0, 4, 4, 0, [0, 4, 8, 12]⟩,
-  ⟨8, 0, 1, 1, 8, 8, true, false, 0, 8, 8, 0, 1, 4, 0, [0]⟩,
-  ⟨8, 0, 2, 1, 8, 8, true, false, 0, 16, 8, 0, 2, 4, 0, [0, 8]⟩,
-  ⟨8, 0, 3, 1, 8, 8, true, false, 0, 24, 8, 0, 3, 4, 0, [0, 8, 16]⟩,
-  ⟨8, 0, 4, 1, 8, 8, true, false, 0, 32, 8, 0, 4, 4, 0, [0, 8, 16, 24]⟩,
-  ⟨8, 0, 1, 1, 8, 8, true, false, 1, 8, 8, 0, 1, 4, 0, [0]⟩,
-  ⟨8, 0, 2, 1, 8, 8, true, false, 1, 16, 8, 0, 2, 4, 0, [0, 8]⟩,
-  ⟨8, 0, 3, 1, 8, 8, true, false, 1, 24, 8, 0, 3, 4, 0, [0, 8, 16]⟩,
-  ⟨8, 0, 4, 1, 8, 8, true, false, 1, 32, 8, 0, 4, 4, 0, [0, 8, 16, 24]⟩,
-  ⟨8, 0, 1, 1, 8, 8, true, false, 2, 8, 8, 0, 1, 4, 0, [0]⟩,
-  ⟨8, 0, 2, 1, 8, 8, true, false, 2, 16, 8, 0, 2, 4, 0, [0, 8]⟩,
-  ⟨8, 0, 3, 1, 8, 8, true, false, 2, 24, 8, 0, 3, 4, 0, [0, 8, 16]⟩,
-  ⟨8, 0, 4, 1, 8, 8, true, false, 2, 32, 8, 0, 4, 4, 0, [0, 8, 16, 24]⟩,
-  ⟨8, 1, 2, 2, 4, 4, true, false, 0, 16, 4, 0, 2, 4, 8, [0, 4, 8, 12]⟩,
-  ⟨8, 1, 2, 3, 4, 4, true, false, 0, 24, 4, 0, 2, 4, 12, [0, 4, 8, 12, 16, 20]⟩,
-  ⟨8, 1, 2, 4, 4, 4, true, false, 0, 32, 4, 0, 2, 4, 16, [0, 4, 8, 12, 16, 20, 24, 28]⟩,
-  ⟨8, 1, 3, 2, 4, 4, true, false, 0, 24, 4, 0, 3, 4, 8, [0, 4, 8, 12, 16, 20]⟩,
-  ⟨8, 1, 3, 3, 4, 4, true, false, 0, 36, 4, 0, 3, 4, 12, [0, 4, 8, 12, 16, 20, 24, 28, 32]⟩,
-  ⟨8, 1, 3, 4, 4, 4, true, false, 0, 48, 4, 0, 3, 4, 16, [0, 4, 8, 12, 16, 20, 24, 28, 32, 36, 40, 44]⟩,
-  ⟨8, 1, 4, 2, 4, 4, true, false, 0, 32, 4, 0, 4, 4, 8, [0, 4, 8, 12, 16, 20, 24, 28]⟩,
-  ⟨8, 1, 4, 3, 4, 4, true, false, 0, 48, 4, 0, 4, 4, 12, [0, 4, 8, 12, 16, 20, 24, 28, 32, 36, 40, 44]⟩,
-  ⟨8, 1, 4, 4, 4, 4, true, false, 0, 64, 4, 0, 4, 4, 16, [0, 4, 8, 12, 16, 20, 24, 28, 32, 36, 40, 44, 48, 52, 56, 60]⟩,
-  ⟨8, 1, 2, 2, 4, 4, true, false, 1, 16, 4, 0, 2, 4, 8, [0, 4, 8, 12]⟩,
-  ⟨8, 1, 2, 3, 4, 4, true, false, 1, 24, 4, 0, 2, 4, 12, [0, 4, 8, 12, 16, 20]⟩,
-  ⟨8, 1, 2, 4, 4, 4, true, false, 1, 32, 4, 0, 2, 4, 16, [0, 4, 8, 12, 16, 20, 24, 28]⟩,
-  ⟨8, 1, 3, 2, 4, 4, true, false, 1, 24, 4, 0, 3, 4, 8, [0, 4, 8, 12, 16, 20]⟩,
-  ⟨8, 1, 3, 3, 4, 4, true, false, 1, 36, 4, 0, 3, 4, 12, [0, 4, 8, 12, 16, 20, 24, 28, 32]⟩,
-  ⟨8, 1, 3, 4, 4, 4, true, false, 1, 48, 4, 0, 3, 4, 16, [0, 4, 8, 12, 16, 20, 24, 28, 32, 36, 40, 44]⟩,
-  ⟨8, 1, 4, 2, 4, 4, true, false, 1, 32, 4, 0, 4, 4, 8, [0, 4, 8, 12, 16, 20, 24, 28]⟩,
-  ⟨8, 1, 4, 3, 4, 4, true, false, 1, 48, 4, 0, 4, 4, 12, [0, 4, 8, 12, 16, 20, 24, 28, 32, 36, 40, 44]⟩,
-  ⟨8, 1, 4, 4, 4, 4, true, false, 1, 64, 4, 0, 4, 4, 16, [0, 4, 8, 12, 16, 20, 24, 28, 32, 36, 40, 44, 48, 52, 56, 60]⟩,
-  ⟨8, 1, 2, 2, 4, 4, true, false, 2, 16, 4, 0, 2, 4, 8, [0, 4, 8, 12]⟩,
-  ⟨8, 1, 2, 3, 4, 4, true, false, 2, 24, 4, 0, 2, 4, 12, [0, 4, 8, 12, 16, 20]⟩,
-  ⟨8, 1, 2, 4, 4, 4, true, false, 2, 32, 4, 0, 2, 4, 16, [0, 4, 8, 12, 16, 20, 24, 28]⟩,
-  ⟨8, 1, 3, 2, 4, 4, true, false, 2, 24, 4, 0, 3, 4, 8, [0, 4, 8, 12, 16, 20]⟩,
-  ⟨8, 1, 3, 3, 4, 4, true, false, 2, 36, 4, 0, 3, 4, 12, [0, 4, 8, 12, 16, 20, 24, 28, 32]⟩,
-  ⟨8, 1, 3, 4, 4, 4, true, false, 2, 48, 4, 0, 3, 4, 16, [0, 4, 8, 12, 16, 20, 24, 28, 32, 36, 40, 44]⟩,
-  ⟨8, 1, 4, 2, 4, 4, true, false, 2, 32, 4, 0, 4, 4, 8, [0, 4, 8, 12, 16, 20, 24, 28]⟩,
-  ⟨8, 1, 4, 3, 4, 4, true, false, 2, 48, 4, 0, 4, 4, 12, [0, 4, 8, 12, 16, 20, 24, 28, 32, 36, 40, 44]⟩,
-  ⟨8, 1, 4, 4, 4, 4, true, false, 2, 64, 4, 0, 4, 4, 16, [0, 4, 8, 12, 16, 20, 24, 28, 32, 36, 40, 44, 48, 52, 56, 60]⟩,
-  ⟨8, 1, 2, 2, 8, 8, true, false, 0, 32, 8, 0, 2, 4, 16, [0, 8, 16, 24]⟩,
-  ⟨8, 1, 2, 3, 8, 8, true, false, 0, 48, 8, 0, 2, 4, 24, [0, 8, 16, 24, 32, 40]⟩,
-  ⟨8, 1, 2, 4, 8, 8, true, false, 0, 64, 8, 0, 2, 4, 32, [0, 8, 16, 24, 32, 40, 48, 56]⟩,
-  ⟨8, 1, 3, 2, 8, 8, true, false, 0, 48, 8, 0, 3, 4, 16, [0, 8, 16, 24, 32, 40]⟩,
-  ⟨8, 1, 3, 3, 8, 8, true, false, 0, 72, 8, 0, 3, 4, 24, [0, 8, 16, 24, 32, 40, 48, 56, 64]⟩,
-  ⟨8, 1, 3, 4, 8, 8, true, false, 0, 96, 8, 0, 3, 4, 32, [0, 8, 16, 24, 32, 40, 48, 56, 64, 72, 80, 88]⟩,
-  ⟨8, 1, 4, 2, 8, 8, true, false, 0, 64, 8, 0, 4, 4, 16, [0, 8, 16, 24, 32, 40, 48, 56]⟩,
-  ⟨8, 1, 4, 3, 8, 8, true, false, 0, 96, 8, 0, 4, 4, 24, [0, 8, 16, 24, 32, 40, 48, 56, 64, 72, 80, 88]⟩,
-  ⟨8, 1, 4, 4, 8, 8, true, false, 0, 128, 8, 0, 4, 4, 32, [0, 8, 16, 24, 32, 40, 48, 56, 64, 72, 80, 88, 96, 104, 112, 120]⟩,
-  ⟨8, 1, 2, 2, 8, 8, true, false, 1, 32, 8, 0, 2, 4, 16, [0, 8, 16, 24]⟩,
-  ⟨8, 1, 2, 3, 8, 8, true, false, 1, 48, 8, 0, 2, 4, 24, [0, 8, 16, 24, 32, 40]⟩,
-  ⟨8, 1, 2, 4, 8, 8, true, false, 1, 64, 8, 0, 2, 4, 32, [0, 8, 16, 24, 32, 40, 48, 56]⟩,
-  ⟨8, 1, 3, 2, 8, 8, true, false, 1, 48, 8, 0, 3, 4, 16, [0, 8, 16, 24, 32, 40]⟩,
-  ⟨8, 1, 3, 3, 8, 8, true, false, 1, 72, 8, 0, 3, 4, 24, [0, 8, 16, 24, 32, 40, 48, 56, 64]⟩,
-  ⟨8, 1, 3, 4, 8, 8, true, false, 1, 96, 8, 0, 3, 4, 32, [0, 8, 16, 24, 32, 40, 48, 56, 64, 72, 80, 88]⟩,
-  ⟨8, 1, 4, 2, 8, 8, true, false, 1, 64, 8, 0, 4, 4, 16, [0, 8, 16, 24, 32, 40, 48, 56]⟩,
-  ⟨8, 1, 4, 3, 8, 8, true, false, 1, 96, 8, 0, 4, 4, 24, [0, 8, 16, 24, 32, 40, 48, 56, 64, 72, 80, 88]⟩,
-  ⟨8, 1, 4, 4, 8, 8, true, false, 1, 128, 8, 0, 4, 4, 32, [0, 8, 16, 24, 32, 40, 48, 56, 64, 72, 80, 88, 96, 104, 112, 120]⟩,
-  ⟨8, 1, 2, 2, 8, 8, true, false, 2, 32, 8, 0, 2, 4, 16, [0, 8, 16, 24]⟩,
-  ⟨8, 1, 2, 3, 8, 8, true, false, 2, 48, 8, 0, 2, 4, 24, [0, 8, 16, 24, 32, 40]⟩,
-  ⟨8, 1, 2, 4, 8, 8, true, false, 2, 64, 8, 0, 2, 4, 32, [0, 8, 16, 24, 32, 40, 48, 56]⟩,
-  ⟨8, 1, 3, 2, 8, 8, true, false, 2, 48, 8, 0, 3, 4, 16, [0, 8, 16, 24, 32, 40]⟩,
-  ⟨8, 1, 3, 3, 8, 8, true, false, 2, 72, 8, 0, 3, 4, 24, [0, 8, 16, 24, 32, 40, 48, 56, 64]⟩,
-  ⟨8, 1, 3, 4, 8, 8, true, false, 2, 96, 8, 0, 3, 4, 32, [0, 8, 16, 24, 32, 40, 48, 56, 64, 72, 80, 88]⟩,
-  ⟨8, 1, 4, 2, 8, 8, true, false, 2, 64, 8, 0, 4, 4, 16, [0, 8, 16, 24, 32, 40, 48, 56]⟩,
-  ⟨8, 1, 4, 3, 8, 8, true, false, 2, 96, 8, 0, 4, 4, 24, [0, 8, 16, 24, 32, 40, 48, 56, 64, 72, 80, 88]⟩,
-  ⟨8, 1, 4, 4, 8, 8, true, false, 2, 128, 8, 0, 4, 4, 32, [0, 8, 16, 24, 32, 40, 48, 56, 64, 72, 80, 88, 96, 104, 112, 120]⟩,
-  ⟨8, 1, 2, 2, 4, 4, false, false, 0, 16, 4, 0, 2, 4, 8, [0, 4, 8, 12]⟩,
-  ⟨8, 1, 2, 3, 4, 4, false, false, 0, 24, 4, 0, 2, 4, 12, [0, 4, 8, 12, 16, 20]⟩,
-  ⟨8, 1, 2, 4, 4, 4, false, false, 0, 32, 4, 0, 2, 4, 16, [0, 4, 8, 12, 16, 20, 24, 28]⟩,
-  ⟨8, 1, 3, 2, 4, 4, false, false, 0, 24, 4, 0, 3, 4, 8, [0, 4, 8, 12, 16, 20]⟩,
-  ⟨8, 1, 3, 3, 4, 4, false, false, 0, 36, 4, 0, 3, 4, 12, [0, 4, 8, 12, 16, 20, 24, 28, 32]⟩,
-  ⟨8, 1, 3, 4, 4, 4, false, false, 0, 48, 4, 0, 3, 4, 16, [0, 4, 8, 12, 16, 20, 24, 28, 32, 36, 40, 44]⟩,
-  ⟨8, 1, 4, 2, 4, 4, false, false, 0, 32, 4, 0, 4, 4, 8, [0, 4, 8, 12, 16, 20, 24, 28]⟩,
-  ⟨8, 1, 4, 3, 4, 4, false, false, 0, 48, 4, 0, 4, 4, 12, [0, 4, 8, 12, 16, 20, 24, 28, 32, 36, 40, 44]⟩,
-  ⟨8, 1, 4, 4, 4, 4, false, false, 0, 64, 4, 0, 4, 4, 16, [0, 4, 8, 12, 16, 20, 24, 28, 32, 36, 40, 44, 48, 52, 56, 60]⟩,
-  ⟨8, 1, 2, 2, 4, 4, false, false, 1, 16, 4, 0, 2, 4, 8, [0, 4, 8, 12]⟩,
-  ⟨8, 1, 2, 3, 4, 4, false, false, 1, 24, 4, 0, 2, 4, 12, [0, 4, 8, 12, 16, 20]⟩,
-  ⟨8, 1, 2, 4, 4, 4, false, false, 1, 32, 4, 0, 2, 4, 16, [0, 4, 8, 12, 16, 20, 24, 28]⟩,
-  ⟨8, 1, 3, 2, 4, 4, false, false, 1, 24, 4, 0, 3, 4, 8, [0, 4, 8, 12, 16, 20]⟩,
-  ⟨8, 1, 3, 3, 4, 4, false, false, 1, 36, 4, 0, 3, 4, 12, [0, 4, 8, 12, 16, 20, 24, 28, 32]⟩,
-  ⟨8, 1, 3, 4, 4, 4, false, false, 1, 48, 4, 0, 3, 4, 16, [0, 4, 8, 12, 16, 20, 24, 28, 32, 36, 40, 44]⟩,
-  ⟨8, 1, 4, 2, 4, 4, false, false, 1, 32, 4, 0, 4, 4, 8, [0, 4, 8, 12, 16, 20, 24, 28]⟩,
-  ⟨8, 1, 4, 3, 4, 4, false, false, 1, 48, 4, 0, 4, 4, 12, [0, 4, 8, 12, 16, 20, 24, 28, 32, 36, 40, 44]⟩,
-  ⟨8, 1, 4, 4, 4, 4, false, false, 1, 64, 4, 0, 4, 4, 16, [0, 4, 8, 12, 16, 20, 24, 28, 32, 36, 40, 44, 48, 52, 56, 60]⟩,
-  ⟨8, 1, 2, 2, 4, 4, false, false, 2, 16, 4, 0, 2, 4, 8, [0, 4, 8, 12]⟩,
-  ⟨8, 1, 2, 3, 4, 4, false, false, 2, 24, 4, 0, 2, 4, 12, [0, 4, 8, 12, 16, 20]⟩,
-  ⟨8, 1, 2, 4, 4, 4, false, false, 2, 32, 4, 0, 2, 4, 16, [0, 4, 8, 12, 16, 20, 24, 28]⟩,
-  ⟨8, 1, 3, 2, 4, 4, false, false, 2, 24, 4, 0, 3, 4, 8, [0, 4, 8, 12, 16, 20]⟩,
-  ⟨8, 1, 3, 3, 4, 4, false, false, 2, 36, 4, 0, 3, 4, 12, [0, 4, 8, 12, 16, 20, 24, 28, 32]⟩,
-  ⟨8, 1, 3, 4, 4, 4, false, false, 2, 48, 4, 0, 3, 4, 16, [0, 4, 8, 12, 16, 20, 24, 28, 32, 36, 40, 44]⟩,
-  ⟨8, 1, 4, 2, 4, 4, false, false, 2, 32, 4, 0, 4, 4, 8, [0, 4, 8, 12, 16, 20, 24, 28]⟩,
-  ⟨8, 1, 4, 3, 4, 4, false, false, 2, 48, 4, 0, 4, 4, 12, [0, 4, 8, 12, 16, 20, 24, 28, 32, 36, 40, 44]⟩,
-  ⟨8, 1, 4, 4, 4, 4, false, false, 2, 64, 4, 0, 4, 4, 16, [0, 4, 8, 12, 16, 20, 24, 28, 32, 36, 40, 44, 48, 52, 56, 60]⟩,
-  ⟨8, 1, 2, 2, 4, 4, false, false, 0, 16, 4, 0, 2, 4, 8, [0, 4, 8, 12]⟩,
-  ⟨8, 1, 2, 3, 4, 4, false, false, 0, 24, 4, 0, 2, 4, 12, [0, 4, 8, 12, 16, 20]⟩,
-  ⟨8, 1, 2, 4, 4, 4, false, false, 0, 32, 4, 0, 2, 4, 16, [0, 4, 8, 12, 16, 20, 24, 28]⟩,
-  ⟨8, 1, 3, 2, 4, 4, false, false, 0, 24, 4, 0, 3, 4, 8, [0, 4, 8, 12, 16, 20]⟩,
-  ⟨8, 1, 3, 3, 4, 4, false, false, 0, 36, 4, 0, 3, 4, 12, [0, 4, 8, 12, 16, 20, 24, 28, 32]⟩,
-  ⟨8, 1, 3, 4, 4, 4, false, false, 0, 48, 4, 0, 3, 4, 16, [0, 4, 8, 12, 16, 20, 24, 28, 32, 36, 40, 44]⟩,
-  ⟨8, 1, 4, 2, 4, 4, false, false, 0, 32, 4, 0, 4, 4, 8, [0, 4, 8, 12, 16, 20, 24, 28]⟩,
-  ⟨8, 1, 4, 3, 4, 4, false, false, 0, 48, 4, 0, 4, 4, 12, [0, 4, 8, 12, 16, 20, 24, 28, 32, 36, 40, 44]⟩,
-  ⟨8, 1, 4, 4, 4, 4, false, false, 0, 64, 4, 0, 4, 4, 16, [0, 4, 8, 12, 16, 20, 24, 28, 32, 36, 40, 44, 48, 52, 56, 60]⟩,
-  ⟨8, 1, 2, 2, 4, 4, false, false, 1, 16, 4, 0, 2, 4, 8, [0, 4, 8, 12]⟩,
-  ⟨8, 1, 2, 3, 4, 4, false, false, 1, 24, 4, 0, 2, 4, 12, [0, 4, 8, 12, 16, 20]⟩,
-  ⟨8, 1, 2, 4, 4, 4, false, false, 1, 32, 4, 0, 2, 4, 16, [0, 4, 8, 12, 16, 20, 24, 28]⟩,
-  ⟨8, 1, 3, 2, 4, 4, false, false, 1, 24, 4, 0, 3, 4, 8, [0, 4, 8, 12, 16, 20]⟩,
-  ⟨8, 1, 3, 3, 4, 4, false, false, 1, 36, 4, 0, 3, 4, 12, [0, 4, 8, 12, 16, 20, 24, 28, 32]⟩,
-  ⟨8, 1, 3, 4, 4, 4, false, false, 1, 48, 4, 0, 3, 4, 16, [0, 4, 8, 12, 16, 20, 24, 28, 32, 36, 40, 44]⟩,
-  ⟨8, 1, 4, 2, 4, 4, false, false, 1, 32, 4, 0, 4, 4, 8, [0, 4, 8, 12, 16, 20, 24, 28]⟩,
-  ⟨8, 1, 4, 3, 4, 4, false, false, 1, 48, 4, 0, 4, 4, 12, [0, 4, 8, 12, 16, 20, 24, 28, 32, 36, 40, 44]⟩,
-  ⟨8, 1, 4, 4, 4, 4, false, false, 1, 64, 4, 0, 4, 4, 16, [0, 4, 8, 12, 16, 20, 24, 28, 32, 36, 40, 44, 48, 52, 56, 60]⟩,
-  ⟨8, 1, 2, 2, 4, 4, false, false, 2, 16, 4, 0, 2, 4, 8, [0, 4, 8, 12]⟩,
-  ⟨8, 1, 2, 3, 4, 4, false, false, 2, 24, 4, 0, 2, 4, 12, [0, 4, 8, 12, 16, 20]⟩,
-  ⟨8, 1, 2, 4, 4, 4, false, false, 2, 32, 4, 0, 2, 4, 16, [0, 4, 8, 12, 16, 20, 24, 28]⟩,
-  ⟨8, 1, 3, 2, 4, 4, false, false, 2, 24, 4, 0, 3, 4, 8, [0, 4, 8, 12, 16, 20]⟩,
-  ⟨8, 1, 3, 3, 4, 4, false, false, 2, 36, 4, 0, 3, 4, 12, [0, 4, 8, 12, 16, 20, 24, 28, 32]⟩,
-  ⟨8, 1, 3, 4, 4, 4, false, false, 2, 48, 4, 0, 3, 4, 16, [0, 4, 8, 12, 16, 20, 24, 28, 32, 36, 40, 44]⟩,
-  ⟨8, 1, 4, 2, 4, 4, false, false, 2, 32, 4, 0, 4, 4, 8, [0, 4, 8, 12, 16, 20, 24, 28]⟩,
-  ⟨8, 1, 4, 3, 4, 4, false, false, 2, 48, 4, 0, 4, 4, 12, [0, 4, 8, 12, 16, 20, 24, 28, 32, 36, 40, 44]⟩,
-  ⟨8, 1, 4, 4, 4, 4, false, false, 2, 64, 4, 0, 4, 4, 16, [0, 4, 8, 12, 16, 20, 24, 28, 32, 36, 40, 44, 48, 52, 56, 60]⟩,
-  ⟨8, 2, 4, 1, 4, 4, true, false, 0, 16, 4, 0, 4, 4, 1, [4, 8, 12, 0]⟩,
-  ⟨8, 2, 4, 1, 4, 4, true, false, 1, 16, 4, 0, 4, 4, 1, [4, 8, 12, 0]⟩,
-  ⟨8, 2, 4, 1, 4, 4, true, false, 2, 16, 4, 0, 4, 4, 1, [4, 8, 12, 0]⟩,
-  ⟨8, 2, 4, 1, 8, 8, true, false, 0, 32, 8, 0, 4, 4, 1, [8, 16, 24, 0]⟩,
-  ⟨8, 2, 4, 1, 8, 8, true, false, 1, 32, 8, 0, 4, 4, 1, [8, 16, 24, 0]⟩,
-  ⟨8, 2, 4, 1, 8, 8, true, false, 2, 32, 8, 0, 4, 4, 1, [8, 16, 24, 0]⟩,
-  ⟨9, 0, 1, 1, 1, 1, false, false, 0, 1, 1, 0, 1, 4, 0, [0]⟩,
-  ⟨9, 0, 2, 1, 1, 1, false, false, 0, 2, 1, 0, 2, 4, 0, [0, 1]⟩,
-  ⟨9, 0, 3, 1, 1, 1, false, false, 0, 3, 1, 0, 3, 4, 0, [0, 1, 2]⟩,
-  ⟨9, 0, 4, 1, 1, 1, false, false, 0, 4, 1, 0, 4, 4, 0, [0, 1, 2, 3]⟩,
-  ⟨9, 0, 1, 1, 1, 1, false, false, 1, 1, 1, 0, 1, 4, 0, [0]⟩,
-  ⟨9, 0, 2, 1, 1, 1, false, false, 1, 2, 1, 0, 2, 4, 0, [0, 1]⟩,
-  ⟨9, 0, 3, 1, 1, 1, false, false, 1, 3, 1, 0, 3, 4, 0, [0, 1, 2]⟩,
-  ⟨9, 0, 4, 1, 1, 1, false, false, 1, 4, 1, 0, 4, 4, 0, [0, 1, 2, 3]⟩,
-  ⟨9, 0, 1, 1, 1, 1, false, false, 2, 1, 1, 0, 1, 4, 0, [0]⟩,
-  ⟨9, 0, 2, 1, 1, 1, false, false, 2, 2, 1, 0, 2, 4, 0, [0, 1]⟩,
-  ⟨9, 0, 3, 1, 1, 1, false, false, 2, 3, 1, 0, 3, 4, 0, [0, 1, 2]⟩,
-  ⟨9, 0, 4, 1, 1, 1, false, false, 2, 4, 1, 0, 4, 4, 0, [0, 1, 2, 3]⟩,
-  ⟨9, 0, 1, 1, 1, 1, false, false, 0, 1, 1, 0, 1, 4, 0, [0]⟩,
-  ⟨9, 0, 2, 1, 1, 1, false, false, 0, 2, 1, 0, 2, 4, 0, [0, 1]⟩,
-  ⟨9, 0, 3, 1, 1, 1, false, false, 0, 3, 1, 0, 3, 4, 0, [0, 1, 2]⟩,
-  ⟨9, 0, 4, 1, 1, 1, false, false, 0, 4, 1, 0, 4, 4, 0, [0, 1, 2, 3]⟩,
-  ⟨9, 0, 1, 1, 1, 1, false, false, 1, 1, 1, 0, 1, 4, 0, [0]⟩,
-  ⟨9, 0, 2, 1, 1, 1, false, false, 1, 2, 1, 0, 2, 4, 0, [0, 1]⟩,
-  ⟨9, 0, 3, 1, 1, 1, false, false, 1, 3, 1, 0, 3, 4, 0, [0, 1, 2]⟩,
-  ⟨9, 0, 4, 1, 1, 1, false, false, 1, 4, 1, 0, 4, 4, 0, [0, 1, 2, 3]⟩,
-  ⟨9, 0, 1, 1, 1, 1, false, false, 2, 1, 1, 0, 1, 4, 0, [0]⟩,
-  ⟨9, 0, 2, 1, 1, 1, false, false, 2, 2, 1, 0, 2, 4, 0, [0, 1]⟩,
-  ⟨9, 0, 3, 1, 1, 1, false, false, 2, 3, 1, 0, 3, 4, 0, [0, 1, 2]⟩,
-  ⟨9, 0, 4, 1, 1, 1, false, false, 2, 4, 1, 0, 4, 4, 0, [0, 1, 2, 3]⟩,
-  ⟨9, 0, 1, 1, 1, 1, false, false, 0, 1, 1, 0, 1, 4, 0, [0]⟩,
-  ⟨9, 0, 2, 1, 1, 1, false, false, 0, 2, 1, 0, 2, 4, 0, [0, 1]⟩,
-  ⟨9, 0, 3, 1, 1, 1, false, false, 0, 3, 1, 0, 3, 4, 0, [0, 1, 2]⟩,
-  ⟨9, 0, 4, 1, 1, 1, false, false, 0, 4, 1, 0, 4, 4, 0, [0, 1, 2, 3]⟩,
-  ⟨9, 0, 1, 1, 1, 1, false, false, 1, 1, 1, 0, 1, 4, 0, [0]⟩,
-  ⟨9, 0, 2, 1, 1, 1, false, false, 1, 2, 1, 0, 2, 4, 0, [0, 1]⟩,
-  ⟨9, 0, 3, 1, 1, 1, false, false, 1, 3, 1, 0, 3, 4, 0, [0, 1, 2]⟩,
-  ⟨9, 0, 4, 1, 1, 1, false, false, 1, 4, 1, 0, 4, 4, 0, [0, 1, 2, 3]⟩,
-  ⟨9, 0, 1, 1, 1, 1, false, false, 2, 1, 1, 0, 1, 4, 0, [0]⟩,
-  ⟨9, 0, 2, 1, 1, 1, false, false, 2, 2, 1, 0, 2, 4, 0, [0, 1]⟩,
-  ⟨9, 0, 3, 1, 1, 1, false, false, 2, 3, 1, 0, 3, 4, 0, [0, 1, 2]⟩,
-  ⟨9, 0, 4, 1, 1, 1, false, false, 2, 4, 1, 0, 4, 4, 0, [0, 1, 2, 3]⟩,
-  ⟨9, 0, 1, 1, 2, 2, false, false, 0, 2, 2, 0, 1, 4, 0, [0]⟩,
-  ⟨9, 0, 2, 1, 2, 2, false, false, 0, 4, 2, 0, 2, 4, 0, [0, 2]⟩,
-  ⟨9, 0, 3, 1, 2, 2, false, false, 0, 6, 2, 0, 3, 4, 0, [0, 2, 4]⟩,
-  ⟨9, 0, 4, 1, 2, 2, false, false, 0, 8, 2, 0, 4, 4, 0, [0, 2, 4, 6]⟩,
-  ⟨9, 0, 1, 1, 2, 2, false, false, 1, 2, 2, 0, 1, 4, 0, [0]⟩,
-  ⟨9, 0, 2, 1, 2, 2, false, false, 1, 4, 2, 0, 2, 4, 0, [0, 2]⟩,
-  ⟨9, 0, 3, 1, 2, 2, false, false, 1, 6, 2, 0, 3, 4, 0, [0, 2, 4]⟩,
-  ⟨9, 0, 4, 1, 2, 2, false, false, 1, 8, 2, 0, 4, 4, 0, [0, 2, 4, 6]⟩,
-  ⟨9, 0, 1, 1, 2, 2, false, false, 2, 2, 2, 0, 1, 4, 0, [0]⟩,
-  ⟨9, 0, 2, 1, 2, 2, false, false, 2, 4, 2, 0, 2, 4, 0, [0, 2]⟩,
-  ⟨9, 0, 3, 1, 2, 2, false, false, 2, 6, 2, 0, 3, 4, 0, [0, 2, 4]⟩,
-  ⟨9, 0, 4, 1, 2, 2, false, false, 2, 8, 2, 0, 4, 4, 0, [0, 2, 4, 6]⟩,
-  ⟨9, 0, 1, 1, 2, 2, false, false, 0, 2, 2, 0, 1, 4, 0, [0]⟩,
-  ⟨9, 0, 2, 1, 2, 2, false, false, 0, 4, 2, 0, 2, 4, 0, [0, 2]⟩,
-  ⟨9, 0, 3, 1, 2, 2, false, false, 0, 6, 2, 0, 3, 4, 0, [0, 2, 4]⟩,
-  ⟨9, 0, 4, 1, 2, 2, false, false, 0, 8, 2, 0, 4, 4, 0, [0, 2, 4, 6]⟩,
-  ⟨9, 0, 1, 1, 2, 2, false, false, 1, 2, 2, 0, 1, 4, 0, [0]⟩,
-  ⟨9, 0, 2, 1, 2, 2, false, false, 1, 4, 2, 0, 2, 4, 0, [0, 2]⟩,
-  ⟨9, 0, 3, 1, 2, 2, false, false, 1, 6, 2, 0, 3, 4, 0, [0, 2, 4]⟩,
-  ⟨9, 0, 4, 1, 2, 2, false, false, 1, 8, 2, 0, 4, 4, 0, [0, 2, 4, 6]⟩,
-  ⟨9, 0, 1, 1, 2, 2, false, false, 2, 2, 2, 0, 1, 4, 0, [0]⟩,
-  ⟨9, 0, 2, 1, 2, 2, false, false, 2, 4, 2, 0, 2, 4, 0, [0, 2]⟩,
-  ⟨9, 0, 3, 1, 2, 2, false, false, 2, 6, 2, 0, 3, 4, 0, [0, 2, 4]⟩,
-  ⟨9, 0, 4, 1, 2, 2, false, false, 2, 8, 2, 0, 4, 4, 0, [0, 2, 4, 6]⟩,
-  ⟨9, 0, 1, 1, 4, 4, false, false, 0, 4, 4, 0, 1, 4, 0, [0]⟩,
-  ⟨9, 0, 2, 1, 4, 4, false, false, 0, 8, 4, 0, 2, 4, 0, [0, 4]⟩,
-  ⟨9, 0, 3, 1, 4, 4, false, false, 0, 12, 4, 0, 3, 4, 0, [0, 4, 8]⟩,
-  ⟨9, 0, 4, 1, 4, 4, false, false, 0, 16, 4, 0, 4, 4, 0, [0, 4, 8, 12]⟩,
-  ⟨9, 0, 1, 1, 4, 4, false, false, 1, 4, 4, 0, 1, 4, 0, [0]⟩,
-  ⟨9, 0, 2, 1, 4, 4, false, false, 1, 8, 4, 0, 2, 4, 0, [0, 4]⟩,
-  ⟨9, 0, 3, 1, 4, 4, false, false, 1, 12, 4, 0, 3, 4, 0, [0, 4, 8]⟩,
-  ⟨9, 0, 4, 1, 4, 4, false, false, 1, 16, 4, 0, 4, 4, 0, [0, 4, 8, 12]⟩,
-  ⟨9, 0, 1, 1, 4, 4, false, false, 2, 4, 4, 0, 1, 4, 0, [0]⟩,
-  ⟨9, 0, 2, 1, 4, 4, false, false, 2, 8, 4, 0, 2, 4, 0, [0, 4]⟩,
-  ⟨9, 0, 3, 1, 4, 4, false, false, 2, 12, 4, 0, 3, 4, 0, [0, 4, 8]⟩,
-  ⟨9, 0, 4, 1, 4, 4, false, false, 2, 16, 4, 0, 4, 4, 0, [0, 4, 8, 12]⟩,
-  ⟨9, 0, 1, 1, 4, 4, false, false, 0, 4, 4, 0, 1, 4, 0, [0]⟩,
-  ⟨9, 0, 2, 1, 4, 4, false, false, 0, 8, 4, 0, 2, 4, 0, [0, 4]⟩,
-  ⟨9, 0, 3, 1, 4, 4, false, false, 0, 12, 4, 0, 3, 4, 0, [0, 4, 8]⟩,
-  ⟨9, 0, 4, 1, 4, 4, false, false, 0, 16, 4, 0, 4, 4, 0, [0, 4, 8, 12]⟩,
-  ⟨9, 0, 1, 1, 4, 4, false, false, 1, 4, 4, 0, 1, 4, 0, [0]⟩,
-  ⟨9, 0, 2, 1, 4, 4, false, false, 1, 8, 4, 0, 2, 4, 0, [0, 4]⟩,
-  ⟨9, 0, 3, 1, 4, 4, false, false, 1, 12, 4, 0, 3, 4, 0, [0, 4, 8]⟩,
-  ⟨9, 0, 4, 1, 4, 4, false, false, 1, 16, 4, 0, 4, 4, 0, [0, 4, 8, 12]⟩,
-  ⟨9, 0, 1, 1, 4, 4, false, false, 2, 4, 4, 0, 1, 4, 0, [0]⟩,
-  ⟨9, 0, 2, 1, 4, 4, false, false, 2, 8, 4, 0, 2, 4, 0, [0, 4]⟩,
-  ⟨9, 0, 3, 1, 4, 4, false, false, 2, 12, 4, 0, 3, 4, 0, [0, 4, 8]⟩,
-  ⟨9, 0, 4, 1, 4, 4, false, false, 2, 16, 4, 0, 4, 4, 0, [0, 4, 8, 12]⟩,
-  ⟨9, 0, 1, 1, 8, 8, false, false, 0, 8, 8, 0, 1, 4, 0, [0]⟩,
-  ⟨9, 0, 2, 1, 8, 8, false, false, 0, 16, 8, 0, 2, 4, 0, [0, 8]⟩,
-  ⟨9, 0, 3, 1, 8, 8, false, false, 0, 24, 8, 0, 3, 4, 0, [0, 8, 16]⟩,
-  ⟨9, 0, 4, 1, 8, 8, false, false, 0, 32, 8, 0, 4, 4, 0, [0, 8, 16, 24]⟩,
-  ⟨9, 0, 1, 1, 8, 8, false, false, 1, 8, 8, 0, 1, 4, 0, [0]⟩,
-  ⟨9, 0, 2, 1, 8, 8, false, false, 1, 16, 8, 0, 2, 4, 0, [0, 8]⟩,
-  ⟨9, 0, 3, 1, 8, 8, false, false, 1, 24, 8, 0, 3, 4, 0, [0, 8, 16]⟩,
-  ⟨9, 0, 4, 1, 8, 8, false, false, 1, 32, 8, 0, 4, 4, 0, [0, 8, 16, 24]⟩,
-  ⟨9, 0, 1, 1, 8, 8, false, false, 2, 8, 8, 0, 1, 4, 0, [0]⟩,
-  ⟨9, 0, 2, 1, 8, 8, false, false, 2, 16, 8, 0, 2, 4, 0, [0, 8]⟩,
-  ⟨9, 0, 3, 1, 8, 8, false, false, 2, 24, 8, 0, 3, 4, 0, [0, 8, 16]⟩,
-  ⟨9, 0, 4, 1, 8, 8, false, false, 2, 32, 8, 0, 4, 4, 0, [0, 8, 16, 24]⟩,
-  ⟨9, 0, 1, 1, 8, 8, false, false, 0, 8, 8, 0, 1, 4, 0, [0]⟩,
-  ⟨9, 0, 2, 1, 8, 8, false, false, 0, 16, 8, 0, 2, 4, 0, [0, 8]⟩,
-  ⟨9, 0, 3, 1, 8, 8, false, false, 0, 24, 8, 0, 3, 4, 0, [0, 8, 16]⟩,
-  ⟨9, 0, 4, 1, 8, 8, false, false, 0, 32, 8, 0, 4, 4, 0, [0, 8, 16, 24]⟩,
-  ⟨9, 0, 1, 1, 8, 8, false, false, 1, 8, 8, 0, 1, 4, 0, [0]⟩,
-  ⟨9, 0, 2, 1, 8, 8, false, false, 1, 16, 8, 0, 2, 4, 0, [0, 8]⟩,
-  ⟨9, 0, 3, 1, 8, 8, false, false, 1, 24, 8, 0, 3, 4, 0, [0, 8, 16]⟩,
-  ⟨9, 0, 4, 1, 8, 8, false, false, 1, 32, 8, 0, 4, 4, 0, [0, 8, 16, 24]⟩,
-  ⟨9, 0, 1, 1, 8, 8, false, false, 2, 8, 8, 0, 1, 4, 0, [0]⟩,
-  ⟨9, 0, 2, 1, 8, 8, false, false, 2, 16, 8, 0, 2, 4, 0, [0, 8]⟩,
-  ⟨9, 0, 3, 1, 8, 8, false, false, 2, 24, 8, 0, 3, 4, 0, [0, 8, 16]⟩,
-  ⟨9, 0, 4, 1, 8, 8, false, false, 2, 32, 8, 0, 4, 4, 0, [0, 8, 16, 24]⟩,
-  ⟨9, 0, 1, 1, 4, 4, true, false, 0, 4, 4, 0, 1, 4, 0, [0]⟩,
-  ⟨9, 0, 2, 1, 4, 4, true, false, 0, 8, 4, 0, 2, 4, 0, [0, 4]⟩,
-  ⟨9, 0, 3, 1, 4, 4, true, false, 0, 12, 4, 0, 3, 4, 0, [0, 4, 8]⟩,
-  ⟨9, 0, 4, 1, 4, 4, true, false, 0, 16, 4, 0, 4, 4, 0, [0, 4, 8, 12]⟩,
-  ⟨9, 0, 1, 1, 4, 4, true, false, 1, 4, 4, 0, 1, 4, 0, [0]⟩,
-  ⟨9, 0, 2, 1, 4, 4, true, false, 1, 8, 4, 0, 2, 4, 0, [0, 4]⟩,
-  ⟨9, 0, 3, 1, 4, 4, true, false, 1, 12, 4, 0, 3, 4, 0, [0, 4, 8]⟩,
-  ⟨9, 0, 4, 1, 4, 4, true, false, 1, 16, 4, 0, 4, 4, 0, [0, 4, 8, 12]⟩,
-  ⟨9, 0, 1, 1, 4, 4, true, false, 2, 4, 4, 0, 1, 4, 0, [0]⟩,
-  ⟨9, 0, 2, 1, 4, 4, true, false, 2, 8, 4, 0, 2, 4, 0, [0, 4]⟩,
-  ⟨9, 0, 3, 1, 4, 4, true, false, 2, 12, 4, 0, 3, 4, 0, [0, 4, 8]⟩,
-  ⟨9, 0, 4, 1, 4, 4, true, false, 2, 16, 4, 0, 4, 4, 0, [0, 4, 8, 12]⟩,
-  ⟨9, 0, 1, 1, 8, 8, true, false, 0, 8, 8, 0, 1, 4, 0, [0]⟩,
-  ⟨9, 0, 2, 1, 8, 8, true, false, 0, 16, 8, 0, 2, 4, 0, [0, 8]⟩,
-  ⟨9, 0, 3, 1, 8, 8, true, false, 0, 24, 8, 0, 3, 4, 0, [0, 8, 16]⟩,
-  ⟨9, 0, 4, 1, 8, 8, true, false, 0, 32, 8, 0, 4, 4, 0, [0, 8, 16, 24]⟩,
-  ⟨9, 0, 1, 1, 8, 8, true, false, 1, 8, 8, 0, 1, 4, 0, [0]⟩,
-  ⟨9, 0, 2, 1, 8, 8, true, false, 1, 16, 8, 0, 2, 4, 0, [0, 8]⟩,
-  ⟨9, 0, 3, 1, 8, 8, true, false, 1, 24, 8, 0, 3, 4, 0, [0, 8, 16]⟩,
-  ⟨9, 0, 4, 1, 8, 8, true, false, 1, 32, 8, 0, 4, 4, 0, [0, 8, 16, 24]⟩,
-  ⟨9, 0, 1, 1, 8, 8, true, false, 2, 8, 8, 0, 1, 4, 0, [0]⟩,
-  ⟨9, 0, 2, 1, 8, 8, true, false, 2, 16, 8, 0, 2, 4, 0, [0, 8]⟩,
-  ⟨9, 0, 3, 1, 8, 8, true, false, 2, 24, 8, 0, 3, 4, 0, [0, 8, 16]⟩,
-  ⟨9, 0, 4, 1, 8, 8, true, false, 2, 32, 8, 0, 4, 4, 0, [0, 8, 16, 24]⟩,
-  ⟨9, 1, 2, 2, 4, 4, true, false, 0, 16, 4, 0, 2, 4, 8, [0, 4, 8, 12]⟩,
-  ⟨9, 1, 2, 3, 4, 4, true, false, 0, 24, 4, 0, 2, 4, 12, [0, 4, 8, 12, 16, 20]⟩,
-  ⟨9, 1, 2, 4, 4, 4, true, false, 0, 32, 4, 0, 2, 4, 16, [0, 4, 8, 12, 16, 20, 24, 28]⟩,
-  ⟨9, 1, 3, 2, 4, 4, true, false, 0, 24, 4, 0, 3, 4, 8, [0, 4, 8, 12, 16, 20]⟩,
-  ⟨9, 1, 3, 3, 4, 4, true, false, 0, 36, 4, 0, 3, 4, 12, [0, 4, 8, 12, 16, 20, 24, 28, 32]⟩,
-  ⟨9, 1, 3, 4, 4, 4, true, false, 0, 48, 4, 0, 3, 4, 16, [0, 4, 8, 12, 16, 20, 24, 28, 32, 36, 40, 44]⟩,
-  ⟨9, 1, 4, 2, 4, 4, true, false, 0, 32, 4, 0, 4, 4, 8, [0, 4, 8, 12, 16, 20, 24, 28]⟩,
-  ⟨9, 1, 4, 3, 4, 4, true, false, 0, 48, 4, 0, 4, 4, 12, [0, 4, 8, 12, 16, 20, 24, 28, 32, 36, 40, 44]⟩,
-  ⟨9, 1, 4, 4, 4, 4, true, false, 0, 64, 4, 0, 4, 4, 16, [0, 4, 8, 12, 16, 20, 24, 28, 32, 36, 40, 44, 48, 52, 56, 60]⟩,
-  ⟨9, 1, 2, 2, 4, 4, true, false, 1, 16, 4, 0, 2, 4, 8, [0, 4, 8, 12]⟩,
-  ⟨9, 1, 2, 3, 4, 4, true, false, 1, 24, 4, 0, 2, 4, 12, [0, 4, 8, 12, 16, 20]⟩,
-  ⟨9, 1, 2, 4, 4, 4, true, false, 1, 32, 4, 0, 2, 4, 16, [0, 4, 8, 12, 16, 20, 24, 28]⟩,
-  ⟨9, 1, 3, 2, 4, 4, true, false, 1, 24, 4, 0, 3, 4, 8, [0, 4, 8, 12, 16, 20]⟩,
-  ⟨9, 1, 3, 3, 4, 4, true, false, 1, 36, 4, 0, 3, 4, 12, [0, 4, 8, 12, 16, 20, 24, 28, 32]⟩,
-  ⟨9, 1, 3, 4, 4, 4, true, false, 1, 48, 4, 0, 3, 4, 16, [0, 4, 8, 12, 16, 20, 24, 28, 32, 36, 40, 44]⟩,
-  ⟨9, 1, 4, 2, 4, 4, true, false, 1, 32, 4, 0, 4, 4, 8, [0, 4, 8, 12, 16, 20, 24, 28]⟩,
-  ⟨9, 1, 4, 3, 4, 4, true, false, 1, 48, 4, 0, 4, 4, 12, [0, 4, 8, 12, 16, 20, 24, 28, 32, 36, 40, 44]⟩,
-  ⟨9, 1, 4, 4, 4, 4, true, false, 1, 64, 4, 0, 4, 4, 16, [0, 4, 8, 12, 16, 20, 24, 28, 32, 36, 40, 44, 48, 52, 56, 60]⟩,
-  ⟨9, 1, 2, 2, 4, 4, true, false, 2, 16, 4, 0, 2, 4, 8, [0, 4, 8, 12]⟩,
-  ⟨9, 1, 2, 3, 4, 4, true, false, 2, 24, 4, 0, 2, 4, 12, [0, 4, 8, 12, 16, 20]⟩,
-  ⟨9, 1, 2, 4, 4, 4, true, false, 2, 32, 4, 0, 2, 4, 16, [0, 4, 8, 12, 16, 20, 24, 28]⟩,
-  ⟨9, 1, 3, 2, 4, 4, true, false, 2, 24, 4, 0, 3, 4, 8, [0, 4, 8, 12, 16, 20]⟩,
-  ⟨9, 1, 3, 3, 4, 4, true, false, 2, 36, 4, 0, 3, 4, 12, [0, 4, 8, 12, 16, 20, 24, 28, 32]⟩,
-  ⟨9, 1, 3, 4, 4, 4, true, false, 2, 48, 4, 0, 3, 4, 16, [0, 4, 8, 12, 16, 20, 24, 28, 32, 36, 40, 44]⟩,
-  ⟨9, 1, 4, 2, 4, 4, true, false, 2, 32, 4, 0, 4, 4, 8, [0, 4, 8, 12, 16, 20, 24, 28]⟩,
-  ⟨9, 1, 4, 3, 4, 4, true, false, 2, 48, 4, 0, 4, 4, 12, [0, 4, 8, 12, 16, 20, 24, 28, 32, 36, 40, 44]⟩,
-  ⟨9, 1, 4, 4, 4, 4, true, false, 2, 64, 4, 0, 4, 4, 16, [0, 4, 8, 12, 16, 20, 24, 28, 32, 36, 40, 44, 48, 52, 56, 60]⟩,
-  ⟨9, 1, 2, 2, 8, 8, true, false, 0, 32, 8, 0, 2, 4, 16, [0, 8, 16, 24]⟩,
-  ⟨9, 1, 2, 3, 8, 8, true, false, 0, 48, 8, 0, 2, 4, 24, [0, 8, 16, 24, 32, 40]⟩,
-  ⟨9, 1, 2, 4, 8, 8, true, false, 0, 64, 8, 0, 2, 4, 32, [0, 8, 16, 24, 32, 40, 48, 56]⟩,
-  ⟨9, 1, 3, 2, 8, 8, true, false, 0, 48, 8, 0, 3, 4, 16, [0, 8, 16, 24, 32, 40]⟩,
-  ⟨9, 1, 3, 3, 8, 8, true, false, 0, 72, 8, 0, 3, 4, 24, [0, 8, 16, 24, 32, 40, 48, 56, 64]⟩,
-  ⟨9, 1, 3, 4, 8, 8, true, false, 0, 96, 8, 0, 3, 4, 32, [0, 8, 16, 24, 32, 40, 48, 56, 64, 72, 80, 88]⟩,
-  ⟨9, 1, 4, 2, 8, 8, true, false, 0, 64, 8, 0, 4, 4, 16, [0, 8, 16, 24, 32, 40, 48, 56]⟩,
-  ⟨9, 1, 4, 3, 8, 8, true, false, 0, 96, 8, 0, 4, 4, 24, [0, 8, 16, 24, 32, 40, 48, 56, 64, 72, 80, 88]⟩,
-  ⟨9, 1, 4, 4, 8, 8, true, false, 0, 128, 8, 0, 4, 4, 32, [0, 8, 16, 24, 32, 40, 48, 56, 64, 72, 80, 88, 96, 104, 112, 120]⟩,
-  ⟨9, 1, 2, 2, 8, 8, true, false, 1, 32, 8, 0, 2, 4, 16, [0, 8, 16, 24]⟩,
-  ⟨9, 1, 2, 3, 8, 8, true, false, 1, 48, 8, 0, 2, 4, 24, [0, 8, 16, 24, 32, 40]⟩,
-  ⟨9, 1, 2, 4, 8, 8, true, false, 1, 64, 8, 0, 2, 4, 32, [0, 8, 16, 24, 32, 40, 48, 56]⟩,
-  ⟨9, 1, 3, 2, 8, 8, true, false, 1, 48, 8, 0, 3, 4, 16, [0, 8, 16, 24, 32, 40]⟩,
-  ⟨9, 1, 3, 3, 8, 8, true, false, 1, 72, 8, 0, 3, 4, 24, [0, 8, 16, 24, 32, 40, 48, 56, 64]⟩,
-  ⟨9, 1, 3, 4, 8, 8, true, false, 1, 96, 8, 0, 3, 4, 32, [0, 8, 16, 24, 32, 40, 48, 56, 64, 72, 80, 88]⟩,
-  ⟨9, 1, 4, 2, 8, 8, true, false, 1, 64, 8, 0, 4, 4, 16, [0, 8, 16, 24, 32, 40, 48, 56]⟩,
-  ⟨9, 1, 4, 3, 8, 8, true, false, 1, 96, 8, 0, 4, 4, 24, [0, 8, 16, 24, 32, 40, 48, 56, 64, 72, 80, 88]⟩,
-  ⟨9, 1, 4, 4, 8, 8, true, false, 1, 128, 8, 0, 4, 4, 32, [0, 8, 16, 24, 32, 40, 48, 56, 64, 72, 80, 88, 96, 104, 112, 120]⟩,
-  ⟨9, 1, 2, 2, 8, 8, true, false, 2, 32, 8, 0, 2, 4, 16, [0, 8, 16, 24]⟩,
-  ⟨9, 1, 2, 3, 8, 8, true, false, 2, 48, 8, 0, 2, 4, 24, [0, 8, 16, 24, 32, 40]⟩,
-  ⟨9, 1, 2, 4, 8, 8, true, false, 2, 64, 8, 0, 2, 4, 32, [0, 8, 16, 24, 32, 40, 48, 56]⟩,
-  ⟨9, 1, 3, 2, 8, 8, true, false, 2, 48, 8, 0, 3, 4, 16, [0, 8, 16, 24, 32, 40]⟩,
-  ⟨9, 1, 3, 3, 8, 8, true, false, 2, 72, 8, 0, 3, 4, 24, [0, 8, 16, 24, 32, 40, 48, 56, 64]⟩,
-  ⟨9, 1, 3, 4, 8, 8, true, false, 2, 96, 8, 0, 3, 4, 32, [0, 8, 16, 24, 32, 40, 48, 56, 64, 72, 80, 88]⟩,
-  ⟨9, 1, 4, 2, 8, 8, true, false, 2, 64, 8, 0, 4, 4, 16, [0, 8, 16, 24, 32, 40, 48, 56]⟩,
-  ⟨9, 1, 4, 3, 8, 8, true, false, 2, 96, 8, 0, 4, 4, 24, [0, 8, 16, 24, 32, 40, 48, 56, 64, 72, 80, 88]⟩,
-  ⟨9, 1, 4, 4, 8, 8, true, false, 2, 128, 8, 0, 4, 4, 32, [0, 8, 16, 24, 32, 40, 48, 56, 64, 72, 80, 88, 96, 104, 112, 120]⟩,
-  ⟨9, 1, 2, 2, 4, 4, false, false, 0, 16, 4, 0, 2, 4, 8, [0, 4, 8, 12]⟩,
-  ⟨9, 1, 2, 3, 4, 4, false, false, 0, 24, 4, 0, 2, 4, 12, [0, 4, 8, 12, 16, 20]⟩,
-  ⟨9, 1, 2, 4, 4, 4, false, false, 0, 32, 4, 0, 2, 4, 16, [0, 4, 8, 12, 16, 20, 24, 28]⟩,
-  ⟨9, 1, 3, 2, 4, 4, false, false, 0, 24, 4, 0, 3, 4, 8, [0, 4, 8, 12, 16, 20]⟩,
-  ⟨9, 1, 3, 3, 4, 4, false, false, 0, 36, 4, 0, 3, 4, 12, [0, 4, 8, 12, 16, 20, 24, 28, 32]⟩,
-  ⟨9, 1, 3, 4, 4, 4, false, false, 0, 48, 4, 0, 3, 4, 16, [0, 4, 8, 12, 16, 20, 24, 28, 32, 36, 40, 44]⟩,
-  ⟨9, 1, 4, 2, 4, 4, false, false, 0, 32, 4, 0, 4, 4, 8, [0, 4, 8, 12, 16, 20, 24, 28]⟩,
-  ⟨9, 1, 4, 3, 4, 4, false, false, 0, 48, 4, 0, 4, 4, 12, [0, 4, 8, 12, 16, 20, 24, 28, 32, 36, 40, 44]⟩,
-  ⟨9, 1, 4, 4, 4, 4, false, false, 0, 64, 4, 0, 4, 4, 16, [0, 4, 8, 12, 16, 20, 24, 28, 32, 36, 40, 44, 48, 52, 56, 60]⟩,
-  ⟨9, 1, 2, 2, 4, 4, false, false, 1, 16, 4, 0, 2, 4, 8, [0, 4, 8, 12]⟩,
-  ⟨9, 1, 2, 3, 4, 4, false, false, 1, 24, 4, 0, 2, 4, 12, [0, 4, 8, 12, 16, 20]⟩,
-  ⟨9, 1, 2, 4, 4, 4, false, false, 1, 32, 4, 0, 2, 4, 16, [0, 4, 8, 12, 16, 20, 24, 28]⟩,
-  ⟨9, 1, 3, 2, 4, 4, false, false, 1, 24, 4, 0, 3, 4, 8, [0, 4, 8, 12, 16, 20]⟩,
-  ⟨9, 1, 3, 3, 4, 4, false, false, 1, 36, 4, 0, 3, 4, 12, [0, 4, 8, 12, 16, 20, 24, 28, 32]⟩,
-  ⟨9, 1, 3, 4, 4, 4, false, false, 1, 48, 4, 0, 3, 4, 16, [0, 4, 8, 12, 16, 20, 24, 28, 32, 36, 40, 44]⟩,
-  ⟨9, 1, 4, 2, 4, 4, false, false, 1, 32, 4, 0, 4, 4, 8, [0, 4, 8, 12, 16, 20, 24, 28]⟩,
-  ⟨9, 1, 4, 3, 4, 4, false, false, 1, 48, 4, 0, 4, 4, 12, [0, 4, 8, 12, 16, 20, 24, 28, 32, 36, 40, 44]⟩,
-  ⟨9, 1, 4, 4, 4, 4, false, false, 1, 64, 4, 0, 4, 4, 16, [0, 4, 8, 12, 16, 20, 24, 28, 32, 36, 40, 44, 48, 52, 56, 60]⟩,
-  ⟨9, 1, 2, 2, 4, 4, false, false, 2, 16, 4, 0, 2, 4, 8, [0, 4, 8, 12]⟩,
-  ⟨9, 1, 2, 3, 4, 4, false, false, 2, 24, 4, 0, 2, 4, 12, [0, 4, 8, 12, 16, 20]⟩,
-  ⟨9, 1, 2, 4, 4, 4, false, false, 2, 32, 4, 0, 2, 4, 16, [0, 4, 8, 12, 16, 20, 24, 28]⟩,
-  ⟨9, 1, 3, 2, 4, 4, false, false, 2, 24, 4, 0, 3, 4, 8, [0, 4, 8, 12, 16, 20]⟩,
-  ⟨9, 1, 3, 3, 4, 4, false, false, 2, 36, 4, 0, 3, 4, 12, [0, 4, 8, 12, 16, 20, 24, 28, 32]⟩,
-  ⟨9, 1, 3, 4, 4, 4, false, false, 2, 48, 4, 0, 3, 4, 16, [0, 4, 8, 12, 16, 20, 24, 28, 32, 36, 40, 44]⟩,
-  ⟨9, 1, 4, 2, 4, 4, false, false, 2, 32, 4, 0, 4, 4, 8, [0, 4, 8, 12, 16, 20, 24, 28]⟩,
-  ⟨9, 1, 4, 3, 4, 4, false, false, 2, 48, 4, 0, 4, 4, 12, [0, 4, 8, 12, 16, 20, 24, 28, 32, 36, 40, 44]⟩,
-  ⟨9, 1, 4, 4, 4, 4, false, false, 2, 64, 4, 0, 4, 4, 16, [0, 4, 8, 12, 16, 20, 24, 28, 32, 36, 40, 44, 48, 52, 56, 60]⟩,
-  ⟨9, 1, 2, 2, 4, 4, false, false, 0, 16, 4, 0, 2, 4, 8, [0, 4, 8, 12]⟩,
-  ⟨9, 1, 2, 3, 4, 4, false, false, 0, 24, 4, 0, 2, 4, 12, [0, 4, 8, 12, 16, 20]⟩,
-  ⟨9, 1, 2, 4, 4, 4, false, false, 0, 32, 4, 0, 2, 4, 16, [0, 4, 8, 12, 16, 20, 24, 28]⟩,
-  ⟨9, 1, 3, 2, 4, 4, false, false, 0, 24, 4, 0, 3, 4, 8, [0, 4, 8, 12, 16, 20]⟩,
-  ⟨9, 1, 3, 3, 4, 4, false, false, 0, 36, 4, 0, 3, 4, 12, [0, 4, 8, 12, 16, 20, 24, 28, 32]⟩,
-  ⟨9, 1, 3, 4, 4, 4, false, false, 0, 48, 4, 0, 3, 4, 16, [0, 4, 8, 12, 16, 20, 24, 28, 32, 36, 40, 44]⟩,
-  ⟨9, 1, 4, 2, 4, 4, false, false, 0, 32, 4, 0, 4, 4, 8, [0, 4, 8, 12, 16, 20, 24, 28]⟩,
-  ⟨9, 1, 4, 3, 4, 4, false, false, 0, 48, 4, 0, 4, 4, 12, [0, 4, 8, 12, 16, 20, 24, 28, 32, 36, 40, 44]⟩,
-  ⟨9, 1, 4, 4, 4, 4, false, false, 0, 64, 4, 0, 4, 4, 16, [0, 4, 8, 12, 16, 20, 24, 28, 32, 36, 40, 44, 48, 52, 56, 60]⟩,
-  ⟨9, 1, 2, 2, 4, 4, false, false, 1, 16, 4, 0, 2, 4, 8, [0, 4, 8, 12]⟩,
-  ⟨9, 1, 2, 3, 4, 4, false, false, 1, 24, 4, 0, 2, 4, 12, [0, 4, 8, 12, 16, 20]⟩,
-  ⟨9, 1, 2, 4, 4, 4, false, false, 1, 32, 4, 0, 2, 4, 16, [0, 4, 8, 12, 16, 20, 24, 28]⟩,
-  ⟨9, 1, 3, 2, 4, 4, false, false, 1, 24, 4, 0, 3, 4, 8, [0, 4, 8, 12, 16, 20]⟩,
-  ⟨9, 1, 3, 3, 4, 4, false, false, 1, 36, 4, 0, 3, 4, 12, [0, 4, 8, 12, 16, 20, 24, 28, 32]⟩,
-  ⟨9, 1, 3, 4, 4, 4, false, false, 1, 48, 4, 0, 3, 4, 16, [0, 4, 8, 12, 16, 20, 24, 28, 32, 36, 40, 44]⟩,
-  ⟨9, 1, 4, 2, 4, 4, false, false, 1, 32, 4, 0, 4, 4, 8, [0, 4, 8, 12, 16, 20, 24, 28]⟩,
-  ⟨9, 1, 4, 3, 4, 4, false, false, 1, 48, 4, 0, 4, 4, 12, [0, 4, 8, 12, 16, 20, 24, 28, 32, 36, 40, 44]⟩,
-  ⟨9, 1, 4, 4, 4, 4, false, false, 1, 64, 4, 0, 4, 4, 16, [0, 4, 8, 12, 16, 20, 24, 28, 32, 36, 40, 44, 48, 52, 56, 60]⟩,
-  ⟨9, 1, 2, 2, 4, 4, false, false, 2, 16, 4, 0, 2, 4, 8, [0, 4, 8, 12]⟩,
-  ⟨9, 1, 2, 3, 4, 4, false, false, 2, 24, 4, 0, 2, 4, 12, [0, 4, 8, 12, 16, 20]⟩,
-  ⟨9, 1, 2, 4, 4, 4, false, false, 2, 32, 4, 0, 2, 4, 16, [0, 4, 8, 12, 16, 20, 24, 28]⟩,
-  ⟨9, 1, 3, 2, 4, 4, false, false, 2, 24, 4, 0, 3, 4, 8, [0, 4, 8, 12, 16, 20]⟩,
-  ⟨9, 1, 3, 3, 4, 4, false, false, 2, 36, 4, 0, 3, 4, 12, [0, 4, 8, 12, 16, 20, 24, 28, 32]⟩,
-  ⟨9, 1, 3, 4, 4, 4, false, false, 2, 48, 4, 0, 3, 4, 16, [0, 4, 8, 12, 16, 20, 24, 28, 32, 36, 40, 44]⟩,
-  ⟨9, 1, 4, 2, 4, 4, false, false, 2, 32, 4, 0, 4, 4, 8, [0, 4, 8, 12, 16, 20, 24, 28]⟩,
-  ⟨9, 1, 4, 3, 4, 4, false, false, 2, 48, 4, 0, 4, 4, 12, [0, 4, 8, 12, 16, 20, 24, 28, 32, 36, 40, 44]⟩,
-  ⟨9, 1, 4, 4, 4, 4, false, false, 2, 64, 4, 0, 4, 4, 16, [0, 4, 8, 12, 16, 20, 24, 28, 32, 36, 40, 44, 48, 52, 56, 60]⟩,
-  ⟨9, 2, 4, 1, 4, 4, true, false, 0, 16, 4, 0, 4, 4, 0, [0, 4, 8, 12]⟩,
-  ⟨9, 2, 4, 1, 4, 4, true, false, 1, 16, 4, 0, 4, 4, 0, [0, 4, 8, 12]⟩,
-  ⟨9, 2, 4, 1, 4, 4, true, false, 2, 16, 4, 0, 4, 4, 0, [0, 4, 8, 12]⟩,
-  ⟨9, 2, 4, 1, 8, 8, true, false, 0, 32, 8, 0, 4, 4, 0, [0, 8, 16, 24]⟩,
-  ⟨9, 2, 4, 1, 8, 8, true, false, 1, 32, 8, 0, 4, 4, 0, [0, 8, 16, 24]⟩,
-  ⟨9, 2, 4, 1, 8, 8, true, false, 2, 32, 8, 0, 4, 4, 0, [0, 8, 16, 24]⟩,
-  ⟨10, 0, 1, 1, 1, 1, false, false, 0, 1, 1, 0, 1, 4, 0, [0]⟩,
-  ⟨10, 0, 2, 1, 1, 1, false, false, 0, 2, 1, 0, 2, 4, 0, [0, 1]⟩,
-  ⟨10, 0, 3, 1, 1, 1, false, false, 0, 3, 1, 0, 3, 4, 0, [0, 1, 2]⟩,
-  ⟨10, 0, 4, 1, 1, 1, false, false, 0, 4, 1, 0, 4, 4, 0, [0, 1, 2, 3]⟩,
-  ⟨10, 0, 1, 1, 1, 1, false, false, 1, 1, 1, 0, 1, 4, 0, [0]⟩,
-  ⟨10, 0, 2, 1, 1, 1, false, false, 1, 2, 1, 0, 2, 4, 0, [0, 1]⟩,
-  ⟨10, 0, 3, 1, 1, 1, false, false, 1, 3, 1, 0, 3, 4, 0, [0, 1, 2]⟩,
-  ⟨10, 0, 4, 1, 1, 1, false, false, 1, 4, 1, 0, 4, 4, 0, [0, 1, 2, 3]⟩,
-  ⟨10, 0, 1, 1, 1, 1, false, false, 2, 1, 1, 0, 1, 4, 0, [0]⟩,
-  ⟨10, 0, 2, 1, 1, 1, false, false, 2, 2, 1, 0, 2, 4, 0, [0, 1]⟩,
-  ⟨10, 0, 3, 1, 1, 1, false, false, 2, 3, 1, 0, 3, 4, 0, [0, 1, 2]⟩,
-  ⟨10, 0, 4, 1, 1, 1, false, false, 2, 4, 1, 0, 4, 4, 0, [0, 1, 2, 3]⟩,
-  ⟨10, 0, 1, 1, 1, 1, false, false, 0, 1, 1, 0, 1, 4, 0, [0]⟩,
-  ⟨10, 0, 2, 1, 1, 1, false, false, 0, 2, 1, 0, 2, 4, 0, [0, 1]⟩,
-  ⟨10, 0, 3, 1, 1, 1, false, false, 0, 3, 1, 0, 3, 4, 0, [0, 1, 2]⟩,
-  ⟨10, 0, 4, 1, 1, 1, false, false, 0, 4, 1, 0, 4, 4, 0, [0, 1, 2, 3]⟩,
-  ⟨10, 0, 1, 1, 1, 1, false, false, 1, 1, 1, 0, 1, 4, 0, [0]⟩,
-  ⟨10, 0, 2, 1, 1, 1, false, false, 1, 2, 1, 0, 2, 4, 0, [0, 1]⟩,
-  ⟨10, 0, 3, 1, 1, 1, false, false, 1, 3, 1, 0, 3, 4, 0, [0, 1, 2]⟩,
-  ⟨10, 0, 4, 1, 1, 1, false, false, 1, 4, 1, 0, 4, 4, 0, [0, 1, 2, 3]⟩,
-  ⟨10, 0, 1, 1, 1, 1, false, false, 2, 1, 1, 0, 1, 4, 0, [0]⟩,
-  ⟨10, 0, 2, 1, 1, 1, false, false, 2, 2, 1, 0, 2, 4, 0, [0, 1]⟩,
-  ⟨10, 0, 3, 1, 1, 1, false, false, 2, 3, 1, 0, 3, 4, 0, [0, 1, 2]⟩,
-  ⟨10, 0, 4, 1, 1, 1, false, false, 2, 4, 1, 0, 4, 4, 0, [0, 1, 2, 3]⟩,
-  ⟨10, 0, 1, 1, 1, 1, false, false, 0, 1, 1, 0, 1, 4, 0, [0]⟩,
-  ⟨10, 0, 2, 1, 1, 1, false, false, 0, 2, 1, 0, 2, 4, 0, [0, 1]⟩,
-  ⟨10, 0, 3, 1, 1, 1, false, false, 0, 3, 1, 0, 3, 4, 0, [0, 1, 2]⟩,
-  ⟨10, 0, 4, 1, 1, 1, false, false, 0, 4, 1, 0, 4, 4, 0, [0, 1, 2, 3]⟩,
-  ⟨10, 0, 1, 1, 1, 1, false, false, 1, 1, 1, 0, 1, 4, 0, [0]⟩,
-  ⟨10, 0, 2, 1, 1, 1, false, false, 1, 2, 1, 0, 2, 4, 0, [0, 1]⟩,
-  ⟨10, 0, 3, 1, 1, 1, false, false, 1, 3, 1, 0, 3, 4, 0, [0, 1, 2]⟩,
-  ⟨10, 0, 4, 1, 1, 1, false, false, 1, 4, 1, 0, 4, 4, 0, [0, 1, 2, 3]⟩,
-  ⟨10, 0, 1, 1, 1, 1, false, false, 2, 1, 1, 0, 1, 4, 0, [0]⟩,
-  ⟨10, 0, 2, 1, 1, 1, false, false, 2, 2, 1, 0, 2, 4, 0, [0, 1]⟩,
-  ⟨10, 0, 3, 1, 1, 1, false, false, 2, 3, 1, 0, 3, 4, 0, [0, 1, 2]⟩,
-  ⟨10, 0, 4, 1, 1, 1, false, false, 2, 4, 1, 0, 4, 4, 0, [0, 1, 2, 3]⟩,
-  ⟨10, 0, 1, 1, 2, 2, false, false, 0, 2, 2, 0, 1, 4, 0, [0]⟩,
-  ⟨10, 0, 2, 1, 2, 2, false, false, 0, 4, 2, 0, 2, 4, 0, [0, 2]⟩,
-  ⟨10, 0, 3, 1, 2, 2, false, false, 0, 6, 2, 0, 3, 4, 0, [0, 2, 4]⟩,
-  ⟨10, 0, 4, 1, 2, 2, false, false, 0, 8, 2, 0, 4, 4, 0, [0, 2, 4, 6]⟩,
-  ⟨10, 0, 1, 1, 2, 2, false, false, 1, 2, 2, 0, 1, 4, 0, [0]⟩,
-  ⟨10, 0, 2, 1, 2, 2, false, false, 1, 4, 2, 0, 2, 4, 0, [0, 2]⟩,
-  ⟨10, 0, 3, 1, 2, 2, false, false, 1, 6, 2, 0, 3, 4, 0, [0, 2, 4]⟩,
-  ⟨10, 0, 4, 1, 2, 2, false, false, 1, 8, 2, 0, 4, 4, 0, [0, 2, 4, 6]⟩,
-  ⟨10, 0, 1, 1, 2, 2, false, false, 2, 2, 2, 0, 1, 4, 0, [0]⟩,
-  ⟨10, 0, 2, 1, 2, 2, false, false, 2, 4, 2, 0, 2, 4, 0, [0, 2]⟩,
-  ⟨10, 0, 3, 1, 2, 2, false, false, 2, 6, 2, 0, 3, 4, 0, [0, 2, 4]⟩,
-  ⟨10, 0, 4, 1, 2, 2, false, false, 2, 8, 2, 0, 4, 4, 0, [0, 2, 4, 6]⟩,
-  ⟨10, 0, 1, 1, 2, 2, false, false, 0, 2, 2, 0, 1, 4, 0, [0]⟩,
-  ⟨10, 0, 2, 1, 2, 2, false, false, 0, 4, 2, 0, 2, 4, 0, [0, 2]⟩,
-  ⟨10, 0, 3, 1, 2, 2, false, false, 0, 6, 2, 0, 3, 4, 0, [0, 2, 4]⟩,
-  ⟨10, 0, 4, 1, 2, 2, false, false, 0, 8, 2, 0, 4, 4, 0, [0, 2, 4, 6]⟩,
-  ⟨10, 0, 1, 1, 2, 2, false, false, 1, 2, 2, 0, 1, 4, 0, [0]⟩,
-  ⟨10, 0, 2, 1, 2, 2, false, false, 1, 4, 2, 0, 2, 4, 0, [0, 2]⟩,
-  ⟨10, 0, 3, 1, 2, 2, false, false, 1, 6, 2, 0, 3, 4, 0, [0, 2, 4]⟩,
-  ⟨10, 0, 4, 1, 2, 2, false, false, 1, 8, 2, 0, 4, 4, 0, [0, 2, 4, 6]⟩,
-  ⟨10, 0, 1, 1, 2, 2, false, false, 2, 2, 2, 0, 1, 4, 0, [0]⟩,
-  ⟨10, 0, 2, 1, 2, 2, false, false, 2, 4, 2, 0, 2, 4, 0, [0, 2]⟩,
-  ⟨10, 0, 3, 1, 2, 2, false, false, 2, 6, 2, 0, 3, 4, 0, [0, 2, 4]⟩,
-  ⟨10, 0, 4, 1, 2, 2, false, false, 2, 8, 2, 0, 4, 4, 0, [0, 2, 4, 6]⟩,
-  ⟨10, 0, 1, 1, 4, 4, false, false, 0, 4, 4, 0, 1, 4, 0, [0]⟩,
-  ⟨10, 0, 2, 1, 4, 4, false, false, 0, 8, 4, 0, 2, 4, 0, [0, 4]⟩,
-  ⟨10, 0, 3, 1, 4, 4, false, false, 0, 12, 4, 0, 3, 4, 0, [0, 4, 8]⟩,
-  ⟨10, 0, 4, 1, 4, 4, false, false, 0, 16, 4, 0, 4, 4, 0, [0, 4, 8, 12]⟩,
-  ⟨10, 0, 1, 1, 4, 4, false, false, 1, 4, 4, 0, 1, 4, 0, [0]⟩,
-  ⟨10, 0, 2, 1, 4, 4, false, false, 1, 8, 4, 0, 2, 4, 0, [0, 4]⟩,
-  ⟨10, 0, 3, 1, 4, 4, false, false, 1, 12, 4, 0, 3, 4, 0, [0, 4, 8]⟩,
-  ⟨10, 0, 4, 1, 4, 4, false, false, 1, 16, 4, 0, 4, 4, 0, [0, 4, 8, 12]⟩,
-  ⟨10, 0, 1, 1, 4, 4, false, false, 2, 4, 4, 0, 1, 4, 0, [0]⟩,
-  ⟨10, 0, 2, 1, 4, 4, false, false, 2, 8, 4, 0, 2, 4, 0, [0, 4]⟩,
-  ⟨10, 0, 3, 1, 4, 4, false, false, 2, 12, 4, 0, 3, 4, 0, [0, 4, 8]⟩,
-  ⟨10, 0, 4, 1, 4, 4, false, false, 2, 16, 4, 0, 4, 4, 0, [0, 4, 8, 12]⟩,
-  ⟨10, 0, 1, 1, 4, 4, false, false, 0, 4, 4, 0, 1, 4, 0, [0]⟩,
-  ⟨10, 0, 2, 1, 4, 4, false, false, 0, 8, 4, 0, 2, 4, 0, [0, 4]⟩,
-  ⟨10, 0, 3, 1, 4, 4, false, false, 0, 12, 4, 0, 3, 4, 0, [0, 4, 8]⟩,
-  ⟨10, 0, 4, 1, 4, 4, false, false, 0, 16, 4, 0, 4, 4, 0, [0, 4, 8, 12]⟩,
-  ⟨10, 0, 1, 1, 4, 4, false, false, 1, 4, 4, 0, 1, 4, 0, [0]⟩,
-  ⟨10, 0, 2, 1, 4, 4, false, false, 1, 8, 4, 0, 2, 4, 0, [0, 4]⟩,
-  ⟨10, 0, 3, 1, 4, 4, false, false, 1, 12, 4, 0, 3, 4, 0, [0, 4, 8]⟩,
-  ⟨10, 0, 4, 1, 4, 4, false, false, 1, 16, 4, 0, 4, 4, 0, [0, 4, 8, 12]⟩,
-  ⟨10, 0, 1, 1, 4, 4, false, false, 2, 4, 4, 0, 1, 4, 0, [0]⟩,
-  ⟨10, 0, 2, 1, 4, 4, false, false, 2, 8, 4, 0, 2, 4, 0, [0, 4]⟩,
-  ⟨10, 0, 3, 1, 4, 4, false, false, 2, 12, 4, 0, 3, 4, 0, [0, 4, 8]⟩,
-  ⟨10, 0, 4, 1, 4, 4, false, false, 2, 16, 4, 0, 4, 4, 0, [0, 4, 8, 12]⟩,
-  ⟨10, 0, 1, 1, 8, 8, false, false, 0, 8, 8, 0, 1, 4, 0, [0]⟩,
-  ⟨10, 0, 2, 1, 8, 8, false, false, 0, 16, 8, 0, 2, 4, 0, [0, 8]⟩,
-  ⟨10, 0, 3, 1, 8, 8, false, false, 0, 24, 8, 0, 3, 4, 0, [0, 8, 16]⟩,
-  ⟨10, 0, 4, 1, 8, 8, false, false, 0, 32, 8, 0, 4, 4, 0, [0, 8, 16, 24]⟩,
-  ⟨10, 0, 1, 1, 8, 8, false, false, 1, 8, 8, 0, 1, 4, 0, [0]⟩,
-  ⟨10, 0, 2, 1, 8, 8, false, false, 1, 16, 8, 0, 2, 4, 0, [0, 8]⟩,
-  ⟨10, 0, 3, 1, 8, 8, false, false, 1, 24, 8, 0, 3, 4, 0, [0, 8, 16]⟩,
-  ⟨10, 0, 4, 1, 8, 8, false, false, 1, 32, 8, 0, 4, 4, 0, [0, 8, 16, 24]⟩,
-  ⟨10, 0, 1, 1, 8, 8, false, false, 2, 8, 8, 0, 1, 4, 0, [0]⟩,
-  ⟨10, 0, 2, 1, 8, 8, false, false, 2, 16, 8, 0, 2, 4, 0, [0, 8]⟩,
-  ⟨10, 0, 3, 1, 8, 8, false, false, 2, 24, 8, 0, 3, 4, 0, [0, 8, 16]⟩,
-  ⟨10, 0, 4, 1, 8, 8, false, false, 2, 32, 8, 0, 4, 4, 0, [0, 8, 16, 24]⟩,
-  ⟨10, 0, 1, 1, 8, 8, false, false, 0, 8, 8, 0, 1, 4, 0, [0]⟩,
-  ⟨10, 0, 2, 1, 8, 8, false, false, 0, 16, 8, 0, 2, 4, 0, [0, 8]⟩,
-  ⟨10, 0, 3, 1, 8, 8, false, false, 0, 24, 8, 0, 3, 4, 0, [0, 8, 16]⟩,
-  ⟨10, 0, 4, 1, 8, 8, false, false, 0, 32, 8, 0, 4, 4, 0, [0, 8, 16, 24]⟩,
-  ⟨10, 0, 1, 1, 8, 8, false, false, 1, 8, 8, 0, 1, 4, 0, [0]⟩,
-  ⟨10, 0, 2, 1, 8, 8, false, false, 1, 16, 8, 0, 2, 4, 0, [0, 8]⟩,
-  ⟨10, 0, 3, 1, 8, 8, false, false, 1, 24, 8, 0, 3, 4, 0, [0, 8, 16]⟩,
-  ⟨10, 0, 4, 1, 8, 8, false, false, 1, 32, 8, 0, 4, 4, 0, [0, 8, 16, 24]⟩,
-  ⟨10, 0, 1, 1, 8, 8, false, false, 2, 8, 8, 0, 1, 4, 0, [0]⟩,
-  ⟨10, 0, 2, 1, 8, 8, false, false, 2, 16, 8, 0, 2, 4, 0, [0, 8]⟩,
-  ⟨10, 0, 3, 1, 8, 8, false, false, 2, 24, 8, 0, 3, 4, 0, [0, 8, 16]⟩,
-  ⟨10, 0, 4, 1, 8, 8, false, false, 2, 32, 8, 0, 4, 4, 0, [0, 8, 16, 24]⟩,
-  ⟨10, 0, 1, 1, 4, 4, true, false, 0, 4, 4, 0, 1, 4, 0, [0]⟩,
-  ⟨10, 0, 2, 1, 4, 4, true, false, 0, 8, 4, 0, 2, 4, 0, [0, 4]⟩,
-  ⟨10, 0, 3, 1, 4, 4, true, false, 0, 12, 4, 0, 3, 4, 0, [0, 4, 8]⟩,
-  ⟨10, 0, 4, 1, 4, 4, true, false, 0, 16, 4, 0, 4, 4, 0, [0, 4, 8, 12]⟩,
-  ⟨10, 0, 1, 1, 4, 4, true, false, 1, 4, 4, 0, 1, 4, 0, [0]⟩,
-  ⟨10, 0, 2, 1, 4, 4, true, false, 1, 8, 4, 0, 2, 4, 0, [0, 4]⟩,
-  ⟨10, 0, 3, 1, 4, 4, true, false, 1, 12, 4, 0, 3, 4, 0, [0, 4, 8]⟩,
-  ⟨10, 0, 4, 1, 4, 4, true, false, 1, 16, 4, 0, 4, 4, 0, [0, 4, 8, 12]⟩,
-  ⟨10, 0, 1, 1, 4, 4, true, false, 2, 4, 4, 0, 1, 4, 0, [0]⟩,
-  ⟨10, 0, 2, 1, 4, 4, true, false, 2, 8, 4, 0, 2, 4, 0, [0, 4]⟩,
-  ⟨10, 0, 3, 1, 4, 4, true, false, 2, 12, 4, 0, 3, 4, 0, [0, 4, 8]⟩,
-  ⟨10, 0, 4, 1, 4, 4, true, false, 2, 16, 4, 0, 4, 4, 0, [0, 4, 8, 12]⟩,
-  ⟨10, 0, 1, 1, 8, 8, true, false, 0, 8, 8, 0, 1, 4, 0, [0]⟩,
-  ⟨10, 0, 2, 1, 8, 8, true, false, 0, 16, 8, 0, 2, 4, 0, [0, 8]⟩,
-  ⟨10, 0, 3, 1, 8, 8, true, false, 0, 24, 8, 0, 3, 4, 0, [0, 8, 16]⟩,
-  ⟨10, 0, 4, 1, 8, 8, true, false, 0, 32, 8, 0, 4, 4, 0, [0, 8, 16, 24]⟩,
-  ⟨10, 0, 1, 1, 8, 8, true, false, 1, 8, 8, 0, 1, 4, 0, [0]⟩,
-  ⟨10, 0, 2, 1, 8, 8, true, false, 1, 16, 8, 0, 2, 4, 0, [0, 8]⟩,
-  ⟨10, 0, 3, 1, 8, 8, true, false, 1, 24, 8, 0, 3, 4, 0, [0, 8, 16]⟩,
-  ⟨10, 0, 4, 1, 8, 8, true, false, 1, 32, 8, 0, 4, 4, 0, [0, 8, 16, 24]⟩,
-  ⟨10, 0, 1, 1, 8, 8, true, false, 2, 8, 8, 0, 1, 4, 0, [0]⟩,
-  ⟨10, 0, 2, 1, 8, 8, true, false, 2, 16, 8, 0, 2, 4, 0, [0, 8]⟩,
-  ⟨10, 0, 3, 1, 8, 8, true, false, 2, 24, 8, 0, 3, 4, 0, [0, 8, 16]⟩,
-  ⟨10, 0, 4, 1, 8, 8, true, false, 2, 32, 8, 0, 4, 4, 0, [0, 8, 16, 24]⟩,
-  ⟨10, 1, 2, 2, 4, 4, true, false, 0, 16, 4, 0, 2, 4, 8, [0, 4, 8, 12]⟩,
-  ⟨10, 1, 2, 3, 4, 4, true, false, 0, 24, 4, 0, 2, 4, 12, [0, 4, 8, 12, 16, 20]⟩,
-  ⟨10, 1, 2, 4, 4, 4, true, false, 0, 32, 4, 0, 2, 4, 16, [0, 4, 8, 12, 16, 20, 24, 28]⟩,
-  ⟨10, 1, 3, 2, 4, 4, true, false, 0, 24, 4, 0, 3, 4, 8, [0, 4, 8, 12, 16, 20]⟩,
-  ⟨10, 1, 3, 3, 4, 4, true, false, 0, 36, 4, 0, 3, 4, 12, [0, 4, 8, 12, 16, 20, 24, 28, 32]⟩,
-  ⟨10, 1, 3, 4, 4, 4, true, false, 0, 48, 4, 0, 3, 4, 16, [0, 4, 8, 12, 16, 20, 24, 28, 32, 36, 40, 44]⟩,
-  ⟨10, 1, 4, 2, 4, 4, true, false, 0, 32, 4, 0, 4, 4, 8, [0, 4, 8, 12, 16, 20, 24, 28]⟩,
-  ⟨10, 1, 4, 3, 4, 4, true, false, 0, 48, 4, 0, 4, 4, 12, [0, 4, 8, 12, 16, 20, 24, 28, 32, 36, 40, 44]⟩,
-  ⟨10, 1, 4, 4, 4, 4, true, false, 0, 64, 4, 0, 4, 4, 16, [0, 4, 8, 12, 16, 20, 24, 28, 32, 36, 40, 44, 48, 52, 56, 60]⟩,
-  ⟨10, 1, 2, 2, 4, 4, true, false, 1, 16, 4, 0, 2, 4, 8, [0, 4, 8, 12]⟩,
-  ⟨10, 1, 2, 3, 4, 4, true, false, 1, 24, 4, 0, 2, 4, 12, [0, 4, 8, 12, 16, 20]⟩,
-  ⟨10, 1, 2, 4, 4, 4, true, false, 1, 32, 4, 0, 2, 4, 16, [0, 4, 8, 12, 16, 20, 24, 28]⟩,
-  ⟨10, 1, 3, 2, 4, 4, true, false, 1, 24, 4, 0, 3, 4, 8, [0, 4, 8, 12, 16, 20]⟩,
-  ⟨10, 1, 3, 3, 4, 4, true, false, 1, 36, 4, 0, 3, 4, 12, [0, 4, 8, 12, 16, 20, 24, 28, 32]⟩,
-  ⟨10, 1, 3, 4, 4, 4, true, false, 1, 48, 4, 0, 3, 4, 16, [0, 4, 8, 12, 16, 20, 24, 28, 32, 36, 40, 44]⟩,
-  ⟨10, 1, 4, 2, 4, 4, true, false, 1, 32, 4, 0, 4, 4, 8, [0, 4, 8, 12, 16, 20, 24, 28]⟩,
-  ⟨10, 1, 4, 3, 4, 4, true, false, 1, 48, 4, 0, 4, 4, 12, [0, 4, 8, 12, 16, 20, 24, 28, 32, 36, 40, 44]⟩,
-  ⟨10, 1, 4, 4, 4, 4, true, false, 1, 64, 4, 0, 4, 4, 16, [0, 4, 8, 12, 16, 20, 24, 28, 32, 36, 40, 44, 48, 52, 56, 60]⟩,
-  ⟨10, 1, 2, 2, 4, 4, true, false, 2, 16, 4, 0, 2, 4, 8, [0, 4, 8, 12]⟩,
-  ⟨10, 1, 2, 3, 4, 4, true, false, 2, 24, 4, 0, 2, 4, 12, [0, 4, 8, 12, 16, 20]⟩,
-  ⟨10, 1, 2, 4, 4, 4, true, false, 2, 32, 4, 0, 2, 4, 16, [0, 4, 8, 12, 16, 20, 24, 28]⟩,
-  ⟨10, 1, 3, 2, 4, 4, true, false, 2, 24, 4, 0, 3, 4, 8, [0, 4, 8, 12, 16, 20]⟩,
-  ⟨10, 1, 3, 3, 4, 4, true, false, 2, 36, 4, 0, 3, 4, 12, [0, 4, 8, 12, 16, 20, 24, 28, 32]⟩,
-  ⟨10, 1, 3, 4, 4, 4, true, false, 2, 48, 4, 0, 3, 4, 16, [0, 4, 8, 12, 16, 20, 24, 28, 32, 36, 40, 44]⟩,
-  ⟨10, 1, 4, 2, 4, 4, true, false, 2, 32, 4, 0, 4, 4, 8, [0, 4, 8, 12, 16, 20, 24, 28]⟩,
-  ⟨10, 1, 4, 3, 4, 4, true, false, 2, 48, 4, 0, 4, 4, 12, [0, 4, 8, 12, 16, 20, 24, 28, 32, 36, 40, 44]⟩,
-  ⟨10, 1, 4, 4, 4, 4, true, false, 2, 64, 4, 0, 4, 4, 16, [0, 4, 8, 12, 16, 20, 24, 28, 32, 36, 40, 44, 48, 52, 56, 60]⟩,
-  ⟨10, 1, 2, 2, 8, 8, true, false, 0, 32, 8, 0, 2, 4, 16, [0, 8, 16, 24]⟩,
-  ⟨10, 1, 2, 3, 8, 8, true, false, 0, 48, 8, 0, 2, 4, 24, [0, 8, 16, 24, 32, 40]⟩,
-  ⟨10, 1, 2, 4, 8, 8, true, false, 0, 64, 8, 0, 2, 4, 32, [0, 8, 16, 24, 32, 40, 48, 56]⟩,
-  ⟨10, 1, 3, 2, 8, 8, true, false, 0, 48, 8, 0, 3, 4, 16, [0, 8, 16, 24, 32, 40]⟩,
-  ⟨10, 1, 3, 3, 8, 8, true, false, 0, 72, 8, 0, 3, 4, 24, [0, 8, 16, 24, 32, 40, 48, 56, 64]⟩,
-  ⟨10, 1, 3, 4, 8, 8, true, false, 0, 96, 8, 0, 3, 4, 32, [0, 8, 16, 24, 32, 40, 48, 56, 64, 72, 80, 88]⟩,
-  ⟨10, 1, 4, 2, 8, 8, true, false, 0, 64, 8, 0, 4, 4, 16, [0, 8, 16, 24, 32, 40, 48, 56]⟩,
-  ⟨10, 1, 4, 3, 8, 8, true, false, 0, 96, 8, 0, 4, 4, 24, [0, 8, 16, 24, 32, 40, 48, 56, 64, 72, 80, 88]⟩,
-  ⟨10, 1, 4, 4, 8, 8, true, false, 0, 128, 8, 0, 4, 4, 32, [0, 8, 16, 24, 32, 40, 48, 56, 64, 72, 80, 88, 96, 104, 112, 120]⟩,
-  ⟨10, 1, 2, 2, 8, 8, true, false, 1, 32, 8, 0, 2, 4, 16, [0, 8, 16, 24]⟩,
-  ⟨10, 1, 2, 3, 8, 8, true, false, 1, 48, 8, 0, 2, 4, 24, [0, 8, 16, 24, 32, 40]⟩,
-  ⟨10, 1, 2, 4, 8, 8, true, false, 1, 64, 8, 0, 2, 4, 32, [0, 8, 16, 24, 32, 40, 48, 56]⟩,
-  ⟨10, 1, 3, 2, 8, 8, true, false, 1, 48, 8, 0, 3, 4, 16, [0, 8, 16, 24, 32, 40]⟩,
-  ⟨10, 1, 3, 3, 8, 8, true, false, 1, 72, 8, 0, 3, 4, 24, [0, 8, 16, 24, 32, 40, 48, 56, 64]⟩,
-  ⟨10, 1, 3, 4, 8, 8, true, false, 1, 96, 8, 0, 3, 4, 32, [0, 8, 16, 24, 32, 40, 48, 56, 64, 72, 80, 88]⟩,
-  ⟨10, 1, 4, 2, 8, 8, true, false, 1, 64, 8, 0, 4, 4, 16, [0, 8, 16, 24, 32, 40, 48, 56]⟩,
-  ⟨10, 1, 4, 3, 8, 8, true, false, 1, 96, 8, 0, 4, 4, 24, [0, 8, 16, 24, 32, 40, 48, 56, 64, 72, 80, 88]⟩,
-  ⟨10, 1, 4, 4, 8, 8, true, false, 1, 128, 8, 0, 4, 4, 32, [0, 8, 16, 24, 32, 40, 48, 56, 64, 72, 80, 88, 96, 104, 112, 120]⟩,
-  ⟨10, 1, 2, 2, 8, 8, true, false, 2, 32, 8, 0, 2, 4, 16, [0, 8, 16, 24]⟩,
-  ⟨10, 1, 2, 3, 8, 8, true, false, 2, 48, 8, 0, 2, 4, 24, [0, 8, 16, 24, 32, 40]⟩,
-  ⟨10, 1, 2, 4, 8, 8, true, false, 2, 64, 8, 0, 2, 4, 32, [0, 8, 16, 24, 32, 40, 48, 56]⟩,
-  ⟨10, 1, 3, 2, 8, 8, true, false, 2, 48, 8, 0, 3, 4, 16, [0, 8, 16, 24, 32, 40]⟩,
-  ⟨10, 1, 3, 3, 8, 8, true, false, 2, 72, 8, 0, 3, 4, 24, [0, 8, 16, 24, 32, 40, 48, 56, 64]⟩,
-  ⟨10, 1, 3, 4, 8, 8, true, false, 2, 96, 8, 0, 3, 4, 32, [0, 8, 16, 24, 32, 40, 48, 56, 64, 72, 80, 88]⟩,
-  ⟨10, 1, 4, 2, 8, 8, true, false, 2, 64, 8, 0, 4, 4, 16, [0, 8, 16, 24, 32, 40, 48, 56]⟩,
-  ⟨10, 1, 4, 3, 8, 8, true, false, 2, 96, 8, 0, 4, 4, 24, [0, 8, 16, 24, 32, 40, 48, 56, 64, 72, 80, 88]⟩,
-  ⟨10, 1, 4, 4, 8, 8, true, false, 2, 128, 8, 0, 4, 4, 32, [0, 8, 16, 24, 32, 40, 48, 56, 64, 72, 80, 88, 96, 104, 112, 120]⟩,
-  ⟨10, 1, 2, 2, 4, 4, false, false, 0, 16, 4, 0, 2, 4, 8, [0, 4, 8, 12]⟩,
-  ⟨10, 1, 2, 3, 4, 4, false, false, 0, 24, 4, 0, 2, 4, 12, [0, 4, 8, 12, 16, 20]⟩,
-  ⟨10, 1, 2, 4, 4, 4, false, false, 0, 32, 4, 0, 2, 4, 16, [0, 4, 8, 12, 16, 20, 24, 28]⟩,
-  ⟨10, 1, 3, 2, 4, 4, false, false, 0, 24, 4, 0, 3, 4, 8, [0, 4, 8, 12, 16, 20]⟩,
-  ⟨10, 1, 3, 3, 4, 4, false, false, 0, 36, 4, 0, 3, 4, 12, [0, 4, 8, 12, 16, 20, 24, 28, 32]⟩,
-  ⟨10, 1, 3, 4, 4, 4, false, false, 0, 48, 4, 0, 3, 4, 16, [0, 4, 8, 12, 16, 20, 24, 28, 32, 36, 40, 44]⟩,
-  ⟨10, 1, 4, 2, 4, 4, false, false, 0, 32, 4, 0, 4, 4, 8, [0, 4, 8, 12, 16, 20, 24, 28]⟩,
-  ⟨10, 1, 4, 3, 4, 4, false, false, 0, 48, 4, 0, 4, 4, 12, [0, 4, 8, 12, 16, 20, 24, 28, 32, 36, 40, 44]⟩,
-  ⟨10, 1, 4, 4, 4, 4, false, false, 0, 64, 4, 0, 4, 4, 16, [0, 4, 8, 12, 16, 20, 24, 28, 32, 36, 40, 44, 48, 52, 56, 60]⟩,
-  ⟨10, 1, 2, 2, 4, 4, false, false, 1, 16, 4, 0, 2, 4, 8, [0, 4, 8, 12]⟩,
-  ⟨10, 1, 2, 3, 4, 4, false, false, 1, 24, 4, 0, 2, 4, 12, [0, 4, 8, 12, 16, 20]⟩,
-  ⟨10, 1, 2, 4, 4, 4, false, false, 1, 32, 4, 0, 2, 4, 16, [0, 4, 8, 12, 16, 20, 24, 28]⟩,
-  ⟨10, 1, 3, 2, 4, 4, false, false, 1, 24, 4, 0, 3, 4, 8, [0, 4, 8, 12, 16, 20]⟩,
-  ⟨10, 1, 3, 3, 4, 4, false, false, 1, 36, 4, 0, 3, 4, 12, [0, 4, 8, 12, 16, 20, 24, 28, 32]⟩,
-  ⟨10, 1, 3, 4, 4, 4, false, false, 1, 48, 4, 0, 3, 4, 16, [0, 4, 8, 12, 16, 20, 24, 28, 32, 36, 40, 44]⟩,
-  ⟨10, 1, 4, 2, 4, 4, false, false, 1, 32, 4, 0, 4, 4, 8, [0, 4, 8, 12, 16, 20, 24, 28]⟩,
-  ⟨10, 1, 4, 3, 4, 4, false, false, 1, 48, 4, 0, 4, 4, 12, [0, 4, 8, 12, 16, 20, 24, 28, 32, 36, 40, 44]⟩,
-  ⟨10, 1, 4, 4, 4, 4, false, false, 1, 64, 4, 0, 4, 4, 16, [0, 4, 8, 12, 16, 20, 24, 28, 32, 36, 40, 44, 48, 52, 56, 60]⟩,
-  ⟨10, 1, 2, 2, 4, 4, false, false, 2, 16, 4, 0, 2, 4, 8, [0, 4, 8, 12]⟩,
-  ⟨10, 1, 2, 3, 4, 4, false, false, 2, 24, 4, 0, 2, 4, 12, [0, 4, 8, 12, 16, 20]⟩,
-  ⟨10, 1, 2, 4, 4, 4, false, false, 2, 32, 4, 0, 2, 4, 16, [0, 4, 8, 12, 16, 20, 24, 28]⟩,
-  ⟨10, 1, 3, 2, 4, 4, false, false, 2, 24, 4, 0, 3, 4, 8, [0, 4, 8, 12, 16, 20]⟩,
-  ⟨10, 1, 3, 3, 4, 4, false, false, 2, 36, 4, 0, 3, 4, 12, [0, 4, 8, 12, 16, 20, 24, 28, 32]⟩,
-  ⟨10, 1, 3, 4, 4, 4, false, false, 2, 48, 4, 0, 3, 4, 16, [0, 4, 8, 12, 16, 20, 24, 28, 32, 36, 40, 44]⟩,
-  ⟨10, 1, 4, 2, 4, 4, false, false, 2, 32, 4, 0, 4, 4, 8, [0, 4, 8, 12, 16, 20, 24, 28]⟩,
-  ⟨10, 1, 4, 3, 4, 4, false, false, 2, 48, 4, 0, 4, 4, 12, [0, 4, 8, 12, 16, 20, 24, 28, 32, 36, 40, 44]⟩,
-  ⟨10, 1, 4, 4, 4, 4, false, false, 2, 64, 4, 0, 4, 4, 16, [0, 4, 8, 12, 16, 20, 24, 28, 32, 36, 40, 44, 48, 52, 56, 60]⟩,
-  ⟨10, 1, 2, 2, 4, 4, false, false, 0, 16, 4, 0, 2, 4, 8, [0, 4, 8, 12]⟩,
-  ⟨10, 1, 2, 3, 4, 4, false, false, 0, 24, 4, 0, 2, 4, 12, [0, 4, 8, 12, 16, 20]⟩,
-  ⟨10, 1, 2, 4, 4, 4, false, false, 0, 32, 4, 0, 2, 4, 16, [0, 4, 8, 12, 16, 20, 24, 28]⟩,
-  ⟨10, 1, 3, 2, 4, 4, false, false, 0, 24, 4, 0, 3, 4, 8, [0, 4, 8, 12, 16, 20]⟩,
-  ⟨10, 1, 3, 3, 4, 4, false, false, 0, 36, 4, 0, 3, 4, 12, [0, 4, 8, 12, 16, 20, 24, 28, 32]⟩,
-  ⟨10, 1, 3, 4, 4, 4, false, false, 0, 48, 4, 0, 3, 4, 16, [0, 4, 8, 12, 16, 20, 24, 28, 32, 36, 40, 44]⟩,
-  ⟨10, 1, 4, 2, 4, 4, false, false, 0, 32, 4, 0, 4, 4, 8, [0, 4, 8, 12, 16, 20, 24, 28]⟩,
-  ⟨10, 1, 4, 3, 4, 4, false, false, 0, 48, 4, 0, 4, 4, 12, [0, 4, 8, 12, 16, 20, 24, 28, 32, 36, 40, 44]⟩,
-  ⟨10, 1, 4, 4, 4, 4, false, false, 0, 64, 4, 0, 4, 4, 16, [0, 4, 8, 12, 16, 20, 24, 28, 32, 36, 40, 44, 48, 52, 56, 60]⟩,
-  ⟨10, 1, 2, 2, 4, 4, false, false, 1, 16, 4, 0, 2, 4, 8, [0, 4, 8, 12]⟩,
-  ⟨10, 1, 2, 3, 4, 4, false, false, 1, 24, 4, 0, 2, 4, 12, [0, 4, 8, 12, 16, 20]⟩,
-  ⟨10, 1, 2, 4, 4, 4, false, false, 1, 32, 4, 0, 2, 4, 16, [0, 4, 8, 12, 16, 20, 24, 28]⟩,
-  ⟨10, 1, 3, 2, 4, 4, false, false, 1, 24, 4, 0, 3, 4, 8, [0, 4, 8, 12, 16, 20]⟩,
-  ⟨10, 1, 3, 3, 4, 4, false, false, 1, 36, 4, 0, 3, 4, 12, [0, 4, 8, 12, 16, 20, 24, 28, 32]⟩,
-  ⟨10, 1, 3, 4, 4, 4, false, false, 1, 48, 4, 0, 3, 4, 16, [0, 4, 8, 12, 16, 20, 24, 28, 32, 36, 40, 44]⟩,
-  ⟨10, 1, 4, 2, 4, 4, false, false, 1, 32, 4, 0, 4, 4, 8, [0, 4, 8, 12, 16, 20, 24, 28]⟩,
-  ⟨10, 1, 4, 3, 4, 4, false, false, 1, 48, 4, 0, 4, 4, 12, [0, 4, 8, 12, 16, 20, 24, 28, 32, 36, 40, 44]⟩,
-  ⟨10, 1, 4, 4, 4, 4, false, false, 1, 64, 4, 0, 4, 4, 16, [0, 4, 8, 12, 16, 20, 24, 28, 32, 36, 40, 44, 48, 52, 56, 60]⟩,
-  ⟨10, 1, 2, 2, 4, 4, false, false, 2, 16, 4, 0, 2, 4, 8, [0, 4, 8, 12]⟩,
-  ⟨10, 1, 2, 3, 4, 4, false, false, 2, 24, 4, 0, 2, 4, 12, [0, 4, 8, 12, 16, 20]⟩,
-  ⟨10, 1, 2, 4, 4, 4, false, false, 2, 32, 4, 0, 2, 4, 16, [0, 4, 8, 12, 16, 20, 24, 28]⟩,
-  ⟨10, 1, 3, 2, 4, 4, false, false, 2, 24, 4, 0, 3, 4, 8, [0, 4, 8, 12, 16, 20]⟩,
-  ⟨10, 1, 3, 3, 4, 4, false, false, 2, 36, 4, 0, 3, 4, 12, [0, 4, 8, 12, 16, 20, 24, 28, 32]⟩,
-  ⟨10, 1, 3, 4, 4, 4, false, false, 2, 48, 4, 0, 3, 4, 16, [0, 4, 8, 12, 16, 20, 24, 28, 32, 36, 40, 44]⟩,
-  ⟨10, 1, 4, 2, 4, 4, false, false, 2, 32, 4, 0, 4, 4, 8, [0, 4, 8, 12, 16, 20, 24, 28]⟩,
-  ⟨10, 1, 4, 3, 4, 4, false, false, 2, 48, 4, 0, 4, 4, 12, [0, 4, 8, 12, 16, 20, 24, 28, 32, 36, 40, 44]⟩,
-  ⟨10, 1, 4, 4, 4, 4, false, false, 2, 64, 4, 0, 4, 4, 16, [0, 4, 8, 12, 16, 20, 24, 28, 32, 36, 40, 44, 48, 52, 56, 60]⟩,
-  ⟨10, 2, 4, 1, 4, 4, true, false, 0, 16, 4, 0, 4, 4, 0, [0, 4, 8, 12]⟩,
-  ⟨10, 2, 4, 1, 4, 4, true, false, 1, 16, 4, 0, 4, 4, 0, [0, 4, 8, 12]⟩,
-  ⟨10, 2, 4, 1, 4, 4, true, false, 2, 16, 4, 0, 4, 4, 0, [0, 4, 8, 12]⟩,
-  ⟨10, 2, 4, 1, 8, 8, true, false, 0, 32, 8, 0, 4, 4, 0, [0, 8, 16, 24]⟩,
-  ⟨10, 2, 4, 1, 8, 8, true, false, 1, 32, 8, 0, 4, 4, 0, [0, 8, 16, 24]⟩,
-  ⟨10, 2, 4, 1, 8, 8, true, false, 2, 32, 8, 0, 4, 4, 0, [0, 8, 16, 24]⟩,
-  ⟨10, 0, 1, 1, 1, 1, false, true, 0, 1, 1, 0, 1, 4, 0, [0]⟩,
-  ⟨10, 0, 2, 1, 1, 1, false, true, 0, 2, 2, 0, 2, 4, 0, [0, 1]⟩,
-  ⟨10, 0, 3, 1, 1, 1, false, true, 0, 4, 4, 0, 3, 4, 0, [0, 1, 2]⟩,
-  ⟨10, 0, 4, 1, 1, 1, false, true, 0, 4, 4, 0, 4, 4, 0, [0, 1, 2, 3]⟩,
-  ⟨10, 0, 1, 1, 1, 1, false, true, 1, 1, 1, 0, 1, 4, 0, [0]⟩,
-  ⟨10, 0, 2, 1, 1, 1, false, true, 1, 2, 2, 0, 2, 4, 0, [0, 1]⟩,
-  ⟨10, 0, 3, 1, 1, 1, false, true, 1, 4, 4, 0, 3, 4, 0, [0, 1, 2]⟩,
-  ⟨10, 0, 4, 1, 1, 1, false, true, 1, 4, 4, 0, 4, 4, 0, [0, 1, 2, 3]⟩,
-  ⟨10, 0, 1, 1, 1, 1, false, true, 2, 1, 1, 0, 1, 4, 0, [0]⟩,
-  ⟨10, 0, 2, 1, 1, 1, false, true, 2, 2, 2, 0, 2, 4, 0, [0, 1]⟩,
-  ⟨10, 0, 3, 1, 1, 1, false, true, 2, 4, 4, 0, 3, 4, 0, [0, 1, 2]⟩,
-  ⟨10, 0, 4, 1, 1, 1, false, true, 2, 4, 4, 0, 4, 4, 0, [0, 1, 2, 3]⟩,
-  ⟨10, 0, 1, 1, 1, 1, false, true, 0, 1, 1, 0, 1, 4, 0, [0]⟩,
-  ⟨10, 0, 2, 1, 1, 1, false, true, 0, 2, 2, 0, 2, 4, 0, [0, 1]⟩,
-  ⟨10, 0, 3, 1, 1, 1, false, true, 0, 4, 4, 0, 3, 4, 0, [0, 1, 2]⟩,
-  ⟨10, 0, 4, 1, 1, 1, false, true, 0, 4, 4, 0, 4, 4, 0, [0, 1, 2, 3]⟩,
-  ⟨10, 0, 1, 1, 1, 1, false, true, 1, 1, 1, 0, 1, 4, 0, [0]⟩,
-  ⟨10, 0, 2, 1, 1, 1, false, true, 1, 2, 2, 0, 2, 4, 0, [0, 1]⟩,
-  ⟨10, 0, 3, 1, 1, 1, false, true, 1, 4, 4, 0, 3, 4, 0, [0, 1, 2]⟩,
-  ⟨10, 0, 4, 1, 1, 1, false, true, 1, 4, 4, 0, 4, 4, 0, [0, 1, 2, 3]⟩,
-  ⟨10, 0, 1, 1, 1, 1, false, true, 2, 1, 1, 0, 1, 4, 0, [0]⟩,
-  ⟨10, 0, 2, 1, 1, 1, false, true, 2, 2, 2, 0, 2, 4, 0, [0, 1]⟩,
-  ⟨10, 0, 3, 1, 1, 1, false, true, 2, 4, 4, 0, 3, 4, 0, [0, 1, 2]⟩,
-  ⟨10, 0, 4, 1, 1, 1, false, true, 2, 4, 4, 0, 4, 4, 0, [0, 1, 2, 3]⟩,
-  ⟨10, 0, 1, 1, 1, 1, false, true, 0, 1, 1, 0, 1, 4, 0, [0]⟩,
-  ⟨10, 0, 2, 1, 1, 1, false, true, 0, 2, 2, 0, 2, 4, 0, [0, 1]⟩,
-  ⟨10, 0, 3, 1, 1, 1, false, true, 0, 4, 4, 0, 3, 4, 0, [0, 1, 2]⟩,
-  ⟨10, 0, 4, 1, 1, 1, false, true, 0, 4, 4, 0, 4, 4, 0, [0, 1, 2, 3]⟩,
-  ⟨10, 0, 1, 1, 1, 1, false, true, 1, 1, 1, 0, 1, 4, 0, [0]⟩,
-  ⟨10, 0, 2, 1, 1, 1, false, true, 1, 2, 2, 0, 2, 4, 0, [0, 1]⟩,
-  ⟨10, 0, 3, 1, 1, 1, false, true, 1, 4, 4, 0, 3, 4, 0, [0, 1, 2]⟩,
-  ⟨10, 0, 4, 1, 1, 1, false, true, 1, 4, 4, 0, 4, 4, 0, [0, 1, 2, 3]⟩,
-  ⟨10, 0, 1, 1, 1, 1, false, true, 2, 1, 1, 0, 1, 4, 0, [0]⟩,
-  ⟨10, 0, 2, 1, 1, 1, false, true, 2, 2, 2, 0, 2, 4, 0, [0, 1]⟩,
-  ⟨10, 0, 3, 1, 1, 1, false, true, 2, 4, 4, 0, 3, 4, 0, [0, 1, 2]⟩,
-  ⟨10, 0, 4, 1, 1, 1, false, true, 2, 4, 4, 0, 4, 4, 0, [0, 1, 2, 3]⟩,
-  ⟨10, 0, 1, 1, 2, 2, false, true, 0, 2, 2, 0, 1, 4, 0, [0]⟩,
-  ⟨10, 0, 2, 1, 2, 2, false, true, 0, 4, 4, 0, 2, 4, 0, [0, 2]⟩,
-  ⟨10, 0, 3, 1, 2, 2, false, true, 0, 8, 8, 0, 3, 4, 0, [0, 2, 4]⟩,
-  ⟨10, 0, 4, 1, 2, 2, false, true, 0, 8, 8, 0, 4, 4, 0, [0, 2, 4, 6]⟩,
-  ⟨10, 0, 1, 1, 2, 2, false, true, 1, 2, 2, 0, 1, 4, 0, [0]⟩,
-  ⟨10, 0, 2, 1, 2, 2, false, true, 1, 4, 4, 0, 2, 4, 0, [0, 2]⟩,
-  ⟨10, 0, 3, 1, 2, 2, false, true, 1, 8, 8, 0, 3, 4, 0, [0, 2, 4]⟩,
-  ⟨10, 0, 4, 1, 2, 2, false, true, 1, 8, 8, 0, 4, 4, 0, [0, 2, 4, 6]⟩,
-  ⟨10, 0, 1, 1, 2, 2, false, true, 2, 2, 2, 0, 1, 4, 0, [0]⟩,
-  ⟨10, 0, 2, 1, 2, 2, false, true, 2, 4, 4, 0, 2, 4, 0, [0, 2]⟩,
-  ⟨10, 0, 3, 1, 2, 2, false, true, 2, 8, 8, 0, 3, 4, 0, [0, 2, 4]⟩,
-  ⟨10, 0, 4, 1, 2, 2, false, true, 2, 8, 8, 0, 4, 4, 0, [0, 2, 4, 6]⟩,
-  ⟨10, 0, 1, 1, 2, 2, false, true, 0, 2, 2, 0, 1, 4, 0, [0]⟩,
-  ⟨10, 0, 2, 1, 2, 2, false, true, 0, 4, 4, 0, 2, 4, 0, [0, 2]⟩,
-  ⟨10, 0, 3, 1, 2, 2, false, true, 0, 8, 8, 0, 3, 4, 0, [0, 2, 4]⟩,
-  ⟨10, 0, 4, 1, 2, 2, false, true, 0, 8, 8, 0, 4, 4, 0, [0, 2, 4, 6]⟩,
-  ⟨10, 0, 1, 1, 2, 2, false, true, 1, 2, 2, 0, 1, 4, 0, [0]⟩,
-  ⟨10, 0, 2, 1, 2, 2, false, true, 1, 4, 4, 0, 2, 4, 0, [0, 2]⟩,
-  ⟨10, 0, 3, 1, 2, 2, false, true, 1, 8, 8, 0, 3, 4, 0, [0, 2, 4]⟩,
-  ⟨10, 0, 4, 1, 2, 2, false, true, 1, 8, 8, 0, 4, 4, 0, [0, 2, 4, 6]⟩,
-  ⟨10, 0, 1, 1, 2, 2, false, true, 2, 2, 2, 0, 1, 4, 0, [0]⟩,
-  ⟨10, 0, 2, 1, 2, 2, false, true, 2, 4, 4, 0, 2, 4, 0, [0, 2]⟩,
-  ⟨10, 0, 3, 1, 2, 2, false, true, 2, 8, 8, 0, 3, 4, 0, [0, 2, 4]⟩,
-  ⟨10, 0, 4, 1, 2, 2, false, true, 2, 8, 8, 0, 4, 4, 0, [0, 2, 4, 6]⟩,
-  ⟨10, 0, 1, 1, 4, 4, false, true, 0, 4, 4, 0, 1, 4, 0, [0]⟩,
-  ⟨10, 0, 2, 1, 4, 4, false, true, 0, 8, 8, 0, 2, 4, 0, [0, 4]⟩,
-  ⟨10, 0, 3, 1, 4, 4, false, true, 0, 16, 16, 0, 3, 4, 0, [0, 4, 8]⟩,
-  ⟨10, 0, 4, 1, 4, 4, false, true, 0, 16, 16, 0, 4, 4, 0, [0, 4, 8, 12]⟩,
-  ⟨10, 0, 1, 1, 4, 4, false, true, 1, 4, 4, 0, 1, 4, 0, [0]⟩,
-  ⟨10, 0, 2, 1, 4, 4, false, true, 1, 8, 8, 0, 2, 4, 0, [0, 4]⟩,
-  ⟨10, 0, 3, 1, 4, 4, false, true, 1, 16, 16, 0, 3, 4, 0, [0, 4, 8]⟩,
-  ⟨10, 0, 4, 1, 4, 4, false, true, 1, 16, 16, 0, 4, 4, 0, [0, 4, 8, 12]⟩,
-  ⟨10, 0, 1, 1, 4, 4, false, true, 2, 4, 4, 0, 1, 4, 0, [0]⟩,
-  ⟨10, 0, 2, 1, 4, 4, false, true, 2, 8, 8, 0, 2, 4, 0, [0, 4]⟩,
-  ⟨10, 0, 3, 1, 4, 4, false, true, 2, 16, 16, 0, 3, 4, 0, [0, 4, 8]⟩,
-  ⟨10, 0, 4, 1, 4, 4, false, true, 2, 16, 16, 0, 4, 4, 0, [0, 4, 8, 12]⟩,
-  ⟨10, 0, 1, 1, 4, 4, false, true, 0, 4, 4, 0, 1, 4, 0, [0]⟩,
-  ⟨10, 0, 2, 1, 4, 4, false, true, 0, 8, 8, 0, 2, 4, 0, [0, 4]⟩,
-  ⟨10, 0, 3, 1, 4, 4, false, true, 0, 16, 16, 0, 3, 4, 0, [0, 4, 8]⟩,
-  ⟨10, 0, 4, 1, 4, 4, false, true, 0, 16, 16, 0, 4, 4, 0, [0, 4, 8, 12]⟩,
-  ⟨10, 0, 1, 1, 4, 4, false, true, 1, 4, 4, 0, 1, 4, 0, [0]⟩,
-  ⟨10, 0, 2, 1, 4, 4, false, true, 1, 8, 8, 0, 2, 4, 0, [0, 4]⟩,
-  ⟨10, 0, 3, 1, 4, 4, false, true, 1, 16, 16, 0, 3, 4, 0, [0, 4, 8]⟩,
-  ⟨10, 0, 4, 1, 4, 4, false, true, 1, 16, 16, 0, 4, 4, 0, [0, 4, 8, 12]⟩,
-  ⟨10, 0, 1, 1, 4, 4, false, true, 2, 4, 4, 0, 1, 4, 0, [0]⟩,
-  ⟨10, 0, 2, 1, 4, 4, false, true, 2, 8, 8, 0, 2, 4, 0, [0, 4]⟩,
-  ⟨10, 0, 3, 1, 4, 4, false, true, 2, 16, 16, 0, 3, 4, 0, [0, 4, 8]⟩,
-  ⟨10, 0, 4, 1, 4, 4, false, true, 2, 16, 16, 0, 4, 4, 0, [0, 4, 8, 12]⟩,
-  ⟨10, 0, 1, 1, 8, 8, false, true, 0, 8, 8, 0, 1, 4, 0, [0]⟩,
-  ⟨10, 0, 2, 1, 8, 8, false, true, 0, 16, 16, 0, 2, 4, 0, [0, 8]⟩,
-  ⟨10, 0, 3, 1, 8, 8, false, true, 0, 32, 32, 0, 3, 4, 0, [0, 8, 16]⟩,
-  ⟨10, 0, 4, 1, 8, 8, false, true, 0, 32, 32, 0, 4, 4, 0, [0, 8, 16, 24]⟩,
-  ⟨10, 0, 1, 1, 8, 8, false, true, 1, 8, 8, 0, 1, 4, 0, [0]⟩,
-  ⟨10, 0, 2, 1, 8, 8, false, true, 1, 16, 16, 0, 2, 4, 0, [0, 8]⟩,
-  ⟨10, 0, 3, 1, 8, 8, false, true, 1, 32, 32, 0, 3, 4, 0, [0, 8, 16]⟩,
-  ⟨10, 0, 4, 1, 8, 8, false, true, 1, 32, 32, 0, 4, 4, 0, [0, 8, 16, 24]⟩,
-  ⟨10, 0, 1, 1, 8, 8, false, true, 2, 8, 8, 0, 1, 4, 0, [0]⟩,
-  ⟨10, 0, 2, 1, 8, 8, false, true, 2, 16, 16, 0, 2, 4, 0, [0, 8]⟩,
-  ⟨10, 0, 3, 1, 8, 8, false, true, 2, 32, 32, 0, 3, 4, 0, [0, 8, 16]⟩,
-  ⟨10, 0, 4, 1, 8, 8, false, true, 2, 32, 32, 0, 4, 4, 0, [0, 8, 16, 24]⟩,
-  ⟨10, 0, 1, 1, 8, 8, false, true, 0, 8, 8, 0, 1, 4, 0, [0]⟩,
-  ⟨10, 0, 2, 1, 8, 8, false, true, 0, 16, 16, 0, 2, 4, 0, [0, 8]⟩,
-  ⟨10, 0, 3, 1, 8, 8, false, true, 0, 32, 16, 0, 3, 4, 0, [0, 8, 16]⟩,
-  ⟨10, 0, 4, 1, 8, 8, false, true, 0, 32, 32, 0, 4, 4, 0, [0, 8, 16, 24]⟩,
-  ⟨10, 0, 1, 1, 8, 8, false, true, 1, 8, 8, 0, 1, 4, 0, [0]⟩,
-  ⟨10, 0, 2, 1, 8, 8, false, true, 1, 16, 16, 0, 2, 4, 0, [0, 8]⟩,
-  ⟨10, 0, 3, 1, 8, 8, false, true, 1, 32, 16, 0, 3, 4, 0, [0, 8, 16]⟩,
-  ⟨10, 0, 4, 1, 8, 8, false, true, 1, 32, 32, 0, 4, 4, 0, [0, 8, 16, 24]⟩,
-  ⟨10, 0, 1, 1, 8, 8, false, true, 2, 8, 8, 0, 1, 4, 0, [0]⟩,
-  ⟨10, 0, 2, 1, 8, 8, false, true, 2, 16, 16, 0, 2, 4, 0, [0, 8]⟩,
-  ⟨10, 0, 3, 1, 8, 8, false, true, 2, 32, 16, 0, 3, 4, 0, [0, 8, 16]⟩,
-  ⟨10, 0, 4, 1, 8, 8, false, true, 2, 32, 32, 0, 4, 4, 0, [0, 8, 16, 24]⟩,
-  ⟨10, 0, 1, 1, 4, 4, true, true, 0, 4, 4, 0, 1, 4, 0, [0]⟩,
-  ⟨10, 0, 2, 1, 4, 4, true, true, 0, 8, 8, 0, 2, 4, 0, [0, 4]⟩,
-  ⟨10, 0, 3, 1, 4, 4, true, true, 0, 16, 16, 0, 3, 4, 0, [0, 4, 8]⟩,
-  ⟨10, 0, 4, 1, 4, 4, true, true, 0, 16, 16, 0, 4, 4, 0, [0, 4, 8, 12]⟩,
-  ⟨10, 0, 1, 1, 4, 4, true, true, 1, 4, 4, 0, 1, 4, 0, [0]⟩,
-  ⟨10, 0, 2, 1, 4, 4, true, true, 1, 8, 8, 0, 2, 4, 0, [0, 4]⟩,
-  ⟨10, 0, 3, 1, 4, 4, true, true, 1, 16, 16, 0, 3, 4, 0, [0, 4, 8]⟩,
-  ⟨10, 0, 4, 1, 4, 4, true, true, 1, 16, 16, 0, 4, 4, 0, [0, 4, 8, 12]⟩,
-  ⟨10, 0, 1, 1, 4, 4, true, true, 2, 4, 4, 0, 1, 4, 0, [0]⟩,
-  ⟨10, 0, 2, 1, 4, 4, true, true, 2, 8, 8, 0, 2, 4, 0, [0, 4]⟩,
-  ⟨10, 0, 3, 1, 4, 4, true, true, 2, 16, 16, 0, 3, 4, 0, [0, 4, 8]⟩,
-  ⟨10, 0, 4, 1, 4, 4, true, true, 2, 16, 16, 0, 4, 4, 0, [0, 4, 8, 12]⟩,
-  ⟨10, 0, 1, 1, 8, 8, true, true, 0, 8, 8, 0, 1, 4, 0, [0]⟩,
-  ⟨10, 0, 2, 1, 8, 8, true, true, 0, 16, 16, 0, 2, 4, 0, [0, 8]⟩,
-  ⟨10, 0, 3, 1, 8, 8, true, true, 0, 32, 16, 0, 3, 4, 0, [0, 8, 16]⟩,
-  ⟨10, 0, 4, 1, 8, 8, true, true, 0, 32, 16, 0, 4, 4, 0, [0, 8, 16, 24]⟩,
-  ⟨10, 0, 1, 1, 8, 8, true, true, 1, 8, 8, 0, 1, 4, 0, [0]⟩,
-  ⟨10, 0, 2, 1, 8, 8, true, true, 1, 16, 16, 0, 2, 4, 0, [0, 8]⟩,
-  ⟨10, 0, 3, 1, 8, 8, true, true, 1, 32, 16, 0, 3, 4, 0, [0, 8, 16]⟩,
-  ⟨10, 0, 4, 1, 8, 8, true, true, 1, 32, 16, 0, 4, 4, 0, [0, 8, 16, 24]⟩,
-  ⟨10, 0, 1, 1, 8, 8, true, true, 2, 8, 8, 0, 1, 4, 0, [0]⟩,
-  ⟨10, 0, 2, 1, 8, 8, true, true, 2, 16, 16, 0, 2, 4, 0, [0, 8]⟩,
-  ⟨10, 0, 3, 1, 8, 8, true, true, 2, 32, 16, 0, 3, 4, 0, [0, 8, 16]⟩,
-  ⟨10, 0, 4, 1, 8, 8, true, true, 2, 32, 16, 0, 4, 4, 0, [0, 8, 16, 24]⟩,
-  ⟨10, 1, 2, 2, 4, 4, true, true, 0, 16, 8, 0, 2, 4, 8, [0, 4, 8, 12]⟩,
-  ⟨10, 1, 2, 3, 4, 4, true, true, 0, 32, 16, 0, 2, 4, 16, [0, 4, 8, 16, 20, 24]⟩,
-  ⟨10, 1, 2, 4, 4, 4, true, true, 0, 32, 16, 0, 2, 4, 16, [0, 4, 8, 12, 16, 20, 24, 28]⟩,
-  ⟨10, 1, 3, 2, 4, 4, true, true, 0, 24, 8, 0, 3, 4, 8, [0, 4, 8, 12, 16, 20]⟩,
-  ⟨10, 1, 3, 3, 4, 4, true, true, 0, 48, 16, 0, 3, 4, 16, [0, 4, 8, 16, 20, 24, 32, 36, 40]⟩,
-  ⟨10, 1, 3, 4, 4, 4, true, true, 0, 48, 16, 0, 3, 4, 16, [0, 4, 8, 12, 16, 20, 24, 28, 32, 36, 40, 44]⟩,
-  ⟨10, 1, 4, 2, 4, 4, true, true, 0, 32, 8, 0, 4, 4, 8, [0, 4, 8, 12, 16, 20, 24, 28]⟩,
-  ⟨10, 1, 4, 3, 4, 4, true, true, 0, 64, 16, 0, 4, 4, 16, [0, 4, 8, 16, 20, 24, 32, 36, 40, 48, 52, 56]⟩,
-  ⟨10, 1, 4, 4, 4, 4, true, true, 0, 64, 16, 0, 4, 4, 16, [0, 4, 8, 12, 16, 20, 24, 28, 32, 36, 40, 44, 48, 52, 56, 60]⟩,
-  ⟨10, 1, 2, 2, 4, 4, true, true, 1, 16, 8, 0, 2, 4, 8, [0, 4, 8, 12]⟩,
-  ⟨10, 1, 2, 3, 4, 4, true, true, 1, 32, 16, 0, 2, 4, 16, [0, 4, 8, 16, 20, 24]⟩,
-  ⟨10, 1, 2, 4, 4, 4, true, true, 1, 32, 16, 0, 2, 4, 16, [0, 4, 8, 12, 16, 20, 24, 28]⟩,
-  ⟨10, 1, 3, 2, 4, 4, true, true, 1, 24, 8, 0, 3, 4, 8, [0, 4, 8, 12, 16, 20]⟩,
-  ⟨10, 1, 3, 3, 4, 4, true, true, 1, 48, 16, 0, 3, 4, 16, [0, 4, 8, 16, 20, 24, 32, 36, 40]⟩,
-  ⟨10, 1, 3, 4, 4, 4, true, true, 1, 48, 16, 0, 3, 4, 16, [0, 4, 8, 12, 16, 20, 24, 28, 32, 36, 40, 44]⟩,
-  ⟨10, 1, 4, 2, 4, 4, true, true, 1, 32, 8, 0, 4, 4, 8, [0, 4, 8, 12, 16, 20, 24, 28]⟩,
-  ⟨10, 1, 4, 3, 4, 4, true, true, 1, 64, 16, 0, 4, 4, 16, [0, 4, 8, 16, 20, 24, 32, 36, 40, 48, 52, 56]⟩,
-  ⟨10, 1, 4, 4, 4, 4, true, true, 1, 64, 16, 0, 4, 4, 16, [0, 4, 8, 12, 16, 20, 24, 28, 32, 36, 40, 44, 48, 52, 56, 60]⟩,
-  ⟨10, 1, 2, 2, 4, 4, true, true, 2, 16, 8, 0, 2, 4, 8, [0, 4, 8, 12]⟩,
-  ⟨10, 1, 2, 3, 4, 4, true, true, 2, 32, 16, 0, 2, 4, 16, [0, 4, 8, 16, 20, 24]⟩,
-  ⟨10, 1, 2, 4, 4, 4, true, true, 2, 32, 16, 0, 2, 4, 16, [0, 4, 8, 12, 16, 20, 24, 28]⟩,
-  ⟨10, 1, 3, 2, 4, 4, true, true, 2, 24, 8, 0, 3, 4, 8, [0, 4, 8, 12, 16, 20]⟩,
-  ⟨10, 1, 3, 3, 4, 4, true, true, 2, 48, 16, 0, 3, 4, 16, [0, 4, 8, 16, 20, 24, 32, 36, 40]⟩,
-  ⟨10, 1, 3, 4, 4, 4, true, true, 2, 48, 16, 0, 3, 4, 16, [0, 4, 8, 12, 16, 20, 24, 28, 32, 36, 40, 44]⟩,
-  ⟨10, 1, 4, 2, 4, 4, true, true, 2, 32, 8, 0, 4, 4, 8, [0, 4, 8, 12, 16, 20, 24, 28]⟩,
-  ⟨10, 1, 4, 3, 4, 4, true, true, 2, 64, 16, 0, 4, 4, 16, [0, 4, 8, 16, 20, 24, 32, 36, 40, 48, 52, 56]⟩,
-  ⟨10, 1, 4, 4, 4, 4, true, true, 2, 64, 16, 0, 4, 4, 16, [0, 4, 8, 12, 16, 20, 24, 28, 32, 36, 40, 44, 48, 52, 56, 60]⟩,
-  ⟨10, 1, 2, 2, 8, 8, true, true, 0, 32, 16, 0, 2, 4, 16, [0, 8, 16, 24]⟩,
-  ⟨10, 1, 2, 3, 8, 8, true, true, 0, 64, 16, 0, 2, 4, 32, [0, 8, 16, 32, 40, 48]⟩,
-  ⟨10, 1, 2, 4, 8, 8, true, true, 0, 64, 16, 0, 2, 4, 32, [0, 8, 16, 24, 32, 40, 48, 56]⟩,
-  ⟨10, 1, 3, 2, 8, 8, true, true, 0, 48, 16, 0, 3, 4, 16, [0, 8, 16, 24, 32, 40]⟩,
-  ⟨10, 1, 3, 3, 8, 8, true, true, 0, 96, 16, 0, 3, 4, 32, [0, 8, 16, 32, 40, 48, 64, 72, 80]⟩,
-  ⟨10, 1, 3, 4, 8, 8, true, true, 0, 96, 16, 0, 3, 4, 32, [0, 8, 16, 24, 32, 40, 48, 56, 64, 72, 80, 88]⟩,
-  ⟨10, 1, 4, 2, 8, 8, true, true, 0, 64, 16, 0, 4, 4, 16, [0, 8, 16, 24, 32, 40, 48, 56]⟩,
-  ⟨10, 1, 4, 3, 8, 8, true, true, 0, 128, 16, 0, 4, 4, 32, [0, 8, 16, 32, 40, 48, 64, 72, 80, 96, 104, 112]⟩,
-  ⟨10, 1, 4, 4, 8, 8, true, true, 0, 128, 16, 0, 4, 4, 32, [0, 8, 16, 24, 32, 40, 48, 56, 64, 72, 80, 88, 96, 104, 112, 120]⟩,
-  ⟨10, 1, 2, 2, 8, 8, true, true, 1, 32, 16, 0, 2, 4, 16, [0, 8, 16, 24]⟩,
-  ⟨10, 1, 2, 3, 8, 8, true, true, 1, 64, 16, 0, 2, 4, 32, [0, 8, 16, 32, 40, 48]⟩,
-  ⟨10, 1, 2, 4, 8, 8, true, true, 1, 64, 16, 0, 2, 4, 32, [0, 8, 16, 24, 32, 40, 48, 56]⟩,
-  ⟨10, 1, 3, 2, 8, 8, true, true, 1, 48, 16, 0, 3, 4, 16, [0, 8, 16, 24, 32, 40]⟩,
-  ⟨10, 1, 3, 3, 8, 8, true, true, 1, 96, 16, 0, 3, 4, 32, [0, 8, 16, 32, 40, 48, 64, 72, 80]⟩,
-  ⟨10, 1, 3, 4, 8, 8, true, true, 1, 96, 16, 0, 3, 4, 32, [0, 8, 16, 24, 32, 40, 48, 56, 64, 72, 80, 88]⟩,
-  ⟨10, 1, 4, 2, 8, 8, true, true, 1, 64, 16, 0, 4, 4, 16, [0, 8, 16, 24, 32, 40, 48, 56]⟩,
-  ⟨10, 1, 4, 3, 8, 8, true, true, 1, 128, 16, 0, 4, 4, 32, [0, 8, 16, 32, 40, 48, 64, 72, 80, 96, 104, 112]⟩,
-  ⟨10, 1, 4, 4, 8, 8, true, true, 1, 128, 16, 0, 4, 4, 32, [0, 8, 16, 24, 32, 40, 48, 56, 64, 72, 80, 88, 96, 104, 112, 120]⟩,
-  ⟨10, 1, 2, 2, 8, 8, true, true, 2, 32, 16, 0, 2, 4, 16, [0, 8, 16, 24]⟩,
-  ⟨10, 1, 2, 3, 8, 8, true, true, 2, 64, 16, 0, 2, 4, 32, [0, 8, 16, 32, 40, 48]⟩,
-  ⟨10, 1, 2, 4, 8, 8, true, true, 2, 64, 16, 0, 2, 4, 32, [0, 8, 16, 24, 32, 40, 48, 56]⟩,
-  ⟨10, 1, 3, 2, 8, 8, true, true, 2, 48, 16, 0, 3, 4, 16, [0, 8, 16, 24, 32, 40]⟩,
-  ⟨10, 1, 3, 3, 8, 8, true, true, 2, 96, 16, 0, 3, 4, 32, [0, 8, 16, 32, 40, 48, 64, 72, 80]⟩,
-  ⟨10, 1, 3, 4, 8, 8, true, true, 2, 96, 16, 0, 3, 4, 32, [0, 8, 16, 24, 32, 40, 48, 56, 64, 72, 80, 88]⟩,
-  ⟨10, 1, 4, 2, 8, 8, true, true, 2, 64, 16, 0, 4, 4, 16, [0, 8, 16, 24, 32, 40, 48, 56]⟩,
-  ⟨10, 1, 4, 3, 8, 8, true, true, 2, 128, 16, 0, 4, 4, 32, [0, 8, 16, 32, 40, 48, 64, 72, 80, 96, 104, 112]⟩,
-  ⟨10, 1, 4, 4, 8, 8, true, true, 2, 128, 16, 0, 4, 4, 32, [0, 8, 16, 24, 32, 40, 48, 56, 64, 72, 80, 88, 96, 104, 112, 120]⟩,
-  ⟨10, 1, 2, 2, 4, 4, false, true, 0, 16, 8, 0, 2, 4, 8, [0, 4, 8, 12]⟩,
-  ⟨10, 1, 2, 3, 4, 4, false, true, 0, 32, 16, 0, 2, 4, 16, [0, 4, 8, 16, 20, 24]⟩,
-  ⟨10, 1, 2, 4, 4, 4, false, true, 0, 32, 16, 0, 2, 4, 16, [0, 4, 8, 12, 16, 20, 24, 28]⟩,
-  ⟨10, 1, 3, 2, 4, 4, false, true, 0, 24, 8, 0, 3, 4, 8, [0, 4, 8, 12, 16, 20]⟩,
-  ⟨10, 1, 3, 3, 4, 4, false, true, 0, 48, 16, 0, 3, 4, 16, [0, 4, 8, 16, 20, 24, 32, 36, 40]⟩,
-  ⟨10, 1, 3, 4, 4, 4, false, true, 0, 48, 16, 0, 3, 4, 16, [0, 4, 8, 12, 16, 20, 24, 28, 32, 36, 40, 44]⟩,
-  ⟨10, 1, 4, 2, 4, 4, false, true, 0, 32, 8, 0, 4, 4, 8, [0, 4, 8, 12, 16, 20, 24, 28]⟩,
-  ⟨10, 1, 4, 3, 4, 4, false, true, 0, 64, 16, 0, 4, 4, 16, [0, 4, 8, 16, 20, 24, 32, 36, 40, 48, 52, 56]⟩,
-  ⟨10, 1, 4, 4, 4, 4, false, true, 0, 64, 16, 0, 4, 4, 16, [0, 4, 8, 12, 16, 20, 24, 28, 32, 36, 40, 44, 48, 52, 56, 60]⟩,
-  ⟨10, 1, 2, 2, 4, 4, false, true, 1, 16, 8, 0, 2, 4, 8, [0, 4, 8, 12]⟩,
-  ⟨10, 1, 2, 3, 4, 4, false, true, 1, 32, 16, 0, 2, 4, 16, [0, 4, 8, 16, 20, 24]⟩,
-  ⟨10, 1, 2, 4, 4, 4, false, true, 1, 32, 16, 0, 2, 4, 16, [0, 4, 8, 12, 16, 20, 24, 28]⟩,
-  ⟨10, 1, 3, 2, 4, 4, false, true, 1, 24, 8, 0, 3, 4, 8, [0, 4, 8, 12, 16, 20]⟩,
-  ⟨10, 1, 3, 3, 4, 4, false, true, 1, 48, 16, 0, 3, 4, 16, [0, 4, 8, 16, 20, 24, 32, 36, 40]⟩,
-  ⟨10, 1, 3, 4, 4, 4, false, true, 1, 48, 16, 0, 3, 4, 16, [0, 4, 8, 12, 16, 20, 24, 28, 32, 36, 40, 44]⟩,
-  ⟨10, 1, 4, 2, 4, 4, false, true, 1, 32, 8, 0, 4, 4, 8, [0, 4, 8, 12, 16, 20, 24, 28]⟩,
-  ⟨10, 1, 4, 3, 4, 4, false, true, 1, 64, 16, 0, 4, 4, 16, [0, 4, 8, 16, 20, 24, 32, 36, 40, 48, 52, 56]⟩,
-  ⟨10, 1, 4, 4, 4, 4, false, true, 1, 64, 16, 0, 4, 4, 16, [0, 4, 8, 12, 16, 20, 24, 28, 32, 36, 40, 44, 48, 52, 56, 60]⟩,
-  ⟨10, 1, 2, 2, 4, 4, false, true, 2, 16, 8, 0, 2, 4, 8, [0, 4, 8, 12]⟩,
-  ⟨10, 1, 2, 3, 4, 4, false, true, 2, 32, 16, 0, 2, 4, 16, [0, 4, 8, 16, 20, 24]⟩,
-  ⟨10, 1, 2, 4, 4, 4, false, true, 2, 32, 16, 0, 2, 4, 16, [0, 4, 8, 12, 16, 20, 24, 28]⟩,
-  ⟨10, 1, 3, 2, 4, 4, false, true, 2, 24, 8, 0, 3, 4, 8, [0, 4, 8, 12, 16, 20]⟩,
-  ⟨10, 1, 3, 3, 4, 4, false, true, 2, 48, 16, 0, 3, 4, 16, [0, 4, 8, 16, 20, 24, 32, 36, 40]⟩,
-  ⟨10, 1, 3, 4, 4, 4, false, true, 2, 48, 16, 0, 3, 4, 16, [0, 4, 8, 12, 16, 20, 24, 28, 32, 36, 40, 44]⟩,
-  ⟨10, 1, 4, 2, 4, 4, false, true, 2, 32, 8, 0, 4, 4, 8, [0, 4, 8, 12, 16, 20, 24, 28]⟩,
-  ⟨10, 1, 4, 3, 4, 4, false, true, 2, 64, 16, 0, 4, 4, 16, [0, 4, 8, 16, 20, 24, 32, 36, 40, 48, 52, 56]⟩,
-  ⟨10, 1, 4, 4, 4, 4, false, true, 2, 64, 16, 0, 4, 4, 16, [0, 4, 8, 12, 16, 20, 24, 28, 32, 36, 40, 44, 48, 52, 56, 60]⟩,
-  ⟨10, 1, 2, 2, 4, 4, false, true, 0, 16, 8, 0, 2, 4, 8, [0, 4, 8, 12]⟩,
-  ⟨10, 1, 2, 3, 4, 4, false, true, 0, 32, 16, 0, 2, 4, 16, [0, 4, 8, 16, 20, 24]⟩,
-  ⟨10, 1, 2, 4, 4, 4, false, true, 0, 32, 16, 0, 2, 4, 16, [0, 4, 8, 12, 16, 20, 24, 28]⟩,
-  ⟨10, 1, 3, 2, 4, 4, false, true, 0, 24, 8, 0, 3, 4, 8, [0, 4, 8, 12, 16, 20]⟩,
-  ⟨10, 1, 3, 3, 4, 4, false, true, 0, 48, 16, 0, 3, 4, 16, [0, 4, 8, 16, 20, 24, 32, 36, 40]⟩,
-  ⟨10, 1, 3, 4, 4, 4, false, true, 0, 48, 16, 0, 3, 4, 16, [0, 4, 8, 12, 16, 20, 24, 28, 32, 36, 40, 44]⟩,
-  ⟨10, 1, 4, 2, 4, 4, false, true, 0, 32, 8, 0, 4, 4, 8, [0, 4, 8, 12, 16, 20, 24, 28]⟩,
-  ⟨10, 1, 4, 3, 4, 4, false, true, 0, 64, 16, 0, 4, 4, 16, [0, 4, 8, 16, 20, 24, 32, 36, 40, 48, 52, 56]⟩,
-  ⟨10, 1, 4, 4, 4, 4, false, true, 0, 64, 16, 0, 4, 4, 16, [0, 4, 8, 12, 16, 20, 24, 28, 32, 36, 40, 44, 48, 52, 56, 60]⟩,
-  ⟨10, 1, 2, 2, 4, 4, false, true, 1, 16, 8, 0, 2, 4, 8, [0, 4, 8, 12]⟩,
-  ⟨10, 1, 2, 3, 4, 4, false, true, 1, 32, 16, 0, 2, 4, 16, [0, 4, 8, 16, 20, 24]⟩,
-  ⟨10, 1, 2, 4, 4, 4, false, true, 1, 32, 16, 0, 2, 4, 16, [0, 4, 8, 12, 16, 20, 24, 28]⟩,
-  ⟨10, 1, 3, 2, 4, 4, false, true, 1, 24, 8, 0, 3, 4, 8, [0, 4, 8, 12, 16, 20]⟩,
-  ⟨10, 1, 3, 3, 4, 4, false, true, 1, 48, 16, 0, 3, 4, 16, [0, 4, 8, 16, 20, 24, 32, 36, 40]⟩,
-  ⟨10, 1, 3, 4, 4, 4, false, true, 1, 48, 16, 0, 3, 4, 16, [0, 4, 8, 12, 16, 20, 24, 28, 32, 36, 40, 44]⟩,
-  ⟨10, 1, 4, 2, 4, 4, false, true, 1, 32, 8, 0, 4, 4, 8, [0, 4, 8, 12, 16, 20, 24, 28]⟩,
-  ⟨10, 1, 4, 3, 4, 4, false, true, 1, 64, 16, 0, 4, 4, 16, [0, 4, 8, 16, 20, 24, 32, 36, 40, 48, 52, 56]⟩,
-  ⟨10, 1, 4, 4, 4, 4, false, true, 1, 64, 16, 0, 4, 4, 16, [0, 4, 8, 12, 16, 20, 24, 28, 32, 36, 40, 44, 48, 52, 56, 60]⟩,
-  ⟨10, 1, 2, 2, 4, 4, false, true, 2, 16, 8, 0, 2, 4, 8, [0, 4, 8, 12]⟩,
-  ⟨10, 1, 2, 3, 4, 4, false, true, 2, 32, 16, 0, 2, 4, 16, [0, 4, 8, 16, 20, 24]⟩,
-  ⟨10, 1, 2, 4, 4, 4, false, true, 2, 32, 16, 0, 2, 4, 16, [0, 4, 8, 12, 16, 20, 24, 28]⟩,
-  ⟨10, 1, 3, 2, 4, 4, false, true, 2, 24, 8, 0, 3, 4, 8, [0, 4, 8, 12, 16, 20]⟩,
-  ⟨10, 1, 3, 3, 4, 4, false, true, 2, 48, 16, 0, 3, 4, 16, [0, 4, 8, 16, 20, 24, 32, 36, 40]⟩,
-  ⟨10, 1, 3, 4, 4, 4, false, true, 2, 48, 16, 0, 3, 4, 16, [0, 4, 8, 12, 16, 20, 24, 28, 32, 36, 40, 44]⟩,
-  ⟨10, 1, 4, 2, 4, 4, false, true, 2, 32, 8, 0, 4, 4, 8, [0, 4, 8, 12, 16, 20, 24, 28]⟩,
-  ⟨10, 1, 4, 3, 4, 4, false, true, 2, 64, 16, 0, 4, 4, 16, [0, 4, 8, 16, 20, 24, 32, 36, 40, 48, 52, 56]⟩,
-  ⟨10, 1, 4, 4, 4, 4, false, true, 2, 64, 16, 0, 4, 4, 16, [0, 4, 8, 12, 16, 20, 24, 28, 32, 36, 40, 44, 48, 52, 56, 60]⟩,
-  ⟨10, 2, 4, 1, 4, 4, true, true, 0, 16, 16, 0, 4, 4, 0, [0, 4, 8, 12]⟩,
-  ⟨10, 2, 4, 1, 4, 4, true, true, 1, 16, 16, 0, 4, 4, 0, [0, 4, 8, 12]⟩,
-  ⟨10, 2, 4, 1, 4, 4, true, true, 2, 16, 16, 0, 4, 4, 0, [0, 4, 8, 12]⟩,
-  ⟨10, 2, 4, 1, 8, 8, true, true, 0, 32, 16, 0, 4, 4, 0, [0, 8, 16, 24]⟩,
-  ⟨10, 2, 4, 1, 8, 8, true, true, 1, 32, 16, 0, 4, 4, 0, [0, 8, 16, 24]⟩,
-  ⟨10, 2, 4, 1, 8, 8, true, true, 2, 32, 16, 0, 4, 4, 0, [0, 8, 16, 24]⟩,
-  ⟨11, 0, 1, 1, 1, 1, false, false, 0, 1, 1, 0, 1, 4, 0, [0]⟩,
-  ⟨11, 0, 2, 1, 1, 1, false, false, 0, 2, 1, 0, 2, 4, 0, [0, 1]⟩,
-  ⟨11, 0, 3, 1, 1, 1, false, false, 0, 3, 1, 0, 3, 4, 0, [0, 1, 2]⟩,
-  ⟨11, 0, 4, 1, 1, 1, false, false, 0, 4, 1, 0, 4, 4, 0, [0, 1, 2, 3]⟩,
-  ⟨11, 0, 1, 1, 1, 1, false, false, 1, 1, 1, 0, 1, 4, 0, [0]⟩,
-  ⟨11, 0, 2, 1, 1, 1, false, false, 1, 2, 1, 0, 2, 4, 0, [0, 1]⟩,
-  ⟨11, 0, 3, 1, 1, 1, false, false, 1, 3, 1, 0, 3, 4, 0, [0, 1, 2]⟩,
-  ⟨11, 0, 4, 1, 1, 1, false, false, 1, 4, 1, 0, 4, 4, 0, [0, 1, 2, 3]⟩,
-  ⟨11, 0, 1, 1, 1, 1, false, false, 2, 1, 1, 0, 1, 4, 0, [0]⟩,
-  ⟨11, 0, 2, 1, 1, 1, false, false, 2, 2, 1, 0, 2, 4, 0, [0, 1]⟩,
-  ⟨11, 0, 3, 1, 1, 1, false, false, 2, 3, 1, 0, 3, 4, 0, [0, 1, 2]⟩,
-  ⟨11, 0, 4, 1, 1, 1, false, false, 2, 4, 1, 0, 4, 4, 0, [0, 1, 2, 3]⟩,
-  ⟨11, 0, 1, 1, 1, 1, false, false, 0, 1, 1, 0, 1, 4, 0, [0]⟩,
-  ⟨11, 0, 2, 1, 1, 1, false, false, 0, 2, 1, 0, 2, 4, 0, [0, 1]⟩,
-  ⟨11, 0, 3, 1, 1, 1, false, false, 0, 3, 1, 0, 3, 4, 0, [0, 1, 2]⟩,
-  ⟨11, 0, 4, 1, 1, 1, false, false, 0, 4, 1, 0, 4, 4, 0, [0, 1, 2, 3]⟩,
-  ⟨11, 0, 1, 1, 1, 1, false, false, 1, 1, 1, 0, 1, 4, 0, [0]⟩,
-  ⟨11, 0, 2, 1, 1, 1, false, false, 1, 2, 1, 0, 2, 4, 0, [0, 1]⟩,
-  ⟨11, 0, 3, 1, 1, 1, false, false, 1, 3, 1, 0, 3, 4, 0, [0, 1, 2]⟩,
-  ⟨11, 0, 4, 1, 1, 1, false, false, 1, 4, 1, 0, 4, 4, 0, [0, 1, 2, 3]⟩,
-  ⟨11, 0, 1, 1, 1, 1, false, false, 2, 1, 1, 0, 1, 4, 0, [0]⟩,
-  ⟨11, 0, 2, 1, 1, 1, false, false, 2, 2, 1, 0, 2, 4, 0, [0, 1]⟩,
-  ⟨11, 0, 3, 1, 1, 1, false, false, 2, 3, 1, 0, 3, 4, 0, [0, 1, 2]⟩,
-  ⟨11, 0, 4, 1, 1, 1, false, false, 2, 4, 1, 0, 4, 4, 0, [0, 1, 2, 3]⟩,
-  ⟨11, 0, 1, 1, 1, 1, false, false, 0, 1, 1, 0, 1, 4, 0, [0]⟩,
-  ⟨11, 0, 2, 1, 1, 1, false, false, 0, 2, 1, 0, 2, 4, 0, [0, 1]⟩,
-  ⟨11, 0, 3, 1, 1, 1, false, false, 0, 3, 1, 0, 3, 4, 0, [0, 1, 2]⟩,
-  ⟨11, 0, 4, 1, 1, 1, false, false, 0, 4, 1, 0, 4, 4, 0, [0, 1, 2, 3]⟩,
-  ⟨11, 0, 1, 1, 1, 1, false, false, 1, 1, 1, 0, 1, 4, 0, [0]⟩,
-  ⟨11, 0, 2, 1, 1, 1, false, false, 1, 2, 1, 0, 2, 4, 0, [0, 1]⟩,
-  ⟨11, 0, 3, 1, 1, 1, false, false, 1, 3, 1, 0, 3, 4, 0, [0, 1, 2]⟩,
-  ⟨11, 0, 4, 1, 1, 1, false, false, 1, 4, 1, 0, 4, 4, 0, [0, 1, 2, 3]⟩,
-  ⟨11, 0, 1, 1, 1, 1, false, false, 2, 1, 1, 0, 1, 4, 0, [0]⟩,
-  ⟨11, 0, 2, 1, 1, 1, false, false, 2, 2, 1, 0, 2, 4, 0, [0, 1]⟩,
-  ⟨11, 0, 3, 1, 1, 1, false, false, 2, 3, 1, 0, 3, 4, 0, [0, 1, 2]⟩,
-  ⟨11, 0, 4, 1, 1, 1, false, false, 2, 4, 1, 0, 4, 4, 0, [0, 1, 2, 3]⟩,
-  ⟨11, 0, 1, 1, 2, 2, false, false, 0, 2, 2, 0, 1, 4, 0, [0]⟩,
-  ⟨11, 0, 2, 1, 2, 2, false, false, 0, 4, 2, 0, 2, 4, 0, [0, 2]⟩,
-  ⟨11, 0, 3, 1, 2, 2, false, false, 0, 6, 2, 0, 3, 4, 0, [0, 2, 4]⟩,
-  ⟨11, 0, 4, 1, 2, 2, false, false, 0, 8, 2, 0, 4, 4, 0, [0, 2, 4, 6]⟩,
-  ⟨11, 0, 1, 1, 2, 2, false, false, 1, 2, 2, 0, 1, 4, 0, [0]⟩,
-  ⟨11, 0, 2, 1, 2, 2, false, false, 1, 4, 2, 0, 2, 4, 0, [0, 2]⟩,
-  ⟨11, 0, 3, 1, 2, 2, false, false, 1, 6, 2, 0, 3, 4, 0, [0, 2, 4]⟩,
-  ⟨11, 0, 4, 1, 2, 2, false, false, 1, 8, 2, 0, 4, 4, 0, [0, 2, 4, 6]⟩,
-  ⟨11, 0, 1, 1, 2, 2, false, false, 2, 2, 2, 0, 1, 4, 0, [0]⟩,
-  ⟨11, 0, 2, 1, 2, 2, false, false, 2, 4, 2, 0, 2, 4, 0, [0, 2]⟩,
-  ⟨11, 0, 3, 1, 2, 2, false, false, 2, 6, 2, 0, 3, 4, 0, [0, 2, 4]⟩,
-  ⟨11, 0, 4, 1, 2, 2, false, false, 2, 8, 2, 0, 4, 4, 0, [0, 2, 4, 6]⟩,
-  ⟨11, 0, 1, 1, 2, 2, false, false, 0, 2, 2, 0, 1, 4, 0, [0]⟩,
-  ⟨11, 0, 2, 1, 2, 2, false, false, 0, 4, 2, 0, 2, 4, 0, [0, 2]⟩,
-  ⟨11, 0, 3, 1, 2, 2, false, false, 0, 6, 2, 0, 3, 4, 0, [0, 2, 4]⟩,
-  ⟨11, 0, 4, 1, 2, 2, false, false, 0, 8, 2, 0, 4, 4, 0, [0, 2, 4, 6]⟩,
-  ⟨11, 0, 1, 1, 2, 2, false, false, 1, 2, 2, 0, 1, 4, 0, [0]⟩,
-  ⟨11, 0, 2, 1, 2, 2, false, false, 1, 4, 2, 0, 2, 4, 0, [0, 2]⟩,
-  ⟨11, 0, 3, 1, 2, 2, false, false, 1, 6, 2, 0, 3, 4, 0, [0, 2, 4]⟩,
-  ⟨11, 0, 4, 1, 2, 2, false, false, 1, 8, 2, 0, 4, 4, 0, [0, 2, 4, 6]⟩,
-  ⟨11, 0, 1, 1, 2, 2, false, false, 2, 2, 2, 0, 1, 4, 0, [0]⟩,
-  ⟨11, 0, 2, 1, 2, 2, false, false, 2, 4, 2, 0, 2, 4, 0, [0, 2]⟩,
-  ⟨11, 0, 3, 1, 2, 2, false, false, 2, 6, 2, 0, 3, 4, 0, [0, 2, 4]⟩,
-  ⟨11, 0, 4, 1, 2, 2, false, false, 2, 8, 2, 0, 4, 4, 0, [0, 2, 4, 6]⟩,
-  ⟨11, 0, 1, 1, 4, 4, false, false, 0, 4, 4, 0, 1, 4, 0, [0]⟩,
-  ⟨11, 0, 2, 1, 4, 4, false, false, 0, 8, 4, 0, 2, 4, 0, [0, 4]⟩,
-  ⟨11, 0, 3, 1, 4, 4, false, false, 0, 12, 4, 0, 3, 4, 0, [0, 4, 8]⟩,
-  ⟨11, 0, 4, 1, 4, 4, false, false, 0, 16, 4, 0, 4, 4, 0, [0, 4, 8, 12]⟩,
-  ⟨11, 0, 1, 1, 4, 4, false, false, 1, 4, 4, 0, 1, 4, 0, [0]⟩,
-  ⟨11, 0, 2, 1, 4, 4, false, false, 1, 8, 4, 0, 2, 4, 0, [0, 4]⟩,
-  ⟨11, 0, 3, 1, 4, 4, false, false, 1, 12, 4, 0, 3, 4, 0, [0, 4, 8]⟩,
-  ⟨11, 0, 4, 1, 4, 4, false, false, 1, 16, 4, 0, 4, 4, 0, [0, 4, 8, 12]⟩,
-  ⟨11, 0, 1, 1, 4, 4, false, false, 2, 4, 4, 0, 1, 4, 0, [0]⟩,
-  ⟨11, 0, 2, 1, 4, 4, false, false, 2, 8, 4, 0, 2, 4, 0, [0, 4]⟩,
-  ⟨11, 0, 3, 1, 4, 4, false, false, 2, 12, 4, 0, 3, 4, 0, [0, 4, 8]⟩,
-  ⟨11, 0, 4, 1, 4, 4, false, false, 2, 16, 4, 0, 4, 4, 0, [0, 4, 8, 12]⟩,
-  ⟨11, 0, 1, 1, 4, 4, false, false, 0, 4, 4, 0, 1, 4, 0, [0]⟩,
-  ⟨11, 0, 2, 1, 4, 4, false, false, 0, 8, 4, 0, 2, 4, 0, [0, 4]⟩,
-  ⟨11, 0, 3, 1, 4, 4, false, false, 0, 12, 4, 0, 3, 4, 0, [0, 4, 8]⟩,
-  ⟨11, 0, 4, 1, 4, 4, false, false, 0, 16, 4, 0, 4, 4, 0, [0, 4, 8, 12]⟩,
-  ⟨11, 0, 1, 1, 4, 4, false, false, 1, 4, 4, 0, 1, 4, 0, [0]⟩,
-  ⟨11, 0, 2, 1, 4, 4, false, false, 1, 8, 4, 0, 2, 4, 0, [0, 4]⟩,
-  ⟨11, 0, 3, 1, 4, 4, false, false, 1, 12, 4, 0, 3, 4, 0, [0, 4, 8]⟩,
-  ⟨11, 0, 4, 1, 4, 4, false, false, 1, 16, 4, 0, 4, 4, 0, [0, 4, 8, 12]⟩,
-  ⟨11, 0, 1, 1, 4, 4, false, false, 2, 4, 4, 0, 1, 4, 0, [0]⟩,
-  ⟨11, 0, 2, 1, 4, 4, false, false, 2, 8, 4, 0, 2, 4, 0, [0, 4]⟩,
-  ⟨11, 0, 3, 1, 4, 4, false, false, 2, 12, 4, 0, 3, 4, 0, [0, 4, 8]⟩,
-  ⟨11, 0, 4, 1, 4, 4, false, false, 2, 16, 4, 0, 4, 4, 0, [0, 4, 8, 12]⟩,
-  ⟨11, 0, 1, 1, 8, 8, false, false, 0, 8, 8, 0, 1, 4, 0, [0]⟩,
-  ⟨11, 0, 2, 1, 8, 8, false, false, 0, 16, 8, 0, 2, 4, 0, [0, 8]⟩,
-  ⟨11, 0, 3, 1, 8, 8, false, false, 0, 24, 8, 0, 3, 4, 0, [0, 8, 16]⟩,
-  ⟨11, 0, 4, 1, 8, 8, false, false, 0, 32, 8, 0, 4, 4, 0, [0, 8, 16, 24]⟩,
-  ⟨11, 0, 1, 1, 8, 8, false, false, 1, 8, 8, 0, 1, 4, 0, [0]⟩,
-  ⟨11, 0, 2, 1, 8, 8, false, false, 1, 16, 8, 0, 2, 4, 0, [0, 8]⟩,
-  ⟨11, 0, 3, 1, 8, 8, false, false, 1, 24, 8, 0, 3, 4, 0, [0, 8, 16]⟩,
-  ⟨11, 0, 4, 1, 8, 8, false, false, 1, 32, 8, 0, 4, 4, 0, [0, 8, 16, 24]⟩,
-  ⟨11, 0, 1, 1, 8, 8, false, false, 2, 8, 8, 0, 1, 4, 0, [0]⟩,
-  ⟨11, 0, 2, 1, 8, 8, false, false, 2, 16, 8, 0, 2, 4, 0, [0, 8]⟩,
-  ⟨11, 0, 3, 1, 8, 8, false, false, 2, 24, 8, 0, 3, 4, 0, [0, 8, 16]⟩,
-  ⟨11, 0, 4, 1, 8, 8, false, false, 2, 32, 8, 0, 4, 4, 0, [0, 8, 16, 24]⟩,
-  ⟨11, 0, 1, 1, 8, 8, false, false, 0, 8, 8, 0, 1, 4, 0, [0]⟩,
-  ⟨11, 0, 2, 1, 8, 8, false, false, 0, 16, 8, 0, 2, 4, 0, [0, 8]⟩,
-  ⟨11, 0, 3, 1, 8, 8, false, false, 0, 24, 8, 0, 3, 4, 0, [0, 8, 16]⟩,
-  ⟨11, 0, 4, 1, 8, 8, false, false, 0, 32, 8, 0, 4, 4, 0, [0, 8, 16, 24]⟩,
-  ⟨11, 0, 1, 1, 8, 8, false, false, 1, 8, 8, 0, 1, 4, 0, [0]⟩,
-  ⟨11, 0, 2, 1, 8, 8, false, false, 1, 16, 8, 0, 2, 4, 0, [0, 8]⟩,
-  ⟨11, 0, 3, 1, 8, 8, false, false, 1, 24, 8, 0, 3, 4, 0, [0, 8, 16]⟩,
-  ⟨11, 0, 4, 1, 8, 8, false, false, 1, 32, 8, 0, 4, 4, 0, [0, 8, 16, 24]⟩,
-  ⟨11, 0, 1, 1, 8, 8, false, false, 2, 8, 8, 0, 1, 4, 0, [0]⟩,
-  ⟨11, 0, 2, 1, 8, 8, false, false, 2, 16, 8, 0, 2, 4, 0, [0, 8]⟩,
-  ⟨11, 0, 3, 1, 8, 8, false, false, 2, 24, 8, 0, 3, 4, 0, [0, 8, 16]⟩,
-  ⟨11, 0, 4, 1, 8, 8, false, false, 2, 32, 8, 0, 4, 4, 0, [0, 8, 16, 24]⟩,
-  ⟨11, 0, 1, 1, 4, 4, true, false, 0, 4, 4, 0, 1, 4, 0, [0]⟩,
-  ⟨11, 0, 2, 1, 4, 4, true, false, 0, 8, 4, 0, 2, 4, 0, [0, 4]⟩,
-  ⟨11, 0, 3, 1, 4, 4, true, false, 0, 12, 4, 0, 3, 4, 0, [0, 4, 8]⟩,
-  ⟨11, 0, 4, 1, 4, 4, true, false, 0, 16, 4, 0, 4, 4, 0, [0, 4, 8, 12]⟩,
-  ⟨11, 0, 1, 1, 4, 4, true, false, 1, 4, 4, 0, 1, 4, 0, [0]⟩,
-  ⟨11, 0, 2, 1, 4, 4, true, false, 1, 8, 4, 0, 2, 4, 0, [0, 4]⟩,
-  ⟨11, 0, 3, 1, 4, 4, true, false, 1, 12, 4, 0, 3, 4, 0, [0, 4, 8]⟩,
-  ⟨11, 0, 4, 1, 4, 4, true, false, 1, 16, 4, 0, 4, 4, 0, [0, 4, 8, 12]⟩,
-  ⟨11, 0, 1, 1, 4, 4, true, false, 2, 4, 4, 0, 1, 4, 0, [0]⟩,
-  ⟨11, 0, 2, 1, 4, 4, true, false, 2, 8, 4, 0, 2, 4, 0, [0, 4]⟩,
-  ⟨11, 0, 3, 1, 4, 4, true, false, 2, 12, 4, 0, 3, 4, 0, [0, 4, 8]⟩,
-  ⟨11, 0, 4, 1, 4, 4, true, false, 2, 16, 4, 0, 4, 4, 0, [0, 4, 8, 12]⟩,
-  ⟨11, 0, 1, 1, 8, 8, true, false, 0, 8, 8, 0, 1, 4, 0, [0]⟩,
-  ⟨11, 0, 2, 1, 8, 8, true, false, 0, 16, 8, 0, 2, 4, 0, [0, 8]⟩,
-  ⟨11, 0, 3, 1, 8, 8, true, false, 0, 24, 8, 0, 3, 4, 0, [0, 8, 16]⟩,
-  ⟨11, 0, 4, 1, 8, 8, true, false, 0, 32, 8, 0, 4, 4, 0, [0, 8, 16, 24]⟩,
-  ⟨11, 0, 1, 1, 8, 8, true, false, 1, 8, 8, 0, 1, 4, 0, [0]⟩,
-  ⟨11, 0, 2, 1, 8, 8, true, false, 1, 16, 8, 0, 2, 4, 0, [0, 8]⟩,
-  ⟨11, 0, 3, 1, 8, 8, true, false, 1, 24, 8, 0, 3, 4, 0, [0, 8, 16]⟩,
-  ⟨11, 0, 4, 1, 8, 8, true, false, 1, 32, 8, 0, 4, 4, 0, [0, 8, 16, 24]⟩,
-  ⟨11, 0, 1, 1, 8, 8, true, false, 2, 8, 8, 0, 1, 4, 0, [0]⟩,
-  ⟨11, 0, 2, 1, 8, 8, true, false, 2, 16, 8, 0, 2, 4, 0, [0, 8]⟩,
-  ⟨11, 0, 3, 1, 8, 8, true, false, 2, 24, 8, 0, 3, 4, 0, [0, 8, 16]⟩,
-  ⟨11, 0, 4, 1, 8, 8, true, false, 2, 32, 8, 0, 4, 4, 0, [0, 8, 16, 24]⟩,
-  ⟨11, 1, 2, 2, 4, 4, true, false, 0, 16, 4, 0, 2, 4, 8, [0, 4, 8, 12]⟩,
-  ⟨11, 1, 2, 3, 4, 4, true, false, 0, 24, 4, 0, 2, 4, 12, [0, 4, 8, 12, 16, 20]⟩,
-  ⟨11, 1, 2, 4, 4, 4, true, false, 0, 32, 4, 0, 2, 4, 16, [0, 4, 8, 12, 16, 20, 24, 28]⟩,
-  ⟨11, 1, 3, 2, 4, 4, true, false, 0, 24, 4, 0, 3, 4, 8, [0, 4, 8, 12, 16, 20]⟩,
-  ⟨11, 1, 3, 3, 4, 4, true, false, 0, 36, 4, 0, 3, 4, 12, [0, 4, 8, 12, 16, 20, 24, 28, 32]⟩,
-  ⟨11, 1, 3, 4, 4, 4, true, false, 0, 48, 4, 0, 3, 4, 16, [0, 4, 8, 12, 16, 20, 24, 28, 32, 36, 40, 44]⟩,
-  ⟨11, 1, 4, 2, 4, 4, true, false, 0, 32, 4, 0, 4, 4, 8, [0, 4, 8, 12, 16, 20, 24, 28]⟩,
-  ⟨11, 1, 4, 3, 4, 4, true, false, 0, 48, 4, 0, 4, 4, 12, [0, 4, 8, 12, 16, 20, 24, 28, 32, 36, 40, 44]⟩,
-  ⟨11, 1, 4, 4, 4, 4, true, false, 0, 64, 4, 0, 4, 4, 16, [0, 4, 8, 12, 16, 20, 24, 28, 32, 36, 40, 44, 48, 52, 56, 60]⟩,
-  ⟨11, 1, 2, 2, 4, 4, true, false, 1, 16, 4, 0, 2, 4, 8, [0, 4, 8, 12]⟩,
-  ⟨11, 1, 2, 3, 4, 4, true, false, 1, 24, 4, 0, 2, 4, 12, [0, 4, 8, 12, 16, 20]⟩,
-  ⟨11, 1, 2, 4, 4, 4, true, false, 1, 32, 4, 0, 2, 4, 16, [0, 4, 8, 12, 16, 20, 24, 28]⟩,
-  ⟨11, 1, 3, 2, 4, 4, true, false, 1, 24, 4, 0, 3, 4, 8, [0, 4, 8, 12, 16, 20]⟩,
-  ⟨11, 1, 3, 3, 4, 4, true, false, 1, 36, 4, 0, 3, 4, 12, [0, 4, 8, 12, 16, 20, 24, 28, 32]⟩,
-  ⟨11, 1, 3, 4, 4, 4, true, false, 1, 48, 4, 0, 3, 4, 16, [0, 4, 8, 12, 16, 20, 24, 28, 32, 36, 40, 44]⟩,
-  ⟨11, 1, 4, 2, 4, 4, true, false, 1, 32, 4, 0, 4, 4, 8, [0, 4, 8, 12, 16, 20, 24, 28]⟩,
-  ⟨11, 1, 4, 3, 4, 4, true, false, 1, 48, 4, 0, 4, 4, 12, [0, 4, 8, 12, 16, 20, 24, 28, 32, 36, 40, 44]⟩,
-  ⟨11, 1, 4, 4, 4, 4, true, false, 1, 64, 4, 0, 4, 4, 16, [0, 4, 8, 12, 16, 20, 24, 28, 32, 36, 40, 44, 48, 52, 56, 60]⟩,
-  ⟨11, 1, 2, 2, 4, 4, true, false, 2, 16, 4, 0, 2, 4, 8, [0, 4, 8, 12]⟩,
-  ⟨11, 1, 2, 3, 4, 4, true, false, 2, 24, 4, 0, 2, 4, 12, [0, 4, 8, 12, 16, 20]⟩,
-  ⟨11, 1, 2, 4, 4, 4, true, false, 2, 32, 4, 0, 2, 4, 16, [0, 4, 8, 12, 16, 20, 24, 28]⟩,
-  ⟨11, 1, 3, 2, 4, 4, true, false, 2, 24, 4, 0, 3, 4, 8, [0, 4, 8, 12, 16, 20]⟩,
-  ⟨11, 1, 3, 3, 4, 4, true, false, 2, 36, 4, 0, 3, 4, 12, [0, 4, 8, 12, 16, 20, 24, 28, 32]⟩,
-  ⟨11, 1, 3, 4, 4, 4, true, false, 2, 48, 4, 0, 3, 4, 16, [0, 4, 8, 12, 16, 20, 24, 28, 32, 36, 40, 44]⟩,
-  ⟨11, 1, 4, 2, 4, 4, true, false, 2, 32, 4, 0, 4, 4, 8, [0, 4, 8, 12, 16, 20, 24, 28]⟩,
-  ⟨11, 1, 4, 3, 4, 4, true, false, 2, 48, 4, 0, 4, 4, 12, [0, 4, 8, 12, 16, 20, 24, 28, 32, 36, 40, 44]⟩,
-  ⟨11, 1, 4, 4, 4, 4, true, false, 2, 64, 4, 0, 4, 4, 16, [0, 4, 8, 12, 16, 20, 24, 28, 32, 36, 40, 44, 48, 52, 56, 60]⟩,
-  ⟨11, 1, 2, 2, 8, 8, true, false, 0, 32, 8, 0, 2, 4, 16, [0, 8, 16, 24]⟩,
-  ⟨11, 1, 2, 3, 8, 8, true, false, 0, 48, 8, 0, 2, 4, 24, [0, 8, 16, 24, 32, 40]⟩,
-  ⟨11, 1, 2, 4, 8, 8, true, false, 0, 64, 8, 0, 2, 4, 32, [0, 8, 16, 24, 32, 40, 48, 56]⟩,
-  ⟨11, 1, 3, 2, 8, 8, true, false, 0, 48, 8, 0, 3, 4, 16, [0, 8, 16, 24, 32, 40]⟩,
-  ⟨11, 1, 3, 3, 8, 8, true, false, 0, 72, 8, 0, 3, 4, 24, [0, 8, 16, 24, 32, 40, 48, 56, 64]⟩,
-  ⟨11, 1, 3, 4, 8, 8, true, false, 0, 96, 8, 0, 3, 4, 32, [0, 8, 16, 24, 32, 40, 48, 56, 64, 72, 80, 88]⟩,
-  ⟨11, 1, 4, 2, 8, 8, true, false, 0, 64, 8, 0, 4, 4, 16, [0, 8, 16, 24, 32, 40, 48, 56]⟩,
-  ⟨11, 1, 4, 3, 8, 8, true, false, 0, 96, 8, 0, 4, 4, 24, [0, 8, 16, 24, 32, 40, 48, 56, 64, 72, 80, 88]⟩,
-  ⟨11, 1, 4, 4, 8, 8, true, false, 0, 128, 8, 0, 4, 4, 32, [0, 8, 16, 24, 32, 40, 48, 56, 64, 72, 80, 88, 96, 104, 112, 120]⟩,
-  ⟨11, 1, 2, 2, 8, 8, true, false, 1, 32, 8, 0, 2, 4, 16, [0, 8, 16, 24]⟩,
-  ⟨11, 1, 2, 3, 8, 8, true, false, 1, 48, 8, 0, 2, 4, 24, [0, 8, 16, 24, 32, 40]⟩,
-  ⟨11, 1, 2, 4, 8, 8, true, false, 1, 64, 8, 0, 2, 4, 32, [0, 8, 16, 24, 32, 40, 48, 56]⟩,
-  ⟨11, 1, 3, 2, 8, 8, true, false, 1, 48, 8, 0, 3, 4, 16, [0, 8, 16, 24, 32, 40]⟩,
-  ⟨11, 1, 3, 3, 8, 8, true, false, 1, 72, 8, 0, 3, 4, 24, [0, 8, 16, 24, 32, 40, 48, 56, 64]⟩,
-  ⟨11, 1, 3, 4, 8, 8, true, false, 1, 96, 8, 0, 3, 4, 32, [0, 8, 16, 24, 32, 40, 48, 56, 64, 72, 80, 88]⟩,
-  ⟨11, 1, 4, 2, 8, 8, true, false, 1, 64, 8, 0, 4, 4, 16, [0, 8, 16, 24, 32, 40, 48, 56]⟩,
-  ⟨11, 1, 4, 3, 8, 8, true, false, 1, 96, 8, 0, 4, 4, 24, [0, 8, 16, 24, 32, 40, 48, 56, 64, 72, 80, 88]⟩,
-  ⟨11, 1, 4, 4, 8, 8, true, false, 1, 128, 8, 0, 4, 4, 32, [0, 8, 16, 24, 32, 40, 48, 56, 64, 72, 80, 88, 96, 104, 112, 120]⟩,
-  ⟨11, 1, 2, 2, 8, 8, true, false, 2, 32, 8, 0, 2, 4, 16, [0, 8, 16, 24]⟩,
-  ⟨11, 1, 2, 3, 8, 8, true, false, 2, 48, 8, 0, 2, 4, 24, [0, 8, 16, 24, 32, 40]⟩,
-  ⟨11, 1, 2, 4, 8, 8, true, false, 2, 64, 8, 0, 2, 4, 32, [0, 8, 16, 24, 32, 40, 48, 56]⟩,
-  ⟨11, 1, 3, 2, 8, 8, true, false, 2, 48, 8, 0, 3, 4, 16, [0, 8, 16, 24, 32, 40]⟩,
-  ⟨11, 1, 3, 3, 8, 8, true, false, 2, 72, 8, 0, 3, 4, 24, [0, 8, 16, 24, 32, 40, 48, 56, 64]⟩,
-  ⟨11, 1, 3, 4, 8, 8, true, false, 2, 96, 8, 0, 3, 4, 32, [0, 8, 16, 24, 32, 40, 48, 56, 64, 72, 80, 88]⟩,
-  ⟨11, 1, 4, 2, 8, 8, true, false, 2, 64, 8, 0, 4, 4, 16, [0, 8, 16, 24, 32, 40, 48, 56]⟩,
-  ⟨11, 1, 4, 3, 8, 8, true, false, 2, 96, 8, 0, 4, 4, 24, [0, 8, 16, 24, 32, 40, 48, 56, 64, 72, 80, 88]⟩,
-  ⟨11, 1, 4, 4, 8, 8, true, false, 2, 128, 8, 0, 4, 4, 32, [0, 8, 16, 24, 32, 40, 48, 56, 64, 72, 80, 88, 96, 104, 112, 120]⟩,
-  ⟨11, 1, 2, 2, 4, 4, false, false, 0, 16, 4, 0, 2, 4, 8, [0, 4, 8, 12]⟩,
-  ⟨11, 1, 2, 3, 4, 4, false, false, 0, 24, 4, 0, 2, 4, 12, [0, 4, 8, 12, 16, 20]⟩,
-  ⟨11, 1, 2, 4, 4, 4, false, false, 0, 32, 4, 0, 2, 4, 16, [0, 4, 8, 12, 16, 20, 24, 28]⟩,
-  ⟨11, 1, 3, 2, 4, 4, false, false, 0, 24, 4, 0, 3, 4, 8, [0, 4, 8, 12, 16, 20]⟩,
-  ⟨11, 1, 3, 3, 4, 4, false, false, 0, 36, 4, 0, 3, 4, 12, [0, 4, 8, 12, 16, 20, 24, 28, 32]⟩,
-  ⟨11, 1, 3, 4, 4, 4, false, false, 0, 48, 4, 0, 3, 4, 16, [0, 4, 8, 12, 16, 20, 24, 28, 32, 36, 40, 44]⟩,
-  ⟨11, 1, 4, 2, 4, 4, false, false, 0, 32, 4, 0, 4, 4, 8, [0, 4, 8, 12, 16, 20, 24, 28]⟩,
-  ⟨11, 1, 4, 3, 4, 4, false, false, 0, 48, 4, 0, 4, 4, 12, [0, 4, 8, 12, 16, 20, 24, 28, 32, 36, 40, 44]⟩,
-  ⟨11, 1, 4, 4, 4, 4, false, false, 0, 64, 4, 0, 4, 4, 16, [0, 4, 8, 12, 16, 20, 24, 28, 32, 36, 40, 44, 48, 52, 56, 60]⟩,
-  ⟨11, 1, 2, 2, 4, 4, false, false, 1, 16, 4, 0, 2, 4, 8, [0, 4, 8, 12]⟩,
-  ⟨11, 1, 2, 3, 4, 4, false, false, 1, 24, 4, 0, 2, 4, 12, [0, 4, 8, 12, 16, 20]⟩,
-  ⟨11, 1, 2, 4, 4, 4, false, false, 1, 32, 4, 0, 2, 4, 16, [0, 4, 8, 12, 16, 20, 24, 28]⟩,
-  ⟨11, 1, 3, 2, 4, 4, false, false, 1, 24, 4, 0, 3, 4, 8, [0, 4, 8, 12, 16, 20]⟩,
-  ⟨11, 1, 3, 3, 4, 4, false, false, 1, 36, 4, 0, 3, 4, 12, [0, 4, 8, 12, 16, 20, 24, 28, 32]⟩,
-  ⟨11, 1, 3, 4, 4, 4, false, false, 1, 48, 4, 0, 3, 4, 16, [0, 4, 8, 12, 16, 20, 24, 28, 32, 36, 40, 44]⟩,
-  ⟨11, 1, 4, 2, 4, 4, false, false, 1, 32, 4, 0, 4, 4, 8, [0, 4, 8, 12, 16, 20, 24, 28]⟩,
-  ⟨11, 1, 4, 3, 4, 4, false, false, 1, 48, 4, 0, 4, 4, 12, [0, 4, 8, 12, 16, 20, 24, 28, 32, 36, 40, 44]⟩,
-  ⟨11, 1, 4, 4, 4, 4, false, false, 1, 64, 4, 0, 4, 4, 16, [0, 4, 8, 12, 16, 20, 24, 28, 32, 36, 40, 44, 48, 52, 56, 60]⟩,
-  ⟨11, 1, 2, 2, 4, 4, false, false, 2, 16, 4, 0, 2, 4, 8, [0, 4, 8, 12]⟩,
-  ⟨11, 1, 2, 3, 4, 4, false, false, 2, 24, 4, 0, 2, 4, 12, [0, 4, 8, 12, 16, 20]⟩,
-  ⟨11, 1, 2, 4, 4, 4, false, false, 2, 32, 4, 0, 2, 4, 16, [0, 4, 8, 12, 16, 20, 24, 28]⟩,
-  ⟨11, 1, 3, 2, 4, 4, false, false, 2, 24, 4, 0, 3, 4, 8, [0, 4, 8, 12, 16, 20]⟩,
-  ⟨11, 1, 3, 3, 4, 4, false, false, 2, 36, 4, 0, 3, 4, 12, [0, 4, 8, 12, 16, 20, 24, 28, 32]⟩,
-  ⟨11, 1, 3, 4, 4, 4, false, false, 2, 48, 4, 0, 3, 4, 16, [0, 4, 8, 12, 16, 20, 24, 28, 32, 36, 40, 44]⟩,
-  ⟨11, 1, 4, 2, 4, 4, false, false, 2, 32, 4, 0, 4, 4, 8, [0, 4, 8, 12, 16, 20, 24, 28]⟩,
-  ⟨11, 1, 4, 3, 4, 4, false, false, 2, 48, 4, 0, 4, 4, 12, [0, 4, 8, 12, 16, 20, 24, 28, 32, 36, 40, 44]⟩,
-  ⟨11, 1, 4, 4, 4, 4, false, false, 2, 64, 4, 0, 4, 4, 16, [0, 4, 8, 12, 16, 20, 24, 28, 32, 36, 40, 44, 48, 52, 56, 60]⟩,
-  ⟨11, 1, 2, 2, 4, 4, false, false, 0, 16, 4, 0, 2, 4, 8, [0, 4, 8, 12]⟩,
-  ⟨11, 1, 2, 3, 4, 4, false, false, 0, 24, 4, 0, 2, 4, 12, [0, 4, 8, 12, 16, 20]⟩,
-  ⟨11, 1, 2, 4, 4, 4, false, false, 0, 32, 4, 0, 2, 4, 16, [0, 4, 8, 12, 16, 20, 24, 28]⟩,
-  ⟨11, 1, 3, 2, 4, 4, false, false, 0, 24, 4, 0, 3, 4, 8, [0, 4, 8, 12, 16, 20]⟩,
-  ⟨11, 1, 3, 3, 4, 4, false, false, 0, 36, 4, 0, 3, 4, 12, [0, 4, 8, 12, 16, 20, 24, 28, 32]⟩,
-  ⟨11, 1, 3, 4, 4, 4, false, false, 0, 48, 4, 0, 3, 4, 16, [0, 4, 8, 12, 16, 20, 24, 28, 32, 36, 40, 44]⟩,
-  ⟨11, 1, 4, 2, 4, 4, false, false, 0, 32, 4, 0, 4, 4, 8, [0, 4, 8, 12, 16, 20, 24, 28]⟩,
-  ⟨11, 1, 4, 3, 4, 4, false, false, 0, 48, 4, 0, 4, 4, 12, [0, 4, 8, 12, 16, 20, 24, 28, 32, 36, 40, 44]⟩,
-  ⟨11, 1, 4, 4, 4, 4, false, false, 0, 64, 4, 0, 4, 4, 16, [0, 4, 8, 12, 16, 20, 24, 28, 32, 36, 40, 44, 48, 52, 56, 60]⟩,
-  ⟨11, 1, 2, 2, 4, 4, false, false, 1, 16, 4, 0, 2, 4, 8, [0, 4, 8, 12]⟩,
-  ⟨11, 1, 2, 3, 4, 4, false, false, 1, 24, 4, 0, 2, 4, 12, [0, 4, 8, 12, 16, 20]⟩,
-  ⟨11, 1, 2, 4, 4, 4, false, false, 1, 32, 4, 0, 2, 4, 16, [0, 4, 8, 12, 16, 20, 24, 28]⟩,
-  ⟨11, 1, 3, 2, 4, 4, false, false, 1, 24, 4, 0, 3, 4, 8, [0, 4, 8, 12, 16, 20]⟩,
-  ⟨11, 1, 3, 3, 4, 4, false, false, 1, 36, 4, 0, 3, 4, 12, [0, 4, 8, 12, 16, 20, 24, 28, 32]⟩,
-  ⟨11, 1, 3, 4, 4, 4, false, false, 1, 48, 4, 0, 3, 4, 16, [0, 4, 8, 12, 16, 20, 24, 28, 32, 36, 40, 44]⟩,
-  ⟨11, 1, 4, 2, 4, 4, false, false, 1, 32, 4, 0, 4, 4, 8, [0, 4, 8, 12, 16, 20, 24, 28]⟩,
-  ⟨11, 1, 4, 3, 4, 4, false, false, 1, 48, 4, 0, 4, 4, 12, [0, 4, 8, 12, 16, 20, 24, 28, 32, 36, 40, 44]⟩,
-  ⟨11, 1, 4, 4, 4, 4, false, false, 1, 64, 4, 0, 4, 4, 16, [0, 4, 8, 12, 16, 20, 24, 28, 32, 36, 40, 44, 48, 52, 56, 60]⟩,
-  ⟨11, 1, 2, 2, 4, 4, false, false, 2, 16, 4, 0, 2, 4, 8, [0, 4, 8, 12]⟩,
-  ⟨11, 1, 2, 3, 4, 4, false, false, 2, 24, 4, 0, 2, 4, 12, [0, 4, 8, 12, 16, 20]⟩,
-  ⟨11, 1, 2, 4, 4, 4, false, false, 2, 32, 4, 0, 2, 4, 16, [0, 4, 8, 12, 16, 20, 24, 28]⟩,
-  ⟨11, 1, 3, 2, 4, 4, false, false, 2, 24, 4, 0, 3, 4, 8, [0, 4, 8, 12, 16, 20]⟩,
-  ⟨11, 1, 3, 3, 4, 4, false, false, 2, 36, 4, 0, 3, 4, 12, [0, 4, 8, 12, 16, 20, 24, 28, 32]⟩,
-  ⟨11, 1, 3, 4, 4, 4, false, false, 2, 48, 4, 0, 3, 4, 16, [0, 4, 8, 12, 16, 20, 24, 28, 32, 36, 40, 44]⟩,
-  ⟨11, 1, 4, 2, 4, 4, false, false, 2, 32, 4, 0, 4, 4, 8, [0, 4, 8, 12, 16, 20, 24, 28]⟩,
-  ⟨11, 1, 4, 3, 4, 4, false, false, 2, 48, 4, 0, 4, 4, 12, [0, 4, 8, 12, 16, 20, 24, 28, 32, 36, 40, 44]⟩,
-  ⟨11, 1, 4, 4, 4, 4, false, false, 2, 64, 4, 0, 4, 4, 16, [0, 4, 8, 12, 16, 20, 24, 28, 32, 36, 40, 44, 48, 52, 56, 60]⟩,
-  ⟨11, 2, 4, 1, 4, 4, true, false, 0, 16, 4, 0, 4, 4, 0, [0, 4, 8, 12]⟩,
-  ⟨11, 2, 4, 1, 4, 4, true, false, 1, 16, 4, 0, 4, 4, 0, [0, 4, 8, 12]⟩,
-  ⟨11, 2, 4, 1, 4, 4, true, false, 2, 16, 4, 0, 4, 4, 0, [0, 4, 8, 12]⟩,
-  ⟨11, 2, 4, 1, 8, 8, true, false, 0, 32, 8, 0, 4, 4, 0, [0, 8, 16, 24]⟩,
-  ⟨11, 2, 4, 1, 8, 8, true, false, 1, 32, 8, 0, 4, 4, 0, [0, 8, 16, 24]⟩,
-  ⟨11, 2, 4, 1, 8, 8, true, false, 2, 32, 8, 0, 4, 4, 0, [0, 8, 16, 24]⟩,
-  ⟨11, 0, 1, 1, 1, 1, false, true, 0, 1, 1, 0, 1, 4, 0, [0]⟩,
-  ⟨11, 0, 2, 1, 1, 1, false, true, 0, 2, 2, 0, 2, 4, 0, [0, 1]⟩,
-  ⟨11, 0, 3, 1, 1, 1, false, true, 0, 4, 4, 0, 3, 4, 0, [0, 1, 2]⟩,
-  ⟨11, 0, 4, 1, 1, 1, false, true, 0, 4, 4, 0, 4, 4, 0, [0, 1, 2, 3]⟩,
-  ⟨11, 0, 1, 1, 1, 1, false, true, 1, 1, 1, 0, 1, 4, 0, [0]⟩,
-  ⟨11, 0, 2, 1, 1, 1, false, true, 1, 2, 2, 0, 2, 4, 0, [0, 1]⟩,
-  ⟨11, 0, 3, 1, 1, 1, false, true, 1, 4, 4, 0, 3, 4, 0, [0, 1, 2]⟩,
-  ⟨11, 0, 4, 1, 1, 1, false, true, 1, 4, 4, 0, 4, 4, 0, [0, 1, 2, 3]⟩,
-  ⟨11, 0, 1, 1, 1, 1, false, true, 2, 1, 1, 0, 1, 4, 0, [0]⟩,
-  ⟨11, 0, 2, 1, 1, 1, false, true, 2, 2, 2, 0, 2, 4, 0, [0, 1]⟩,
-  ⟨11, 0, 3, 1, 1, 1, false, true, 2, 4, 4, 0, 3, 4, 0, [0, 1, 2]⟩,
-  ⟨11, 0, 4, 1, 1, 1, false, true, 2, 4, 4, 0, 4, 4, 0, [0, 1, 2, 3]⟩,
-  ⟨11, 0, 1, 1, 1, 1, false, true, 0, 1, 1, 0, 1, 4, 0, [0]⟩,
-  ⟨11, 0, 2, 1, 1, 1, false, true, 0, 2, 2, 0, 2, 4, 0, [0, 1]⟩,
-  ⟨11, 0, 3, 1, 1, 1, false, true, 0, 4, 4, 0, 3, 4, 0, [0, 1, 2]⟩,
-  ⟨11, 0, 4, 1, 1, 1, false, true, 0, 4, 4, 0, 4, 4, 0, [0, 1, 2, 3]⟩,
-  ⟨11, 0, 1, 1, 1, 1, false, true, 1, 1, 1, 0, 1, 4, 0, [0]⟩,
-  ⟨11, 0, 2, 1, 1, 1, false, true, 1, 2, 2, 0, 2, 4, 0, [0, 1]⟩,
-  ⟨11, 0, 3, 1, 1, 1, false, true, 1, 4, 4, 0, 3, 4, 0, [0, 1, 2]⟩,
-  ⟨11, 0, 4, 1, 1, 1, false, true, 1, 4, 4, 0, 4, 4, 0, [0, 1, 2, 3]⟩,
-  ⟨11, 0, 1, 1, 1, 1, false, true, 2, 1, 1, 0, 1, 4, 0, [0]⟩,
-  ⟨11, 0, 2, 1, 1, 1, false, true, 2, 2, 2, 0, 2, 4, 0, [0, 1]⟩,
-  ⟨11, 0, 3, 1, 1, 1, false, true, 2, 4, 4, 0, 3, 4, 0, [0, 1, 2]⟩,
-  ⟨11, 0, 4, 1, 1, 1, false, true, 2, 4, 4, 0, 4, 4, 0, [0, 1, 2, 3]⟩,
-  ⟨11, 0, 1, 1, 1, 1, false, true, 0, 1, 1, 0, 1, 4, 0, [0]⟩,
-  ⟨11, 0, 2, 1, 1, 1, false, true, 0, 2, 2, 0, 2, 4, 0, [0, 1]⟩,
-  ⟨11, 0, 3, 1, 1, 1, false, true, 0, 4, 4, 0, 3, 4, 0, [0, 1, 2]⟩,
-  ⟨11, 0, 4, 1, 1, 1, false, true, 0, 4, 4, 0, 4, 4, 0, [0, 1, 2, 3]⟩,
-  ⟨11, 0, 1, 1, 1, 1, false, true, 1, 1, 1, 0, 1, 4, 0, [0]⟩,
-  ⟨11, 0, 2, 1, 1, 1, false, true, 1, 2, 2, 0, 2, 4, 0, [0, 1]⟩,
-  ⟨11, 0, 3, 1, 1, 1, false, true, 1, 4, 4, 0, 3, 4, 0, [0, 1, 2]⟩,
-  ⟨11, 0, 4, 1, 1, 1, false, true, 1, 4, 4, 0, 4, 4, 0, [0, 1, 2, 3]⟩,
-  ⟨11, 0, 1, 1, 1, 1, false, true, 2, 1, 1, 0, 1, 4, 0, [0]⟩,
-  ⟨11, 0, 2, 1, 1, 1, false, true, 2, 2, 2, 0, 2, 4, 0, [0, 1]⟩,
-  ⟨11, 0, 3, 1, 1, 1, false, true, 2, 4, 4, 0, 3, 4, 0, [0, 1, 2]⟩,
-  ⟨11, 0, 4, 1, 1, 1, false, true, 2, 4, 4, 0, 4, 4, 0, [0, 1, 2, 3]⟩,
-  ⟨11, 0, 1, 1, 2, 2, false, true, 0, 2, 2, 0, 1, 4, 0, [0]⟩,
-  ⟨11, 0, 2, 1, 2, 2, false, true, 0, 4, 4, 0, 2, 4, 0, [0, 2]⟩,
-  ⟨11, 0, 3, 1, 2, 2, false, true, 0, 8, 8, 0, 3, 4, 0, [0, 2, 4]⟩,
-  ⟨11, 0, 4, 1, 2, 2, false, true, 0, 8, 8, 0, 4, 4, 0, [0, 2, 4, 6]⟩,
-  ⟨11, 0, 1, 1, 2, 2, false, true, 1, 2, 2, 0, 1, 4, 0, [0]⟩,
-  ⟨11, 0, 2, 1, 2, 2, false, true, 1, 4, 4, 0, 2, 4, 0, [0, 2]⟩,
-  ⟨11, 0, 3, 1, 2, 2, false, true, 1, 8, 8, 0, 3, 4, 0, [0, 2, 4]⟩,
-  ⟨11, 0, 4, 1, 2, 2, false, true, 1, 8, 8, 0, 4, 4, 0, [0, 2, 4, 6]⟩,
-  ⟨11, 0, 1, 1, 2, 2, false, true, 2, 2, 2, 0, 1, 4, 0, [0]⟩,
-  ⟨11, 0, 2, 1, 2, 2, false, true, 2, 4, 4, 0, 2, 4, 0, [0, 2]⟩,
-  ⟨11, 0, 3, 1, 2, 2, false, true, 2, 8, 8, 0, 3, 4, 0, [0, 2, 4]⟩,
-  ⟨11, 0, 4, 1, 2, 2, false, true, 2, 8, 8, 0, 4, 4, 0, [0, 2, 4, 6]⟩,
-  ⟨11, 0, 1, 1, 2, 2, false, true, 0, 2, 2, 0, 1, 4, 0, [0]⟩,
-  ⟨11, 0, 2, 1, 2, 2, false, true, 0, 4, 4, 0, 2, 4, 0, [0, 2]⟩,
-  ⟨11, 0, 3, 1, 2, 2, false, true, 0, 8, 8, 0, 3, 4, 0, [0, 2, 4]⟩,
-  ⟨11, 0, 4, 1, 2, 2, false, true, 0, 8, 8, 0, 4, 4, 0, [0, 2, 4, 6]⟩,
-  ⟨11, 0, 1, 1, 2, 2, false, true, 1, 2, 2, 0, 1, 4, 0, [0]⟩,
-  ⟨11, 0, 2, 1, 2, 2, false, true, 1, 4, 4, 0, 2, 4, 0, [0, 2]⟩,
-  ⟨11, 0, 3, 1, 2, 2, false, true, 1, 8, 8, 0, 3, 4, 0, [0, 2, 4]⟩,
-  ⟨11, 0, 4, 1, 2, 2, false, true, 1, 8, 8, 0, 4, 4, 0, [0, 2, 4, 6]⟩,
-  ⟨11, 0, 1, 1, 2, 2, false, true, 2, 2, 2, 0, 1, 4, 0, [0]⟩,
-  ⟨11, 0, 2, 1, 2, 2, false, true, 2, 4, 4, 0, 2, 4, 0, [0, 2]⟩,
-  ⟨11, 0, 3, 1, 2, 2, false, true, 2, 8, 8, 0, 3, 4, 0, [0, 2, 4]⟩,
-  ⟨11, 0, 4, 1, 2, 2, false, true, 2, 8, 8, 0, 4, 4, 0, [0, 2, 4, 6]⟩,
-  ⟨11, 0, 1, 1, 4, 4, false, true, 0, 4, 4, 0, 1, 4, 0, [0]⟩,
-  ⟨11, 0, 2, 1, 4, 4, false, true, 0, 8, 8, 0, 2, 4, 0, [0, 4]⟩,
-  ⟨11, 0, 3, 1, 4, 4, false, true, 0, 16, 16, 0, 3, 4, 0, [0, 4, 8]⟩,
-  ⟨11, 0, 4, 1, 4, 4, false, true, 0, 16, 16, 0, 4, 4, 0, [0, 4, 8, 12]⟩,
-  ⟨11, 0, 1, 1, 4, 4, false, true, 1, 4, 4, 0, 1, 4, 0, [0]⟩,
-  ⟨11, 0, 2, 1, 4, 4, false, true, 1, 8, 8, 0, 2, 4, 0, [0, 4]⟩,
-  ⟨11, 0, 3, 1, 4, 4, false, true, 1, 16, 16, 0, 3, 4, 0, [0, 4, 8]⟩,
-  ⟨11, 0, 4, 1, 4, 4, false, true, 1, 16, 16, 0, 4, 4, 0, [0, 4, 8, 12]⟩,
-  ⟨11, 0, 1, 1, 4, 4, false, true, 2, 4, 4, 0, 1, 4, 0, [0]⟩,
-  ⟨11, 0, 2, 1, 4, 4, false, true, 2, 8, 8, 0, 2, 4, 0, [0, 4]⟩,
-  ⟨11, 0, 3, 1, 4, 4, false, true, 2, 16, 16, 0, 3, 4, 0, [0, 4, 8]⟩,
-  ⟨11, 0, 4, 1, 4, 4, false, true, 2, 16, 16, 0, 4, 4, 0, [0, 4, 8, 12]⟩,
-  ⟨11, 0, 1, 1, 4, 4, false, true, 0, 4, 4, 0, 1, 4, 0, [0]⟩,
-  ⟨11, 0, 2, 1, 4, 4, false, true, 0, 8, 8, 0, 2, 4, 0, [0, 4]⟩,
-  ⟨11, 0, 3, 1, 4, 4, false, true, 0, 16, 16, 0, 3, 4, 0, [0, 4, 8]⟩,
-  ⟨11, 0, 4, 1, 4, 4, false, true, 0, 16, 16, 0, 4, 4, 0, [0, 4, 8, 12]⟩,
-  ⟨11, 0, 1, 1, 4, 4, false, true, 1, 4, 4, 0, 1, 4, 0, [0]⟩,
-  ⟨11, 0, 2, 1, 4, 4, false, true, 1, 8, 8, 0, 2, 4, 0, [0, 4]⟩,
-  ⟨11, 0, 3, 1, 4, 4, false, true, 1, 16, 16, 0, 3, 4, 0, [0, 4, 8]⟩,
-  ⟨11, 0, 4, 1, 4, 4, false, true, 1, 16, 16, 0, 4, 4, 0, [0, 4, 8, 12]⟩,
-  ⟨11, 0, 1, 1, 4, 4, false, true, 2, 4, 4, 0, 1, 4, 0, [0]⟩,
-  ⟨11, 0, 2, 1, 4, 4, false, true, 2, 8, 8, 0, 2, 4, 0, [0, 4]⟩,
-  ⟨11, 0, 3, 1, 4, 4, false, true, 2, 16, 16, 0, 3, 4, 0, [0, 4, 8]⟩,
-  ⟨11, 0, 4, 1, 4, 4, false, true, 2, 16, 16, 0, 4, 4, 0, [0, 4, 8, 12]⟩,
-  ⟨11, 0, 1, 1, 8, 8, false, true, 0, 8, 8, 0, 1, 4, 0, [0]⟩,
-  ⟨11, 0, 2, 1, 8, 8, false, true, 0, 16, 16, 0, 2, 4, 0, [0, 8]⟩,
-  ⟨11, 0, 3, 1, 8, 8, false, true, 0, 32, 32, 0, 3, 4, 0, [0, 8, 16]⟩,
-  ⟨11, 0, 4, 1, 8, 8, false, true, 0, 32, 32, 0, 4, 4, 0, [0, 8, 16, 24]⟩,
-  ⟨11, 0, 1, 1, 8, 8, false, true, 1, 8, 8, 0, 1, 4, 0, [0]⟩,
-  ⟨11, 0, 2, 1, 8, 8, false, true, 1, 16, 16, 0, 2, 4, 0, [0, 8]⟩,
-  ⟨11, 0, 3, 1, 8, 8, false, true, 1, 32, 32, 0, 3, 4, 0, [0, 8, 16]⟩,
-  ⟨11, 0, 4, 1, 8, 8, false, true, 1, 32, 32, 0, 4, 4, 0, [0, 8, 16, 24]⟩,
-  ⟨11, 0, 1, 1, 8, 8, false, true, 2, 8, 8, 0, 1, 4, 0, [0]⟩,
-  ⟨11, 0, 2, 1, 8, 8, false, true, 2, 16, 16, 0, 2, 4, 0, [0, 8]⟩,
-  ⟨11, 0, 3, 1, 8, 8, false, true, 2, 32, 32, 0, 3, 4, 0, [0, 8, 16]⟩,
-  ⟨11, 0, 4, 1, 8, 8, false, true, 2, 32, 32, 0, 4, 4, 0, [0, 8, 16, 24]⟩,
-  ⟨11, 0, 1, 1, 8, 8, false, true, 0, 8, 8, 0, 1, 4, 0, [0]⟩,
-  ⟨11, 0, 2, 1, 8, 8, false, true, 0, 16, 16, 0, 2, 4, 0, [0, 8]⟩,
-  ⟨11, 0, 3, 1, 8, 8, false, true, 0, 32, 16, 0, 3, 4, 0, [0, 8, 16]⟩,
-  ⟨11, 0, 4, 1, 8, 8, false, true, 0, 32, 32, 0, 4, 4, 0, [0, 8, 16, 24]⟩,
-  ⟨11, 0, 1, 1, 8, 8, false, true, 1, 8, 8, 0, 1, 4, 0, [0]⟩,
-  ⟨11, 0, 2, 1, 8, 8, false, true, 1, 16, 16, 0, 2, 4, 0, [0, 8]⟩,
-  ⟨11, 0, 3, 1, 8, 8, false, true, 1, 32, 16, 0, 3, 4, 0, [0, 8, 16]⟩,
-  ⟨11, 0, 4, 1, 8, 8, false, true, 1, 32, 32, 0, 4, 4, 0, [0, 8, 16, 24]⟩,
-  ⟨11, 0, 1, 1, 8, 8, false, true, 2, 8, 8, 0, 1, 4, 0, [0]⟩,
-  ⟨11, 0, 2, 1, 8, 8, false, true, 2, 16, 16, 0, 2, 4, 0, [0, 8]⟩,
-  ⟨11, 0, 3, 1, 8, 8, false, true, 2, 32, 16, 0, 3, 4, 0, [0, 8, 16]⟩,
-  ⟨11, 0, 4, 1, 8, 8, false, true, 2, 32, 32, 0, 4, 4, 0, [0, 8, 16, 24]⟩,
-  ⟨11, 0, 1, 1, 4, 4, true, true, 0, 4, 4, 0, 1, 4, 0, [0]⟩,
-  ⟨11, 0, 2, 1, 4, 4, true, true, 0, 8, 8, 0, 2, 4, 0, [0, 4]⟩,
-  ⟨11, 0, 3, 1, 4, 4, true, true, 0, 16, 16, 0, 3, 4, 0, [0, 4, 8]⟩,
-  ⟨11, 0, 4, 1, 4, 4, true, true, 0, 16, 16, 0, 4, 4, 0, [0, 4, 8, 12]⟩,
-  ⟨11, 0, 1, 1, 4, 4, true, true, 1, 4, 4, 0, 1, 4, 0, [0]⟩,
-  ⟨11, 0, 2, 1, 4, 4, true, true, 1, 8, 8, 0, 2, 4, 0, [0, 4]⟩,
-  ⟨11, 0, 3, 1, 4, 4, true, true, 1, 16, 16, 0, 3, 4, 0, [0, 4, 8]⟩,
-  ⟨11, 0, 4, 1, 4, 4, true, true, 1, 16, 16, 0, 4, 4, 0, [0, 4, 8, 12]⟩,
-  ⟨11, 0, 1, 1, 4, 4, true, true, 2, 4, 4, 0, 1, 4, 0, [0]⟩,
-  ⟨11, 0, 2, 1, 4, 4, true, true, 2, 8, 8, 0, 2, 4, 0, [0, 4]⟩,
-  ⟨11, 0, 3, 1, 4, 4, true, true, 2, 16, 16, 0, 3, 4, 0, [0, 4, 8]⟩,
-  ⟨11, 0, 4, 1, 4, 4, true, true, 2, 16, 16, 0, 4, 4, 0, [0, 4, 8, 12]⟩,
-  ⟨11, 0, 1, 1, 8, 8, true, true, 0, 8, 8, 0, 1, 4, 0, [0]⟩,
-  ⟨11, 0, 2, 1, 8, 8, true, true, 0, 16, 16, 0, 2, 4, 0, [0, 8]⟩,
-  ⟨11, 0, 3, 1, 8, 8, true, true, 0, 32, 16, 0, 3, 4, 0, [0, 8, 16]⟩,
-  ⟨11, 0, 4, 1, 8, 8, true, true, 0, 32, 16, 0, 4, 4, 0, [0, 8, 16, 24]⟩,
-  ⟨11, 0, 1, 1, 8, 8, true, true, 1, 8, 8, 0, 1, 4, 0, [0]⟩,
-  ⟨11, 0, 2, 1, 8, 8, true, true, 1, 16, 16, 0, 2, 4, 0, [0, 8]⟩,
-  ⟨11, 0, 3, 1, 8, 8, true, true, 1, 32, 16, 0, 3, 4, 0, [0, 8, 16]⟩,
-  ⟨11, 0, 4, 1, 8, 8, true, true, 1, 32, 16, 0, 4, 4, 0, [0, 8, 16, 24]⟩,
-  ⟨11, 0, 1, 1, 8, 8, true, true, 2, 8, 8, 0, 1, 4, 0, [0]⟩,
-  ⟨11, 0, 2, 1, 8, 8, true, true, 2, 16, 16, 0, 2, 4, 0, [0, 8]⟩,
-  ⟨11, 0, 3, 1, 8, 8, true, true, 2, 32, 16, 0, 3, 4, 0, [0, 8, 16]⟩,
-  ⟨11, 0, 4, 1, 8, 8, true, true, 2, 32, 16, 0, 4, 4, 0, [0, 8, 16, 24]⟩,
-  ⟨11, 1, 2, 2, 4, 4, true, true, 0, 16, 8, 0, 2, 4, 8, [0, 4, 8, 12]⟩,
-  ⟨11, 1, 2, 3, 4, 4, true, true, 0, 32, 16, 0, 2, 4, 16, [0, 4, 8, 16, 20, 24]⟩,
-  ⟨11, 1, 2, 4, 4, 4, true, true, 0, 32, 16, 0, 2, 4, 16, [0, 4, 8, 12, 16, 20, 24, 28]⟩,
-  ⟨11, 1, 3, 2, 4, 4, true, true, 0, 24, 8, 0, 3, 4, 8, [0, 4, 8, 12, 16, 20]⟩,
-  ⟨11, 1, 3, 3, 4, 4, true, true, 0, 48, 16, 0, 3, 4, 16, [0, 4, 8, 16, 20, 24, 32, 36, 40]⟩,
-  ⟨11, 1, 3, 4, 4, 4, true, true, 0, 48, 16, 0, 3, 4, 16, [0, 4, 8, 12, 16, 20, 24, 28, 32, 36, 40, 44]⟩,
-  ⟨11, 1, 4, 2, 4, 4, true, true, 0, 32, 8, 0, 4, 4, 8, [0, 4, 8, 12, 16, 20, 24, 28]⟩,
-  ⟨11, 1, 4, 3, 4, 4, true, true, 0, 64, 16, 0, 4, 4, 16, [0, 4, 8, 16, 20, 24, 32, 36, 40, 48, 52, 56]⟩,
-  ⟨11, 1, 4, 4, 4, 4, true, true, 0, 64, 16, 0, 4, 4, 16, [0, 4, 8, 12, 16, 20, 24, 28, 32, 36, 40, 44, 48, 52, 56, 60]⟩,
-  ⟨11, 1, 2, 2, 4, 4, true, true, 1, 16, 8, 0, 2, 4, 8, [0, 4, 8, 12]⟩,
-  ⟨11, 1, 2, 3, 4, 4, true, true, 1, 32, 16, 0, 2, 4, 16, [0, 4, 8, 16, 20, 24]⟩,
-  ⟨11, 1, 2, 4, 4, 4, true, true, 1, 32, 16, 0, 2, 4, 16, [0, 4, 8, 12, 16, 20, 24, 28]⟩,
-  ⟨11, 1, 3, 2, 4, 4, true, true, 1, 24, 8, 0, 3, 4, 8, [0, 4, 8, 12, 16, 20]⟩,
-  ⟨11, 1, 3, 3, 4, 4, true, true, 1, 48, 16, 0, 3, 4, 16, [0, 4, 8, 16, 20, 24, 32, 36, 40]⟩,
-  ⟨11, 1, 3, 4, 4, 4, true, true, 1, 48, 16, 0, 3, 4, 16, [0, 4, 8, 12, 16, 20, 24, 28, 32, 36, 40, 44]⟩,
-  ⟨11, 1, 4, 2, 4, 4, true, true, 1, 32, 8, 0, 4, 4, 8, [0, 4, 8, 12, 16, 20, 24, 28]⟩,
-  ⟨11, 1, 4, 3, 4, 4, true, true, 1, 64, 16, 0, 4, 4, 16, [0, 4, 8, 16, 20, 24, 32, 36, 40, 48, 52, 56]⟩,
-  ⟨11, 1, 4, 4, 4, 4, true, true, 1, 64, 16, 0, 4, 4, 16, [0, 4, 8, 12, 16, 20, 24, 28, 32, 36, 40, 44, 48, 52, 56, 60]⟩,
-  ⟨11, 1, 2, 2, 4, 4, true, true, 2, 16, 8, 0, 2, 4, 8, [0, 4, 8, 12]⟩,
-  ⟨11, 1, 2, 3, 4, 4, true, true, 2, 32, 16, 0, 2, 4, 16, [0, 4, 8, 16, 20, 24]⟩,
-  ⟨11, 1, 2, 4, 4, 4, true, true, 2, 32, 16, 0, 2, 4, 16, [0, 4, 8, 12, 16, 20, 24, 28]⟩,
-  ⟨11, 1, 3, 2, 4, 4, true, true, 2, 24, 8, 0, 3, 4, 8, [0, 4, 8, 12, 16, 20]⟩,
-  ⟨11, 1, 3, 3, 4, 4, true, true, 2, 48, 16, 0, 3, 4, 16, [0, 4, 8, 16, 20, 24, 32, 36, 40]⟩,
-  ⟨11, 1, 3, 4, 4, 4, true, true, 2, 48, 16, 0, 3, 4, 16, [0, 4, 8, 12, 16, 20, 24, 28, 32, 36, 40, 44]⟩,
-  ⟨11, 1, 4, 2, 4, 4, true, true, 2, 32, 8, 0, 4, 4, 8, [0, 4, 8, 12, 16, 20, 24, 28]⟩,
-  ⟨11, 1, 4, 3, 4, 4, true, true, 2, 64, 16, 0, 4, 4, 16, [0, 4, 8, 16, 20, 24, 32, 36, 40, 48, 52, 56]⟩,
-  ⟨11, 1, 4, 4, 4, 4, true, true, 2, 64, 16, 0, 4, 4, 16, [0, 4, 8, 12, 16, 20, 24, 28, 32, 36, 40, 44, 48, 52, 56, 60]⟩,
-  ⟨11, 1, 2, 2, 8, 8, true, true, 0, 32, 16, 0, 2, 4, 16, [0, 8, 16, 24]⟩,
-  ⟨11, 1, 2, 3, 8, 8, true, true, 0, 64, 16, 0, 2, 4, 32, [0, 8, 16, 32, 40, 48]⟩,
-  ⟨11, 1, 2, 4, 8, 8, true, true, 0, 64, 16, 0, 2, 4, 32, [0, 8, 16, 24, 32, 40, 48, 56]⟩,
-  ⟨11, 1, 3, 2, 8, 8, true, true, 0, 48, 16, 0, 3, 4, 16, [0, 8, 16, 24, 32, 40]⟩,
-  ⟨11, 1, 3, 3, 8, 8, true, true, 0, 96, 16, 0, 3, 4, 32, [0, 8, 16, 32, 40, 48, 64, 72, 80]⟩,
-  ⟨11, 1, 3, 4, 8, 8, true, true, 0, 96, 16, 0, 3, 4, 32, [0, 8, 16, 24, 32, 40, 48, 56, 64, 72, 80, 88]⟩,
-  ⟨11, 1, 4, 2, 8, 8, true, true, 0, 64, 16, 0, 4, 4, 16, [0, 8, 16, 24, 32, 40, 48, 56]⟩,
-  ⟨11, 1, 4, 3, 8, 8, true, true, 0, 128, 16, 0, 4, 4, 32, [0, 8, 16, 32, 40, 48, 64, 72, 80, 96, 104, 112]⟩,
-  ⟨11, 1, 4, 4, 8, 8, true, true, 0, 128, 16, 0, 4, 4, 32, [0, 8, 16, 24, 32, 40, 48, 56, 64, 72, 80, 88, 96, 104, 112, 120]⟩,
-  ⟨11, 1, 2, 2, 8, 8, true, true, 1, 32, 16, 0, 2, 4, 16, [0, 8, 16, 24]⟩,
-  ⟨11, 1, 2, 3, 8, 8, true, true, 1, 64, 16, 0, 2, 4, 32, [0, 8, 16, 32, 40, 48]⟩,
-  ⟨11, 1, 2, 4, 8, 8, true, true, 1, 64, 16, 0, 2, 4, 32, [0, 8, 16, 24, 32, 40, 48, 56]⟩,
-  ⟨11, 1, 3, 2, 8, 8, true, true, 1, 48, 16, 0, 3, 4, 16, [0, 8, 16, 24, 32, 40]⟩,
-  ⟨11, 1, 3, 3, 8, 8, true, true, 1, 96, 16, 0, 3, 4, 32, [0, 8, 16, 32, 40, 48, 64, 72, 80]⟩,
-  ⟨11, 1, 3, 4, 8, 8, true, true, 1, 96, 16, 0, 3, 4, 32, [0, 8, 16, 24, 32, 40, 48, 56, 64, 72, 80, 88]⟩,
-  ⟨11, 1, 4, 2, 8, 8, true, true, 1, 64, 16, 0, 4, 4, 16, [0, 8, 16, 24, 32, 40, 48, 56]⟩,
-  ⟨11, 1, 4, 3, 8, 8, true, true, 1, 128, 16, 0, 4, 4, 32, [0, 8, 16, 32, 40, 48, 64, 72, 80, 96, 104, 112]⟩,
-  ⟨11, 1, 4, 4, 8, 8, true, true, 1, 128, 16, 0, 4, 4, 32, [0, 8, 16, 24, 32, 40, 48, 56, 64, 72, 80, 88, 96, 104, 112, 120]⟩,
-  ⟨11, 1, 2, 2, 8, 8, true, true, 2, 32, 16, 0, 2, 4, 16, [0, 8, 16, 24]⟩,
-  ⟨11, 1, 2, 3, 8, 8, true, true, 2, 64, 16, 0, 2, 4, 32, [0, 8, 16, 32, 40, 48]⟩,
-  ⟨11, 1, 2, 4, 8, 8, true, true, 2, 64, 16, 0, 2, 4, 32, [0, 8, 16, 24, 32, 40, 48, 56]⟩,
-  ⟨11, 1, 3, 2, 8, 8, true, true, 2, 48, 16, 0, 3, 4, 16, [0, 8, 16, 24, 32, 40]⟩,
-  ⟨11, 1, 3, 3, 8, 8, true, true, 2, 96, 16, 0, 3, 4, 32, [0, 8, 16, 32, 40, 48, 64, 72, 80]⟩,
-  ⟨11, 1, 3, 4, 8, 8, true, true, 2, 96, 16, 0, 3, 4, 32, [0, 8, 16, 24, 32, 40, 48, 56, 64, 72, 80, 88]⟩,
-  ⟨11, 1, 4, 2, 8, 8, true, true, 2, 64, 16, 0, 4, 4, 16, [0, 8, 16, 24, 32, 40, 48, 56]⟩,
-  ⟨11, 1, 4, 3, 8, 8, true, true, 2, 128, 16, 0, 4, 4, 32, [0, 8, 16, 32, 40, 48, 64, 72, 80, 96, 104, 112]⟩,
-  ⟨11, 1, 4, 4, 8, 8, true, true, 2, 128, 16, 0, 4, 4, 32, [0, 8, 16, 24, 32, 40, 48, 56, 64, 72, 80, 88, 96, 104, 112, 120]⟩,
-  ⟨11, 1, 2, 2, 4, 4, false, true, 0, 16, 8, 0, 2, 4, 8, [0, 4, 8, 12]⟩,
-  ⟨11, 1, 2, 3, 4, 4, false, true, 0, 32, 16, 0, 2, 4, 16, [0, 4, 8, 16, 20, 24]⟩,
-  ⟨11, 1, 2, 4, 4, 4, false, true, 0, 32, 16, 0, 2, 4, 16, [0, 4, 8, 12, 16, 20, 24, 28]⟩,
-  ⟨11, 1, 3, 2, 4, 4, false, true, 0, 24, 8, 0, 3, 4, 8, [0, 4, 8, 12, 16, 20]⟩,
-  ⟨11, 1, 3, 3, 4, 4, false, true, 0, 48, 16, 0, 3, 4, 16, [0, 4, 8, 16, 20, 24, 32, 36, 40]⟩,
-  ⟨11, 1, 3, 4, 4, 4, false, true, 0, 48, 16, 0, 3, 4, 16, [0, 4, 8, 12, 16, 20, 24, 28, 32, 36, 40, 44]⟩,
-  ⟨11, 1, 4, 2, 4, 4, false, true, 0, 32, 8, 0, 4, 4, 8, [0, 4, 8, 12, 16, 20, 24, 28]⟩,
-  ⟨11, 1, 4, 3, 4, 4, false, true, 0, 64, 16, 0, 4, 4, 16, [0, 4, 8, 16, 20, 24, 32, 36, 40, 48, 52, 56]⟩,
-  ⟨11, 1, 4, 4, 4, 4, false, true, 0, 64, 16, 0, 4, 4, 16, [0, 4, 8, 12, 16, 20, 24, 28, 32, 36, 40, 44, 48, 52, 56, 60]⟩,
-  ⟨11, 1, 2, 2, 4, 4, false, true, 1, 16, 8, 0, 2, 4, 8, [0, 4, 8, 12]⟩,
-  ⟨11, 1, 2, 3, 4, 4, false, true, 1, 32, 16, 0, 2, 4, 16, [0, 4, 8, 16, 20, 24]⟩,
-  ⟨11, 1, 2, 4, 4, 4, false, true, 1, 32, 16, 0, 2, 4, 16, [0, 4, 8, 12, 16, 20, 24, 28]⟩,
-  ⟨11, 1, 3, 2, 4, 4, false, true, 1, 24, 8, 0, 3, 4, 8, [0, 4, 8, 12, 16, 20]⟩,
-  ⟨11, 1, 3, 3, 4, 4, false, true, 1, 48, 16, 0, 3, 4, 16, [0, 4, 8, 16, 20, 24, 32, 36, 40]⟩,
-  ⟨11, 1, 3, 4, 4, 4, false, true, 1, 48, 16, 0, 3, 4, 16, [0, 4, 8, 12, 16, 20, 24, 28, 32, 36, 40, 44]⟩,
-  ⟨11, 1, 4, 2, 4, 4, false, true, 1, 32, 8, 0, 4, 4, 8, [0, 4, 8, 12, 16, 20, 24, 28]⟩,
-  ⟨11, 1, 4, 3, 4, 4, false, true, 1, 64, 16, 0, 4, 4, 16, [0, 4, 8, 16, 20, 24, 32, 36, 40, 48, 52, 56]⟩,
-  ⟨11, 1, 4, 4, 4, 4, false, true, 1, 64, 16, 0, 4, 4, 16, [0, 4, 8, 12, 16, 20, 24, 28, 32, 36, 40, 44, 48, 52, 56, 60]⟩,
-  ⟨11, 1, 2, 2, 4, 4, false, true, 2, 16, 8, 0, 2, 4, 8, [0, 4, 8, 12]⟩,
-  ⟨11, 1, 2, 3, 4, 4, false, true, 2, 32, 16, 0, 2, 4, 16, [0, 4, 8, 16, 20, 24]⟩,
-  ⟨11, 1, 2, 4, 4, 4, false, true, 2, 32, 16, 0, 2, 4, 16, [0, 4, 8, 12, 16, 20, 24, 28]⟩,
-  ⟨11, 1, 3, 2, 4, 4, false, true, 2, 24, 8, 0, 3, 4, 8, [0, 4, 8, 12, 16, 20]⟩,
-  ⟨11, 1, 3, 3, 4, 4, false, true, 2, 48, 16, 0, 3, 4, 16, [0, 4, 8, 16, 20, 24, 32, 36, 40]⟩,
-  ⟨11, 1, 3, 4, 4, 4, false, true, 2, 48, 16, 0, 3, 4, 16, [0, 4, 8, 12, 16, 20, 24, 28, 32, 36, 40, 44]⟩,
-  ⟨11, 1, 4, 2, 4, 4, false, true, 2, 32, 8, 0, 4, 4, 8, [0, 4, 8, 12, 16, 20, 24, 28]⟩,
-  ⟨11, 1, 4, 3, 4, 4, false, true, 2, 64, 16, 0, 4, 4, 16, [0, 4, 8, 16, 20, 24, 32, 36, 40, 48, 52, 56]⟩,
-  ⟨11, 1, 4, 4, 4, 4, false, true, 2, 64, 16, 0, 4, 4, 16, [0, 4, 8, 12, 16, 20, 24, 28, 32, 36, 40, 44, 48, 52, 56, 60]⟩,
-  ⟨11, 1, 2, 2, 4, 4, false, true, 0, 16, 8, 0, 2, 4, 8, [0, 4, 8, 12]⟩,
-  ⟨11, 1, 2, 3, 4, 4, false, true, 0, 32, 16, 0, 2, 4, 16, [0, 4, 8, 16, 20, 24]⟩,
-  ⟨11, 1, 2, 4, 4, 4, false, true, 0, 32, 16, 0, 2, 4, 16, [0, 4, 8, 12, 16, 20, 24, 28]⟩,
-  ⟨11, 1, 3, 2, 4, 4, false, true, 0, 24, 8, 0, 3, 4, 8, [0, 4, 8, 12, 16, 20]⟩,
-  ⟨11, 1, 3, 3, 4, 4, false, true, 0, 48, 16, 0, 3, 4, 16, [0, 4, 8, 16, 20, 24, 32, 36, 40]⟩,
-  ⟨11, 1, 3, 4, 4, 4, false, true, 0, 48, 16, 0, 3, 4, 16, [0, 4, 8, 12, 16, 20, 24, 28, 32, 36, 40, 44]⟩,
-  ⟨11, 1, 4, 2, 4, 4, false, true, 0, 32, 8, 0, 4, 4, 8, [0, 4, 8, 12, 16, 20, 24, 28]⟩,
-  ⟨11, 1, 4, 3, 4, 4, false, true, 0, 64, 16, 0, 4, 4, 16, [0, 4, 8, 16, 20, 24, 32, 36, 40, 48, 52, 56]⟩,
-  ⟨11, 1, 4, 4, 4, 4, false, true, 0, 64, 16, 0, 4, 4, 16, [0, 4, 8, 12, 16, 20, 24, 28, 32, 36, 40, 44, 48, 52, 56, 60]⟩,
-  ⟨11, 1, 2, 2, 4, 4, false, true, 1, 16, 8, 0, 2, 4, 8, [0, 4, 8, 12]⟩,
-  ⟨11, 1, 2, 3, 4, 4, false, true, 1, 32, 16, 0, 2, 4, 16, [0, 4, 8, 16, 20, 24]⟩,
-  ⟨11, 1, 2, 4, 4, 4, false, true, 1, 32, 16, 0, 2, 4, 16, [0, 4, 8, 12, 16, 20, 24, 28]⟩,
-  ⟨11, 1, 3, 2, 4, 4, false, true, 1, 24, 8, 0, 3, 4, 8, [0, 4, 8, 12, 16, 20]⟩,
-  ⟨11, 1, 3, 3, 4, 4, false, true, 1, 48, 16, 0, 3, 4, 16, [0, 4, 8, 16, 20, 24, 32, 36, 40]⟩,
-  ⟨11, 1, 3, 4, 4, 4, false, true, 1, 48, 16, 0, 3, 4, 16, [0, 4, 8, 12, 16, 20, 24, 28, 32, 36, 40, 44]⟩,
-  ⟨11, 1, 4, 2, 4, 4, false, true, 1, 32, 8, 0, 4, 4, 8, [0, 4, 8, 12, 16, 20, 24, 28]⟩,
-  ⟨11, 1, 4, 3, 4, 4, false, true, 1, 64, 16, 0, 4, 4, 16, [0, 4, 8, 16, 20, 24, 32, 36, 40, 48, 52, 56]⟩,
-  ⟨11, 1, 4, 4, 4, 4, false, true, 1, 64, 16, 0, 4, 4, 16, [0, 4, 8, 12, 16, 20, 24, 28, 32, 36, 40, 44, 48, 52, 56, 60]⟩,
-  ⟨11, 1, 2, 2, 4, 4, false, true, 2, 16, 8, 0, 2, 4, 8, [0, 4, 8, 12]⟩,
-  ⟨11, 1, 2, 3, 4, 4, false, true, 2, 32, 16, 0, 2, 4, 16, [0, 4, 8, 16, 20, 24]⟩,
-  ⟨11, 1, 2, 4, 4, 4, false, true, 2, 32, 16, 0, 2, 4, 16, [0, 4, 8, 12, 16, 20, 24, 28]⟩,
-  ⟨11, 1, 3, 2, 4, 4, false, true, 2, 24, 8, 0, 3, 4, 8, [0, 4, 8, 12, 16, 20]⟩,
-  ⟨11, 1, 3, 3, 4, 4, false, true, 2, 48, 16, 0, 3, 4, 16, [0, 4, 8, 16, 20, 24, 32, 36, 40]⟩,
-  ⟨11, 1, 3, 4, 4, 4, false, true, 2, 48, 16, 0, 3, 4, 16, [0, 4, 8, 12, 16, 20, 24, 28, 32, 36, 40, 44]⟩,
-  ⟨11, 1, 4, 2, 4, 4, false, true, 2, 32, 8, 0, 4, 4, 8, [0, 4, 8, 12, 16, 20, 24, 28]⟩,
-  ⟨11, 1, 4, 3, 4, 4, false, true, 2, 64, 16, 0, 4, 4, 16, [0, 4, 8, 16, 20, 24, 32, 36, 40, 48, 52, 56]⟩,
-  ⟨11, 1, 4, 4, 4, 4, false, true, 2, 64, 16, 0, 4, 4, 16, [0, 4, 8, 12, 16, 20, 24, 28, 32, 36, 40, 44, 48, 52, 56, 60]⟩,
-  ⟨11, 2, 4, 1, 4, 4, true, true, 0, 16, 16, 0, 4, 4, 0, [0, 4, 8, 12]⟩,
-  ⟨11, 2, 4, 1, 4, 4, true, true, 1, 16, 16, 0, 4, 4, 0, [0, 4, 8, 12]⟩,
-  ⟨11, 2, 4, 1, 4, 4, true, true, 2, 16, 16, 0, 4, 4, 0, [0, 4, 8, 12]⟩,
-  ⟨11, 2, 4, 1, 8, 8, true, true, 0, 32, 16, 0, 4, 4, 0, [0, 8, 16, 24]⟩,
-  ⟨11, 2, 4, 1, 8, 8, true, true, 1, 32, 16, 0, 4, 4, 0, [0, 8, 16, 24]⟩,
-  ⟨11, 2, 4, 1, 8, 8, true, true, 2, 32, 16, 0, 4, 4, 0, [0, 8, 16, 24]⟩,
-  ⟨12, 0, 1, 1, 1, 1, false, false, 0, 1, 1, 0, 1, 4, 0, [0]⟩,
-  ⟨12, 0, 2, 1, 1, 1, false, false, 0, 2, 1, 0, 2, 4, 0, [0, 1]⟩,
-  ⟨12, 0, 3, 1, 1, 1, false, false, 0, 3, 1, 0, 3, 4, 0, [0, 1, 2]⟩,
-  ⟨12, 0, 4, 1, 1, 1, false, false, 0, 4, 1, 0, 4, 4, 0, [0, 1, 2, 3]⟩,
-  ⟨12, 0, 1, 1, 1, 1, false, false, 1, 1, 1, 0, 1, 4, 0, [0]⟩,
-  ⟨12, 0, 2, 1, 1, 1, false, false, 1, 2, 1, 0, 2, 4, 0, [0, 1]⟩,
-  ⟨12, 0, 3, 1, 1, 1, false, false, 1, 3, 1, 0, 3, 4, 0, [0, 1, 2]⟩,
-  ⟨12, 0, 4, 1, 1, 1, false, false, 1, 4, 1, 0, 4, 4, 0, [0, 1, 2, 3]⟩,
-  ⟨12, 0, 1, 1, 1, 1, false, false, 2, 1, 1, 0, 1, 4, 0, [0]⟩,
-  ⟨12, 0, 2, 1, 1, 1, false, false, 2, 2, 1, 0, 2, 4, 0, [0, 1]⟩,
-  ⟨12, 0, 3, 1, 1, 1, false, false, 2, 3, 1, 0, 3, 4, 0, [0, 1, 2]⟩,
-  ⟨12, 0, 4, 1, 1, 1, false, false, 2, 4, 1, 0, 4, 4, 0, [0, 1, 2, 3]⟩,
-  ⟨12, 0, 1, 1, 1, 1, false, false, 0, 1, 1, 0, 1, 4, 0, [0]⟩,
-  ⟨12, 0, 2, 1, 1, 1, false, false, 0, 2, 1, 0, 2, 4, 0, [0, 1]⟩,
-  ⟨12, 0, 3, 1, 1, 1, false, false, 0, 3, 1, 0, 3, 4, 0, [0, 1, 2]⟩,
-  ⟨12, 0, 4, 1, 1, 1, false, false, 0, 4, 1, 0, 4, 4, 0, [0, 1, 2, 3]⟩,
-  ⟨12, 0, 1, 1, 1, 1, false, false, 1, 1, 1, 0, 1, 4, 0, [0]⟩,
-  ⟨12, 0, 2, 1, 1, 1, false, false, 1, 2, 1, 0, 2, 4, 0, [0, 1]⟩,
-  ⟨12, 0, 3, 1, 1, 1, false, false, 1, 3, 1, 0, 3, 4, 0, [0, 1, 2]⟩,
-  ⟨12, 0, 4, 1, 1, 1, false, false, 1, 4, 1, 0, 4, 4, 0, [0, 1, 2, 3]⟩,
-  ⟨12, 0, 1, 1, 1, 1, false, false, 2, 1, 1, 0, 1, 4, 0, [0]⟩,
-  ⟨12, 0, 2, 1, 1, 1, false, false, 2, 2, 1, 0, 2, 4, 0, [0, 1]⟩,
-  ⟨12, 0, 3, 1, 1, 1, false, false, 2, 3, 1, 0, 3, 4, 0, [0, 1, 2]⟩,
-  ⟨12, 0, 4, 1, 1, 1, false, false, 2, 4, 1, 0, 4, 4, 0, [0, 1, 2, 3]⟩,
-  ⟨12, 0, 1, 1, 1, 1, false, false, 0, 1, 1, 0, 1, 4, 0, [0]⟩,
-  ⟨12, 0, 2, 1, 1, 1, false, false, 0, 2, 1, 0, 2, 4, 0, [0, 1]⟩,
-  ⟨12, 0, 3, 1, 1, 1, false, false, 0, 3, 1, 0, 3, 4, 0, [0, 1, 2]⟩,
-  ⟨12, 0, 4, 1, 1, 1, false, false, 0, 4, 1, 0, 4, 4, 0, [0, 1, 2, 3]⟩,
-  ⟨12, 0, 1, 1, 1, 1, false, false, 1, 1, 1, 0, 1, 4, 0, [0]⟩,
-  ⟨12, 0, 2, 1, 1, 1, false, false, 1, 2, 1, 0, 2, 4, 0, [0, 1]⟩,
-  ⟨12, 0, 3, 1, 1, 1, false, false, 1, 3, 1, 0, 3, 4, 0, [0, 1, 2]⟩,
-  ⟨12, 0, 4, 1, 1, 1, false, false, 1, 4, 1, 0, 4, 4, 0, [0, 1, 2, 3]⟩,
-  ⟨12, 0, 1, 1, 1, 1, false, false, 2, 1, 1, 0, 1, 4, 0, [0]⟩,
-  ⟨12, 0, 2, 1, 1, 1, false, false, 2, 2, 1, 0, 2, 4, 0, [0, 1]⟩,
-  ⟨12, 0, 3, 1, 1, 1, false, false, 2, 3, 1, 0, 3, 4, 0, [0, 1, 2]⟩,
-  ⟨12, 0, 4, 1, 1, 1, false, false, 2, 4, 1, 0, 4, 4, 0, [0, 1, 2, 3]⟩,
-  ⟨12, 0, 1, 1, 2, 2, false, false, 0, 2, 2, 0, 1, 4, 0, [0]⟩,
-  ⟨12, 0, 2, 1, 2, 2, false, false, 0, 4, 2, 0, 2, 4, 0, [0, 2]⟩,
-  ⟨12, 0, 3, 1, 2, 2, false, false, 0, 6, 2, 0, 3, 4, 0, [0, 2, 4]⟩,
-  ⟨12, 0, 4, 1, 2, 2, false, false, 0, 8, 2, 0, 4, 4, 0, [0, 2, 4, 6]⟩,
-  ⟨12, 0, 1, 1, 2, 2, false, false, 1, 2, 2, 0, 1, 4, 0, [0]⟩,
-  ⟨12, 0, 2, 1, 2, 2, false, false, 1, 4, 2, 0, 2, 4, 0, [0, 2]⟩,
-  ⟨12, 0, 3, 1, 2, 2, false, false, 1, 6, 2, 0, 3, 4, 0, [0, 2, 4]⟩,
-  ⟨12, 0, 4, 1, 2, 2, false, false, 1, 8, 2, 0, 4, 4, 0, [0, 2, 4, 6]⟩,
-  ⟨12, 0, 1, 1, 2, 2, false, false, 2, 2, 2, 0, 1, 4, 0, [0]⟩,
-  ⟨12, 0, 2, 1, 2, 2, false, false, 2, 4, 2, 0, 2, 4, 0, [0, 2]⟩,
-  ⟨12, 0, 3, 1, 2, 2, false, false, 2, 6, 2, 0, 3, 4, 0, [0, 2, 4]⟩,
-  ⟨12, 0, 4, 1, 2, 2, false, false, 2, 8, 2, 0, 4, 4, 0, [0, 2, 4, 6]⟩,
-  ⟨12, 0, 1, 1, 2, 2, false, false, 0, 2, 2, 0, 1, 4, 0, [0]⟩,
-  ⟨12, 0, 2, 1, 2, 2, false, false, 0, 4, 2, 0, 2, 4, 0, [0, 2]⟩,
-  ⟨12, 0, 3, 1, 2, 2, false, false, 0, 6, 2, 0, 3, 4, 0, [0, 2, 4]⟩,
-  ⟨12, 0, 4, 1, 2, 2, false, false, 0, 8, 2, 0, 4, 4, 0, [0, 2, 4, 6]⟩,
-  ⟨12, 0, 1, 1, 2, 2, false, false, 1, 2, 2, 0, 1, 4, 0, [0]⟩,
-  ⟨12, 0, 2, 1, 2, 2, false, false, 1, 4, 2, 0, 2, 4, 0, [0, 2]⟩,
-  ⟨12, 0, 3, 1, 2, 2, false, false, 1, 6, 2, 0, 3, 4, 0, [0, 2, 4]⟩,
-  ⟨12, 0, 4, 1, 2, 2, false, false, 1, 8, 2, 0, 4, 4, 0, [0, 2, 4, 6]⟩,
-  ⟨12, 0, 1, 1, 2, 2, false, false, 2, 2, 2, 0, 1, 4, 0, [0]⟩,
-  ⟨12, 0, 2, 1, 2, 2, false, false, 2, 4, 2, 0, 2, 4, 0, [0, 2]⟩,
-  ⟨12, 0, 3, 1, 2, 2, false, false, 2, 6, 2, 0, 3, 4, 0, [0, 2, 4]⟩,
-  ⟨12, 0, 4, 1, 2, 2, false, false, 2, 8, 2, 0, 4, 4, 0, [0, 2, 4, 6]⟩,
-  ⟨12, 0, 1, 1, 4, 4, false, false, 0, 4, 4, 0, 1, 4, 0, [0]⟩,
-  ⟨12, 0, 2, 1, 4, 4, false, false, 0, 8, 4, 0, 2, 4, 0, [0, 4]⟩,
-  ⟨12, 0, 3, 1, 4, 4, false, false, 0, 12, 4, 0, 3, 4, 0, [0, 4, 8]⟩,
-  ⟨12, 0, 4, 1, 4, 4, false, false, 0, 16, 4, 0, 4, 4, 0, [0, 4, 8, 12]⟩,
-  ⟨12, 0, 1, 1, 4, 4, false, false, 1, 4, 4, 0, 1, 4, 0, [0]⟩,
-  ⟨12, 0, 2, 1, 4, 4, false, false, 1, 8, 4, 0, 2, 4, 0, [0, 4]⟩,
-  ⟨12, 0, 3, 1, 4, 4, false, false, 1, 12, 4, 0, 3, 4, 0, [0, 4, 8]⟩,
-  ⟨12, 0, 4, 1, 4, 4, false, false, 1, 16, 4, 0, 4, 4, 0, [0, 4, 8, 12]⟩,
-  ⟨12, 0, 1, 1, 4, 4, false, false, 2, 4, 4, 0, 1, 4, 0, [0]⟩,
-  ⟨12, 0, 2, 1, 4, 4, false, false, 2, 8, 4, 0, 2, 4, 0, [0, 4]⟩,
-  ⟨12, 0, 3, 1, 4, 4, false, false, 2, 12, 4, 0, 3, 4, 0, [0, 4, 8]⟩,
-  ⟨12, 0, 4, 1, 4, 4, false, false, 2, 16, 4, 0, 4, 4, 0, [0, 4, 8, 12]⟩,
-  ⟨12, 0, 1, 1, 4, 4, false, false, 0, 4, 4, 0, 1, 4, 0, [0]⟩,
-  ⟨12, 0, 2, 1, 4, 4, false, false, 0, 8, 4, 0, 2, 4, 0, [0, 4]⟩,
-  ⟨12, 0, 3, 1, 4, 4, false, false, 0, 12, 4, 0, 3, 4, 0, [0, 4, 8]⟩,
-  ⟨12, 0, 4, 1, 4, 4, false, false, 0, 16, 4, 0, 4, 4, 0, [0, 4, 8, 12]⟩,
-  ⟨12, 0, 1, 1, 4, 4, false, false, 1, 4, 4, 0, 1, 4, 0, [0]⟩,
-  ⟨12, 0, 2, 1, 4, 4, false, false, 1, 8, 4, 0, 2, 4, 0, [0, 4]⟩,
-  ⟨12, 0, 3, 1, 4, 4, false, false, 1, 12, 4, 0, 3, 4, 0, [0, 4, 8]⟩,
-  ⟨12, 0, 4, 1, 4, 4, false, false, 1, 16, 4, 0, 4, 4, 0, [0, 4, 8, 12]⟩,
-  ⟨12, 0, 1, 1, 4, 4, false, false, 2, 4, 4, 0, 1, 4, 0, [0]⟩,
-  ⟨12, 0, 2, 1, 4, 4, false, false, 2, 8, 4, 0, 2, 4, 0, [0, 4]⟩,
-  ⟨12, 0, 3, 1, 4, 4, false, false, 2, 12, 4, 0, 3, 4, 0, [0, 4, 8]⟩,
-  ⟨12, 0, 4, 1, 4, 4, false, false, 2, 16, 4, 0, 4, 4, 0, [0, 4, 8, 12]⟩,
-  ⟨12, 0, 1, 1, 8, 8, false, false, 0, 8, 8, 0, 1, 4, 0, [0]⟩,
-  ⟨12, 0, 2, 1, 8, 8, false, false, 0, 16, 8, 0, 2, 4, 0, [0, 8]⟩,
-  ⟨12, 0, 3, 1, 8, 8, false, false, 0, 24, 8, 0, 3, 4, 0, [0, 8, 16]⟩,
-  ⟨12, 0, 4, 1, 8, 8, false, false, 0, 32, 8, 0, 4, 4, 0, [0, 8, 16, 24]⟩,
-  ⟨12, 0, 1, 1, 8, 8, false, false, 1, 8, 8, 0, 1, 4, 0, [0]⟩,
-  ⟨12, 0, 2, 1, 8, 8, false, false, 1, 16, 8, 0, 2, 4, 0, [0, 8]⟩,
-  ⟨12, 0, 3, 1, 8, 8, false, false, 1, 24, 8, 0, 3, 4, 0, [0, 8, 16]⟩,
-  ⟨12, 0, 4, 1, 8, 8, false, false, 1, 32, 8, 0, 4, 4, 0, [0, 8, 16, 24]⟩,
-  ⟨12, 0, 1, 1, 8, 8, false, false, 2, 8, 8, 0, 1, 4, 0, [0]⟩,
-  ⟨12, 0, 2, 1, 8, 8, false, false, 2, 16, 8, 0, 2, 4, 0, [0, 8]⟩,
-  ⟨12, 0, 3, 1, 8, 8, false, false, 2, 24, 8, 0, 3, 4, 0, [0, 8, 16]⟩,
-  ⟨12, 0, 4, 1, 8, 8, false, false, 2, 32, 8, 0, 4, 4, 0, [0, 8, 16, 24]⟩,
-  ⟨12, 0, 1, 1, 8, 8, false, false, 0, 8, 8, 0, 1, 4, 0, [0]⟩,
-  ⟨12, 0, 2, 1, 8, 8, false, false, 0, 16, 8, 0, 2, 4, 0, [0, 8]⟩,
-  ⟨12, 0, 3, 1, 8, 8, false, false, 0, 24, 8, 0, 3, 4, 0, [0, 8, 16]⟩,
-  ⟨12, 0, 4, 1, 8, 8, false, false, 0, 32, 8, 0, 4, 4, 0, [0, 8, 16, 24]⟩,
-  ⟨12, 0, 1, 1, 8, 8, false, false, 1, 8, 8, 0, 1, 4, 0, [0]⟩,
-  ⟨12, 0, 2, 1, 8, 8, false, false, 1, 16, 8, 0, 2, 4, 0, [0, 8]⟩,
-  ⟨12, 0, 3, 1, 8, 8, false, false, 1, 24, 8, 0, 3, 4, 0, [0, 8, 16]⟩,
-  ⟨12, 0, 4, 1, 8, 8, false, false, 1, 32, 8, 0, 4, 4, 0, [0, 8, 16, 24]⟩,
-  ⟨12, 0, 1, 1, 8, 8, false, false, 2, 8, 8, 0, 1, 4, 0, [0]⟩,
-  ⟨12, 0, 2, 1, 8, 8, false, false, 2, 16, 8, 0, 2, 4, 0, [0, 8]⟩,
-  ⟨12, 0, 3, 1, 8, 8, false, false, 2, 24, 8, 0, 3, 4, 0, [0, 8, 16]⟩,
-  ⟨12, 0, 4, 1, 8, 8, false, false, 2, 32, 8, 0, 4, 4, 0, [0, 8, 16, 24]⟩,
-  ⟨12, 0, 1, 1, 4, 4, true, false, 0, 4, 4, 0, 1, 4, 0, [0]⟩,
-  ⟨12, 0, 2, 1, 4, 4, true, false, 0, 8, 4, 0, 2, 4, 0, [0, 4]⟩,
-  ⟨12, 0, 3, 1, 4, 4, true, false, 0, 12, 4, 0, 3, 4, 0, [0, 4, 8]⟩,
-  ⟨12, 0, 4, 1, 4, 4, true, false, 0, 16, 4, 0, 4, 4, 0, [0, 4, 8, 12]⟩,
-  ⟨12, 0, 1, 1, 4, 4, true, false, 1, 4, 4, 0, 1, 4, 0, [0]⟩,
-  ⟨12, 0, 2, 1, 4, 4, true, false, 1, 8, 4, 0, 2, 4, 0, [0, 4]⟩,
-  ⟨12, 0, 3, 1, 4, 4, true, false, 1, 12, 4, 0, 3, 4, 0, [0, 4, 8]⟩,
-  ⟨12, 0, 4, 1, 4, 4, true, false, 1, 16, 4, 0, 4, 4, 0, [0, 4, 8, 12]⟩,
-  ⟨12, 0, 1, 1, 4, 4, true, false, 2, 4, 4, 0, 1, 4, 0, [0]⟩,
-  ⟨12, 0, 2, 1, 4, 4, true, false, 2, 8, 4, 0, 2, 4, 0, [0, 4]⟩,
-  ⟨12, 0, 3, 1, 4, 4, true, false, 2, 12, 4, 0, 3, 4, 0, [0, 4, 8]⟩,
-  ⟨12, 0, 4, 1, 4, 4, true, false, 2, 16, 4, 0, 4, 4, 0, [0, 4, 8, 12]⟩,
-  ⟨12, 0, 1, 1, 8, 8, true, false, 0, 8, 8, 0, 1, 4, 0, [0]⟩,
-  ⟨12, 0, 2, 1, 8, 8, true, false, 0, 16, 8, 0, 2, 4, 0, [0, 8]⟩,
-  ⟨12, 0, 3, 1, 8, 8, true, false, 0, 24, 8, 0, 3, 4, 0, [0, 8, 16]⟩,
-  ⟨12, 0, 4, 1, 8, 8, true, false, 0, 32, 8, 0, 4, 4, 0, [0, 8, 16, 24]⟩,
-  ⟨12, 0, 1, 1, 8, 8, true, false, 1, 8, 8, 0, 1, 4, 0, [0]⟩,
-  ⟨12, 0, 2, 1, 8, 8, true, false, 1, 16, 8, 0, 2, 4, 0, [0, 8]⟩,
-  ⟨12, 0, 3, 1, 8, 8, true, false, 1, 24, 8, 0, 3, 4, 0, [0, 8, 16]⟩,
-  ⟨12, 0, 4, 1, 8, 8, true, false, 1, 32, 8, 0, 4, 4, 0, [0, 8, 16, 24]⟩,
-  ⟨12, 0, 1, 1, 8, 8, true, false, 2, 8, 8, 0, 1, 4, 0, [0]⟩,
-  ⟨12, 0, 2, 1, 8, 8, true, false, 2, 16, 8, 0, 2, 4, 0, [0, 8]⟩,
-  ⟨12, 0, 3, 1, 8, 8, true, false, 2, 24, 8, 0, 3, 4, 0, [0, 8, 16]⟩,
-  ⟨12, 0, 4, 1, 8, 8, true, false, 2, 32, 8, 0, 4, 4, 0, [0, 8, 16, 24]⟩,
-  ⟨12, 1, 2, 2, 4, 4, true, false, 0, 16, 4, 0, 2, 4, 8, [0, 4, 8, 12]⟩,
-  ⟨12, 1, 2, 3, 4, 4, true, false, 0, 24, 4, 0, 2, 4, 12, [0, 4, 8, 12, 16, 20]⟩,
-  ⟨12, 1, 2, 4, 4, 4, true, false, 0, 32, 4, 0, 2, 4, 16, [0, 4, 8, 12, 16, 20, 24, 28]⟩,
-  ⟨12, 1, 3, 2, 4, 4, true, false, 0, 24, 4, 0, 3, 4, 8, [0, 4, 8, 12, 16, 20]⟩,
-  ⟨12, 1, 3, 3, 4, 4, true, false, 0, 36, 4, 0, 3, 4, 12, [0, 4, 8, 12, 16, 20, 24, 28, 32]⟩,
-  ⟨12, 1, 3, 4, 4, 4, true, false, 0, 48, 4, 0, 3, 4, 16, [0, 4, 8, 12, 16, 20, 24, 28, 32, 36, 40, 44]⟩,
-  ⟨12, 1, 4, 2, 4, 4, true, false, 0, 32, 4, 0, 4, 4, 8, [0, 4, 8, 12, 16, 20, 24, 28]⟩,
-  ⟨12, 1, 4, 3, 4, 4, true, false, 0, 48, 4, 0, 4, 4, 12, [0, 4, 8, 12, 16, 20, 24, 28, 32, 36, 40, 44]⟩,
-  ⟨12, 1, 4, 4, 4, 4, true, false, 0, 64, 4, 0, 4, 4, 16, [0, 4, 8, 12, 16, 20, 24, 28, 32, 36, 40, 44, 48, 52, 56, 60]⟩,
-  ⟨12, 1, 2, 2, 4, 4, true, false, 1, 16, 4, 0, 2, 4, 8, [0, 4, 8, 12]⟩,
-  ⟨12, 1, 2, 3, 4, 4, true, false, 1, 24, 4, 0, 2, 4, 12, [0, 4, 8, 12, 16, 20]⟩,
-  ⟨12, 1, 2, 4, 4, 4, true, false, 1, 32, 4, 0, 2, 4, 16, [0, 4, 8, 12, 16, 20, 24, 28]⟩,
-  ⟨12, 1, 3, 2, 4, 4, true, false, 1, 24, 4, 0, 3, 4, 8, [0, 4, 8, 12, 16, 20]⟩,
-  ⟨12, 1, 3, 3, 4, 4, true, false, 1, 36, 4, 0, 3, 4, 12, [0, 4, 8, 12, 16, 20, 24, 28, 32]⟩,
-  ⟨12, 1, 3, 4, 4, 4, true, false, 1, 48, 4, 0, 3, 4, 16, [0, 4, 8, 12, 16, 20, 24, 28, 32, 36, 40, 44]⟩,
-  ⟨12, 1, 4, 2, 4, 4, true, false, 1, 32, 4, 0, 4, 4, 8, [0, 4, 8, 12, 16, 20, 24, 28]⟩,
-  ⟨12, 1, 4, 3, 4, 4, true, false, 1, 48, 4, 0, 4, 4, 12, [0, 4, 8, 12, 16, 20, 24, 28, 32, 36, 40, 44]⟩,
-  ⟨12, 1, 4, 4, 4, 4, true, false, 1, 64, 4, 0, 4, 4, 16, [0, 4, 8, 12, 16, 20, 24, 28, 32, 36, 40, 44, 48, 52, 56, 60]⟩,
-  ⟨12, 1, 2, 2, 4, 4, true, false, 2, 16, 4, 0, 2, 4, 8, [0, 4, 8, 12]⟩,
-  ⟨12, 1, 2, 3, 4, 4, true, false, 2, 24, 4, 0, 2, 4, 12, [0, 4, 8, 12, 16, 20]⟩,
-  ⟨12, 1, 2, 4, 4, 4, true, false, 2, 32, 4, 0, 2, 4, 16, [0, 4, 8, 12, 16, 20, 24, 28]⟩,
-  ⟨12, 1, 3, 2, 4, 4, true, false, 2, 24, 4, 0, 3, 4, 8, [0, 4, 8, 12, 16, 20]⟩,
-  ⟨12, 1, 3, 3, 4, 4, true, false, 2, 36, 4, 0, 3, 4, 12, [0, 4, 8, 12, 16, 20, 24, 28, 32]⟩,
-  ⟨12, 1, 3, 4, 4, 4, true, false, 2, 48, 4, 0, 3, 4, 16, [0, 4, 8, 12, 16, 20, 24, 28, 32, 36, 40, 44]⟩,
-  ⟨12, 1, 4, 2, 4, 4, true, false, 2, 32, 4, 0, 4, 4, 8, [0, 4, 8, 12, 16, 20, 24, 28]⟩,
-  ⟨12, 1, 4, 3, 4, 4, true, false, 2, 48, 4, 0, 4, 4, 12, [0, 4, 8, 12, 16, 20, 24, 28, 32, 36, 40, 44]⟩,
-  ⟨12, 1, 4, 4, 4, 4, true, false, 2, 64, 4, 0, 4, 4, 16, [0, 4, 8, 12, 16, 20, 24, 28, 32, 36, 40, 44, 48, 52, 56, 60]⟩,
-  ⟨12, 1, 2, 2, 8, 8, true, false, 0, 32, 8, 0, 2, 4, 16, [0, 8, 16, 24]⟩,
-  ⟨12, 1, 2, 3, 8, 8, true, false, 0, 48, 8, 0, 2, 4, 24, [0, 8, 16, 24, 32, 40]⟩,
-  ⟨12, 1, 2, 4, 8, 8, true, false, 0, 64, 8, 0, 2, 4, 32, [0, 8, 16, 24, 32, 40, 48, 56]⟩,
-  ⟨12, 1, 3, 2, 8, 8, true, false, 0, 48, 8, 0, 3, 4, 16, [0, 8, 16, 24, 32, 40]⟩,
-  ⟨12, 1, 3, 3, 8, 8, true, false, 0, 72, 8, 0, 3, 4, 24, [0, 8, 16, 24, 32, 40, 48, 56, 64]⟩,
-  ⟨12, 1, 3, 4, 8, 8, true, false, 0, 96, 8, 0, 3, 4, 32, [0, 8, 16, 24, 32, 40, 48, 56, 64, 72, 80, 88]⟩,
-  ⟨12, 1, 4, 2, 8, 8, true, false, 0, 64, 8, 0, 4, 4, 16, [0, 8, 16, 24, 32, 40, 48, 56]⟩,
-  ⟨12, 1, 4, 3, 8, 8, true, false, 0, 96, 8, 0, 4, 4, 24, [0, 8, 16, 24, 32, 40, 48, 56, 64, 72, 80, 88]⟩,
-  ⟨12, 1, 4, 4, 8, 8, true, false, 0, 128, 8, 0, 4, 4, 32, [0, 8, 16, 24, 32, 40, 48, 56, 64, 72, 80, 88, 96, 104, 112, 120]⟩,
-  ⟨12, 1, 2, 2, 8, 8, true, false, 1, 32, 8, 0, 2, 4, 16, [0, 8, 16, 24]⟩,
-  ⟨12, 1, 2, 3, 8, 8, true, false, 1, 48, 8, 0, 2, 4, 24, [0, 8, 16, 24, 32, 40]⟩,
-  ⟨12, 1, 2, 4, 8, 8, true, false, 1, 64, 8, 0, 2, 4, 32, [0, 8, 16, 24, 32, 40, 48, 56]⟩,
-  ⟨12, 1, 3, 2, 8, 8, true, false, 1, 48, 8, 0, 3, 4, 16, [0, 8, 16, 24, 32, 40]⟩,
-  ⟨12, 1, 3, 3, 8, 8, true, false, 1, 72, 8, 0, 3, 4, 24, [0, 8, 16, 24, 32, 40, 48, 56, 64]⟩,
-  ⟨12, 1, 3, 4, 8, 8, true, false, 1, 96, 8, 0, 3, 4, 32, [0, 8, 16, 24, 32, 40, 48, 56, 64, 72, 80, 88]⟩,
-  ⟨12, 1, 4, 2, 8, 8, true, false, 1, 64, 8, 0, 4, 4, 16, [0, 8, 16, 24, 32, 40, 48, 56]⟩,
-  ⟨12, 1, 4, 3, 8, 8, true, false, 1, 96, 8, 0, 4, 4, 24, [0, 8, 16, 24, 32, 40, 48, 56, 64, 72, 80, 88]⟩,
-  ⟨12, 1, 4, 4, 8, 8, true, false, 1, 128, 8, 0, 4, 4, 32, [0, 8, 16, 24, 32, 40, 48, 56, 64, 72, 80, 88, 96, 104, 112, 120]⟩,
-  ⟨12, 1, 2, 2, 8, 8, true, false, 2, 32, 8, 0, 2, 4, 16, [0, 8, 16, 24]⟩,
-  ⟨12, 1, 2, 3, 8, 8, true, false, 2, 48, 8, 0, 2, 4, 24, [0, 8, 16, 24, 32, 40]⟩,
-  ⟨12, 1, 2, 4, 8, 8, true, false, 2, 64, 8, 0, 2, 4, 32, [0, 8, 16, 24, 32, 40, 48, 56]⟩,
-  ⟨12, 1, 3, 2, 8, 8, true, false, 2, 48, 8, 0, 3, 4, 16, [0, 8, 16, 24, 32, 40]⟩,
-  ⟨12, 1, 3, 3, 8, 8, true, false, 2, 72, 8, 0, 3, 4, 24, [0, 8, 16, 24, 32, 40, 48, 56, 64]⟩,
-  ⟨12, 1, 3, 4, 8, 8, true, false, 2, 96, 8, 0, 3, 4, 32, [0, 8, 16, 24, 32, 40, 48, 56, 64, 72, 80, 88]⟩,
-  ⟨12, 1, 4, 2, 8, 8, true, false, 2, 64, 8, 0, 4, 4, 16, [0, 8, 16, 24, 32, 40, 48, 56]⟩,
-  ⟨12, 1, 4, 3, 8, 8, true, false, 2, 96, 8, 0, 4, 4, 24, [0, 8, 16, 24, 32, 40, 48, 56, 64, 72, 80, 88]⟩,
-  ⟨12, 1, 4, 4, 8, 8, true, false, 2, 128, 8, 0, 4, 4, 32, [0, 8, 16, 24, 32, 40, 48, 56, 64, 72, 80, 88, 96, 104, 112, 120]⟩,
-  ⟨12, 1, 2, 2, 4, 4, false, false, 0, 16, 4, 0, 2, 4, 8, [0, 4, 8, 12]⟩,
-  ⟨12, 1, 2, 3, 4, 4, false, false, 0, 24, 4, 0, 2, 4, 12, [0, 4, 8, 12, 16, 20]⟩,
-  ⟨12, 1, 2, 4, 4, 4, false, false, 0, 32, 4, 0, 2, 4, 16, [0, 4, 8, 12, 16, 20, 24, 28]⟩,
-  ⟨12, 1, 3, 2, 4, 4, false, false, 0, 24, 4, 0, 3, 4, 8, [0, 4, 8, 12, 16, 20]⟩,
-  ⟨12, 1, 3, 3, 4, 4, false, false, 0, 36, 4, 0, 3, 4, 12, [0, 4, 8, 12, 16, 20, 24, 28, 32]⟩,
-  ⟨12, 1, 3, 4, 4, 4, false, false, 0, 48, 4, 0, 3, 4, 16, [0, 4, 8, 12, 16, 20, 24, 28, 32, 36, 40, 44]⟩,
-  ⟨12, 1, 4, 2, 4, 4, false, false, 0, 32, 4, 0, 4, 4, 8, [0, 4, 8, 12, 16, 20, 24, 28]⟩,
-  ⟨12, 1, 4, 3, 4, 4, false, false, 0, 48, 4, 0, 4, 4, 12, [0, 4, 8, 12, 16, 20, 24, 28, 32, 36, 40, 44]⟩,
-  ⟨12, 1, 4, 4, 4, 4, false, false, 0, 64, 4, 0, 4, 4, 16, [0, 4, 8, 12, 16, 20, 24, 28, 32, 36, 40, 44, 48, 52, 56, 60]⟩,
-  ⟨12, 1, 2, 2, 4, 4, false, false, 1, 16, 4, 0, 2, 4, 8, [0, 4, 8, 12]⟩,
-  ⟨12, 1, 2, 3, 4, 4, false, false, 1, 24, 4, 0, 2, 4, 12, [0, 4, 8, 12, 16, 20]⟩,
-  ⟨12, 1, 2, 4, 4, 4, false, false, 1, 32, 4, 0, 2, 4, 16, [0, 4, 8, 12, 16, 20, 24, 28]⟩,
-  ⟨12, 1, 3, 2, 4, 4, false, false, 1, 24, 4, 0, 3, 4, 8, [0, 4, 8, 12, 16, 20]⟩,
-  ⟨12, 1, 3, 3, 4, 4, false, false, 1, 36, 4, 0, 3, 4, 12, [0, 4, 8, 12, 16, 20, 24, 28, 32]⟩,
-  ⟨12, 1, 3, 4, 4, 4, false, false, 1, 48, 4, 0, 3, 4, 16, [0, 4, 8, 12, 16, 20, 24, 28, 32, 36, 40, 44]⟩,
-  ⟨12, 1, 4, 2, 4, 4, false, false, 1, 32, 4, 0, 4, 4, 8, [0, 4, 8, 12, 16, 20, 24, 28]⟩,
-  ⟨12, 1, 4, 3, 4, 4, false, false, 1, 48, 4, 0, 4, 4, 12, [0, 4, 8, 12, 16, 20, 24, 28, 32, 36, 40, 44]⟩,
-  ⟨12, 1, 4, 4, 4, 4, false, false, 1, 64, 4, 0, 4, 4, 16, [0, 4, 8, 12, 16, 20, 24, 28, 32, 36, 40, 44, 48, 52, 56, 60]⟩,
-  ⟨12, 1, 2, 2, 4, 4, false, false, 2, 16, 4, 0, 2, 4, 8, [0, 4, 8, 12]⟩,
-  ⟨12, 1, 2, 3, 4, 4, false, false, 2, 24, 4, 0, 2, 4, 12, [0, 4, 8, 12, 16, 20]⟩,
-  ⟨12, 1, 2, 4, 4, 4, false, false, 2, 32, 4, 0, 2, 4, 16, [0, 4, 8, 12, 16, 20, 24, 28]⟩,
-  ⟨12, 1, 3, 2, 4, 4, false, false, 2, 24, 4, 0, 3, 4, 8, [0, 4, 8, 12, 16, 20]⟩,
-  ⟨12, 1, 3, 3, 4, 4, false, false, 2, 36, 4, 0, 3, 4, 12, [0, 4, 8, 12, 16, 20, 24, 28, 32]⟩,
-  ⟨12, 1, 3, 4, 4, 4, false, false, 2, 48, 4, 0, 3, 4, 16, [0, 4, 8, 12, 16, 20, 24, 28, 32, 36, 40, 44]⟩,
-  ⟨12, 1, 4, 2, 4, 4, false, false, 2, 32, 4, 0, 4, 4, 8, [0, 4, 8, 12, 16, 20, 24, 28]⟩,
-  ⟨12, 1, 4, 3, 4, 4, false, false, 2, 48, 4, 0, 4, 4, 12, [0, 4, 8, 12, 16, 20, 24, 28, 32, 36, 40, 44]⟩,
-  ⟨12, 1, 4, 4, 4, 4, false, false, 2, 64, 4, 0, 4, 4, 16, [0, 4, 8, 12, 16, 20, 24, 28, 32, 36, 40, 44, 48, 52, 56, 60]⟩,
-  ⟨12, 1, 2, 2, 4, 4, false, false, 0, 16, 4, 0, 2, 4, 8, [0, 4, 8, 12]⟩,
-  ⟨12, 1, 2, 3, 4, 4, false, false, 0, 24, 4, 0, 2, 4, 12, [0, 4, 8, 12, 16, 20]⟩,
-  ⟨12, 1, 2, 4, 4, 4, false, false, 0, 32, 4, 0, 2, 4, 16, [0, 4, 8, 12, 16, 20, 24, 28]⟩,
-  ⟨12, 1, 3, 2, 4, 4, false, false, 0, 24, 4, 0, 3, 4, 8, [0, 4, 8, 12, 16, 20]⟩,
-  ⟨12, 1, 3, 3, 4, 4, false, false, 0, 36, 4, 0, 3, 4, 12, [0, 4, 8, 12, 16, 20, 24, 28, 32]⟩,
-  ⟨12, 1, 3, 4, 4, 4, false, false, 0, 48, 4, 0, 3, 4, 16, [0, 4, 8, 12, 16, 20, 24, 28, 32, 36, 40, 44]⟩,
-  ⟨12, 1, 4, 2, 4, 4, false, false, 0, 32, 4, 0, 4, 4, 8, [0, 4, 8, 12, 16, 20, 24, 28]⟩,
-  ⟨12, 1, 4, 3, 4, 4, false, false, 0, 48, 4, 0, 4, 4, 12, [0, 4, 8, 12, 16, 20, 24, 28, 32, 36, 40, 44]⟩,
-  ⟨12, 1, 4, 4, 4, 4, false, false, 0, 64, 4, 0, 4, 4, 16, [0, 4, 8, 12, 16, 20, 24, 28, 32, 36, 40, 44, 48, 52, 56, 60]⟩,
-  ⟨12, 1, 2, 2, 4, 4, false, false, 1, 16, 4, 0, 2, 4, 8, [0, 4, 8, 12]⟩,
-  ⟨12, 1, 2, 3, 4, 4, false, false, 1, 24, 4, 0, 2, 4, 12, [0, 4, 8, 12, 16, 20]⟩,
-  ⟨12, 1, 2, 4, 4, 4, false, false, 1, 32, 4, 0, 2, 4, 16, [0, 4, 8, 12, 16, 20, 24, 28]⟩,
-  ⟨12, 1, 3, 2, 4, 4, false, false, 1, 24, 4, 0, 3, 4, 8, [0, 4, 8, 12, 16, 20]⟩,
-  ⟨12, 1, 3, 3, 4, 4, false, false, 1, 36, 4, 0, 3, 4, 12, [0, 4, 8, 12, 16, 20, 24, 28, 32]⟩,
-  ⟨12, 1, 3, 4, 4, 4, false, false, 1, 48, 4, 0, 3, 4, 16, [0, 4, 8, 12, 16, 20, 24, 28, 32, 36, 40, 44]⟩,
-  ⟨12, 1, 4, 2, 4, 4, false, false, 1, 32, 4, 0, 4, 4, 8, [0, 4, 8, 12, 16, 20, 24, 28]⟩,
-  ⟨12, 1, 4, 3, 4, 4, false, false, 1, 48, 4, 0, 4, 4, 12, [0, 4, 8, 12, 16, 20, 24, 28, 32, 36, 40, 44]⟩,
-  ⟨12, 1, 4, 4, 4, 4, false, false, 1, 64, 4, 0, 4, 4, 16, [0, 4, 8, 12, 16, 20, 24, 28, 32, 36, 40, 44, 48, 52, 56, 60]⟩,
-  ⟨12, 1, 2, 2, 4, 4, false, false, 2, 16, 4, 0, 2, 4, 8, [0, 4, 8, 12]⟩,
-  ⟨12, 1, 2, 3, 4, 4, false, false, 2, 24, 4, 0, 2, 4, 12, [0, 4, 8, 12, 16, 20]⟩,
-  ⟨12, 1, 2, 4, 4, 4, false, false, 2, 32, 4, 0, 2, 4, 16, [0, 4, 8, 12, 16, 20, 24, 28]⟩,
-  ⟨12, 1, 3, 2, 4, 4, false, false, 2, 24, 4, 0, 3, 4, 8, [0, 4, 8, 12, 16, 20]⟩,
-  ⟨12, 1, 3, 3, 4, 4, false, false, 2, 36, 4, 0, 3, 4, 12, [0, 4, 8, 12, 16, 20, 24, 28, 32]⟩,
-  ⟨12, 1, 3, 4, 4, 4, false, false, 2, 48, 4, 0, 3, 4, 16, [0, 4, 8, 12, 16, 20, 24, 28, 32, 36, 40, 44]⟩,
-  ⟨12, 1, 4, 2, 4, 4, false, false, 2, 32, 4, 0, 4, 4, 8, [0, 4, 8, 12, 16, 20, 24, 28]⟩,
-  ⟨12, 1, 4, 3, 4, 4, false, false, 2, 48, 4, 0, 4, 4, 12, [0, 4, 8, 12, 16, 20, 24, 28, 32, 36, 40, 44]⟩,
-  ⟨12, 1, 4, 4, 4, 4, false, false, 2, 64, 4, 0, 4, 4, 16, [0, 4, 8, 12, 16, 20, 24, 28, 32, 36, 40, 44, 48, 52, 56, 60]⟩,
-  ⟨12, 2, 4, 1, 4, 4, true, false, 0, 16, 4, 0, 4, 4, 0, [0, 4, 8, 12]⟩,
-  ⟨12, 2, 4, 1, 4, 4, true, false, 1, 16, 4, 0, 4, 4, 0, [0, 4, 8, 12]⟩,
-  ⟨12, 2, 4, 1, 4, 4, true, false, 2, 16, 4, 0, 4, 4, 0, [0, 4, 8, 12]⟩,
-  ⟨12, 2, 4, 1, 8, 8, true, false, 0, 32, 8, 0, 4, 4, 0, [0, 8, 16, 24]⟩,
-  ⟨12, 2, 4, 1, 8, 8, true, false, 1, 32, 8, 0, 4, 4, 0, [0, 8, 16, 24]⟩,
-  ⟨12, 2, 4, 1, 8, 8, true, false, 2, 32, 8, 0, 4, 4, 0, [0, 8, 16, 24]⟩,
-  ⟨12, 0, 1, 1, 1, 1, false, true, 0, 1, 1, 0, 1, 4, 0, [0]⟩,
-  ⟨12, 0, 2, 1, 1, 1, false, true, 0, 2, 2, 0, 2, 4, 0, [0, 1]⟩,
-  ⟨12, 0, 3, 1, 1, 1, false, true, 0, 4, 4, 0, 3, 4, 0, [0, 1, 2]⟩,
-  ⟨12, 0, 4, 1, 1, 1, false, true, 0, 4, 4, 0, 4, 4, 0, [0, 1, 2, 3]⟩,
-  ⟨12, 0, 1, 1, 1, 1, false, true, 1, 1, 1, 0, 1, 4, 0, [0]⟩,
-  ⟨12, 0, 2, 1, 1, 1, false, true, 1, 2, 2, 0, 2, 4, 0, [0, 1]⟩,
-  ⟨12, 0, 3, 1, 1, 1, false, true, 1, 4, 4, 0, 3, 4, 0, [0, 1, 2]⟩,
-  ⟨12, 0, 4, 1, 1, 1, false, true, 1, 4, 4, 0, 4, 4, 0, [0, 1, 2, 3]⟩,
-  ⟨12, 0, 1, 1, 1, 1, false, true, 2, 1, 1, 0, 1, 4, 0, [0]⟩,
-  ⟨12, 0, 2, 1, 1, 1, false, true, 2, 2, 2, 0, 2, 4, 0, [0, 1]⟩,
-  ⟨12, 0, 3, 1, 1, 1, false, true, 2, 4, 4, 0, 3, 4, 0, [0, 1, 2]⟩,
-  ⟨12, 0, 4, 1, 1, 1, false, true, 2, 4, 4, 0, 4, 4, 0, [0, 1, 2, 3]⟩,
-  ⟨12, 0, 1, 1, 1, 1, false, true, 0, 1, 1, 0, 1, 4, 0, [0]⟩,
-  ⟨12, 0, 2, 1, 1, 1, false, true, 0, 2, 2, 0, 2, 4, 0, [0, 1]⟩,
-  ⟨12, 0, 3, 1, 1, 1, false, true, 0, 4, 4, 0, 3, 4, 0, [0, 1, 2]⟩,
-  ⟨12, 0, 4, 1, 1, 1, false, true, 0, 4, 4, 0, 4, 4, 0, [0, 1, 2, 3]⟩,
-  ⟨12, 0, 1, 1, 1, 1, false, true, 1, 1, 1, 0, 1, 4, 0, [0]⟩,
-  ⟨12, 0, 2, 1, 1, 1, false, true, 1, 2, 2, 0, 2, 4, 0, [0, 1]⟩,
-  ⟨12, 0, 3, 1, 1, 1, false, true, 1, 4, 4, 0, 3, 4, 0, [0, 1, 2]⟩,
-  ⟨12, 0, 4, 1, 1, 1, false, true, 1, 4, 4, 0, 4, 4, 0, [0, 1, 2, 3]⟩,
-  ⟨12, 0, 1, 1, 1, 1, false, true, 2, 1, 1, 0, 1, 4, 0, [0]⟩,
-  ⟨12, 0, 2, 1, 1, 1, false, true, 2, 2, 2, 0, 2, 4, 0, [0, 1]⟩,
-  ⟨12, 0, 3, 1, 1, 1, false, true, 2, 4, 4, 0, 3, 4, 0, [0, 1, 2]⟩,
-  ⟨12, 0, 4, 1, 1, 1, false, true, 2, 4, 4, 0, 4, 4, 0, [0, 1, 2, 3]⟩,
-  ⟨12, 0, 1, 1, 1, 1, false, true, 0, 1, 1, 0, 1, 4, 0, [0]⟩,
-  ⟨12, 0, 2, 1, 1, 1, false, true, 0, 2, 2, 0, 2, 4, 0, [0, 1]⟩,
-  ⟨12, 0, 3, 1, 1, 1, false, true, 0, 4, 4, 0, 3, 4, 0, [0, 1, 2]⟩,
-  ⟨12, 0, 4, 1, 1, 1, false, true, 0, 4, 4, 0, 4, 4, 0, [0, 1, 2, 3]⟩,
-  ⟨12, 0, 1, 1, 1, 1, false, true, 1, 1, 1, 0, 1, 4, 0, [0]⟩,
-  ⟨12, 0, 2, 1, 1, 1, false, true, 1, 2, 2, 0, 2, 4, 0, [0, 1]⟩,
-  ⟨12, 0, 3, 1, 1, 1, false, true, 1, 4, 4, 0, 3, 4, 0, [0, 1, 2]⟩,
-  ⟨12, 0, 4, 1, 1, 1, false, true, 1, 4, 4, 0, 4, 4, 0, [0, 1, 2, 3]⟩,
-  ⟨12, 0, 1, 1, 1, 1, false, true, 2, 1, 1, 0, 1, 4, 0, [0]⟩,
-  ⟨12, 0, 2, 1, 1, 1, false, true, 2, 2, 2, 0, 2, 4, 0, [0, 1]⟩,
-  ⟨12, 0, 3, 1, 1, 1, false, true, 2, 4, 4, 0, 3, 4, 0, [0, 1, 2]⟩,
-  ⟨12, 0, 4, 1, 1, 1, false, true, 2, 4, 4, 0, 4, 4, 0, [0, 1, 2, 3]⟩,
-  ⟨12, 0, 1, 1, 2, 2, false, true, 0, 2, 2, 0, 1, 4, 0, [0]⟩,
-  ⟨12, 0, 2, 1, 2, 2, false, true, 0, 4, 4, 0, 2, 4, 0, [0, 2]⟩,
-  ⟨12, 0, 3, 1, 2, 2, false, true, 0, 8, 8, 0, 3, 4, 0, [0, 2, 4]⟩,
-  ⟨12, 0, 4, 1, 2, 2, false, true, 0, 8, 8, 0, 4, 4, 0, [0, 2, 4, 6]⟩,
-  ⟨12, 0, 1, 1, 2, 2, false, true, 1, 2, 2, 0, 1, 4, 0, [0]⟩,
-  ⟨12, 0, 2, 1, 2, 2, false, true, 1, 4, 4, 0, 2, 4, 0, [0, 2]⟩,
-  ⟨12, 0, 3, 1, 2, 2, false, true, 1, 8, 8, 0, 3, 4, 0, [0, 2, 4]⟩,
-  ⟨12, 0, 4, 1, 2, 2, false, true, 1, 8, 8, 0, 4, 4, 0, [0, 2, 4, 6]⟩,
-  ⟨12, 0, 1, 1, 2, 2, false, true, 2, 2, 2, 0, 1, 4, 0, [0]⟩,
-  ⟨12, 0, 2, 1, 2, 2, false, true, 2, 4, 4, 0, 2, 4, 0, [0, 2]⟩,
-  ⟨12, 0, 3, 1, 2, 2, false, true, 2, 8, 8, 0, 3, 4, 0, [0, 2, 4]⟩,
-  ⟨12, 0, 4, 1, 2, 2, false, true, 2, 8, 8, 0, 4, 4, 0, [0, 2, 4, 6]⟩,
-  ⟨12, 0, 1, 1, 2, 2, false, true, 0, 2, 2, 0, 1, 4, 0, [0]⟩,
-  ⟨12, 0, 2, 1, 2, 2, false, true, 0, 4, 4, 0, 2, 4, 0, [0, 2]⟩,
-  ⟨12, 0, 3, 1, 2, 2, false, true, 0, 8, 8, 0, 3, 4, 0, [0, 2, 4]⟩,
-  ⟨12, 0, 4, 1, 2, 2, false, true, 0, 8, 8, 0, 4, 4, 0, [0, 2, 4, 6]⟩,
-  ⟨12, 0, 1, 1, 2, 2, false, true, 1, 2, 2, 0, 1, 4, 0, [0]⟩,
-  ⟨12, 0, 2, 1, 2, 2, false, true, 1, 4, 4, 0, 2, 4, 0, [0, 2]⟩,
-  ⟨12, 0, 3, 1, 2, 2, false, true, 1, 8, 8, 0, 3, 4, 0, [0, 2, 4]⟩,
-  ⟨12, 0, 4, 1, 2, 2, false, true, 1, 8, 8, 0, 4, 4, 0, [0, 2, 4, 6]⟩,
-  ⟨12, 0, 1, 1, 2, 2, false, true, 2, 2, 2, 0, 1, 4, 0, [0]⟩,
-  ⟨12, 0, 2, 1, 2, 2, false, true, 2, 4, 4, 0, 2, 4, 0, [0, 2]⟩,
-  ⟨12, 0, 3, 1, 2, 2, false, true, 2, 8, 8, 0, 3, 4, 0, [0, 2, 4]⟩,
-  ⟨12, 0, 4, 1, 2, 2, false, true, 2, 8, 8, 0, 4, 4, 0, [0, 2, 4, 6]⟩,
-  ⟨12, 0, 1, 1, 4, 4, false, true, 0, 4, 4, 0, 1, 4, 0, [0]⟩,
-  ⟨12, 0, 2, 1, 4, 4, false, true, 0, 8, 8, 0, 2, 4, 0, [0, 4]⟩,
-  ⟨12, 0, 3, 1, 4, 4, false, true, 0, 16, 16, 0, 3, 4, 0, [0, 4, 8]⟩,
-  ⟨12, 0, 4, 1, 4, 4, false, true, 0, 16, 16, 0, 4, 4, 0, [0, 4, 8, 12]⟩,
-  ⟨12, 0, 1, 1, 4, 4, false, true, 1, 4, 4, 0, 1, 4, 0, [0]⟩,
-  ⟨12, 0, 2, 1, 4, 4, false, true, 1, 8, 8, 0, 2, 4, 0, [0, 4]⟩,
-  ⟨12, 0, 3, 1, 4, 4, false, true, 1, 16, 16, 0, 3, 4, 0, [0, 4, 8]⟩,
-  ⟨12, 0, 4, 1, 4, 4, false, true, 1, 16, 16, 0, 4, 4, 0, [0, 4, 8, 12]⟩,
-  ⟨12, 0, 1, 1, 4, 4, false, true, 2, 4, 4, 0, 1, 4, 0, [0]⟩,
-  ⟨12, 0, 2, 1, 4, 4, false, true, 2, 8, 8, 0, 2, 4, 0, [0, 4]⟩,
-  ⟨12, 0, 3, 1, 4, 4, false, true, 2, 16, 16, 0, 3, 4, 0, [0, 4, 8]⟩,
-  ⟨12, 0, 4, 1, 4, 4, false, true, 2, 16, 16, 0, 4, 4, 0, [0, 4, 8, 12]⟩,
-  ⟨12, 0, 1, 1, 4, 4, false, true, 0, 4, 4, 0, 1, 4, 0, [0]⟩,
-  ⟨12, 0, 2, 1, 4, 4, false, true, 0, 8, 8, 0, 2, 4, 0, [0, 4]⟩,
-  ⟨12, 0, 3, 1, 4, 4, false, true, 0, 16, 16, 0, 3, 4, 0, [0, 4, 8]⟩,
-  ⟨12, 0, 4, 1, 4, 4, false, true, 0, 16, 16, 0, 4, 4, 0, [0, 4, 8, 12]⟩,
-  ⟨12, 0, 1, 1, 4, 4, false, true, 1, 4, 4, 0, 1, 4, 0, [0]⟩,
-  ⟨12, 0, 2, 1, 4, 4, false, true, 1, 8, 8, 0, 2, 4, 0, [0, 4]⟩,
-  ⟨12, 0, 3, 1, 4, 4, false, true, 1, 16, 16, 0, 3, 4, 0, [0, 4, 8]⟩,
-  ⟨12, 0, 4, 1, 4, 4, false, true, 1, 16, 16, 0, 4, 4, 0, [0, 4, 8, 12]⟩,
-  ⟨12, 0, 1, 1, 4, 4, false, true, 2, 4, 4, 0, 1, 4, 0, [0]⟩,
-  ⟨12, 0, 2, 1, 4, 4, false, true, 2, 8, 8, 0, 2, 4, 0, [0, 4]⟩,
-  ⟨12, 0, 3, 1, 4, 4, false, true, 2, 16, 16, 0, 3, 4, 0, [0, 4, 8]⟩,
-  ⟨12, 0, 4, 1, 4, 4, false, true, 2, 16, 16, 0, 4, 4, 0, [0, 4, 8, 12]⟩,
-  ⟨12, 0, 1, 1, 8, 8, false, true, 0, 8, 8, 0, 1, 4, 0, [0]⟩,
-  ⟨12, 0, 2, 1, 8, 8, false, true, 0, 16, 16, 0, 2, 4, 0, [0, 8]⟩,
-  ⟨12, 0, 3, 1, 8, 8, false, true, 0, 32, 32, 0, 3, 4, 0, [0, 8, 16]⟩,
-  ⟨12, 0, 4, 1, 8, 8, false, true, 0, 32, 32, 0, 4, 4, 0, [0, 8, 16, 24]⟩,
-  ⟨12, 0, 1, 1, 8, 8, false, true, 1, 8, 8, 0, 1, 4, 0, [0]⟩,
-  ⟨12, 0, 2, 1, 8, 8, false, true, 1, 16, 16, 0, 2, 4, 0, [0, 8]⟩,
-  ⟨12, 0, 3, 1, 8, 8, false, true, 1, 32, 32, 0, 3, 4, 0, [0, 8, 16]⟩,
-  ⟨12, 0, 4, 1, 8, 8, false, true, 1, 32, 32, 0, 4, 4, 0, [0, 8, 16, 24]⟩,
-  ⟨12, 0, 1, 1, 8, 8, false, true, 2, 8, 8, 0, 1, 4, 0, [0]⟩,
-  ⟨12, 0, 2, 1, 8, 8, false, true, 2, 16, 16, 0, 2, 4, 0, [0, 8]⟩,
-  ⟨12, 0, 3, 1, 8, 8, false, true, 2, 32, 32, 0, 3, 4, 0, [0, 8, 16]⟩,
-  ⟨12, 0, 4, 1, 8, 8, false, true, 2, 32, 32, 0, 4, 4, 0, [0, 8, 16, 24]⟩,
-  ⟨12, 0, 1, 1, 8, 8, false, true, 0, 8, 8, 0, 1, 4, 0, [0]⟩,
-  ⟨12, 0, 2, 1, 8, 8, false, true, 0, 16, 16, 0, 2, 4, 0, [0, 8]⟩,
-  ⟨12, 0, 3, 1, 8, 8, false, true, 0, 32, 16, 0, 3, 4, 0, [0, 8, 16]⟩,
-  ⟨12, 0, 4, 1, 8, 8, false, true, 0, 32, 32, 0, 4, 4, 0, [0, 8, 16, 24]⟩,
-  ⟨12, 0, 1, 1, 8, 8, false, true, 1, 8, 8, 0, 1, 4, 0, [0]⟩,
-  ⟨12, 0, 2, 1, 8, 8, false, true, 1, 16, 16, 0, 2, 4, 0, [0, 8]⟩,
-  ⟨12, 0, 3, 1, 8, 8, false, true, 1, 32, 16, 0, 3, 4, 0, [0, 8, 16]⟩,
-  ⟨12, 0, 4, 1, 8, 8, false, true, 1, 32, 32, 0, 4, 4, 0, [0, 8, 16, 24]⟩,
-  ⟨12, 0, 1, 1, 8, 8, false, true, 2, 8, 8, 0, 1, 4, 0, [0]⟩,
-  ⟨12, 0, 2, 1, 8, 8, false, true, 2, 16, 16, 0, 2, 4, 0, [0, 8]⟩,
-  ⟨12, 0, 3, 1, 8, 8, false, true, 2, 32, 16, 0, 3, 4, 0, [0, 8, 16]⟩,
-  ⟨12, 0, 4, 1, 8, 8, false, true, 2, 32, 32, 0, 4, 4, 0, [0, 8, 16, 24]⟩,
-  ⟨12, 0, 1, 1, 4, 4, true, true, 0, 4, 4, 0, 1, 4, 0, [0]⟩,
-  ⟨12, 0, 2, 1, 4, 4, true, true, 0, 8, 8, 0, 2, 4, 0, [0, 4]⟩,
-  ⟨12, 0, 3, 1, 4, 4, true, true, 0, 16, 16, 0, 3, 4, 0, [0, 4, 8]⟩,
-  ⟨12, 0, 4, 1, 4, 4, true, true, 0, 16, 16, 0, 4, 4, 0, [0, 4, 8, 12]⟩,
-  ⟨12, 0, 1, 1, 4, 4, true, true, 1, 4, 4, 0, 1, 4, 0, [0]⟩,
-  ⟨12, 0, 2, 1, 4, 4, true, true, 1, 8, 8, 0, 2, 4, 0, [0, 4]⟩,
-  ⟨12, 0, 3, 1, 4, 4, true, true, 1, 16, 16, 0, 3, 4, 0, [0, 4, 8]⟩,
-  ⟨12, 0, 4, 1, 4, 4, true, true, 1, 16, 16, 0, 4, 4, 0, [0, 4, 8, 12]⟩,
-  ⟨12, 0, 1, 1, 4, 4, true, true, 2, 4, 4, 0, 1, 4, 0, [0]⟩,
-  ⟨12, 0, 2, 1, 4, 4, true, true, 2, 8, 8, 0, 2, 4, 0, [0, 4]⟩,
-  ⟨12, 0, 3, 1, 4, 4, true, true, 2, 16, 16, 0, 3, 4, 0, [0, 4, 8]⟩,
-  ⟨12, 0, 4, 1, 4, 4, true, true, 2, 16, 16, 0, 4, 4, 0, [0, 4, 8, 12]⟩,
-  ⟨12, 0, 1, 1, 8, 8, true, true, 0, 8, 8, 0, 1, 4, 0, [0]⟩,
-  ⟨12, 0, 2, 1, 8, 8, true, true, 0, 16, 16, 0, 2, 4, 0, [0, 8]⟩,
-  ⟨12, 0, 3, 1, 8, 8, true, true, 0, 32, 32, 0, 3, 4, 0, [0, 8, 16]⟩,
-  ⟨12, 0, 4, 1, 8, 8, true, true, 0, 32, 32, 0, 4, 4, 0, [0, 8, 16, 24]⟩,
-  ⟨12, 0, 1, 1, 8, 8, true, true, 1, 8, 8, 0, 1, 4, 0, [0]⟩,
-  ⟨12, 0, 2, 1, 8, 8, true, true, 1, 16, 16, 0, 2, 4, 0, [0, 8]⟩,
-  ⟨12, 0, 3, 1, 8, 8, true, true, 1, 32, 32, 0, 3, 4, 0, [0, 8, 16]⟩,
-  ⟨12, 0, 4, 1, 8, 8, true, true, 1, 32, 32, 0, 4, 4, 0, [0, 8, 16, 24]⟩,
-  ⟨12, 0, 1, 1, 8, 8, true, true, 2, 8, 8, 0, 1, 4, 0, [0]⟩,
-  ⟨12, 0, 2, 1, 8, 8, true, true, 2, 16, 16, 0, 2, 4, 0, [0, 8]⟩,
-  ⟨12, 0, 3, 1, 8, 8, true, true, 2, 32, 32, 0, 3, 4, 0, [0, 8, 16]⟩,
-  ⟨12, 0, 4, 1, 8, 8, true, true, 2, 32, 32, 0, 4, 4, 0, [0, 8, 16, 24]⟩,
-  ⟨12, 1, 2, 2, 4, 4, true, true, 0, 16, 8, 0, 2, 4, 8, [0, 4, 8, 12]⟩,
-  ⟨12, 1, 2, 3, 4, 4, true, true, 0, 32, 16, 0, 2, 4, 16, [0, 4, 8, 16, 20, 24]⟩,
-  ⟨12, 1, 2, 4, 4, 4, true, true, 0, 32, 16, 0, 2, 4, 16, [0, 4, 8, 12, 16, 20, 24, 28]⟩,
-  ⟨12, 1, 3, 2, 4, 4, true, true, 0, 24, 8, 0, 3, 4, 8, [0, 4, 8, 12, 16, 20]⟩,
-  ⟨12, 1, 3, 3, 4, 4, true, true, 0, 48, 16, 0, 3, 4, 16, [0, 4, 8, 16, 20, 24, 32, 36, 40]⟩,
-  ⟨12, 1, 3, 4, 4, 4, true, true, 0, 48, 16, 0, 3, 4, 16, [0, 4, 8, 12, 16, 20, 24, 28, 32, 36, 40, 44]⟩,
-  ⟨12, 1, 4, 2, 4, 4, true, true, 0, 32, 8, 0, 4, 4, 8, [0, 4, 8, 12, 16, 20, 24, 28]⟩,
-  ⟨12, 1, 4, 3, 4, 4, true, true, 0, 64, 16, 0, 4, 4, 16, [0, 4, 8, 16, 20, 24, 32, 36, 40, 48, 52, 56]⟩,
-  ⟨12, 1, 4, 4, 4, 4, true, true, 0, 64, 16, 0, 4, 4, 16, [0, 4, 8, 12, 16, 20, 24, 28, 32, 36, 40, 44, 48, 52, 56, 60]⟩,
-  ⟨12, 1, 2, 2, 4, 4, true, true, 1, 16, 8, 0, 2, 4, 8, [0, 4, 8, 12]⟩,
-  ⟨12, 1, 2, 3, 4, 4, true, true, 1, 32, 16, 0, 2, 4, 16, [0, 4, 8, 16, 20, 24]⟩,
-  ⟨12, 1, 2, 4, 4, 4, true, true, 1, 32, 16, 0, 2, 4, 16, [0, 4, 8, 12, 16, 20, 24, 28]⟩,
-  ⟨12, 1, 3, 2, 4, 4, true, true, 1, 24, 8, 0, 3, 4, 8, [0, 4, 8, 12, 16, 20]⟩,
-  ⟨12, 1, 3, 3, 4, 4, true, true, 1, 48, 16, 0, 3, 4, 16, [0, 4, 8, 16, 20, 24, 32, 36, 40]⟩,
-  ⟨12, 1, 3, 4, 4, 4, true, true, 1, 48, 16, 0, 3, 4, 16, [0, 4, 8, 12, 16, 20, 24, 28, 32, 36, 40, 44]⟩,
-  ⟨12, 1, 4, 2, 4, 4, true, true, 1, 32, 8, 0, 4, 4, 8, [0, 4, 8, 12, 16, 20, 24, 28]⟩,
-  ⟨12, 1, 4, 3, 4, 4, true, true, 1, 64, 16, 0, 4, 4, 16, [0, 4, 8, 16, 20, 24, 32, 36, 40, 48, 52, 56]⟩,
-  ⟨12, 1, 4, 4, 4, 4, true, true, 1, 64, 16, 0, 4, 4, 16, [0, 4, 8, 12, 16, 20, 24, 28, 32, 36, 40, 44, 48, 52, 56, 60]⟩,
-  ⟨12, 1, 2, 2, 4, 4, true, true, 2, 16, 8, 0, 2, 4, 8, [0, 4, 8, 12]⟩,
-  ⟨12, 1, 2, 3, 4, 4, true, true, 2, 32, 16, 0, 2, 4, 16, [0, 4, 8, 16, 20, 24]⟩,
-  ⟨12, 1, 2, 4, 4, 4, true, true, 2, 32, 16, 0, 2, 4, 16, [0, 4, 8, 12, 16, 20, 24, 28]⟩,
-  ⟨12, 1, 3, 2, 4, 4, true, true, 2, 24, 8, 0, 3, 4, 8, [0, 4, 8, 12, 16, 20]⟩,
-  ⟨12, 1, 3, 3, 4, 4, true, true, 2, 48, 16, 0, 3, 4, 16, [0, 4, 8, 16, 20, 24, 32, 36, 40]⟩,
-  ⟨12, 1, 3, 4, 4, 4, true, true, 2, 48, 16, 0, 3, 4, 16, [0, 4, 8, 12, 16, 20, 24, 28, 32, 36, 40, 44]⟩,
-  ⟨12, 1, 4, 2, 4, 4, true, true, 2, 32, 8, 0, 4, 4, 8, [0, 4, 8, 12, 16, 20, 24, 28]⟩,
-  ⟨12, 1, 4, 3, 4, 4, true, true, 2, 64, 16, 0, 4, 4, 16, [0, 4, 8, 16, 20, 24, 32, 36, 40, 48, 52, 56]⟩,
-  ⟨12, 1, 4, 4, 4, 4, true, true, 2, 64, 16, 0, 4, 4, 16, [0, 4, 8, 12, 16, 20, 24, 28, 32, 36, 40, 44, 48, 52, 56, 60]⟩,
-  ⟨12, 1, 2, 2, 8, 8, true, true, 0, 32, 16, 0, 2, 4, 16, [0, 8, 16, 24]⟩,
-  ⟨12, 1, 2, 3, 8, 8, true, true, 0, 64, 32, 0, 2, 4, 32, [0, 8, 16, 32, 40, 48]⟩,
-  ⟨12, 1, 2, 4, 8, 8, true, true, 0, 64, 32, 0, 2, 4, 32, [0, 8, 16, 24, 32, 40, 48, 56]⟩,
-  ⟨12, 1, 3, 2, 8, 8, true, true, 0, 48, 16, 0, 3, 4, 16, [0, 8, 16, 24, 32, 40]⟩,
-  ⟨12, 1, 3, 3, 8, 8, true, true, 0, 96, 32, 0, 3, 4, 32, [0, 8, 16, 32, 40, 48, 64, 72, 80]⟩,
-  ⟨12, 1, 3, 4, 8, 8, true, true, 0, 96, 32, 0, 3, 4, 32, [0, 8, 16, 24, 32, 40, 48, 56, 64, 72, 80, 88]⟩,
-  ⟨12, 1, 4, 2, 8, 8, true, true, 0, 64, 16, 0, 4, 4, 16, [0, 8, 16, 24, 32, 40, 48, 56]⟩,
-  ⟨12, 1, 4, 3, 8, 8, true, true, 0, 128, 32, 0, 4, 4, 32, [0, 8, 16, 32, 40, 48, 64, 72, 80, 96, 104, 112]⟩,
-  ⟨12, 1, 4, 4, 8, 8, true, true, 0, 128, 32, 0, 4, 4, 32, [0, 8, 16, 24, 32, 40, 48, 56, 64, 72, 80, 88, 96, 104, 112, 120]⟩,
-  ⟨12, 1, 2, 2, 8, 8, true, true, 1, 32, 16, 0, 2, 4, 16, [0, 8, 16, 24]⟩,
-  ⟨12, 1, 2, 3, 8, 8, true, true, 1, 64, 32, 0, 2, 4, 32, [0, 8, 16, 32, 40, 48]⟩,
-  ⟨12, 1, 2, 4, 8, 8, true, true, 1, 64, 32, 0, 2, 4, 32, [0, 8, 16, 24, 32, 40, 48, 56]⟩,
-  ⟨12, 1, 3, 2, 8, 8, true, true, 1, 48, 16, 0, 3, 4, 16, [0, 8, 16, 24, 32, 40]⟩,
-  ⟨12, 1, 3, 3, 8, 8, true, true, 1, 96, 32, 0, 3, 4, 32, [0, 8, 16, 32, 40, 48, 64, 72, 80]⟩,
-  ⟨12, 1, 3, 4, 8, 8, true, true, 1, 96, 32, 0, 3, 4, 32, [0, 8, 16, 24, 32, 40, 48, 56, 64, 72, 80, 88]⟩,
-  ⟨12, 1, 4, 2, 8, 8, true, true, 1, 64, 16, 0, 4, 4, 16, [0, 8, 16, 24, 32, 40, 48, 56]⟩,
-  ⟨12, 1, 4, 3, 8, 8, true, true, 1, 128, 32, 0, 4, 4, 32, [0, 8, 16, 32, 40, 48, 64, 72, 80, 96, 104, 112]⟩,
-  ⟨12, 1, 4, 4, 8, 8, true, true, 1, 128, 32, 0, 4, 4, 32, [0, 8, 16, 24, 32, 40, 48, 56, 64, 72, 80, 88, 96, 104, 112, 120]⟩,
-  ⟨12, 1, 2, 2, 8, 8, true, true, 2, 32, 16, 0, 2, 4, 16, [0, 8, 16, 24]⟩,
-  ⟨12, 1, 2, 3, 8, 8, true, true, 2, 64, 32, 0, 2, 4, 32, [0, 8, 16, 32, 40, 48]⟩,
-  ⟨12, 1, 2, 4, 8, 8, true, true, 2, 64, 32, 0, 2, 4, 32, [0, 8, 16, 24, 32, 40, 48, 56]⟩,
-  ⟨12, 1, 3, 2, 8, 8, true, true, 2, 48, 16, 0, 3, 4, 16, [0, 8, 16, 24, 32, 40]⟩,
-  ⟨12, 1, 3, 3, 8, 8, true, true, 2, 96, 32, 0, 3, 4, 32, [0, 8, 16, 32, 40, 48, 64, 72, 80]⟩,
-  ⟨12, 1, 3, 4, 8, 8, true, true, 2, 96, 32, 0, 3, 4, 32, [0, 8, 16, 24, 32, 40, 48, 56, 64, 72, 80, 88]⟩,
-  ⟨12, 1, 4, 2, 8, 8, true, true, 2, 64, 16, 0, 4, 4, 16, [0, 8, 16, 24, 32, 40, 48, 56]⟩,
-  ⟨12, 1, 4, 3, 8, 8, true, true, 2, 128, 32, 0, 4, 4, 32, [0, 8, 16, 32, 40, 48, 64, 72, 80, 96, 104, 112]⟩,
-  ⟨12, 1, 4, 4, 8, 8, true, true, 2, 128, 32, 0, 4, 4, 32, [0, 8, 16, 24, 32, 40, 48, 56, 64, 72, 80, 88, 96, 104, 112, 120]⟩,
-  ⟨12, 1, 2, 2, 4, 4, false, true, 0, 16, 8, 0, 2, 4, 8, [0, 4, 8, 12]⟩,
-  ⟨12, 1, 2, 3, 4, 4, false, true, 0, 32, 16, 0, 2, 4, 16, [0, 4, 8, 16, 20, 24]⟩,
-  ⟨12, 1, 2, 4, 4, 4, false, true, 0, 32, 16, 0, 2, 4, 16, [0, 4, 8, 12, 16, 20, 24, 28]⟩,
-  ⟨12, 1, 3, 2, 4, 4, false, true, 0, 24, 8, 0, 3, 4, 8, [0, 4, 8, 12, 16, 20]⟩,
-  ⟨12, 1, 3, 3, 4, 4, false, true, 0, 48, 16, 0, 3, 4, 16, [0, 4, 8, 16, 20, 24, 32, 36, 40]⟩,
-  ⟨12, 1, 3, 4, 4, 4, false, true, 0, 48, 16, 0, 3, 4, 16, [0, 4, 8, 12, 16, 20, 24, 28, 32, 36, 40, 44]⟩,
-  ⟨12, 1, 4, 2, 4, 4, false, true, 0, 32, 8, 0, 4, 4, 8, [0, 4, 8, 12, 16, 20, 24, 28]⟩,
-  ⟨12, 1, 4, 3, 4, 4, false, true, 0, 64, 16, 0, 4, 4, 16, [0, 4, 8, 16, 20, 24, 32, 36, 40, 48, 52, 56]⟩,
-  ⟨12, 1, 4, 4, 4, 4, false, true, 0, 64, 16, 0, 4, 4, 16, [0, 4, 8, 12, 16, 20, 24, 28, 32, 36, 40, 44, 48, 52, 56, 60]⟩,
-  ⟨12, 1, 2, 2, 4, 4, false, true, 1, 16, 8, 0, 2, 4, 8, [0, 4, 8, 12]⟩,
-  ⟨12, 1, 2, 3, 4, 4, false, true, 1, 32, 16, 0, 2, 4, 16, [0, 4, 8, 16, 20, 24]⟩,
-  ⟨12, 1, 2, 4, 4, 4, false, true, 1, 32, 16, 0, 2, 4, 16, [0, 4, 8, 12, 16, 20, 24, 28]⟩,
-  ⟨12, 1, 3, 2, 4, 4, false, true, 1, 24, 8, 0, 3, 4, 8, [0, 4, 8, 12, 16, 20]⟩,
-  ⟨12, 1, 3, 3, 4, 4, false, true, 1, 48, 16, 0, 3, 4, 16, [0, 4, 8, 16, 20, 24, 32, 36, 40]⟩,
-  ⟨12, 1, 3, 4, 4, 4, false, true, 1, 48, 16, 0, 3, 4, 16, [0, 4, 8, 12, 16, 20, 24, 28, 32, 36, 40, 44]⟩,
-  ⟨12, 1, 4, 2, 4, 4, false, true, 1, 32, 8, 0, 4, 4, 8, [0, 4, 8, 12, 16, 20, 24, 28]⟩,
-  ⟨12, 1, 4, 3, 4, 4, false, true, 1, 64, 16, 0, 4, 4, 16, [0, 4, 8, 16, 20, 24, 32, 36, 40, 48, 52, 56]⟩,
-  ⟨12, 1, 4, 4, 4, 4, false, true, 1, 64, 16, 0, 4, 4, 16, [0, 4, 8, 12, 16, 20, 24, 28, 32, 36, 40, 44, 48, 52, 56, 60]⟩,
-  ⟨12, 1, 2, 2, 4, 4, false, true, 2, 16, 8, 0, 2, 4, 8, [0, 4, 8, 12]⟩,
-  ⟨12, 1, 2, 3, 4, 4, false, true, 2, 32, 16, 0, 2, 4, 16, [0, 4, 8, 16, 20, 24]⟩,
-  ⟨12, 1, 2, 4, 4, 4, false, true, 2, 32, 16, 0, 2, 4, 16, [0, 4, 8, 12, 16, 20, 24, 28]⟩,
-  ⟨12, 1, 3, 2, 4, 4, false, true, 2, 24, 8, 0, 3, 4, 8, [0, 4, 8, 12, 16, 20]⟩,
-  ⟨12, 1, 3, 3, 4, 4, false, true, 2, 48, 16, 0, 3, 4, 16, [0, 4, 8, 16, 20, 24, 32, 36, 40]⟩,
-  ⟨12, 1, 3, 4, 4, 4, false, true, 2, 48, 16, 0, 3, 4, 16, [0, 4, 8, 12, 16, 20, 24, 28, 32, 36, 40, 44]⟩,
-  ⟨12, 1, 4, 2, 4, 4, false, true, 2, 32, 8, 0, 4, 4, 8, [0, 4, 8, 12, 16, 20, 24, 28]⟩,
-  ⟨12, 1, 4, 3, 4, 4, false, true, 2, 64, 16, 0, 4, 4, 16, [0, 4, 8, 16, 20, 24, 32, 36, 40, 48, 52, 56]⟩,
-  ⟨12, 1, 4, 4, 4, 4, false, true, 2, 64, 16, 0, 4, 4, 16, [0, 4, 8, 12, 16, 20, 24, 28, 32, 36, 40, 44, 48, 52, 56, 60]⟩,
-  ⟨12, 1, 2, 2, 4, 4, false, true, 0, 16, 8, 0, 2, 4, 8, [0, 4, 8, 12]⟩,
-  ⟨12, 1, 2, 3, 4, 4, false, true, 0, 32, 16, 0, 2, 4, 16, [0, 4, 8, 16, 20, 24]⟩,
-  ⟨12, 1, 2, 4, 4, 4, false, true, 0, 32, 16, 0, 2, 4, 16, [0, 4, 8, 12, 16, 20, 24, 28]⟩,
-  ⟨12, 1, 3, 2, 4, 4, false, true, 0, 24, 8, 0, 3, 4, 8, [0, 4, 8, 12, 16, 20]⟩,
-  ⟨12, 1, 3, 3, 4, 4, false, true, 0, 48, 16, 0, 3, 4, 16, [0, 4, 8, 16, 20, 24, 32, 36, 40]⟩,
-  ⟨12, 1, 3, 4, 4, 4, false, true, 0, 48, 16, 0, 3, 4, 16, [0, 4, 8, 12, 16, 20, 24, 28, 32, 36, 40, 44]⟩,
-  ⟨12, 1, 4, 2, 4, 4, false, true, 0, 32, 8, 0, 4, 4, 8, [0, 4, 8, 12, 16, 20, 24, 28]⟩,
-  ⟨12, 1, 4, 3, 4, 4, false, true, 0, 64, 16, 0, 4, 4, 16, [0, 4, 8, 16, 20, 24, 32, 36, 40, 48, 52, 56]⟩,
-  ⟨12, 1, 4, 4, 4, 4, false, true, 0, 64, 16, 0, 4, 4, 16, [0, 4, 8, 12, 16, 20, 24, 28, 32, 36, 40, 44, 48, 52, 56, 60]⟩,
-  ⟨12, 1, 2, 2, 4, 4, false, true, 1, 16, 8, 0, 2, 4, 8, [0, 4, 8, 12]⟩,
-  ⟨12, 1, 2, 3, 4, 4, false, true, 1, 32, 16, 0, 2, 4, 16, [0, 4, 8, 16, 20, 24]⟩,
-  ⟨12, 1, 2, 4, 4, 4, false, true, 1, 32, 16, 0, 2, 4, 16, [0, 4, 8, 12, 16, 20, 24, 28]⟩,
-  ⟨12, 1, 3, 2, 4, 4, false, true, 1, 24, 8, 0, 3, 4, 8, [0, 4, 8, 12, 16, 20]⟩,
-  ⟨12, 1, 3, 3, 4, 4, false, true, 1, 48, 16, 0, 3, 4, 16, [0, 4, 8, 16, 20, 24, 32, 36, 40]⟩,
-  ⟨12, 1, 3, 4, 4, 4, false, true, 1, 48, 16, 0, 3, 4, 16, [0, 4, 8, 12, 16, 20, 24, 28, 32, 36, 40, 44]⟩,
-  ⟨12, 1, 4, 2, 4, 4, false, true, 1, 32, 8, 0, 4, 4, 8, [0, 4, 8, 12, 16, 20, 24, 28]⟩,
-  ⟨12, 1, 4, 3, 4, 4, false, true, 1, 64, 16, 0, 4, 4, 16, [0, 4, 8, 16, 20, 24, 32, 36, 40, 48, 52, 56]⟩,
-  ⟨12, 1, 4, 4, 4, 4, false, true, 1, 64, 16, 0, 4, 4, 16, [0, 4, 8, 12, 16, 20, 24, 28, 32, 36, 40, 44, 48, 52, 56, 60]⟩,
-  ⟨12, 1, 2, 2, 4, 4, false, true, 2, 16, 8, 0, 2, 4, 8, [0, 4, 8, 12]⟩,
-  ⟨12, 1, 2, 3, 4, 4, false, true, 2, 32, 16, 0, 2, 4, 16, [0, 4, 8, 16, 20, 24]⟩,
-  ⟨12, 1, 2, 4, 4, 4, false, true, 2, 32, 16, 0, 2, 4, 16, [0, 4, 8, 12, 16, 20, 24, 28]⟩,
-  ⟨12, 1, 3, 2, 4, 4, false, true, 2, 24, 8, 0, 3, 4, 8, [0, 4, 8, 12, 16, 20]⟩,
-  ⟨12, 1, 3, 3, 4, 4, false, true, 2, 48, 16, 0, 3, 4, 16, [0, 4, 8, 16, 20, 24, 32, 36, 40]⟩,
-  ⟨12, 1, 3, 4, 4, 4, false, true, 2, 48, 16, 0, 3, 4, 16, [0, 4, 8, 12, 16, 20, 24, 28, 32, 36, 40, 44]⟩,
-  ⟨12, 1, 4, 2, 4, 4, false, true, 2, 32, 8, 0, 4, 4, 8, [0, 4, 8, 12, 16, 20, 24, 28]⟩,
-  ⟨12, 1, 4, 3, 4, 4, false, true, 2, 64, 16, 0, 4, 4, 16, [0, 4, 8, 16, 20, 24, 32, 36, 40, 48, 52, 56]⟩,
-  ⟨12, 1, 4, 4, 4, 4, false, true, 2, 64, 16, 0, 4, 4, 16, [0, 4, 8, 12, 16, 20, 24, 28, 32, 36, 40, 44, 48, 52, 56, 60]⟩,
-  ⟨12, 2, 4, 1, 4, 4, true, true, 0, 16, 16, 0, 4, 4, 0, [0, 4, 8, 12]⟩,
-  ⟨12, 2, 4, 1, 4, 4, true, true, 1, 16, 16, 0, 4, 4, 0, [0, 4, 8, 12]⟩,
-  ⟨12, 2, 4, 1, 4, 4, true, true, 2, 16, 16, 0, 4, 4, 0, [0, 4, 8, 12]⟩,
-  ⟨12, 2, 4, 1, 8, 8, true, true, 0, 32, 32, 0, 4, 4, 0, [0, 8, 16, 24]⟩,
-  ⟨12, 2, 4, 1, 8, 8, true, true, 1, 32, 32, 0, 4, 4, 0, [0, 8, 16, 24]⟩,
-  ⟨12, 2, 4, 1, 8, 8, true, true, 2, 32, 32, 0, 4, 4, 0, [0, 8, 16, 24]⟩
-]
+def rows : List Row := rows_0 ++ rows_1 ++ rows_2 ++ rows_3 ++ rows_4 ++ rows_5 ++ rows_6 ++ rows_7 ++ rows_8 ++ rows_9 ++ rows_10 ++ rows_11 ++ rows_12
 def probeFailures : Nat := 0
 end Glm.Gen.C16
